@@ -43,842 +43,842 @@ pub fn case_6(vars: &Vars) -> InferredGoal<DU, DE, Goal<DU, DE>> {
 pub fn case_7(vars: &Vars) -> InferredGoal<DU, DE, Goal<DU, DE>> {
     let qa = vars.v[0].clone();
     let qb = vars.v[1].clone();
-    let coll0: LT = LT::from_vec(vec![lterm!(1)]);
-    proto_vulcan!([for e in &coll0 { [qa] != qa }])
+    let coll0: LT = LT::from_vec(vec![lterm!(2), lterm!([2]), lterm!(2)]);
+    proto_vulcan!([for e in &coll0 { e == qb, |x| { |tz| { tz == [1], [1, 1 | tz] != [1, 1, 1] }, member(qa, [1, 3, 3]), _ == qb } }])
 }
 pub fn case_8(vars: &Vars) -> InferredGoal<DU, DE, Goal<DU, DE>> {
     let qa = vars.v[0].clone();
     let qb = vars.v[1].clone();
-    let coll0: Vec<LT> = vec![lterm!(2), lterm!([[], 2])];
-    proto_vulcan!([for e in &coll0 { [2, qa] != e, [2, qb] != qb }])
+    let coll0: Vec<LT> = vec![];
+    proto_vulcan!([[[qa], [qa, qb, qb]] == (qa, qb), for e in &coll0 { [[qb]] == (qa, [3]), |z| { e != (1, 1), |tz| { tz == [3, 2], [2 | tz] != [2, 3, 2] } } }])
 }
 pub fn case_9(vars: &Vars) -> InferredGoal<DU, DE, Goal<DU, DE>> {
     let qa = vars.v[0].clone();
     let qb = vars.v[1].clone();
-    let coll0: Vec<LT> = vec![];
-    proto_vulcan!([[qa, qa, qa | qa] == qa, for e in &coll0 { e == ([], _) }])
+    let coll0: Vec<LT> = vec![lterm!([[], 1]), qb.clone(), qb.clone(), lterm!([2])];
+    proto_vulcan!([|x| { qa == qb, append(qa, qb, [1]) }, for e in &coll0 { conde { e == 1, true }, |tz| { tz == [3], [2, 3] != [2 | tz] }, qb != [_, qb] }])
 }
 pub fn case_10(vars: &Vars) -> InferredGoal<DU, DE, Goal<DU, DE>> {
     let qa = vars.v[0].clone();
     let qb = vars.v[1].clone();
-    let coll0: Vec<LT> = vec![lterm!([[], 2]), qb.clone()];
-    proto_vulcan!([qb == qa, for e in &coll0 { conde { e == 3, true }, [3, 3] != qb, qa != (e, _) }])
+    let coll0: Vec<LT> = vec![];
+    proto_vulcan!([|x, t| {  }, for e in &coll0 { conde { e == 3, true }, [3 | [2, 3]] == qa, true }])
 }
 pub fn case_11(vars: &Vars) -> InferredGoal<DU, DE, Goal<DU, DE>> {
     let qa = vars.v[0].clone();
     let qb = vars.v[1].clone();
     let coll0: Vec<LT> = vec![];
-    proto_vulcan!([|x| { [qa, qb | qa] == 2 }, for e in &coll0 { conde { e == 3, true }, [2, true, 2] != e }])
+    proto_vulcan!([|x| { x != x, x != [false, 3, false], false }, for e in &coll0 { conde { e == 2, true }, |z| { e == z } }])
 }
 pub fn case_12(vars: &Vars) -> InferredGoal<DU, DE, Goal<DU, DE>> {
     let qa = vars.v[0].clone();
     let qb = vars.v[1].clone();
-    let coll0: Vec<LT> = vec![lterm!([]), lterm!([])];
-    proto_vulcan!([for e in &coll0 { conde { e == 3, true }, [|tz| { tz == [2, 3], [1 | tz] != [1, 2, 3] }, [[e | qa], [qa, e | e], [3, qb | qb]] == 1, true] }])
+    let coll0: LT = LT::from_vec(vec![lterm!([2]), lterm!([[], 1]), lterm!([2])]);
+    proto_vulcan!([qa != [[]], for e in &coll0 { conde { e == 1, true }, qb == [[qb, qa | qa] | qa] }])
 }
 pub fn case_13(vars: &Vars) -> InferredGoal<DU, DE, Goal<DU, DE>> {
     let qa = vars.v[0].clone();
     let qb = vars.v[1].clone();
     let coll0: Vec<LT> = vec![];
-    proto_vulcan!([for e in &coll0 { false }])
+    proto_vulcan!([for e in &coll0 { conde { e == 2, true }, |t| {  }, |t, h| { qb == ['a', 1] } }])
 }
 pub fn case_14(vars: &Vars) -> InferredGoal<DU, DE, Goal<DU, DE>> {
     let qa = vars.v[0].clone();
     let qb = vars.v[1].clone();
-    let coll0: LT = LT::from_vec(vec![qa.clone(), lterm!(2), lterm!([[], 1])]);
-    proto_vulcan!([qa != [[qa], [_], qb], for e in &coll0 { qa != 1 }])
+    let coll0: LT = LT::from_vec(vec![lterm!(1), lterm!([1]), lterm!([1])]);
+    proto_vulcan!([for e in &coll0 { conde { e == 3, true }, [3] == e }])
 }
 pub fn case_15(vars: &Vars) -> InferredGoal<DU, DE, Goal<DU, DE>> {
     let qa = vars.v[0].clone();
     let qb = vars.v[1].clone();
-    let coll0: Vec<LT> = vec![];
-    proto_vulcan!([for e in &coll0 { [1 == e, e == [[] | qb], e == P3(1, 1, qa)], |z| { member(qa, [2, 3]), qa == [z, 2], member(z, [3, 3]) } }])
+    let coll0: Vec<LT> = vec![lterm!([1]), lterm!([1]), lterm!([1]), lterm!(1)];
+    proto_vulcan!([[qb != qa], for e in &coll0 { conde { e == 1, true }, [] }])
 }
 pub fn case_16(vars: &Vars) -> InferredGoal<DU, DE, Goal<DU, DE>> {
     let qa = vars.v[0].clone();
     let qb = vars.v[1].clone();
-    let coll0: Vec<LT> = vec![];
-    proto_vulcan!([qa == [true, 2, [] | qa], for e in &coll0 { [[qa, 2, 1 | qa], [_, _], e] == qa, qa != P3([], e, [_, _]) }])
+    let coll0: LT = LT::from_vec(vec![lterm!(3), lterm!([]), lterm!([])]);
+    proto_vulcan!([['a', _] == qa, for e in &coll0 { conde { e == 2, true }, qa != [_ | 2] }])
 }
 pub fn case_17(vars: &Vars) -> InferredGoal<DU, DE, Goal<DU, DE>> {
     let qa = vars.v[0].clone();
     let qb = vars.v[1].clone();
-    let coll0: LT = LT::from_vec(vec![lterm!([1]), lterm!([1]), lterm!([1])]);
-    proto_vulcan!([qa == 2, for e in &coll0 { conde { e == 3, true }, [1] == qa }])
+    let coll0: Vec<LT> = vec![lterm!(1), lterm!(1)];
+    proto_vulcan!([for e in &coll0 { e == [2], conde { [[e] == qa, [] != e], member(e, [2]) } }])
 }
 pub fn case_18(vars: &Vars) -> InferredGoal<DU, DE, Goal<DU, DE>> {
     let qa = vars.v[0].clone();
     let qb = vars.v[1].clone();
-    let coll0: LT = LT::from_vec(vec![lterm!(2), lterm!([]), lterm!([])]);
-    proto_vulcan!([for e in &coll0 { |tz| { tz == [2, 3], [3, 3, 2, 3] != [3, 3 | tz] } }])
+    let coll0: LT = LT::from_vec(vec![lterm!([]), qb.clone(), qb.clone()]);
+    proto_vulcan!([for e in &coll0 { |x| { [e, x, qa] == x, member(e, [1, 2]), member(qb, [3, 1]) } }])
 }
 pub fn case_19(vars: &Vars) -> InferredGoal<DU, DE, Goal<DU, DE>> {
     let qa = vars.v[0].clone();
     let qb = vars.v[1].clone();
     let coll0: LT = LT::from_vec(vec![lterm!(1)]);
-    proto_vulcan!([for e in &coll0 { conde { e == 1, true }, |y| {  } }])
+    proto_vulcan!([for e in &coll0 { e == ["bc"], [e != [e, qa, 1]] }])
 }
 pub fn case_20(vars: &Vars) -> InferredGoal<DU, DE, Goal<DU, DE>> {
     let qa = vars.v[0].clone();
     let qb = vars.v[1].clone();
-    let coll0: Vec<LT> = vec![];
-    proto_vulcan!([for e in &coll0 { append(e, qb, []), |h| { qa == 1 } }])
+    let coll0: Vec<LT> = vec![lterm!(2), lterm!([[], 2])];
+    proto_vulcan!([conde { [qa == 1, [[3, qa], qb, true | 3] == qa] }, for e in &coll0 { conde { e == 3, true }, [2] != e }])
 }
 pub fn case_21(vars: &Vars) -> InferredGoal<DU, DE, Goal<DU, DE>> {
     let qa = vars.v[0].clone();
     let qb = vars.v[1].clone();
-    let coll0: Vec<LT> = vec![lterm!([[], 2]), lterm!(1)];
-    proto_vulcan!([for e in &coll0 { 1 != e }])
+    let coll0: LT = LT::from_vec(vec![lterm!([2])]);
+    proto_vulcan!([for e in &coll0 { [[e, 3, _ | qb]] == qa }])
 }
 pub fn case_22(vars: &Vars) -> InferredGoal<DU, DE, Goal<DU, DE>> {
     let qa = vars.v[0].clone();
     let qb = vars.v[1].clone();
-    let coll0: LT = LT::from_vec(vec![lterm!(2)]);
-    proto_vulcan!([P3(1, [1], 1) == qb, for e in &coll0 { conde { ["bc" != e, e == [e, qb, 2]], qa == [_, [] | qb], [1] == _ }, conde { [[_, "a"] == [2, [qb, [], true] | qa], "bc" == qa], [append(qb, qb, [2, 3]), [[2, 3, 3], _] != qa] } }])
+    let coll0: Vec<LT> = vec![];
+    proto_vulcan!([qb == qa, for e in &coll0 { conde { e == 1, true }, [qa, 1, qb] != qa, |tz| { [3 | tz] != [3, 3], tz == [3] } }])
 }
 pub fn case_23(vars: &Vars) -> InferredGoal<DU, DE, Goal<DU, DE>> {
     let qa = vars.v[0].clone();
     let qb = vars.v[1].clone();
-    let coll0: Vec<LT> = vec![lterm!([[], 1]), lterm!([1]), lterm!([1]), qa.clone()];
-    proto_vulcan!([[qa == [2 | qb], qb != P3([qb, 3], [], 2), member(qb, [3, 2])], for e in &coll0 { conde { e == 1, true }, qa == qb }])
+    let coll0: Vec<LT> = vec![lterm!([]), lterm!(2)];
+    proto_vulcan!([conde { [[2, true | qb] == qa, [] == qa], qb == [3, qb, []] }, for e in &coll0 { e == 1, e == 2 }])
 }
 pub fn case_24(vars: &Vars) -> InferredGoal<DU, DE, Goal<DU, DE>> {
     let qa = vars.v[0].clone();
     let qb = vars.v[1].clone();
     let coll0: Vec<LT> = vec![];
-    proto_vulcan!([qa == P3([[], 1], _, 1), for e in &coll0 { qa == _ }])
+    proto_vulcan!([for e in &coll0 { conde { e == 3, true }, conde { [[2, [[], _ | e]] == qa, false], [qa == [e, qa, e], qb == 1], [false, [[1, "bc", []], [3], e] != e] }, qb != [[e], [], [qa | qb] | qa] }])
 }
 pub fn case_25(vars: &Vars) -> InferredGoal<DU, DE, Goal<DU, DE>> {
     let qa = vars.v[0].clone();
     let qb = vars.v[1].clone();
-    let coll0: LT = LT::from_vec(vec![lterm!([[], 2]), lterm!([[], 2]), lterm!(1)]);
-    proto_vulcan!([|t| { t == 3 }, for e in &coll0 { conde { e == 3, true }, |tz| { [3, 2, 2, 1] != [3, 2 | tz], tz == [2, 1] } }])
+    let coll0: Vec<LT> = vec![lterm!([[], 1]), lterm!([])];
+    proto_vulcan!([for e in &coll0 { conde { e == 3, true }, |z| { append(z, e, [1]), z != [qa, 1] } }])
 }
 pub fn case_26(vars: &Vars) -> InferredGoal<DU, DE, Goal<DU, DE>> {
     let qa = vars.v[0].clone();
     let qb = vars.v[1].clone();
-    let coll0: Vec<LT> = vec![];
-    proto_vulcan!([for e in &coll0 { conde { e == 2, true }, conde { [e == qb, P3([], [e, qb], _) == []] } }])
+    let coll0: LT = LT::from_vec(vec![lterm!([[], 2]), lterm!([]), lterm!([2])]);
+    proto_vulcan!([|y| { qb == true }, for e in &coll0 { |t| { qa != [[[], 1, e], [true, _], qa] }, [3, [_, 'a'], [e, e]] == e }])
 }
 pub fn case_27(vars: &Vars) -> InferredGoal<DU, DE, Goal<DU, DE>> {
     let qa = vars.v[0].clone();
     let qb = vars.v[1].clone();
-    let coll0: Vec<LT> = vec![];
-    proto_vulcan!([qb == qb, for e in &coll0 { conde { e == 1, true }, qb == 2 }])
+    let coll0: LT = LT::from_vec(vec![lterm!([1]), lterm!([2]), lterm!(1)]);
+    proto_vulcan!([for e in &coll0 { conde { e == 3, true }, [1 | e] != qa, |tz| { [2, 2, 3] != [2, 2 | tz], tz == [3] } }])
 }
 pub fn case_28(vars: &Vars) -> InferredGoal<DU, DE, Goal<DU, DE>> {
     let qa = vars.v[0].clone();
     let qb = vars.v[1].clone();
-    let coll0: Vec<LT> = vec![lterm!([[], 1]), lterm!([]), qb.clone(), qb.clone()];
-    proto_vulcan!([for e in &coll0 { conde { e == 2, true }, qa == [] }])
+    let coll0: LT = LT::from_vec(vec![lterm!([[], 1]), lterm!(1), lterm!(1)]);
+    proto_vulcan!([for e in &coll0 { conde { [member(qa, [1]), P3(3, e, 3) == qb], [true == qb, qa != _] }, qa == e }])
 }
 pub fn case_29(vars: &Vars) -> InferredGoal<DU, DE, Goal<DU, DE>> {
     let qa = vars.v[0].clone();
     let qb = vars.v[1].clone();
-    let coll0: LT = LT::from_vec(vec![lterm!(3)]);
-    proto_vulcan!([for e in &coll0 { qb == _, |tz| { [2 | tz] != [2, 3, 2], tz == [3, 2] } }])
+    let coll0: Vec<LT> = vec![];
+    proto_vulcan!([for e in &coll0 { [[qb] == [e, [qa, 'a', _]], qa != 2, qa == qb] }])
 }
 pub fn case_30(vars: &Vars) -> InferredGoal<DU, DE, Goal<DU, DE>> {
     let qa = vars.v[0].clone();
     let qb = vars.v[1].clone();
-    let coll0: Vec<LT> = vec![];
-    proto_vulcan!([conde { true }, for e in &coll0 { conde { e == 2, true }, |tz| { [3 | tz] != [3, 2], tz == [2] } }])
+    let coll0: LT = LT::from_vec(vec![lterm!([1])]);
+    proto_vulcan!([for e in &coll0 { conde { e == (1, []), [append(e, qa, [2]), false], [_ != qa, false] }, [true] }])
 }
 pub fn case_31(vars: &Vars) -> InferredGoal<DU, DE, Goal<DU, DE>> {
     let qa = vars.v[0].clone();
     let qb = vars.v[1].clone();
-    let coll0: Vec<LT> = vec![];
-    proto_vulcan!([for e in &coll0 { [1] == e, qb == [] }])
+    let coll0: Vec<LT> = vec![lterm!(2), lterm!([])];
+    proto_vulcan!([for e in &coll0 { [qa == ['a' | qa], ["bc"] == qb, "a" == qb] }])
 }
 pub fn case_32(vars: &Vars) -> InferredGoal<DU, DE, Goal<DU, DE>> {
     let qa = vars.v[0].clone();
     let qb = vars.v[1].clone();
-    let coll0: Vec<LT> = vec![];
-    proto_vulcan!([|tz| { tz == [3], [2, 3 | tz] != [2, 3, 3] }, for e in &coll0 { conde { e == 2, true }, |tz| { tz == [3, 3], [2, 3, 3] != [2 | tz] }, |x, z| { e != P3([], 2, _), [[], [_, qa, 2], [1, _, "bc"]] != x } }])
+    let coll0: Vec<LT> = vec![qb.clone(), qb.clone(), qb.clone(), lterm!([[], 1])];
+    proto_vulcan!([for e in &coll0 { conde { e == 2, true }, qb == qb, conde { true, qb == [[], 1, 1] } }])
 }
 pub fn case_33(vars: &Vars) -> InferredGoal<DU, DE, Goal<DU, DE>> {
     let qa = vars.v[0].clone();
     let qb = vars.v[1].clone();
-    let coll0: Vec<LT> = vec![qa.clone(), lterm!(1)];
-    proto_vulcan!([(2, _) == qb, for e in &coll0 { |tz| { tz == [2], [1 | tz] != [1, 2] } }])
+    let coll0: Vec<LT> = vec![lterm!([2]), lterm!([2]), lterm!(2), lterm!(2)];
+    proto_vulcan!([for e in &coll0 { conde { e == 2, true }, false, [(qa, 3) != e, e == [qb, qa | [qa]]] }])
 }
 pub fn case_34(vars: &Vars) -> InferredGoal<DU, DE, Goal<DU, DE>> {
     let qa = vars.v[0].clone();
     let qb = vars.v[1].clone();
     let coll0: Vec<LT> = vec![lterm!(3), lterm!(3)];
-    proto_vulcan!([false, for e in &coll0 { conde { e == 2, true }, P3(qb, 1, e) == qa, ([], [[]]) == e }])
+    proto_vulcan!([|y| { append(qb, qb, [1]), true, y != [y, qa, 2] }, for e in &coll0 { conde { e == 2, true }, qa == (qa, 1), P3([_], 1, []) == qa }])
 }
 pub fn case_35(vars: &Vars) -> InferredGoal<DU, DE, Goal<DU, DE>> {
     let qa = vars.v[0].clone();
     let qb = vars.v[1].clone();
     let coll0: Vec<LT> = vec![];
-    proto_vulcan!([qb == [true, [[], qb | qa] | qa], for e in &coll0 { [P3(3, qa, _) != qb, qa == (1, [[], 1]), |tz| { [2, 1, 3, 3] != [2, 1 | tz], tz == [3, 3] }], member(qa, [2]) }])
+    proto_vulcan!([qb == qb, for e in &coll0 { conde { e == 1, true }, e == (2, _), [P3(3, 2, [_]) == [[1, qb] | e], true] }])
 }
 pub fn case_36(vars: &Vars) -> InferredGoal<DU, DE, Goal<DU, DE>> {
     let qa = vars.v[0].clone();
     let qb = vars.v[1].clone();
-    let coll0: Vec<LT> = vec![lterm!(3), lterm!([[], 1])];
-    proto_vulcan!([for e in &coll0 { |z, x| { false, "a" == qb, append(qb, qa, [2]) } }])
+    let coll0: Vec<LT> = vec![lterm!(3), lterm!(3)];
+    proto_vulcan!([for e in &coll0 { conde { e == 1, true }, conde { [], [append(e, qa, [2, 2]), member(qa, [2, 3])] } }])
 }
 pub fn case_37(vars: &Vars) -> InferredGoal<DU, DE, Goal<DU, DE>> {
     let qa = vars.v[0].clone();
     let qb = vars.v[1].clone();
-    let coll0: LT = LT::from_vec(vec![lterm!(3)]);
-    proto_vulcan!([for e in &coll0 { e != 2 }])
+    let coll0: LT = LT::from_vec(vec![lterm!(2), lterm!([2]), lterm!(3)]);
+    proto_vulcan!([P3(_, [], qb) == qb, for e in &coll0 { [e, [3, _, 3 | e], ['a', "bc", _ | e] | e] == (e, _), e != [[e, 2, []], qb, qa] }])
 }
 pub fn case_38(vars: &Vars) -> InferredGoal<DU, DE, Goal<DU, DE>> {
     let qa = vars.v[0].clone();
     let qb = vars.v[1].clone();
-    let coll0: Vec<LT> = vec![lterm!(2), qa.clone()];
-    proto_vulcan!([for e in &coll0 { conde { e == 1, true }, (qb, _) == qa, P3(_, 2, []) == [[2, e]] }])
+    let coll0: Vec<LT> = vec![];
+    proto_vulcan!([for e in &coll0 { conde { e == 1, true }, qa == [[_, 3 | qa]] }])
 }
 pub fn case_39(vars: &Vars) -> InferredGoal<DU, DE, Goal<DU, DE>> {
     let qa = vars.v[0].clone();
     let qb = vars.v[1].clone();
-    let coll0: Vec<LT> = vec![];
-    proto_vulcan!([for e in &coll0 { |t, y| {  } }])
+    let coll0: LT = LT::from_vec(vec![lterm!([[], 1]), lterm!([]), lterm!([])]);
+    proto_vulcan!([qa == [[qb, qa, qa] | qb], for e in &coll0 { conde { e == 1, true }, |t, z| { P3([], qa, 2) == [[_, qb], [2, qb]], [[], [2, [] | ["a", t]]] == z } }])
 }
 pub fn case_40(vars: &Vars) -> InferredGoal<DU, DE, Goal<DU, DE>> {
     let qa = vars.v[0].clone();
     let qb = vars.v[1].clone();
-    let coll0: Vec<LT> = vec![];
-    proto_vulcan!([qa == [qb, 'a', "bc"], for e in &coll0 { P3(1, [], 3) == P3([], _, [1]), [qa, qb, 1] == [false | qb] }])
+    let coll0: Vec<LT> = vec![lterm!([[], 1]), qb.clone(), qb.clone(), lterm!(2)];
+    proto_vulcan!([for e in &coll0 { conde { e == 2, true }, (3, []) == e }])
 }
 pub fn case_41(vars: &Vars) -> InferredGoal<DU, DE, Goal<DU, DE>> {
     let qa = vars.v[0].clone();
     let qb = vars.v[1].clone();
-    let coll0: LT = LT::from_vec(vec![lterm!([1]), lterm!(1), lterm!(3)]);
-    proto_vulcan!([|h| { member(h, [2, 2]), qa == P3(qa, _, 2) }, for e in &coll0 { qb != [[1, _]], 1 == e }])
+    let coll0: LT = LT::from_vec(vec![lterm!([2]), lterm!([2]), lterm!([2])]);
+    proto_vulcan!([[1, qb, qb | qb] != qb, for e in &coll0 { conde { e == 2, true }, true }])
 }
 pub fn case_42(vars: &Vars) -> InferredGoal<DU, DE, Goal<DU, DE>> {
     let qa = vars.v[0].clone();
     let qb = vars.v[1].clone();
-    let coll0: LT = LT::from_vec(vec![lterm!([]), qb.clone(), qb.clone()]);
-    proto_vulcan!([|x| { x != [2, _ | qb], qb == x }, for e in &coll0 { conde { e == 2, true }, |t, h| { [[], [_, e, 2], [1]] != t, [[2, h | qb], [true, e], [[], qb | e]] == [[], 1, 'a'] } }])
+    let coll0: Vec<LT> = vec![];
+    proto_vulcan!([|t| { [[[], false, "bc"]] == _, qa == [qa, _], t == [2, 3] }, for e in &coll0 { conde { e == 1, true }, append(qa, qa, [2, 2]), conde { [], qa == [2, "bc" | e] } }])
 }
 pub fn case_43(vars: &Vars) -> InferredGoal<DU, DE, Goal<DU, DE>> {
     let qa = vars.v[0].clone();
     let qb = vars.v[1].clone();
-    let coll0: Vec<LT> = vec![lterm!([[], 2]), lterm!([[], 2])];
-    proto_vulcan!([for e in &coll0 { conde { e == 2, true }, 3 == e }])
+    let coll0: LT = LT::from_vec(vec![lterm!(3), lterm!([]), lterm!([2])]);
+    proto_vulcan!([[qb, _] == qb, for e in &coll0 { conde { e == 2, true }, |h| { h != [3, 2 | e], h == P3([], 2, [[]]), qb != [1, 'a'] }, [] == qa }])
 }
 pub fn case_44(vars: &Vars) -> InferredGoal<DU, DE, Goal<DU, DE>> {
     let qa = vars.v[0].clone();
     let qb = vars.v[1].clone();
-    let coll0: Vec<LT> = vec![];
-    proto_vulcan!([for e in &coll0 { [], [2, e] == 3 }])
+    let coll0: LT = LT::from_vec(vec![lterm!(2), lterm!(2), lterm!([])]);
+    proto_vulcan!([_ == qa, for e in &coll0 { conde { e == 2, true }, |tz| { [1, 2] != [1 | tz], tz == [2] }, P3(_, [], qb) != e }])
 }
 pub fn case_45(vars: &Vars) -> InferredGoal<DU, DE, Goal<DU, DE>> {
     let qa = vars.v[0].clone();
     let qb = vars.v[1].clone();
-    let coll0: Vec<LT> = vec![lterm!([]), lterm!([]), lterm!(3), lterm!(2)];
-    proto_vulcan!([for e in &coll0 { conde { e == 2, true }, [[] | qb] == qa, [qb == P3([2, 1], e, []), append(qb, e, [1]), [] != e] }])
+    let coll0: LT = LT::from_vec(vec![lterm!(3), lterm!(3), qb.clone()]);
+    proto_vulcan!([for e in &coll0 { conde { e == 3, true }, conde { [[false, 3, e] == qa, e != qb] } }])
 }
 pub fn case_46(vars: &Vars) -> InferredGoal<DU, DE, Goal<DU, DE>> {
     let qa = vars.v[0].clone();
     let qb = vars.v[1].clone();
-    let coll0: Vec<LT> = vec![lterm!(1), lterm!(1)];
-    proto_vulcan!([for e in &coll0 { conde { e == 3, true }, member(qb, [1, 2, 2]), |tz| { [2 | tz] != [2, 2, 1], tz == [2, 1] } }])
+    let coll0: Vec<LT> = vec![];
+    proto_vulcan!([for e in &coll0 { [], qa == [2] }])
 }
 pub fn case_47(vars: &Vars) -> InferredGoal<DU, DE, Goal<DU, DE>> {
     let qa = vars.v[0].clone();
     let qb = vars.v[1].clone();
-    let coll0: Vec<LT> = vec![lterm!([2]), lterm!([2]), qa.clone(), lterm!(1)];
-    proto_vulcan!([for e in &coll0 { conde { e == 2, true }, |y| { qa == 2, append(qa, y, [1]), member(qa, [1]) }, |x| { [[], 1] != e, [[]] == qb, qb == [1] } }])
+    let coll0: LT = LT::from_vec(vec![lterm!([2])]);
+    proto_vulcan!([qa == qb, for e in &coll0 { conde { e == 2, true }, qa == [2 | qa] }])
 }
 pub fn case_48(vars: &Vars) -> InferredGoal<DU, DE, Goal<DU, DE>> {
     let qa = vars.v[0].clone();
     let qb = vars.v[1].clone();
-    let coll0: LT = LT::from_vec(vec![lterm!([])]);
-    proto_vulcan!([conde { qa != P3([], 3, []), qb != P3(3, qa, [qb, []]) }, for e in &coll0 { [e] == e }])
+    let coll0: Vec<LT> = vec![lterm!([1]), lterm!([1]), qb.clone(), qb.clone()];
+    proto_vulcan!([for e in &coll0 { conde { e == 1, true }, [[true, _, []], [2, _, _ | qb]] == [[qa, 1, []], [qa, 2 | e], [[], 3]] }])
 }
 pub fn case_49(vars: &Vars) -> InferredGoal<DU, DE, Goal<DU, DE>> {
     let qa = vars.v[0].clone();
     let qb = vars.v[1].clone();
-    let coll0: Vec<LT> = vec![];
-    proto_vulcan!([for e in &coll0 { member(qb, [3, 2]) }])
+    let coll0: LT = LT::from_vec(vec![lterm!([1]), lterm!([1]), lterm!(3)]);
+    proto_vulcan!([qa != [qa], for e in &coll0 { conde { e == 2, true }, qb != 3, P3([_], _, 2) == [e, [_, 1], [3, [] | qa] | qa] }])
 }
 pub fn case_50(vars: &Vars) -> InferredGoal<DU, DE, Goal<DU, DE>> {
     let qa = vars.v[0].clone();
     let qb = vars.v[1].clone();
-    let coll0: Vec<LT> = vec![qa.clone(), qb.clone()];
-    proto_vulcan!([for e in &coll0 { conde { e == 1, true }, [[] | 2] == [[2, 'b'], [_, 2, qb | [[], 2]], [[], _, 3]], [e] == qa }])
+    let coll0: Vec<LT> = vec![lterm!([]), lterm!([1])];
+    proto_vulcan!([(1, qb) != qa, for e in &coll0 { P3(e, 2, 3) == qa, [P3(qa, qa, 1) != qb, [[2, e, 3]] != qa] }])
 }
 pub fn case_51(vars: &Vars) -> InferredGoal<DU, DE, Goal<DU, DE>> {
     let qa = vars.v[0].clone();
     let qb = vars.v[1].clone();
-    let coll0: Vec<LT> = vec![lterm!(2), lterm!([])];
-    proto_vulcan!([for e in &coll0 { conde { e == 1, true }, conde { e != true, (3, []) == qa } }])
+    let coll0: LT = LT::from_vec(vec![lterm!(3)]);
+    proto_vulcan!([qa != [qa, qb, qb], for e in &coll0 { conde { e == 1, true }, 1 == true, conde { true, [false != qb, (qb, [[], _]) == qb], [] } }])
 }
 pub fn case_52(vars: &Vars) -> InferredGoal<DU, DE, Goal<DU, DE>> {
     let qa = vars.v[0].clone();
     let qb = vars.v[1].clone();
-    let coll0: Vec<LT> = vec![lterm!(2), qb.clone(), lterm!(3), lterm!(3)];
-    proto_vulcan!([[_ == qa, qb == qa], for e in &coll0 { conde { e == 1, true }, false, qa == [e, 3, 'a'] }])
+    let coll0: Vec<LT> = vec![qa.clone(), qa.clone()];
+    proto_vulcan!([for e in &coll0 { conde { e == 2, true }, [3] == qa, qb == [2, 1 | qb] }])
 }
 pub fn case_53(vars: &Vars) -> InferredGoal<DU, DE, Goal<DU, DE>> {
     let qa = vars.v[0].clone();
     let qb = vars.v[1].clone();
-    let coll0: Vec<LT> = vec![lterm!([1]), lterm!(1)];
-    proto_vulcan!([for e in &coll0 { 1 != qa }])
+    let coll0: LT = LT::from_vec(vec![lterm!(2)]);
+    proto_vulcan!([for e in &coll0 { qa == (qb, qa) }])
 }
 pub fn case_54(vars: &Vars) -> InferredGoal<DU, DE, Goal<DU, DE>> {
     let qa = vars.v[0].clone();
     let qb = vars.v[1].clone();
-    let coll0: Vec<LT> = vec![];
-    proto_vulcan!([for e in &coll0 { conde { e != [qa], [append(qa, qa, [1]), e != qa], [|tz| { tz == [3, 1], [2 | tz] != [2, 3, 1] }, (qa, e) != qb] }, append(qa, e, [1]) }])
+    let coll0: Vec<LT> = vec![lterm!([[], 2]), qb.clone()];
+    proto_vulcan!([for e in &coll0 { conde { [e, [], 'b'] == e, [qb == [1, 'a'], append(qa, e, [3])] }, qb == ['b', 1 | e] }])
 }
 pub fn case_55(vars: &Vars) -> InferredGoal<DU, DE, Goal<DU, DE>> {
     let qa = vars.v[0].clone();
     let qb = vars.v[1].clone();
-    let coll0: Vec<LT> = vec![lterm!([1]), lterm!(1), lterm!([2]), lterm!([2])];
-    proto_vulcan!([for e in &coll0 { conde { e == 1, true }, |z| { z == ([], [_]), append(e, e, []), [qa, qb] == qa }, true }])
+    let coll0: Vec<LT> = vec![];
+    proto_vulcan!([for e in &coll0 { conde { e == 3, true }, conde { qb != qa, [true, qb != ["bc", 3, []]], [e] != e }, |tz| { tz == [1], [2, 2, 1] != [2, 2 | tz] } }])
 }
 pub fn case_56(vars: &Vars) -> InferredGoal<DU, DE, Goal<DU, DE>> {
     let qa = vars.v[0].clone();
     let qb = vars.v[1].clone();
-    let coll0: Vec<LT> = vec![];
-    proto_vulcan!([qb == qa, for e in &coll0 { [] == [qa, qa, _] }])
+    let coll0: Vec<LT> = vec![lterm!([]), lterm!([]), lterm!([2]), qa.clone()];
+    proto_vulcan!([for e in &coll0 { conde { e == 3, true }, [2, qa, 2 | e] == (3, e) }])
 }
 pub fn case_57(vars: &Vars) -> InferredGoal<DU, DE, Goal<DU, DE>> {
     let qa = vars.v[0].clone();
     let qb = vars.v[1].clone();
-    let coll0: Vec<LT> = vec![lterm!([]), lterm!([]), lterm!([1]), lterm!([])];
-    proto_vulcan!([conde { [2] == qa, [qa == qb, member(qb, [2, 2, 3])] }, for e in &coll0 { conde { e == 2, true }, e == P3([_, 1], [], qb) }])
+    let coll0: LT = LT::from_vec(vec![qb.clone(), qb.clone(), lterm!(1)]);
+    proto_vulcan!([for e in &coll0 { qb != [1, false, e] }])
 }
 pub fn case_58(vars: &Vars) -> InferredGoal<DU, DE, Goal<DU, DE>> {
     let qa = vars.v[0].clone();
     let qb = vars.v[1].clone();
-    let coll0: LT = LT::from_vec(vec![lterm!(3)]);
-    proto_vulcan!([for e in &coll0 { e == [[]], [[2, qa, _] | qb] == qa }])
+    let coll0: Vec<LT> = vec![];
+    proto_vulcan!([for e in &coll0 { e == e }])
 }
 pub fn case_59(vars: &Vars) -> InferredGoal<DU, DE, Goal<DU, DE>> {
     let qa = vars.v[0].clone();
     let qb = vars.v[1].clone();
-    let coll0: Vec<LT> = vec![];
-    proto_vulcan!([for e in &coll0 { [member(qb, [2, 1, 1])], conde { 1 == e, qa == qa } }])
+    let coll0: LT = LT::from_vec(vec![lterm!([2]), lterm!([]), lterm!([])]);
+    proto_vulcan!([|x, h| { false, [1, _, h | qb] == qb, [x, [false, h, qa]] == h }, for e in &coll0 { conde { e == 2, true }, conde { [|tz| { [3, 1 | tz] != [3, 1, 3, 3], tz == [3, 3] }, (1, qb) != [3, qb, "a"]], [qb] == qa, [e == e, 2 != qa] } }])
 }
 pub fn case_60(vars: &Vars) -> InferredGoal<DU, DE, Goal<DU, DE>> {
     let qa = vars.v[0].clone();
     let qb = vars.v[1].clone();
-    let coll0: Vec<LT> = vec![lterm!(1), lterm!(1)];
-    proto_vulcan!([for e in &coll0 { conde { e == 2, true }, [1] == qa }])
+    let coll0: LT = LT::from_vec(vec![lterm!([2]), lterm!(2), lterm!(2)]);
+    proto_vulcan!([for e in &coll0 { conde { e == 3, true }, qa == qa, |t, h| { t == _, [[], [2 | h], [2]] == qb } }])
 }
 pub fn case_61(vars: &Vars) -> InferredGoal<DU, DE, Goal<DU, DE>> {
     let qa = vars.v[0].clone();
     let qb = vars.v[1].clone();
-    let coll0: Vec<LT> = vec![lterm!([1]), lterm!([1])];
-    proto_vulcan!([for e in &coll0 { conde { e == 1, true }, e == ["bc", qa, 1], [qa | []] == [1, true, [e]] }])
+    let coll0: LT = LT::from_vec(vec![lterm!([]), qb.clone(), lterm!([])]);
+    proto_vulcan!([[[_, 1 | qb] != qa, append(qa, qb, [1]), true], for e in &coll0 { member(e, [1, 1, 2]) }])
 }
 pub fn case_62(vars: &Vars) -> InferredGoal<DU, DE, Goal<DU, DE>> {
     let qa = vars.v[0].clone();
     let qb = vars.v[1].clone();
-    let coll0: LT = LT::from_vec(vec![qb.clone(), lterm!(2), lterm!(2)]);
-    proto_vulcan!([for e in &coll0 { conde { e == 3, true }, |tz| { tz == [1], [2, 1] != [2 | tz] } }])
+    let coll0: LT = LT::from_vec(vec![lterm!([[], 1]), lterm!([[], 1]), lterm!([[], 2])]);
+    proto_vulcan!([for e in &coll0 { conde { e == 3, true }, qb != 2 }])
 }
 pub fn case_63(vars: &Vars) -> InferredGoal<DU, DE, Goal<DU, DE>> {
     let qa = vars.v[0].clone();
     let qb = vars.v[1].clone();
-    let coll0: Vec<LT> = vec![];
-    proto_vulcan!([for e in &coll0 { _ == qb }])
+    let coll0: LT = LT::from_vec(vec![lterm!(2)]);
+    proto_vulcan!([for e in &coll0 { [3] == qa, |t| { qa == qb, [t | 2] == qb, P3([_], [2], [1]) == qa } }])
 }
 pub fn case_64(vars: &Vars) -> InferredGoal<DU, DE, Goal<DU, DE>> {
     let qa = vars.v[0].clone();
     let qb = vars.v[1].clone();
-    let coll0: Vec<LT> = vec![];
-    proto_vulcan!([for e in &coll0 { P3([qb], [], []) == qb }])
+    let coll0: Vec<LT> = vec![lterm!([[], 1]), qb.clone()];
+    proto_vulcan!([for e in &coll0 { e == [qb, qa, qb] }])
 }
 pub fn case_65(vars: &Vars) -> InferredGoal<DU, DE, Goal<DU, DE>> {
     let qa = vars.v[0].clone();
     let qb = vars.v[1].clone();
-    let coll0: LT = LT::from_vec(vec![lterm!(3)]);
-    proto_vulcan!([for e in &coll0 { conde { e == 1, true }, P3(3, 1, 1) == qa, qa == [1] }])
+    let coll0: LT = LT::from_vec(vec![lterm!(3), lterm!(3), lterm!([[], 1])]);
+    proto_vulcan!([qa == qa, for e in &coll0 { conde { e == 3, true }, |tz| { tz == [2, 2], [3 | tz] != [3, 2, 2] }, qa == e }])
 }
 pub fn case_66(vars: &Vars) -> InferredGoal<DU, DE, Goal<DU, DE>> {
     let qa = vars.v[0].clone();
     let qb = vars.v[1].clone();
     let coll0: Vec<LT> = vec![];
-    proto_vulcan!([for e in &coll0 { conde { e == 1, true }, qb == [qa], true }])
+    proto_vulcan!([for e in &coll0 { conde { e == 3, true }, conde { (qa, [qa, _]) == [[e], [qa, _] | _], [qa == (_, qa), member(e, [])] }, conde { qa != [qa, qa], false } }])
 }
 pub fn case_67(vars: &Vars) -> InferredGoal<DU, DE, Goal<DU, DE>> {
     let qa = vars.v[0].clone();
     let qb = vars.v[1].clone();
-    let coll0: Vec<LT> = vec![lterm!(1), lterm!([])];
-    proto_vulcan!([[1] == qa, for e in &coll0 { [e == ['b', _, qa]], |tz| { [3 | tz] != [3, 3], tz == [3] } }])
+    let coll0: Vec<LT> = vec![];
+    proto_vulcan!([true, for e in &coll0 { conde { e == 3, true }, qb != [2 | qb], (1, 2) == qb }])
 }
 pub fn case_68(vars: &Vars) -> InferredGoal<DU, DE, Goal<DU, DE>> {
     let qa = vars.v[0].clone();
     let qb = vars.v[1].clone();
-    let coll0: LT = LT::from_vec(vec![lterm!([[], 1]), lterm!([1]), lterm!(1)]);
-    proto_vulcan!([for e in &coll0 { [[1, []] == qb, qa == "bc"] }])
+    let coll0: LT = LT::from_vec(vec![lterm!(3), lterm!([[], 1]), lterm!([])]);
+    proto_vulcan!([for e in &coll0 { conde { e == 1, true }, [[1, e, qb]] == (3, 2) }])
 }
 pub fn case_69(vars: &Vars) -> InferredGoal<DU, DE, Goal<DU, DE>> {
     let qa = vars.v[0].clone();
     let qb = vars.v[1].clone();
-    let coll0: Vec<LT> = vec![lterm!([]), lterm!([2])];
-    proto_vulcan!([for e in &coll0 { [[3 | qa] == qa, qb == [[[], 3 | 2], [3, qb, 2]]] }])
+    let coll0: Vec<LT> = vec![];
+    proto_vulcan!([(1, qa) == qa, for e in &coll0 { |z, y| {  } }])
 }
 pub fn case_70(vars: &Vars) -> InferredGoal<DU, DE, Goal<DU, DE>> {
     let qa = vars.v[0].clone();
     let qb = vars.v[1].clone();
-    let coll0: Vec<LT> = vec![lterm!([[], 2]), lterm!(2)];
-    proto_vulcan!([qa == ([], qb), for e in &coll0 { qa == [qa, 1, _] }])
+    let coll0: Vec<LT> = vec![];
+    proto_vulcan!([qa == qb, for e in &coll0 { conde { e == 1, true }, conde { qb == ["bc" | ['b']], [] } }])
 }
 pub fn case_71(vars: &Vars) -> InferredGoal<DU, DE, Goal<DU, DE>> {
     let qa = vars.v[0].clone();
     let qb = vars.v[1].clone();
-    let coll0: Vec<LT> = vec![lterm!([2]), lterm!([]), lterm!([]), lterm!([1])];
-    proto_vulcan!([for e in &coll0 { conde { e == 3, true }, [qa == P3(3, 2, _), append(qb, qb, [2])] }])
+    let coll0: LT = LT::from_vec(vec![lterm!(1)]);
+    proto_vulcan!([|t, y| { (t, 2) == qa, true, |tz| { tz == [3, 3], [3, 3, 3, 3] != [3, 3 | tz] } }, for e in &coll0 { member(qb, [3, 1]), 2 != true }])
 }
 pub fn case_72(vars: &Vars) -> InferredGoal<DU, DE, Goal<DU, DE>> {
     let qa = vars.v[0].clone();
     let qb = vars.v[1].clone();
-    let coll0: Vec<LT> = vec![lterm!([2]), lterm!([[], 1]), lterm!(1), lterm!(1)];
-    proto_vulcan!([for e in &coll0 { conde { e == 3, true }, qb == e }])
+    let coll0: Vec<LT> = vec![];
+    proto_vulcan!([for e in &coll0 { conde { e == 1, true }, [], false }])
 }
 pub fn case_73(vars: &Vars) -> InferredGoal<DU, DE, Goal<DU, DE>> {
     let qa = vars.v[0].clone();
     let qb = vars.v[1].clone();
-    let coll0: LT = LT::from_vec(vec![qa.clone(), lterm!([[], 2]), qb.clone()]);
-    proto_vulcan!([for e in &coll0 { conde { [qb == 1, 1 == qb] }, [[qb] == qb, qb != e] }])
+    let coll0: Vec<LT> = vec![lterm!([[], 1]), qa.clone(), lterm!(2), lterm!(2)];
+    proto_vulcan!([qb == [2 | [false]], for e in &coll0 { conde { e == 3, true }, [3, e | 1] == e, |h| { [qb] == qb, h != [[qb, _, h | qb]] } }])
 }
 pub fn case_74(vars: &Vars) -> InferredGoal<DU, DE, Goal<DU, DE>> {
     let qa = vars.v[0].clone();
     let qb = vars.v[1].clone();
-    let coll0: LT = LT::from_vec(vec![lterm!(1)]);
-    proto_vulcan!([for e in &coll0 { conde { [qb == 1, qa == qb] } }])
+    let coll0: LT = LT::from_vec(vec![lterm!(1), lterm!(1), lterm!(1)]);
+    proto_vulcan!([member(qa, [3]), for e in &coll0 { conde { e == 1, true }, |h| { true } }])
 }
 pub fn case_75(vars: &Vars) -> InferredGoal<DU, DE, Goal<DU, DE>> {
     let qa = vars.v[0].clone();
     let qb = vars.v[1].clone();
     let coll0: Vec<LT> = vec![];
-    proto_vulcan!([for e in &coll0 { qa != [true, e, 2] }])
+    proto_vulcan!([|h, t| { [2, 2, true] == qa, true, qb == 1 }, for e in &coll0 { conde { e == 3, true }, P3([], qa, []) == [e, [1, 3, qa], [_, e, qa]] }])
 }
 pub fn case_76(vars: &Vars) -> InferredGoal<DU, DE, Goal<DU, DE>> {
     let qa = vars.v[0].clone();
     let qb = vars.v[1].clone();
-    let coll0: LT = LT::from_vec(vec![lterm!([[], 1])]);
-    proto_vulcan!([for e in &coll0 { [] }])
+    let coll0: Vec<LT> = vec![];
+    proto_vulcan!([for e in &coll0 { conde { e == 1, true }, (_, 2) == qb }])
 }
 pub fn case_77(vars: &Vars) -> InferredGoal<DU, DE, Goal<DU, DE>> {
     let qa = vars.v[0].clone();
     let qb = vars.v[1].clone();
-    let coll0: Vec<LT> = vec![lterm!([[], 1]), lterm!([[], 1])];
-    proto_vulcan!([qb == [], for e in &coll0 { conde { e == 1, true }, |z| { P3([z], z, z) != z, [qb, 3 | qb] == 1 }, ['a', [qa, "bc", 2] | e] != e }])
+    let coll0: Vec<LT> = vec![];
+    proto_vulcan!([qb == [2, 2], for e in &coll0 { conde { e == 2, true }, e == [[e, 3 | qa], false], |x| { 1 == e, false } }])
 }
 pub fn case_78(vars: &Vars) -> InferredGoal<DU, DE, Goal<DU, DE>> {
     let qa = vars.v[0].clone();
     let qb = vars.v[1].clone();
-    let coll0: LT = LT::from_vec(vec![lterm!([2])]);
-    proto_vulcan!([for e in &coll0 { conde { qb == [], _ == qa }, conde { [1] == e, e == [qb], |tz| { [3, 3 | tz] != [3, 3, 3, 1], tz == [3, 1] } } }])
+    let coll0: Vec<LT> = vec![lterm!([1]), lterm!([1])];
+    proto_vulcan!([for e in &coll0 { conde { e == 1, true }, [[], _, e] != qb, member(qa, [3, 3]) }])
 }
 pub fn case_79(vars: &Vars) -> InferredGoal<DU, DE, Goal<DU, DE>> {
     let qa = vars.v[0].clone();
     let qb = vars.v[1].clone();
-    let coll0: Vec<LT> = vec![lterm!([1]), lterm!([])];
-    proto_vulcan!([for e in &coll0 { |tz| { [1 | tz] != [1, 3], tz == [3] } }])
+    let coll0: Vec<LT> = vec![];
+    proto_vulcan!([|t, z| { z == "bc", t == [z, qb, 1] }, for e in &coll0 { conde { e == 2, true }, |y| { append(qb, y, [3, 2]), e == [1] } }])
 }
 pub fn case_80(vars: &Vars) -> InferredGoal<DU, DE, Goal<DU, DE>> {
     let qa = vars.v[0].clone();
     let qb = vars.v[1].clone();
-    let coll0: LT = LT::from_vec(vec![qa.clone()]);
-    proto_vulcan!([conde { [qa != [], qa == false], [append(qa, qa, [3, 2]), qb == qb], member(qa, [1, 3, 1]) }, for e in &coll0 { conde { e == 1, true }, |z| { qb == e }, member(e, [3, 3]) }])
+    let coll0: Vec<LT> = vec![];
+    proto_vulcan!([[false], for e in &coll0 { P3([qb], 2, 1) != e }])
 }
 pub fn case_81(vars: &Vars) -> InferredGoal<DU, DE, Goal<DU, DE>> {
     let qa = vars.v[0].clone();
     let qb = vars.v[1].clone();
-    let coll0: Vec<LT> = vec![lterm!([1]), qa.clone()];
-    proto_vulcan!([for e in &coll0 { e == [1, qa | qa], e == [2, [], 'b' | e] }])
+    let coll0: LT = LT::from_vec(vec![lterm!([[], 1]), lterm!(1), lterm!(1)]);
+    proto_vulcan!([for e in &coll0 { conde { e == 2, true }, 1 != qb }])
 }
 pub fn case_82(vars: &Vars) -> InferredGoal<DU, DE, Goal<DU, DE>> {
     let qa = vars.v[0].clone();
     let qb = vars.v[1].clone();
-    let coll0: Vec<LT> = vec![lterm!(3), lterm!(3), lterm!([[], 1]), lterm!([2])];
-    proto_vulcan!([false, for e in &coll0 { conde { e == 3, true }, conde { qb != [1, e, 2], [append(qb, e, [3]), "a" == e], [false | e] == qb }, conde { [], [e == e, e == [['a', qa, 2 | qb], [[]] | [e, 2]]], [append(e, qa, [2]), ([], e) == qb] } }])
+    let coll0: LT = LT::from_vec(vec![lterm!([]), lterm!([]), lterm!(2)]);
+    proto_vulcan!([qb != 1, for e in &coll0 { qa == [[2], 3], [P3(3, 2, []) == e, qb == [qa, [qa, qb], [3, qa, qb | qb] | 3], qb == "bc"] }])
 }
 pub fn case_83(vars: &Vars) -> InferredGoal<DU, DE, Goal<DU, DE>> {
     let qa = vars.v[0].clone();
     let qb = vars.v[1].clone();
-    let coll0: Vec<LT> = vec![];
-    proto_vulcan!([for e in &coll0 { |t| {  } }])
+    let coll0: LT = LT::from_vec(vec![qb.clone(), qa.clone(), lterm!(2)]);
+    proto_vulcan!([for e in &coll0 { e == qb }])
 }
 pub fn case_84(vars: &Vars) -> InferredGoal<DU, DE, Goal<DU, DE>> {
     let qa = vars.v[0].clone();
     let qb = vars.v[1].clone();
-    let coll0: Vec<LT> = vec![lterm!([1]), qb.clone()];
-    proto_vulcan!([|tz| { [1, 3, 3] != [1 | tz], tz == [3, 3] }, for e in &coll0 { conde { [member(qb, []), append(qa, e, [3, 1])] } }])
+    let coll0: Vec<LT> = vec![];
+    proto_vulcan!([[2, qb, 2] != qa, for e in &coll0 { [qa, 2] == qa }])
 }
 pub fn case_85(vars: &Vars) -> InferredGoal<DU, DE, Goal<DU, DE>> {
     let qa = vars.v[0].clone();
     let qb = vars.v[1].clone();
-    let coll0: Vec<LT> = vec![];
-    proto_vulcan!([for e in &coll0 { conde { e == 3, true }, qa == [qa, [qa, _, qb]], [[qa, qb]] == 1 }])
+    let coll0: Vec<LT> = vec![lterm!([[], 2]), lterm!(1)];
+    proto_vulcan!([conde { [], true, [([], _) == qb, append(qa, qb, [2, 1])] }, for e in &coll0 { conde { e == 1, true }, [2, [true], [qb, 2 | qa]] == e, e == e }])
 }
 pub fn case_86(vars: &Vars) -> InferredGoal<DU, DE, Goal<DU, DE>> {
     let qa = vars.v[0].clone();
     let qb = vars.v[1].clone();
-    let coll0: LT = LT::from_vec(vec![lterm!(2)]);
-    proto_vulcan!([[["a"] | qa] == qa, for e in &coll0 { conde { e == 1, true }, qa == qb, [[], qa, qb] != false }])
+    let coll0: LT = LT::from_vec(vec![qa.clone(), lterm!(1), lterm!(1)]);
+    proto_vulcan!([for e in &coll0 { conde { e == 1, true }, [1, qb, _] == qb }])
 }
 pub fn case_87(vars: &Vars) -> InferredGoal<DU, DE, Goal<DU, DE>> {
     let qa = vars.v[0].clone();
     let qb = vars.v[1].clone();
-    let coll0: Vec<LT> = vec![lterm!(1), lterm!([1])];
-    proto_vulcan!([|z| { true, qb == qa, [z, [[] | [qb, 1]], ["a", 2] | qa] == z }, for e in &coll0 { [(e, []) == 1, _ == e, [e, _, qa] == qa], [3, 3] == qa }])
+    let coll0: Vec<LT> = vec![qb.clone(), qb.clone()];
+    proto_vulcan!([for e in &coll0 { conde { e == 1, true }, e == [[], 3] }])
 }
 pub fn case_88(vars: &Vars) -> InferredGoal<DU, DE, Goal<DU, DE>> {
     let qa = vars.v[0].clone();
     let qb = vars.v[1].clone();
-    let coll0: Vec<LT> = vec![];
-    proto_vulcan!([qa == qb, for e in &coll0 { qa == [[2, 1, 1 | qa] | 1], [["a", 1], 2, [1, _]] == qb }])
+    let coll0: Vec<LT> = vec![qa.clone(), qa.clone()];
+    proto_vulcan!([for e in &coll0 { member(qa, [3]), [3, 1] == e }])
 }
 pub fn case_89(vars: &Vars) -> InferredGoal<DU, DE, Goal<DU, DE>> {
     let qa = vars.v[0].clone();
     let qb = vars.v[1].clone();
-    let coll0: Vec<LT> = vec![];
-    proto_vulcan!([qa != ([], [3, 1]), for e in &coll0 { conde { e == 2, true }, [[[], e, 2 | qa] == qb, false], |tz| { [3, 3 | tz] != [3, 3, 2], tz == [2] } }])
+    let coll0: LT = LT::from_vec(vec![lterm!(1), lterm!(1), lterm!(1)]);
+    proto_vulcan!([for e in &coll0 { conde { e == 1, true }, conde { [], [[["a"], 2, [e]] == qb, qa == [[]]] }, [[2]] == P3([e, []], [], 2) }])
 }
 pub fn case_90(vars: &Vars) -> InferredGoal<DU, DE, Goal<DU, DE>> {
     let qa = vars.v[0].clone();
     let qb = vars.v[1].clone();
-    let coll0: LT = LT::from_vec(vec![lterm!([[], 1])]);
-    proto_vulcan!([for e in &coll0 { [qa == _, true != qb], 1 == ["bc", qb] }])
+    let coll0: LT = LT::from_vec(vec![lterm!([[], 1]), lterm!(2), lterm!(1)]);
+    proto_vulcan!([for e in &coll0 { |t| { e != t, append(e, qb, [2, 3]) } }])
 }
 pub fn case_91(vars: &Vars) -> InferredGoal<DU, DE, Goal<DU, DE>> {
     let qa = vars.v[0].clone();
     let qb = vars.v[1].clone();
-    let coll0: LT = LT::from_vec(vec![lterm!([]), lterm!(3), lterm!(2)]);
-    proto_vulcan!([[2] == qa, for e in &coll0 { (_, qa) == e }])
+    let coll0: Vec<LT> = vec![lterm!([1]), qb.clone()];
+    proto_vulcan!([for e in &coll0 { qa != qa, qb == P3(2, [3], qb) }])
 }
 pub fn case_92(vars: &Vars) -> InferredGoal<DU, DE, Goal<DU, DE>> {
     let qa = vars.v[0].clone();
     let qb = vars.v[1].clone();
-    let coll0: Vec<LT> = vec![];
-    proto_vulcan!([(_, qa) != qa, for e in &coll0 { true == qb }])
+    let coll0: Vec<LT> = vec![lterm!([2]), lterm!([2])];
+    proto_vulcan!([|tz| { tz == [1, 1], [1, 1 | tz] != [1, 1, 1, 1] }, for e in &coll0 { conde { e == 3, true }, [[]] != qa }])
 }
 pub fn case_93(vars: &Vars) -> InferredGoal<DU, DE, Goal<DU, DE>> {
     let qa = vars.v[0].clone();
     let qb = vars.v[1].clone();
-    let coll0: Vec<LT> = vec![lterm!([[], 2]), lterm!([1])];
-    proto_vulcan!([for e in &coll0 { conde { e == 1, true }, conde { qb == ["a", 2, false], qb != [], [3 == [1, qa], e == [[], qb, qa]] } }])
+    let coll0: Vec<LT> = vec![lterm!([[], 1]), lterm!([[], 1])];
+    proto_vulcan!([false, for e in &coll0 { conde { e == 3, true }, qa == [2, 1], |tz| { [2, 3, 1] != [2, 3 | tz], tz == [1] } }])
 }
 pub fn case_94(vars: &Vars) -> InferredGoal<DU, DE, Goal<DU, DE>> {
     let qa = vars.v[0].clone();
     let qb = vars.v[1].clone();
-    let coll0: LT = LT::from_vec(vec![lterm!([2])]);
-    proto_vulcan!([for e in &coll0 { [2, qb] == qa }])
+    let coll0: LT = LT::from_vec(vec![lterm!([]), lterm!(3), lterm!([1])]);
+    proto_vulcan!([for e in &coll0 { conde { e == 2, true }, qa != e }])
 }
 pub fn case_95(vars: &Vars) -> InferredGoal<DU, DE, Goal<DU, DE>> {
     let qa = vars.v[0].clone();
     let qb = vars.v[1].clone();
-    let coll0: LT = LT::from_vec(vec![qb.clone(), lterm!(1), lterm!(1)]);
-    proto_vulcan!([for e in &coll0 { qa != [[] | e] }])
+    let coll0: LT = LT::from_vec(vec![lterm!([]), lterm!([[], 2]), lterm!([[], 2])]);
+    proto_vulcan!([for e in &coll0 { conde { e == 1, true }, 2 == e, _ != [qa, []] }])
 }
 pub fn case_96(vars: &Vars) -> InferredGoal<DU, DE, Goal<DU, DE>> {
     let qa = vars.v[0].clone();
     let qb = vars.v[1].clone();
-    let coll0: LT = LT::from_vec(vec![qb.clone(), lterm!(2), qa.clone()]);
-    proto_vulcan!([1 == _, for e in &coll0 { ["bc", qa, 2 | e] == qa }])
+    let coll0: Vec<LT> = vec![];
+    proto_vulcan!([for e in &coll0 { [qb] == qb }])
 }
 pub fn case_97(vars: &Vars) -> InferredGoal<DU, DE, Goal<DU, DE>> {
     let qa = vars.v[0].clone();
     let qb = vars.v[1].clone();
-    let coll0: Vec<LT> = vec![lterm!([]), lterm!([])];
-    proto_vulcan!([for e in &coll0 { conde { e == 2, true }, |tz| { [1, 2, 3] != [1, 2 | tz], tz == [3] }, [2, qb, qa] == [[2 | qb], _, 3] }])
+    let coll0: Vec<LT> = vec![lterm!(2), lterm!(2), lterm!(2), lterm!([2])];
+    proto_vulcan!([[qb == [[], 'a']], for e in &coll0 { conde { e == 1, true }, conde { [[_] == [[e, 3, e], [2] | e], [] != qb], [[_, qb] == qb, e == 2] } }])
 }
 pub fn case_98(vars: &Vars) -> InferredGoal<DU, DE, Goal<DU, DE>> {
     let qa = vars.v[0].clone();
     let qb = vars.v[1].clone();
-    let coll0: Vec<LT> = vec![];
-    proto_vulcan!([conde { [P3([[]], [qa], 3) == qa, (qa, _) != qa] }, for e in &coll0 { qb != [3, 1] }])
+    let coll0: LT = LT::from_vec(vec![lterm!(1), lterm!(2), lterm!([[], 2])]);
+    proto_vulcan!([false, for e in &coll0 { [1, "bc"] == qa, qb == qa }])
 }
 pub fn case_99(vars: &Vars) -> InferredGoal<DU, DE, Goal<DU, DE>> {
     let qa = vars.v[0].clone();
     let qb = vars.v[1].clone();
-    let coll0: Vec<LT> = vec![lterm!(1), lterm!(3)];
-    proto_vulcan!([for e in &coll0 { conde { qb == ([], qb), [[["a"], [e, 1 | qa], ["a", e, 3 | qa]] == (qb, qb), (1, 3) != e] }, [] }])
+    let coll0: Vec<LT> = vec![];
+    proto_vulcan!([for e in &coll0 { conde { e == 1, true }, [[3, e]] != qb, qb != [1, 3] }])
 }
 pub fn case_100(vars: &Vars) -> InferredGoal<DU, DE, Goal<DU, DE>> {
     let qa = vars.v[0].clone();
     let qb = vars.v[1].clone();
-    let coll0: LT = LT::from_vec(vec![lterm!([])]);
-    proto_vulcan!([for e in &coll0 { |tz| { [3, 3 | tz] != [3, 3, 1], tz == [1] } }])
+    let coll0: LT = LT::from_vec(vec![lterm!(1), lterm!([[], 2]), lterm!([])]);
+    proto_vulcan!([for e in &coll0 { conde { [[2, [], qa], qa] != _, [qb == P3([1, 1], 1, 1), e == 2], [e == [[3]], member(e, [])] }, e == [2] }])
 }
 pub fn case_101(vars: &Vars) -> InferredGoal<DU, DE, Goal<DU, DE>> {
     let qa = vars.v[0].clone();
     let qb = vars.v[1].clone();
-    let coll0: LT = LT::from_vec(vec![lterm!([[], 2]), lterm!(2), lterm!([])]);
-    proto_vulcan!([[qb, _, qa] == 3, for e in &coll0 { conde { e == 2, true }, [["a" | qa] == qa, 1 == e, [3] == qb], qb == e }])
+    let coll0: LT = LT::from_vec(vec![lterm!([[], 2])]);
+    proto_vulcan!([qa == qa, for e in &coll0 { qb != (e, [2, 3]) }])
 }
 pub fn case_102(vars: &Vars) -> InferredGoal<DU, DE, Goal<DU, DE>> {
     let qa = vars.v[0].clone();
     let qb = vars.v[1].clone();
-    let coll0: LT = LT::from_vec(vec![lterm!([[], 1])]);
-    proto_vulcan!([[2 != qb, qa != qa], for e in &coll0 { conde { e == 3, true }, [] == qb }])
+    let coll0: Vec<LT> = vec![lterm!([1]), lterm!([])];
+    proto_vulcan!([for e in &coll0 { [member(qa, []), [[false, qb, 1]] == [[_, 2 | qa], [_ | e], [2, "a", [] | qb] | qa]], [qa, 2] == qa }])
 }
 pub fn case_103(vars: &Vars) -> InferredGoal<DU, DE, Goal<DU, DE>> {
     let qa = vars.v[0].clone();
     let qb = vars.v[1].clone();
     let coll0: Vec<LT> = vec![];
-    proto_vulcan!([[qa == P3(qb, [], []), qb == [[qb, qa], [qb, [], qb], [qb]], [] != qa], for e in &coll0 { [1] != [[qb, "a", qa | e], [qa, e, 1] | qa], [append(qa, qa, []), qb != (1, 1)] }])
+    proto_vulcan!([[qb == [qb, qb], [qb, 3] != [2, [[]], ['b', qb]], [qb, qa] == 1], for e in &coll0 { [] == qa, [qa, 1, 1] != e }])
 }
 pub fn case_104(vars: &Vars) -> InferredGoal<DU, DE, Goal<DU, DE>> {
     let qa = vars.v[0].clone();
     let qb = vars.v[1].clone();
-    let coll0: Vec<LT> = vec![qb.clone(), lterm!(2)];
-    proto_vulcan!([for e in &coll0 { conde { e == 1, true }, e == [2, []], conde { qb == [[]], [qb == [e | qb], |tz| { [1, 1] != [1 | tz], tz == [1] }] } }])
+    let coll0: Vec<LT> = vec![];
+    proto_vulcan!([for e in &coll0 { |t, y| { [_, 2] == y, |tz| { [3, 2 | tz] != [3, 2, 1], tz == [1] } }, |x| { |tz| { [3 | tz] != [3, 3], tz == [3] }, append(e, e, []) } }])
 }
 pub fn case_105(vars: &Vars) -> InferredGoal<DU, DE, Goal<DU, DE>> {
     let qa = vars.v[0].clone();
     let qb = vars.v[1].clone();
-    let coll0: Vec<LT> = vec![];
-    proto_vulcan!([for e in &coll0 { conde { e == 2, true }, |x| { [[e], [qb, x], qa] == qb }, |x| { |tz| { tz == [3, 2], [3, 1, 3, 2] != [3, 1 | tz] } } }])
+    let coll0: Vec<LT> = vec![qb.clone(), qb.clone()];
+    proto_vulcan!([|tz| { tz == [2, 1], [3, 3 | tz] != [3, 3, 2, 1] }, for e in &coll0 { conde { e == 1, true }, conde { false, false, [1 == qb, qa == P3(3, qb, [3])] }, append(e, e, []) }])
 }
 pub fn case_106(vars: &Vars) -> InferredGoal<DU, DE, Goal<DU, DE>> {
     let qa = vars.v[0].clone();
     let qb = vars.v[1].clone();
-    let coll0: Vec<LT> = vec![lterm!([1]), lterm!([1]), lterm!([[], 2]), qa.clone()];
-    proto_vulcan!([3 == qb, for e in &coll0 { conde { e == 2, true }, [false] }])
+    let coll0: Vec<LT> = vec![lterm!([[], 2]), lterm!([])];
+    proto_vulcan!([conde { [member(qb, [2]), qa == [qb | 1]], [qa, qa, _] == qa }, for e in &coll0 { conde { e == 1, true }, |tz| { tz == [2], [1, 2] != [1 | tz] } }])
 }
 pub fn case_107(vars: &Vars) -> InferredGoal<DU, DE, Goal<DU, DE>> {
     let qa = vars.v[0].clone();
     let qb = vars.v[1].clone();
-    let coll0: Vec<LT> = vec![qa.clone(), qa.clone()];
-    proto_vulcan!([1 == qb, for e in &coll0 { conde { e == 1, true }, true, [[2, _] | qb] == false }])
+    let coll0: LT = LT::from_vec(vec![lterm!([1])]);
+    proto_vulcan!([|t, z| { false, false, t == qa }, for e in &coll0 { qa == (e, qb) }])
 }
 pub fn case_108(vars: &Vars) -> InferredGoal<DU, DE, Goal<DU, DE>> {
     let qa = vars.v[0].clone();
     let qb = vars.v[1].clone();
-    let coll0: Vec<LT> = vec![lterm!(3), lterm!(3)];
-    proto_vulcan!([for e in &coll0 { qb == [1, qb, qb], conde { [qb == [e | []], P3([[], e], [], e) == P3(_, _, 1)] } }])
+    let coll0: Vec<LT> = vec![];
+    proto_vulcan!([for e in &coll0 { true, |t| {  } }])
 }
 pub fn case_109(vars: &Vars) -> InferredGoal<DU, DE, Goal<DU, DE>> {
     let qa = vars.v[0].clone();
     let qb = vars.v[1].clone();
-    let coll0: LT = LT::from_vec(vec![lterm!(2)]);
-    proto_vulcan!([for e in &coll0 { conde { e == 3, true }, |t, h| { (_, [_]) == e, h == h, qb == [t] } }])
+    let coll0: Vec<LT> = vec![];
+    proto_vulcan!([qb == [qa], for e in &coll0 { [] }])
 }
 pub fn case_110(vars: &Vars) -> InferredGoal<DU, DE, Goal<DU, DE>> {
     let qa = vars.v[0].clone();
     let qb = vars.v[1].clone();
     let coll0: Vec<LT> = vec![];
-    proto_vulcan!([[_] == 1, for e in &coll0 { conde { e == 1, true }, |t| { qb == qa, t == qb }, [e] == qa }])
+    proto_vulcan!([qa == (2, 1), for e in &coll0 { conde { e == 1, true }, e == qb, append(e, qb, []) }])
 }
 pub fn case_111(vars: &Vars) -> InferredGoal<DU, DE, Goal<DU, DE>> {
     let qa = vars.v[0].clone();
     let qb = vars.v[1].clone();
-    let coll0: LT = LT::from_vec(vec![lterm!(2)]);
-    proto_vulcan!([for e in &coll0 { [e, 3, 3] == qb }])
+    let coll0: Vec<LT> = vec![lterm!(1), lterm!(1)];
+    proto_vulcan!([for e in &coll0 { conde { e == 3, true }, [], 3 == ['a'] }])
 }
 pub fn case_112(vars: &Vars) -> InferredGoal<DU, DE, Goal<DU, DE>> {
     let qa = vars.v[0].clone();
     let qb = vars.v[1].clone();
-    let coll0: Vec<LT> = vec![lterm!([2]), lterm!([2])];
-    proto_vulcan!([for e in &coll0 { conde { e == 2, true }, |z| { 1 == ([e, 2], e), 1 == z, qa != e }, true }])
+    let coll0: Vec<LT> = vec![];
+    proto_vulcan!([for e in &coll0 { conde { e == 2, true }, |tz| { [1, 2, 2] != [1 | tz], tz == [2, 2] }, qb != [] }])
 }
 pub fn case_113(vars: &Vars) -> InferredGoal<DU, DE, Goal<DU, DE>> {
     let qa = vars.v[0].clone();
     let qb = vars.v[1].clone();
-    let coll0: Vec<LT> = vec![lterm!([]), lterm!([[], 2])];
-    proto_vulcan!([for e in &coll0 { conde { e == 1, true }, |t| { [qa] == e, qa == [1, qb, qb] }, append(qa, qb, [2]) }])
+    let coll0: Vec<LT> = vec![lterm!(2), lterm!(2)];
+    proto_vulcan!([for e in &coll0 { conde { e == 1, true }, conde { false, [qb == e, true] } }])
 }
 pub fn case_114(vars: &Vars) -> InferredGoal<DU, DE, Goal<DU, DE>> {
     let qa = vars.v[0].clone();
     let qb = vars.v[1].clone();
-    let coll0: Vec<LT> = vec![lterm!(3), lterm!(2)];
-    proto_vulcan!([for e in &coll0 { ['b', 3] == qb, e != [[], _, 1] }])
+    let coll0: LT = LT::from_vec(vec![qa.clone(), lterm!([]), qb.clone()]);
+    proto_vulcan!([conde { 2 == qb, [_, [3], [qa]] == [3 | qa] }, for e in &coll0 { [e, _] == qb, [e] == e }])
 }
 pub fn case_115(vars: &Vars) -> InferredGoal<DU, DE, Goal<DU, DE>> {
     let qa = vars.v[0].clone();
     let qb = vars.v[1].clone();
-    let coll0: LT = LT::from_vec(vec![lterm!([])]);
-    proto_vulcan!([for e in &coll0 { ['a', 2] == _ }])
+    let coll0: LT = LT::from_vec(vec![lterm!(3), lterm!(2), lterm!(2)]);
+    proto_vulcan!([for e in &coll0 { conde { e == 3, true }, qb == qa, conde { [member(e, [1]), e == P3(2, qa, [qb])], [e == [_, 2], true], e == [1, 3, 3] } }])
 }
 pub fn case_116(vars: &Vars) -> InferredGoal<DU, DE, Goal<DU, DE>> {
     let qa = vars.v[0].clone();
     let qb = vars.v[1].clone();
-    let coll0: Vec<LT> = vec![lterm!(1), lterm!(1), lterm!([[], 1]), lterm!([[], 1])];
-    proto_vulcan!([|z, t| { member(t, [1, 1]) }, for e in &coll0 { conde { e == 3, true }, conde { [member(qa, [3, 1, 1]), qb == [[qb, "a", 1], [1, 2, 1]]], [] } }])
+    let coll0: Vec<LT> = vec![lterm!([]), lterm!(1)];
+    proto_vulcan!([for e in &coll0 { |z, h| { (_, 3) == ([3], [e]), [[], 1] == qa, [2, [], 'b'] == z } }])
 }
 pub fn case_117(vars: &Vars) -> InferredGoal<DU, DE, Goal<DU, DE>> {
     let qa = vars.v[0].clone();
     let qb = vars.v[1].clone();
-    let coll0: Vec<LT> = vec![];
-    proto_vulcan!([[1 | qa] == qa, for e in &coll0 { |x, t| {  } }])
+    let coll0: Vec<LT> = vec![lterm!(2), lterm!(2)];
+    proto_vulcan!([conde { false, [append(qb, qa, []), |tz| { [2, 1, 1] != [2, 1 | tz], tz == [1] }] }, for e in &coll0 { conde { e == 1, true }, member(e, [1, 3, 3]), |h| { qb == h } }])
 }
 pub fn case_118(vars: &Vars) -> InferredGoal<DU, DE, Goal<DU, DE>> {
     let qa = vars.v[0].clone();
     let qb = vars.v[1].clone();
-    let coll0: Vec<LT> = vec![lterm!([2]), lterm!([2])];
-    proto_vulcan!([P3([qa, qa], qb, _) == qb, for e in &coll0 { conde { e == 3, true }, qa == [_] }])
+    let coll0: Vec<LT> = vec![lterm!(1), lterm!(1)];
+    proto_vulcan!([[qb] == qb, for e in &coll0 { conde { e == 2, true }, append(e, e, [2, 3]) }])
 }
 pub fn case_119(vars: &Vars) -> InferredGoal<DU, DE, Goal<DU, DE>> {
     let qa = vars.v[0].clone();
     let qb = vars.v[1].clone();
-    let coll0: LT = LT::from_vec(vec![qa.clone(), qa.clone(), lterm!([])]);
-    proto_vulcan!([qb == [false | qb], for e in &coll0 { conde { [], [(3, e) == (qb, [_]), |tz| { tz == [1, 2], [3 | tz] != [3, 1, 2] }] }, e == [1 | qb] }])
+    let coll0: LT = LT::from_vec(vec![qa.clone(), lterm!([]), lterm!(2)]);
+    proto_vulcan!([for e in &coll0 { |y| { [2] == qb, [qb] == qb }, [2, 1 | qa] == qb }])
 }
 pub fn case_120(vars: &Vars) -> InferredGoal<DU, DE, Goal<DU, DE>> {
     let qa = vars.v[0].clone();
     let qb = vars.v[1].clone();
     let coll0: Vec<LT> = vec![];
-    proto_vulcan!([for e in &coll0 { [qa] == e, [true] }])
+    proto_vulcan!([for e in &coll0 { |z, h| { true }, (2, []) != e }])
 }
 pub fn case_121(vars: &Vars) -> InferredGoal<DU, DE, Goal<DU, DE>> {
     let qa = vars.v[0].clone();
     let qb = vars.v[1].clone();
-    let coll0: Vec<LT> = vec![lterm!(2), lterm!(2)];
-    proto_vulcan!([for e in &coll0 { conde { e == 2, true }, conde { [true, true], member(qb, []) }, conde { [P3([qa], [], 2) == qb, qb != P3(_, [3], _)], e == _ } }])
+    let coll0: Vec<LT> = vec![lterm!([1]), lterm!([1]), lterm!([2]), qb.clone()];
+    proto_vulcan!([conde { [[[]] == qb, 2 == qb], qa == qb }, for e in &coll0 { conde { e == 3, true }, |x| { x == [1, 3, [qb, 2, x]], append(e, x, [2]), ([qb, 2], _) == qa }, |tz| { tz == [2], [1 | tz] != [1, 2] } }])
 }
 pub fn case_122(vars: &Vars) -> InferredGoal<DU, DE, Goal<DU, DE>> {
     let qa = vars.v[0].clone();
     let qb = vars.v[1].clone();
-    let coll0: LT = LT::from_vec(vec![lterm!([]), qa.clone(), lterm!([2])]);
-    proto_vulcan!([for e in &coll0 { conde { e == 2, true }, [member(qb, [1, 2])], qb != [qb, 2, 1 | qa] }])
+    let coll0: Vec<LT> = vec![lterm!([[], 2]), qb.clone()];
+    proto_vulcan!([for e in &coll0 { qb == [[], 1] }])
 }
 pub fn case_123(vars: &Vars) -> InferredGoal<DU, DE, Goal<DU, DE>> {
     let qa = vars.v[0].clone();
     let qb = vars.v[1].clone();
-    let coll0: LT = LT::from_vec(vec![lterm!(3), lterm!([[], 2]), qa.clone()]);
-    proto_vulcan!([[qa] == qb, for e in &coll0 { [[qa], [e, e, 1 | qb]] != [2, [2, e, false] | 1], (e, 1) == qa }])
+    let coll0: Vec<LT> = vec![lterm!(3), lterm!(3)];
+    proto_vulcan!([for e in &coll0 { conde { e == 2, true }, conde { true, [true, qa == qa] } }])
 }
 pub fn case_124(vars: &Vars) -> InferredGoal<DU, DE, Goal<DU, DE>> {
     let qa = vars.v[0].clone();
     let qb = vars.v[1].clone();
-    let coll0: LT = LT::from_vec(vec![lterm!([1]), lterm!([2]), lterm!([2])]);
-    proto_vulcan!([qa == ([[]], 2), for e in &coll0 { conde { e == 3, true }, [append(qa, qa, [])], conde { [e == qb, true], [true, false], [qa, qb] != qb } }])
+    let coll0: LT = LT::from_vec(vec![qb.clone(), lterm!([]), lterm!([[], 1])]);
+    proto_vulcan!([for e in &coll0 { conde { e == 2, true }, |x| { member(x, []), x == [["a", e, qb], _, [e]], true }, |tz| { tz == [1, 2], [2 | tz] != [2, 1, 2] } }])
 }
 pub fn case_125(vars: &Vars) -> InferredGoal<DU, DE, Goal<DU, DE>> {
     let qa = vars.v[0].clone();
     let qb = vars.v[1].clone();
-    let coll0: LT = LT::from_vec(vec![lterm!(1), lterm!([[], 1]), lterm!(2)]);
-    proto_vulcan!([for e in &coll0 { conde { e == 1, true }, |y, z| { P3(e, 2, y) != [[3, qb] | qb], y == [[1, qb], 1, ['a'] | 1], (1, 3) == qb }, 3 == qa }])
+    let coll0: LT = LT::from_vec(vec![qa.clone(), qa.clone(), lterm!(2)]);
+    proto_vulcan!([([qb, _], [[]]) == qb, for e in &coll0 { conde { e == 3, true }, |tz| { tz == [1], [1, 2 | tz] != [1, 2, 1] }, |z| { qb == P3([_, []], 2, [qb, []]) } }])
 }
 pub fn case_126(vars: &Vars) -> InferredGoal<DU, DE, Goal<DU, DE>> {
     let qa = vars.v[0].clone();
     let qb = vars.v[1].clone();
-    let coll0: Vec<LT> = vec![lterm!(3), lterm!([2])];
-    proto_vulcan!([qb == [qa], for e in &coll0 { [[]] == qb }])
+    let coll0: Vec<LT> = vec![lterm!(3), lterm!(3)];
+    proto_vulcan!([for e in &coll0 { conde { e == 1, true }, |z, h| { true } }])
 }
 pub fn case_127(vars: &Vars) -> InferredGoal<DU, DE, Goal<DU, DE>> {
     let qa = vars.v[0].clone();
     let qb = vars.v[1].clone();
-    let coll0: Vec<LT> = vec![qa.clone(), lterm!(3), lterm!(1), lterm!(1)];
-    proto_vulcan!([for e in &coll0 { conde { e == 1, true }, |x, z| { z == e, qb == [[2, z], 2 | x], append(z, qa, [1, 3]) } }])
+    let coll0: Vec<LT> = vec![];
+    proto_vulcan!([[qb, 1, qa | 3] == qa, for e in &coll0 { true, qb == qb }])
 }
 pub fn case_128(vars: &Vars) -> InferredGoal<DU, DE, Goal<DU, DE>> {
     let qa = vars.v[0].clone();
     let qb = vars.v[1].clone();
-    let coll0: Vec<LT> = vec![lterm!([]), lterm!([[], 1]), lterm!([1]), lterm!([1])];
-    proto_vulcan!([[3, [], _ | []] == qa, for e in &coll0 { conde { e == 3, true }, [1, 3, []] == qb, |z| { member(qa, [3]), append(qb, qa, [1, 2]), member(qa, [1]) } }])
+    let coll0: LT = LT::from_vec(vec![lterm!([]), lterm!([]), lterm!(3)]);
+    proto_vulcan!([for e in &coll0 { conde { e == 3, true }, |tz| { [2, 3, 2, 2] != [2, 3 | tz], tz == [2, 2] } }])
 }
 pub fn case_129(vars: &Vars) -> InferredGoal<DU, DE, Goal<DU, DE>> {
     let qa = vars.v[0].clone();
     let qb = vars.v[1].clone();
-    let coll0: LT = LT::from_vec(vec![lterm!([[], 2]), lterm!([[], 1]), lterm!([1])]);
-    proto_vulcan!([[[2], [qa | qa], [[]] | qb] == [qa], for e in &coll0 { [3, _, 1] == e, [[] | e] == e }])
+    let coll0: Vec<LT> = vec![];
+    proto_vulcan!([for e in &coll0 { conde { e == 3, true }, 'a' == 1 }])
 }
 pub fn case_130(vars: &Vars) -> InferredGoal<DU, DE, Goal<DU, DE>> {
     let qa = vars.v[0].clone();
     let qb = vars.v[1].clone();
-    let coll0: Vec<LT> = vec![lterm!(2), lterm!(2)];
-    proto_vulcan!([for e in &coll0 { conde { e == 3, true }, true, qa != ([], 2) }])
+    let coll0: LT = LT::from_vec(vec![lterm!(2), lterm!(2), lterm!(2)]);
+    proto_vulcan!([for e in &coll0 { conde { e == 3, true }, [1] != qb }])
 }
 pub fn case_131(vars: &Vars) -> InferredGoal<DU, DE, Goal<DU, DE>> {
     let qa = vars.v[0].clone();
     let qb = vars.v[1].clone();
-    let coll0: LT = LT::from_vec(vec![lterm!([1]), lterm!(1), lterm!(1)]);
-    proto_vulcan!([[append(qb, qa, [1, 3])], for e in &coll0 { conde { e == 3, true }, conde { [[[qa, qa, qb | []], 2] != e, qb == P3(_, 1, qa)] }, |tz| { tz == [2, 1], [2 | tz] != [2, 2, 1] } }])
+    let coll0: Vec<LT> = vec![];
+    proto_vulcan!([for e in &coll0 { P3(e, 1, qa) != qa, qb == [3, "bc"] }])
 }
 pub fn case_132(vars: &Vars) -> InferredGoal<DU, DE, Goal<DU, DE>> {
     let qa = vars.v[0].clone();
     let qb = vars.v[1].clone();
-    let coll0: Vec<LT> = vec![];
-    proto_vulcan!([for e in &coll0 { P3(e, 1, _) == qb }])
+    let coll0: Vec<LT> = vec![lterm!([[], 2]), lterm!([[], 2])];
+    proto_vulcan!([for e in &coll0 { conde { e == 2, true }, conde { [true, true == qa] } }])
 }
 pub fn case_133(vars: &Vars) -> InferredGoal<DU, DE, Goal<DU, DE>> {
     let qa = vars.v[0].clone();
     let qb = vars.v[1].clone();
-    let coll0: LT = LT::from_vec(vec![lterm!([]), lterm!([]), qa.clone()]);
-    proto_vulcan!([for e in &coll0 { e != P3(3, [qb, qb], [3]) }])
+    let coll0: Vec<LT> = vec![];
+    proto_vulcan!([qa == qa, for e in &coll0 { conde { e == 3, true }, e == qa, |y, h| {  } }])
 }
 pub fn case_134(vars: &Vars) -> InferredGoal<DU, DE, Goal<DU, DE>> {
     let qa = vars.v[0].clone();
     let qb = vars.v[1].clone();
-    let coll0: Vec<LT> = vec![lterm!([1]), lterm!([[], 1])];
-    proto_vulcan!([for e in &coll0 { conde { e == 1, true }, ([], [1, 2]) == qb }])
+    let coll0: LT = LT::from_vec(vec![lterm!(1), lterm!(1), lterm!([])]);
+    proto_vulcan!([conde { [] }, for e in &coll0 { conde { e == 2, true }, conde { [], member(qb, [3]) } }])
 }
 pub fn case_135(vars: &Vars) -> InferredGoal<DU, DE, Goal<DU, DE>> {
     let qa = vars.v[0].clone();
     let qb = vars.v[1].clone();
-    let coll0: Vec<LT> = vec![lterm!([[], 1]), lterm!([[], 1])];
-    proto_vulcan!([[[3, qa, 1], [] | [[], true]] == P3([], qb, []), for e in &coll0 { conde { e == 2, true }, |y| { false, |tz| { [1 | tz] != [1, 2, 3], tz == [2, 3] }, true } }])
+    let coll0: Vec<LT> = vec![];
+    proto_vulcan!([1 == qa, for e in &coll0 { qa == (_, []), e == (e, [e]) }])
 }
 pub fn case_136(vars: &Vars) -> InferredGoal<DU, DE, Goal<DU, DE>> {
     let qa = vars.v[0].clone();
     let qb = vars.v[1].clone();
-    let coll0: LT = LT::from_vec(vec![lterm!([])]);
-    proto_vulcan!([for e in &coll0 { qa == [_, 2, 1] }])
+    let coll0: Vec<LT> = vec![lterm!(2), lterm!([])];
+    proto_vulcan!([for e in &coll0 { e != 3, [qa, qa] == (qb, _) }])
 }
 pub fn case_137(vars: &Vars) -> InferredGoal<DU, DE, Goal<DU, DE>> {
     let qa = vars.v[0].clone();
     let qb = vars.v[1].clone();
-    let coll0: LT = LT::from_vec(vec![qb.clone()]);
-    proto_vulcan!([for e in &coll0 { [[3 | e] == e] }])
+    let coll0: Vec<LT> = vec![];
+    proto_vulcan!([|z| { [] != [3], qa == [], 3 == z }, for e in &coll0 { [] == [qa, [1, e, 1], 2 | e], |z| { P3(1, _, _) == qa } }])
 }
 pub fn case_138(vars: &Vars) -> InferredGoal<DU, DE, Goal<DU, DE>> {
     let qa = vars.v[0].clone();
     let qb = vars.v[1].clone();
-    let coll0: LT = LT::from_vec(vec![lterm!(1), lterm!(2), qa.clone()]);
-    proto_vulcan!([qa == ([qb], qa), for e in &coll0 { |y, z| { qa == [qa, 2], false, P3(1, [], qa) == y } }])
+    let coll0: Vec<LT> = vec![];
+    proto_vulcan!([for e in &coll0 { conde { e == 2, true }, conde { false, [_, e] == e, e != 1 } }])
 }
 pub fn case_139(vars: &Vars) -> InferredGoal<DU, DE, Goal<DU, DE>> {
     let qa = vars.v[0].clone();
     let qb = vars.v[1].clone();
-    let coll0: Vec<LT> = vec![lterm!([]), lterm!([])];
-    proto_vulcan!([for e in &coll0 { conde { e == 3, true }, |z| { qa == (e, qb), z != qa } }])
+    let coll0: LT = LT::from_vec(vec![lterm!(3), lterm!([[], 1]), qa.clone()]);
+    proto_vulcan!([[], for e in &coll0 { qb == [[] | e], qa != [e] }])
 }
 pub fn case_140(vars: &Vars) -> InferredGoal<DU, DE, Goal<DU, DE>> {
     let qa = vars.v[0].clone();
     let qb = vars.v[1].clone();
-    let coll0: LT = LT::from_vec(vec![lterm!([[], 2])]);
-    proto_vulcan!([for e in &coll0 { conde { e == 1, true }, P3(1, [2], [2, []]) != qb }])
+    let coll0: LT = LT::from_vec(vec![lterm!([[], 1]), lterm!(3), lterm!([])]);
+    proto_vulcan!([qa == [[], 1 | qa], for e in &coll0 { [e == qa], conde { false, [qb == qa, qb != [1]], [[qb, qa | qb] == qa, false] } }])
 }
 pub fn case_141(vars: &Vars) -> InferredGoal<DU, DE, Goal<DU, DE>> {
     let qa = vars.v[0].clone();
     let qb = vars.v[1].clone();
-    let coll0: LT = LT::from_vec(vec![lterm!(3)]);
-    proto_vulcan!([for e in &coll0 { |t| { e == [[_, [], _], [1, [], e]] }, conde { member(qa, [2, 2, 2]) } }])
+    let coll0: Vec<LT> = vec![lterm!(3), lterm!([1]), lterm!([1]), qb.clone()];
+    proto_vulcan!([for e in &coll0 { conde { e == 2, true }, qb == e }])
 }
 pub fn case_142(vars: &Vars) -> InferredGoal<DU, DE, Goal<DU, DE>> {
     let qa = vars.v[0].clone();
     let qb = vars.v[1].clone();
-    let coll0: LT = LT::from_vec(vec![qa.clone(), lterm!([2]), lterm!(3)]);
-    proto_vulcan!([for e in &coll0 { conde { [1, [qa, _], qb] != P3([e, _], [qb], [qa]), qb == qa, [qa == qb, _ == qb] }, [] != qa }])
+    let coll0: Vec<LT> = vec![lterm!([1]), lterm!([1])];
+    proto_vulcan!([for e in &coll0 { conde { e == 3, true }, ([_], _) == qb }])
 }
 pub fn case_143(vars: &Vars) -> InferredGoal<DU, DE, Goal<DU, DE>> {
     let qa = vars.v[0].clone();
     let qb = vars.v[1].clone();
-    let coll0: Vec<LT> = vec![lterm!(2), lterm!([[], 1])];
-    proto_vulcan!([for e in &coll0 { qb == e, conde { [], false } }])
+    let coll0: LT = LT::from_vec(vec![lterm!([1]), lterm!([1]), lterm!([1])]);
+    proto_vulcan!([for e in &coll0 { conde { e == 1, true }, [3, e, []] != qa }])
 }
 pub fn case_144(vars: &Vars) -> InferredGoal<DU, DE, Goal<DU, DE>> {
     let qa = vars.v[0].clone();
     let qb = vars.v[1].clone();
-    let coll0: Vec<LT> = vec![lterm!([]), lterm!(3)];
-    proto_vulcan!([['a'] == qb, for e in &coll0 { P3(_, e, []) != qb, (e, []) == [qb, 2, qa] }])
+    let coll0: LT = LT::from_vec(vec![qa.clone()]);
+    proto_vulcan!([for e in &coll0 { conde { e == 3, true }, [[3 | qb], [3] | e] == P3([3], [qb], e) }])
 }
 pub fn case_145(vars: &Vars) -> InferredGoal<DU, DE, Goal<DU, DE>> {
     let qa = vars.v[0].clone();
     let qb = vars.v[1].clone();
-    let coll0: Vec<LT> = vec![];
-    proto_vulcan!([for e in &coll0 { conde { e == 2, true }, conde { append(qa, qa, [2, 1]), [e == 1, [qb, 'a', _] == qa], [true, [qa] == P3(qa, 1, [2])] } }])
+    let coll0: Vec<LT> = vec![lterm!([]), lterm!([])];
+    proto_vulcan!([for e in &coll0 { conde { e == 3, true }, [], member(e, [2]) }])
 }
 pub fn case_146(vars: &Vars) -> InferredGoal<DU, DE, Goal<DU, DE>> {
     let qa = vars.v[0].clone();
     let qb = vars.v[1].clone();
-    let coll0: Vec<LT> = vec![];
-    proto_vulcan!([for e in &coll0 { conde { e == 3, true }, false }])
+    let coll0: Vec<LT> = vec![lterm!([1]), lterm!([1])];
+    proto_vulcan!([[[1], 1, [2 | [[]]] | [qb]] != qa, for e in &coll0 { conde { e == 1, true }, [[[], e, 1] != e, qa == qb, false == e] }])
 }
 pub fn case_147(vars: &Vars) -> InferredGoal<DU, DE, Goal<DU, DE>> {
     let x = vars.v[0].clone();
@@ -930,659 +930,652 @@ pub fn case_156(vars: &Vars) -> InferredGoal<DU, DE, Goal<DU, DE>> {
 }
 pub fn case_157(vars: &Vars) -> InferredGoal<DU, DE, Goal<DU, DE>> {
     let x = vars.v[0].clone();
-    proto_vulcan!([_ == x, matche [2] { [[1, 'a']] | [[y], [y], [y]] => [append(x, x, [3, 3]), [x != [2, x], append(x, x, [1, 3])]], }])
+    proto_vulcan!([matcha x { _ => { member(x, [1, 2, 3]) }, x | [] => , [[3, t, h | _], _] => { conde { [x == x, t == t], [x == 1, |tz| { [2, 2 | tz] != [2, 2, 2], tz == [2] }] }, conde { false, [[], x, t] != t } }, }])
 }
 pub fn case_158(vars: &Vars) -> InferredGoal<DU, DE, Goal<DU, DE>> {
     let q = vars.v[0].clone();
     let x = vars.v[1].clone();
-    proto_vulcan!([|t, z| {  }, matcha x { [[1] | _] | P3([_], [], 1) => |tz| { [1, 2] != [1 | tz], tz == [2] }, [[h, [], z]] | [[_, x], [[], t], [x, _, x | _]] => , _ => [x == 7, x == 8], }])
+    proto_vulcan!([match [1] { _ | P3([], [1, 1], 2) => [x != P3(1, 2, q), conde { x != x, [] }], [[t, h]] | [_, [[], h]] => { matchu h { Named { a: z, b: _ } => , _ | _ => , }, (3, [_]) == _ }, ["a"] | [x, [1, 3, y], 1 | h] => { matcha q { [[3], [[], 1, 2] | []] => { member(q, [3]), member(q, [1]) }, } }, }])
 }
 pub fn case_159(vars: &Vars) -> InferredGoal<DU, DE, Goal<DU, DE>> {
-    let x = vars.v[0].clone();
-    let y = vars.v[1].clone();
-    proto_vulcan!([match y { y | [[], [h, z | _]] => , [[t, false | y]] => , Named { a: t, b: y } => , }])
+    let q = vars.v[0].clone();
+    let x = vars.v[1].clone();
+    proto_vulcan!([[[3 | x], [_, 1]] == x, matchu x { _ => member(x, [1, 2, 3]), _ => { q == 7, q == 8 }, [x] => [conda { 1 != [2], [x == x, x == (x, 1)] }, q == 1], }])
 }
 pub fn case_160(vars: &Vars) -> InferredGoal<DU, DE, Goal<DU, DE>> {
-    let x = vars.v[0].clone();
-    proto_vulcan!([true, match x { [[z, x, z], [true], _ | z] => [[append(x, z, [])], onceo { false }], }])
+    let q = vars.v[0].clone();
+    let x = vars.v[1].clone();
+    proto_vulcan!([|t| {  }, matcha q { x => , [[1, x, []], [[], "bc", []], [y]] | _ => , _ => , }])
 }
 pub fn case_161(vars: &Vars) -> InferredGoal<DU, DE, Goal<DU, DE>> {
-    let x = vars.v[0].clone();
-    proto_vulcan!([matche x { P3([2, 1], 2, _) => conde { [true, P3(x, [], [_]) == x], false, [x == ([], [_, 3]), append(x, x, [1, 1])] }, P3(_, _, []) => [|y, z| { y != (z, 3), |tz| { tz == [2], [1, 2 | tz] != [1, 2, 2] }, z != [_] }, [_ | 1] != x], }])
+    let q = vars.v[0].clone();
+    let x = vars.v[1].clone();
+    proto_vulcan!([matcha q { _ => { [(_, x) == q, x == [[], _, q]], [1 | x] == x }, _ => [x == 7, x == 8], [[3, h | h], 2, [x, z, y | x]] => , }])
 }
 pub fn case_162(vars: &Vars) -> InferredGoal<DU, DE, Goal<DU, DE>> {
     let x = vars.v[0].clone();
     let y = vars.v[1].clone();
-    proto_vulcan!([matche y { y => [[y, 2, 1 | 1], y] != x, x => [conde { [member(x, [3, 2, 2]), false] }, conde { [true, true == [3 | x]] }], }])
+    proto_vulcan!([matchu y { 1 => [|tz| { [3, 1 | tz] != [3, 1, 2, 2], tz == [2, 2] }, false], }])
 }
 pub fn case_163(vars: &Vars) -> InferredGoal<DU, DE, Goal<DU, DE>> {
     let x = vars.v[0].clone();
-    proto_vulcan!([match x { [z, 2, false | t] => [[t == _]], P3(1, y, 1) | [z, [t, y | _], ['b', 2, y | _]] => { y == y, |t, z| { x == [y] } }, }])
+    let y = vars.v[1].clone();
+    proto_vulcan!([|h| { [x, y | x] == y, x == [] }, matcha y { Named { a: 1, b: t } => conda { |tz| { tz == [2, 1], [1, 1, 2, 1] != [1, 1 | tz] }, [x == [[y, 1]], append(x, y, [2, 2])] }, }])
 }
 pub fn case_164(vars: &Vars) -> InferredGoal<DU, DE, Goal<DU, DE>> {
-    let q = vars.v[0].clone();
-    let x = vars.v[1].clone();
-    proto_vulcan!([matche [q, 'b'] { _ => member(q, [1, 2, 3]), 1 => { q != [x, 2 | 3], |t| { [1, t | q] == x, [x, q] == x } }, y | Named { a: [_, []], b: [] } => [conde { q == (3, [3]), [[x | 1] == x, q != [x, 3, []]], [x != [q, [q, []]], 2 == x] }, |y, x| {  }], }])
+    let x = vars.v[0].clone();
+    proto_vulcan!([|tz| { tz == [2, 1], [2, 3, 2, 1] != [2, 3 | tz] }, matchu [[], x] { 3 => , _ => member(x, [1, 2, 3]), [1] | P3(1, 3, [1, t]) => [member(x, [1]), P3(_, [[]], [_]) != [[3, _, []], 2]], }])
 }
 pub fn case_165(vars: &Vars) -> InferredGoal<DU, DE, Goal<DU, DE>> {
     let x = vars.v[0].clone();
     let y = vars.v[1].clone();
-    proto_vulcan!([conda { [[1, x] == x, y == [3]], [[1, 1], [2 | [y]], [x, x, 'b']] == ([x, x], x) }, matcha x { true | t => , }])
+    proto_vulcan!([match y { _ | _ => [x == 7, x == 8], [[y], 1 | t] => [true, matche t { [[1, _, false | _], _ | _] => [[2, []] == y, x == _], _ => [y == 7, y == 8], }], }])
 }
 pub fn case_166(vars: &Vars) -> InferredGoal<DU, DE, Goal<DU, DE>> {
-    let q = vars.v[0].clone();
-    let x = vars.v[1].clone();
-    proto_vulcan!([conde { [], false, [x == (x, q), q == [[], 1, 'a']] }, matcha 2 { [[z, z, [] | 3], [1], [[], y, h]] | _ => { conde { [[3, 1, x]] == x, [|tz| { [3 | tz] != [3, 1], tz == [1] }, q != [[q, _], [[], _, _ | x], 1 | [[]]]] }, [[x, x, x | q], [] | q] == x }, }])
+    let x = vars.v[0].clone();
+    proto_vulcan!([matchu [x, x, x] { Named { a: _, b: [t] } => |tz| { [1, 1, 3] != [1, 1 | tz], tz == [3] }, }])
 }
 pub fn case_167(vars: &Vars) -> InferredGoal<DU, DE, Goal<DU, DE>> {
     let q = vars.v[0].clone();
     let x = vars.v[1].clone();
-    proto_vulcan!([conde { [["bc"] == x, x == [_, q]], [false, [1] == x] }, match q { [2] | [[], x] => |tz| { tz == [3], [2, 1 | tz] != [2, 1, 3] }, _ => [q == 7, q == 8], }])
+    proto_vulcan!([matche q { [2] | _ => conde { [([], 2) != (_, _), x != 1], q == (q, []) }, _ => [x == 7, x == 8], _ | [[t, 3], [], [z, 3] | h] => { |tz| { tz == [1], [3, 1] != [3 | tz] }, x == _ }, }])
 }
 pub fn case_168(vars: &Vars) -> InferredGoal<DU, DE, Goal<DU, DE>> {
-    let q = vars.v[0].clone();
-    let x = vars.v[1].clone();
-    proto_vulcan!([matcha q { [[h, t, y | x]] | [h] => , P3([z], y, z) => , P3([[], []], 2, _) | [[_ | [y]], [x, 2, 3], [z, 3, x]] => { [|tz| { tz == [1], [2, 1] != [2 | tz] }], conda { [q == [[1 | [1, q]], 2], q == q] } }, }])
+    let x = vars.v[0].clone();
+    proto_vulcan!([matche x { [[1], [t, 3 | h]] | 'a' => , }])
 }
 pub fn case_169(vars: &Vars) -> InferredGoal<DU, DE, Goal<DU, DE>> {
-    let x = vars.v[0].clone();
-    proto_vulcan!([matchu x { [[1], [h, 3 | 2]] => |z| { z != (2, _), ['a', 1] == x, z == 1 }, [h, [[], _, 1]] => , _ => { x == 7, x == 8 }, }])
+    let q = vars.v[0].clone();
+    let x = vars.v[1].clone();
+    proto_vulcan!([matcha x { [1 | [x, z]] | 2 => { true }, }])
 }
 pub fn case_170(vars: &Vars) -> InferredGoal<DU, DE, Goal<DU, DE>> {
-    let x = vars.v[0].clone();
-    proto_vulcan!([conda { [|tz| { [3, 2 | tz] != [3, 2, 3, 3], tz == [3, 3] }, [[[], _], x | x] == x], true, [1] == x }, match x { 1 => true, }])
+    let q = vars.v[0].clone();
+    let x = vars.v[1].clone();
+    proto_vulcan!([matche [[], q, q | 3] { Named { a: 1, b: 3 } | P3(z, 3, 1) => { matcha q { [t, [3], ['a', 'b' | y]] | y => { [x] != [[y | []], x, [false, []] | []], [x, 3, x] == x }, } }, [[2, y, _] | _] => { conde { [[[], q] != y, q == [x, 3]], true }, [y == x, [[y, x | y], q, [1 | [y, 1]]] == [[y | q], 2, [] | [3]], append(q, y, [2])] }, _ => { member(q, [1, 2, 3]) }, }])
 }
 pub fn case_171(vars: &Vars) -> InferredGoal<DU, DE, Goal<DU, DE>> {
     let x = vars.v[0].clone();
-    let y = vars.v[1].clone();
-    proto_vulcan!([|h| { [y, 3 | h] == y, false }, matchu x { 3 | [] => , t | ["a", 3 | [z]] => { conda { [append(y, y, [3]), x != [[y, [], 3 | y], 3, ['a']]], |tz| { tz == [3], [2 | tz] != [2, 3] }, [1 == x, [y, 2 | y] == y] } }, }])
+    proto_vulcan!([matche 1 { [[_], [x, x, t | _]] => , _ => , }])
 }
 pub fn case_172(vars: &Vars) -> InferredGoal<DU, DE, Goal<DU, DE>> {
     let x = vars.v[0].clone();
     let y = vars.v[1].clone();
-    proto_vulcan!([match [2, x, 1 | y] { _ => , [[[], 3, 1], [3, "bc", _]] | _ => [onceo { x == [[x, x, x], [y, x]] }, matchu x { _ | _ => { member(x, [1, 2, 3]) }, ['b', 3, []] | _ => [2 == y, true], _ => { (_, _) == 2 }, }], }])
+    proto_vulcan!([matchu y { [[z, x], [_ | _]] | _ => , }])
 }
 pub fn case_173(vars: &Vars) -> InferredGoal<DU, DE, Goal<DU, DE>> {
     let x = vars.v[0].clone();
-    proto_vulcan!([|t| { [t, t, x] != t, [false, _] == t }, match x { P3([[]], z, []) => [[], member(x, [])], Named { a: 3, b: [[]] } => { member(x, []), 1 != x }, _ => , }])
+    let y = vars.v[1].clone();
+    proto_vulcan!([matchu [] { _ | 2 => { [], [|tz| { tz == [1], [2, 1] != [2 | tz] }, |tz| { tz == [3, 3], [2 | tz] != [2, 3, 3] }] }, Named { a: 2, b: x } => [y != x, onceo { x == [2 | y] }], }])
 }
 pub fn case_174(vars: &Vars) -> InferredGoal<DU, DE, Goal<DU, DE>> {
     let x = vars.v[0].clone();
-    let y = vars.v[1].clone();
-    proto_vulcan!([matche x { x => conde { [false, false], [], x != [[1, 3], [3, 3], y] }, ['a'] => x != [[]], [[t | _], x] => [[]], }])
+    proto_vulcan!([conde { x != ([[]], x), [] }, matcha x { [[x | []], 2] | t => , }])
 }
 pub fn case_175(vars: &Vars) -> InferredGoal<DU, DE, Goal<DU, DE>> {
     let q = vars.v[0].clone();
     let x = vars.v[1].clone();
-    proto_vulcan!([[['a' | q], [q], 1] == 1, match 1 { [z | _] => matcha q { [[1 | []], _ | z] => , [y, 2, [h, t, 2]] => false, }, [[], [h, 'b'], [t, 2, 2] | [[], x]] | Named { a: [], b: _ } => [|t, x| { q != [t], 1 == q }, q != 1], }])
+    proto_vulcan!([matche x { [[_, h, y] | []] => { [1, h] == ([1, []], [_]) }, 1 => { conde { [true, x != _], q != [x, _, _], [1 == x, 2 == x] }, |x, z| { q == [[_], 1, [] | z] } }, }])
 }
 pub fn case_176(vars: &Vars) -> InferredGoal<DU, DE, Goal<DU, DE>> {
-    let q = vars.v[0].clone();
-    let x = vars.v[1].clone();
-    proto_vulcan!([|x| { true, _ == 3 }, matchu [2] { P3(_, [_], z) | _ => { |h, y| { h != [y | h], (3, y) != y, [[1 | q], [], [2, 3, 'a']] != h }, |t| { |tz| { tz == [3], [3, 3] != [3 | tz] } } }, }])
+    let x = vars.v[0].clone();
+    proto_vulcan!([matcha x { [false, [h, y], [2, 2, 2] | []] => , [[[], 3]] => conda { [true, member(x, [3, 3])], x == true }, [] | x => , }])
 }
 pub fn case_177(vars: &Vars) -> InferredGoal<DU, DE, Goal<DU, DE>> {
     let x = vars.v[0].clone();
-    proto_vulcan!([x == x, matchu x { x => { conde { [x == [x], _ == [1, x, x]] }, true == x }, }])
+    proto_vulcan!([matcha x { 2 | ["bc", [1], [[]]] => , }])
 }
 pub fn case_178(vars: &Vars) -> InferredGoal<DU, DE, Goal<DU, DE>> {
     let x = vars.v[0].clone();
     let y = vars.v[1].clone();
-    proto_vulcan!([match y { P3(x, 3, x) => { conde { [], [[1, 2] == x, x != [y | x]] }, [[2, y, 'b'] != y, y != x] }, [['b', 2 | _], [x, 1] | t] | Named { a: 1, b: 1 } => , }])
+    proto_vulcan!([matche x { _ | [[z, x | x]] => { P3([], y, [_, y]) == [[y, y]], [2 | y] == true }, 3 => [[append(y, x, [2, 1]), P3(3, 3, [y, x]) == x]], y => , }])
 }
 pub fn case_179(vars: &Vars) -> InferredGoal<DU, DE, Goal<DU, DE>> {
     let x = vars.v[0].clone();
-    let y = vars.v[1].clone();
-    proto_vulcan!([matchu x { [[false, _, y | y], ['b', z, 1], 2] | [1, [3 | h]] => , }])
+    proto_vulcan!([|z, y| {  }, match x { 1 => [matchu x { _ => { member(x, [1, 2, 3]) }, [[y | _], ['b', 2, 2], [h, 2 | h]] => [append(x, h, []), |tz| { [2, 1, 2, 2] != [2, 1 | tz], tz == [2, 2] }], _ => , }, [] == [[2, x, x], [2]]], [x | _] => { x == [_, x] }, }])
 }
 pub fn case_180(vars: &Vars) -> InferredGoal<DU, DE, Goal<DU, DE>> {
     let x = vars.v[0].clone();
-    proto_vulcan!([matche x { [[1, h, [] | z], ['a', y, t | z], 1 | [h, h]] => [[y == t, [2, x, x] == t, x != [2, _, z]]], Named { a: x, b: _ } => , _ => { match x { _ => member(x, [1, 2, 3]), _ => , [[], [x], _] => { |tz| { tz == [2, 2], [3, 2 | tz] != [3, 2, 2, 2] }, false }, } }, }])
+    proto_vulcan!([matchu x { _ => member(x, [1, 2, 3]), _ => |y, x| { [y, x, []] != x, [x, [], 3] == x, |tz| { tz == [3], [1, 1 | tz] != [1, 1, 3] } }, [[2, h, h], [1, 1 | _]] => append(x, h, [1, 2]), }])
 }
 pub fn case_181(vars: &Vars) -> InferredGoal<DU, DE, Goal<DU, DE>> {
     let q = vars.v[0].clone();
     let x = vars.v[1].clone();
-    proto_vulcan!([|t| { q == P3(1, q, 2), |tz| { tz == [1], [1, 1, 1] != [1, 1 | tz] } }, matchu x { [[1, 2], [_], [x, 2]] => , [[y, y]] => , P3([_], [[]], h) | "bc" => { onceo { x == [_] }, |y| { q != [1, x], member(q, [1]), y == q } }, }])
+    proto_vulcan!([match x { [[3, x, t], [_, 1, [] | y], y | t] => , P3(1, z, [1, x]) | [[x]] => , _ => { onceo { append(q, x, [3, 3]) } }, }])
 }
 pub fn case_182(vars: &Vars) -> InferredGoal<DU, DE, Goal<DU, DE>> {
     let x = vars.v[0].clone();
     let y = vars.v[1].clone();
-    proto_vulcan!([|y| { true }, matcha x { [[] | x] => , x | [_] => , _ => { member(y, [1, 2, 3]) }, }])
+    proto_vulcan!([_ != y, matchu [] { _ | _ => [x == 7, x == 8], _ => { member(x, [1, 2, 3]) }, ["bc", y, [z]] | P3([1], [2, _], 3) => { [[]] != x }, }])
 }
 pub fn case_183(vars: &Vars) -> InferredGoal<DU, DE, Goal<DU, DE>> {
-    let x = vars.v[0].clone();
-    let y = vars.v[1].clone();
-    proto_vulcan!([matchu x { [[], [[], x] | [z, h]] => { P3(y, 1, 1) != x, x != _ }, y => , }])
+    let q = vars.v[0].clone();
+    let x = vars.v[1].clone();
+    proto_vulcan!([["bc", _] == q, matchu q { [[h, y] | t] | [[t], 3 | t] => { append(q, t, []) }, _ => { member(q, [1, 2, 3]) }, _ | _ => { member(q, [1, 2, 3]) }, }])
 }
 pub fn case_184(vars: &Vars) -> InferredGoal<DU, DE, Goal<DU, DE>> {
     let x = vars.v[0].clone();
-    let y = vars.v[1].clone();
-    proto_vulcan!([|h| { h != [1, h, 2], (y, 3) == x }, matchu [3, 1] { _ => { member(y, [1, 2, 3]) }, [[h, [], [] | _], [y, h, z], 1] => , [[_, z, t], [false], [z, 'a', "bc" | z]] => , }])
+    proto_vulcan!([conde { [x == [x, x, x | x], x == [x]], |tz| { tz == [3, 1], [3, 3 | tz] != [3, 3, 3, 1] }, x == x }, matchu x { 2 => conde { false, member(x, [2, 3, 1]) }, }])
 }
 pub fn case_185(vars: &Vars) -> InferredGoal<DU, DE, Goal<DU, DE>> {
-    let q = vars.v[0].clone();
-    let x = vars.v[1].clone();
-    proto_vulcan!([P3(1, [], x) != q, matche q { t => , }])
+    let x = vars.v[0].clone();
+    proto_vulcan!([matcha x { _ => member(x, [1, 2, 3]), 1 => { |z| { x == [[], 2, [3, x | x] | z], true }, |z, y| { P3(1, [2, 1], x) == x, [2 | y] == z } }, }])
 }
 pub fn case_186(vars: &Vars) -> InferredGoal<DU, DE, Goal<DU, DE>> {
-    let q = vars.v[0].clone();
-    let x = vars.v[1].clone();
-    proto_vulcan!([matchu 1 { _ => [x == 7, x == 8], true | [[z, 2, _ | h]] => , }])
+    let x = vars.v[0].clone();
+    proto_vulcan!([matche ['b', x] { _ | _ => { member(x, [1, 2, 3]) }, Named { a: _, b: x } | [] => , [1, [y, [] | _], [x, _, x] | _] | [[], x] => { [x | [x, x]] != x, onceo { [[], true, 1] == x } }, }])
 }
 pub fn case_187(vars: &Vars) -> InferredGoal<DU, DE, Goal<DU, DE>> {
     let x = vars.v[0].clone();
     let y = vars.v[1].clone();
-    proto_vulcan!([onceo { false }, matchu y { [y] | [[t | _], t] => , }])
+    proto_vulcan!([[[x, x, 3 | x] | true] != x, matche y { _ => member(y, [1, 2, 3]), }])
 }
 pub fn case_188(vars: &Vars) -> InferredGoal<DU, DE, Goal<DU, DE>> {
     let x = vars.v[0].clone();
     let y = vars.v[1].clone();
-    proto_vulcan!([x == [], matchu y { [[1, _, z]] => , _ => , }])
+    proto_vulcan!([|h, t| { (t, [2, y]) == y }, matcha x { Named { a: [x], b: 1 } => , _ => member(y, [1, 2, 3]), }])
 }
 pub fn case_189(vars: &Vars) -> InferredGoal<DU, DE, Goal<DU, DE>> {
-    let x = vars.v[0].clone();
-    proto_vulcan!([matchu x { 'a' => { [|tz| { tz == [1, 2], [1, 2, 1, 2] != [1, 2 | tz] }, member(x, [2, 3]), |tz| { tz == [2, 2], [2, 3, 2, 2] != [2, 3 | tz] }], condu { [append(x, x, [2, 3]), |tz| { tz == [2, 1], [1, 1, 2, 1] != [1, 1 | tz] }], [[x, [] | x] == x, false] } }, Named { a: [[], z], b: [1, t] } => { match t { h => , P3([h], 1, [z, y]) => , Named { a: z, b: [x] } => { true == [z, z | z], z != [2, z | t] }, }, [] }, }])
+    let q = vars.v[0].clone();
+    let x = vars.v[1].clone();
+    proto_vulcan!([matcha [1, _] { [] => [conde { ([], []) == "bc" }, onceo { |tz| { tz == [2, 3], [2 | tz] != [2, 2, 3] } }], [[_, _, h | x], [_], [[], y, _ | [[], _]] | "a"] => [[y, false, x] == [[q | q]], conde { [y != P3(3, [q, _], 3), (x, [q, h]) != [_]], [[2, x] == [y | x], ["bc"] == h] }], }])
 }
 pub fn case_190(vars: &Vars) -> InferredGoal<DU, DE, Goal<DU, DE>> {
     let x = vars.v[0].clone();
-    proto_vulcan!([|h| { append(x, h, []) }, matchu [x] { _ => , [[x, t | _] | _] => , 3 | Named { a: [], b: [] } => [matcha x { 2 => [x == [[x | ['a', x]]], 1 != x], P3(1, _, z) => [z != [z, 3, 2 | [x, "bc"]], member(x, [])], _ => { |tz| { [1, 1, 2, 1] != [1, 1 | tz], tz == [2, 1] } }, }, append(x, x, [])], }])
+    let y = vars.v[1].clone();
+    proto_vulcan!([conde { member(y, [1, 3, 3]), [x, 3] == x, member(x, [3]) }, match x { 1 | [[[], z, 1], [[], _, t], [2, z, 1] | h] => { |z, x| { x == x, x == [3 | y], false } }, [['b', y, false], t] | [[_, x | z], [1], [z, x]] => , 2 => , }])
 }
 pub fn case_191(vars: &Vars) -> InferredGoal<DU, DE, Goal<DU, DE>> {
-    let q = vars.v[0].clone();
-    let x = vars.v[1].clone();
-    proto_vulcan!([matcha [q, _] { [_, h | x] => [conde { x != P3(_, 3, [_, h]), [P3(3, [3, _], [2]) != h, [x, 3] == 'a'] }, x == [[2, false, _], [x, x]]], }])
+    let x = vars.v[0].clone();
+    let y = vars.v[1].clone();
+    proto_vulcan!([matcha y { 2 => { matche [x, y, []] { Named { a: t, b: 3 } | P3(t, _, t) => y == y, } }, [x, [z, z]] => { [true, ([], _) != x, y != [[], z, 1 | z]], matche y { P3(t, h, x) => { true }, P3([], _, 1) => { append(x, y, [1]) }, } }, _ => { [2, [], false | x] == y, |t| { [t, 3] == x, false, [[]] != t } }, }])
 }
 pub fn case_192(vars: &Vars) -> InferredGoal<DU, DE, Goal<DU, DE>> {
-    let x = vars.v[0].clone();
-    proto_vulcan!([matchu x { [] => { conde { [] } }, [[t], h] => |y, z| { z == 1, _ != t, [1] == y }, _ => [matche x { 2 | 2 => { false }, _ => [_] == x, [[z, 1, t]] => { z != [3, x, 2], append(x, x, [2]) }, }, x == 1], }])
-}
-pub fn case_193(vars: &Vars) -> InferredGoal<DU, DE, Goal<DU, DE>> {
     let q = vars.v[0].clone();
     let x = vars.v[1].clone();
-    proto_vulcan!([matche [_ | x] { P3(_, t, _) | [[h, 2, _], x, t] => , t | [[t], [2 | _], [y, 'a']] => q != 3, _ | [[x, x, x | [2, h]], 2, ["bc"]] => { q == [[_, 1 | false], [q], [_, []] | q], conde { [[q | q] == q, q == P3(1, q, 3)], [[_], [1, _ | q], q] == q } }, }])
+    proto_vulcan!([[[x, [[], q | q], x | q] == x], matcha q { [[h], [[], 1 | _], [x]] => { (2, [x]) == x }, _ => { member(x, [1, 2, 3]) }, [[z, x], false | y] | P3([_, 1], 2, [t]) => , }])
+}
+pub fn case_193(vars: &Vars) -> InferredGoal<DU, DE, Goal<DU, DE>> {
+    let x = vars.v[0].clone();
+    proto_vulcan!([|x, h| { false, false }, matche x { [2, _, y] | [[false | [y]]] => , _ | [[z, 3]] => , [true] | _ => { onceo { _ == x } }, }])
 }
 pub fn case_194(vars: &Vars) -> InferredGoal<DU, DE, Goal<DU, DE>> {
     let x = vars.v[0].clone();
     let y = vars.v[1].clone();
-    proto_vulcan!([matche y { _ => member(x, [1, 2, 3]), }])
+    proto_vulcan!([matche y { [x | t] => , }])
 }
 pub fn case_195(vars: &Vars) -> InferredGoal<DU, DE, Goal<DU, DE>> {
-    let x = vars.v[0].clone();
-    let y = vars.v[1].clone();
-    proto_vulcan!([conde { [member(x, [2, 2, 3]), x != [y, y]], [x != [[y], 3 | []], |tz| { [1, 2, 3, 1] != [1, 2 | tz], tz == [3, 1] }], P3([x, 3], x, 3) == x }, matcha x { [[z], h | 1] => { append(h, x, [2]), [] }, }])
+    let q = vars.v[0].clone();
+    let x = vars.v[1].clone();
+    proto_vulcan!([[[[], []], 2] == [q], match [_, [], x | q] { 1 => , 1 | _ => conde { [[2 | 'a'], [x, 1], 'b'] != (_, [_]), true, [[false, 2, 2] != q, P3(q, 3, x) != q] }, }])
 }
 pub fn case_196(vars: &Vars) -> InferredGoal<DU, DE, Goal<DU, DE>> {
     let x = vars.v[0].clone();
-    let y = vars.v[1].clone();
-    proto_vulcan!([false, match x { [[t, 3]] => [x == 3, [y != 1, member(x, []), y == 3]], }])
+    proto_vulcan!([x == [2], matchu x { Named { a: 1, b: z } => , }])
 }
 pub fn case_197(vars: &Vars) -> InferredGoal<DU, DE, Goal<DU, DE>> {
     let x = vars.v[0].clone();
-    let y = vars.v[1].clone();
-    proto_vulcan!([condu { y == P3(2, [], [y]) }, matchu y { [z, [1, [], x | z], [z, 2] | z] => |tz| { tz == [3], [2, 3] != [2 | tz] }, }])
+    proto_vulcan!([match x { 1 => , _ | P3(2, _, []) => { onceo { |tz| { tz == [3], [2, 1, 3] != [2, 1 | tz] } } }, Named { a: 1, b: 1 } => { conde { [member(x, [3, 2, 3]), x != [true, [x, x | x]]], |tz| { tz == [2], [2, 3, 2] != [2, 3 | tz] }, [x == _, x == x] } }, }])
 }
 pub fn case_198(vars: &Vars) -> InferredGoal<DU, DE, Goal<DU, DE>> {
-    let x = vars.v[0].clone();
-    proto_vulcan!([matcha x { [1 | z] => , }])
+    let q = vars.v[0].clone();
+    let x = vars.v[1].clone();
+    proto_vulcan!([[true | x] != x, matcha q { y => { |y| { 2 != y, [1, _ | y] != x, [y] != x } }, 2 => { [x | x] == x }, _ | h => { |x, t| { x == P3(q, [[], x], [[]]) }, condu { [false, append(q, q, [1, 3])] } }, }])
 }
 pub fn case_199(vars: &Vars) -> InferredGoal<DU, DE, Goal<DU, DE>> {
     let x = vars.v[0].clone();
-    proto_vulcan!([x == 1, matcha x { 1 => , }])
+    let y = vars.v[1].clone();
+    proto_vulcan!([matchu x { Named { a: [1, z], b: _ } => , }])
 }
 pub fn case_200(vars: &Vars) -> InferredGoal<DU, DE, Goal<DU, DE>> {
     let x = vars.v[0].clone();
     let y = vars.v[1].clone();
-    proto_vulcan!([match x { Named { a: _, b: z } | h => [y != y, 2 == x], }])
+    proto_vulcan!([conda { [|tz| { tz == [1], [1 | tz] != [1, 1] }, false] }, matchu y { _ => { append(x, x, []), conde { P3(_, [1, _], _) == x, [(2, _) == P3(_, [], [[]]), append(x, y, [3])] } }, Named { a: 3, b: [] } => [[true]], z => [false, |t, h| { t == ([t, 2], _), P3(t, _, h) == t, true }], }])
 }
 pub fn case_201(vars: &Vars) -> InferredGoal<DU, DE, Goal<DU, DE>> {
     let q = vars.v[0].clone();
     let x = vars.v[1].clone();
-    proto_vulcan!([q == [x, q], match [_, "bc", 1 | q] { [[3]] => { member(q, [2]), x == false }, [] => matchu x { P3(h, x, y) => { x != y }, }, [] => { member(x, [2, 1, 1]) }, }])
+    proto_vulcan!([matcha x { Named { a: [1], b: [2] } => { P3(_, x, x) == x }, _ => { x != [x | q] }, }])
 }
 pub fn case_202(vars: &Vars) -> InferredGoal<DU, DE, Goal<DU, DE>> {
-    let x = vars.v[0].clone();
-    let y = vars.v[1].clone();
-    proto_vulcan!([matcha y { 1 => { true, |y, t| { false, [] == t } }, false => { y == [_, y, 3 | y], |h, y| { false, x == y, append(h, h, []) } }, [[_, t, 'a'], [3, 1, 1], [2, _ | _]] => , }])
+    let q = vars.v[0].clone();
+    let x = vars.v[1].clone();
+    proto_vulcan!([true, matcha x { _ => { [3, x, [x | q]] == P3([q], 3, [2, 1]), [3] == q }, }])
 }
 pub fn case_203(vars: &Vars) -> InferredGoal<DU, DE, Goal<DU, DE>> {
     let x = vars.v[0].clone();
-    let y = vars.v[1].clone();
-    proto_vulcan!([matche x { _ => [[false, |tz| { tz == [2, 2], [3, 2, 2, 2] != [3, 2 | tz] }]], }])
+    proto_vulcan!([|t, y| { append(t, x, []), y == [[t, x, "bc"], 2 | x], y == [_, 1, x | x] }, matche x { _ => { |t| { t != [x, [], t], |tz| { [1, 3 | tz] != [1, 3, 3], tz == [3] }, x == [x | t] } }, [[x, 3, x | h], [[], y, y], ["a", y | [1, h]]] => condu { [(y, [[], 2]) != h, x == h], y == [[x | x], x | [x, []]], [[x | x] == y, [] != [1, x, [h, 'b' | h]]] }, }])
 }
 pub fn case_204(vars: &Vars) -> InferredGoal<DU, DE, Goal<DU, DE>> {
     let q = vars.v[0].clone();
     let x = vars.v[1].clone();
-    proto_vulcan!([|x| { false, false }, matchu x { _ => { |x| { [[], q | x] != x } }, }])
+    proto_vulcan!([conde { false }, match x { Named { a: 3, b: _ } => , }])
 }
 pub fn case_205(vars: &Vars) -> InferredGoal<DU, DE, Goal<DU, DE>> {
     let x = vars.v[0].clone();
-    proto_vulcan!([|x| { member(x, [2, 2]) }, matchu [true | x] { [1, [y, 2 | t], [t | t] | h] | P3(1, y, z) => { append(x, y, [3]) }, }])
+    let y = vars.v[1].clone();
+    proto_vulcan!([matcha x { ['b'] | [2, [y, []] | x] => , 3 => , }])
 }
 pub fn case_206(vars: &Vars) -> InferredGoal<DU, DE, Goal<DU, DE>> {
     let x = vars.v[0].clone();
     let y = vars.v[1].clone();
-    proto_vulcan!([matchu x { _ => { x == 7, x == 8 }, Named { a: [[]], b: [] } | [[1, x], _, [1, "bc", x]] => false, }])
+    proto_vulcan!([x != (y, y), match y { _ => { member(x, [1, 2, 3]) }, [[x | _], [1] | y] => { [y == [x, y, 1 | x], P3(2, _, [_]) != x] }, _ | [[1, [] | x]] => [[y == [2], member(y, [3]), member(y, [3, 3])]], }])
 }
 pub fn case_207(vars: &Vars) -> InferredGoal<DU, DE, Goal<DU, DE>> {
     let x = vars.v[0].clone();
-    let y = vars.v[1].clone();
-    proto_vulcan!([matcha 3 { [_] => { [([], [y, _]) == [[3, 2, 3], [1], [1, _] | x], y == x, x == x] }, [[y | z], [_ | x]] => , ["bc", [[]], 3] | [[]] => [x] == [2], }])
+    proto_vulcan!([onceo { [[2, 'b' | x], [_]] == [1] }, matchu x { _ => { x == 7, x == 8 }, ['b' | _] => [conde { x == P3([], x, x), x == x, [x != [x, x | "bc"], [_, 'a' | x] == [[2, x, x | x], [1 | []], x]] }, x == 2], _ => , }])
 }
 pub fn case_208(vars: &Vars) -> InferredGoal<DU, DE, Goal<DU, DE>> {
-    let x = vars.v[0].clone();
-    proto_vulcan!([matcha x { _ => member(x, [1, 2, 3]), [[_], x] => [matcha x { [y, 2, [false] | x] => { member(y, [2, 3, 2]), true }, [[x, y], t, [2]] => , z | 1 => , }, [x, "bc" | x] != [[1, x | x], _]], }])
-}
-pub fn case_209(vars: &Vars) -> InferredGoal<DU, DE, Goal<DU, DE>> {
     let q = vars.v[0].clone();
     let x = vars.v[1].clone();
-    proto_vulcan!([condu { [x == _, q != x], [2 | x] == x }, match x { [[1, 'a' | x]] | [[2, t]] => { 1 == q }, 2 => x == (q, q), t => [[1] == q, [[[2]] == P3([2, x], _, [3]), [1, t] == q]], }])
+    proto_vulcan!([append(q, q, [1, 1]), matcha x { Named { a: 3, b: [2, y] } => [conde { |tz| { [3, 2, 3] != [3 | tz], tz == [2, 3] }, (_, x) == q, true }, conde { false, [y == [[true, [], x | q] | [2]], false] }], _ => { x == 7, x == 8 }, [_, 1, h] => , }])
+}
+pub fn case_209(vars: &Vars) -> InferredGoal<DU, DE, Goal<DU, DE>> {
+    let x = vars.v[0].clone();
+    let y = vars.v[1].clone();
+    proto_vulcan!([|tz| { [1, 1 | tz] != [1, 1, 1], tz == [1] }, matche y { P3(h, [3], y) | x => , [[_, h], [h, z, x]] => [matchu z { 2 => { z == [x, x] }, }, y == P3(x, h, x)], }])
 }
 pub fn case_210(vars: &Vars) -> InferredGoal<DU, DE, Goal<DU, DE>> {
     let q = vars.v[0].clone();
     let x = vars.v[1].clone();
-    proto_vulcan!([[true, x, 3 | x] != x, match x { Named { a: t, b: [z] } => , }])
+    proto_vulcan!([[q == x, [q, [true, 2, []]] == q, [x] != x], matchu [q] { [_, [1, 1, 1], [[], "bc"]] => { x == (_, q) }, [[1, _], [[], t, _], [y, [], z] | h] => , P3(2, 2, 3) | 1 => , }])
 }
 pub fn case_211(vars: &Vars) -> InferredGoal<DU, DE, Goal<DU, DE>> {
-    let x = vars.v[0].clone();
-    proto_vulcan!([[false, [[], [], []] != x, append(x, x, [])], matcha x { P3(2, z, []) => onceo { z != _ }, Named { a: [], b: 3 } => [[_ | x], [[], 2, x]] == x, }])
+    let q = vars.v[0].clone();
+    let x = vars.v[1].clone();
+    proto_vulcan!([matchu [2 | [q]] { _ => [condu { q == [true, "a", x], [[[_, 2], _, 2 | q] == q, q == [[x, q, 3 | q]]], [append(q, q, [1]), false] }, []], P3([[]], [_, 2], 1) | _ => , Named { a: z, b: t } => |y, h| { x != [1, [] | y], [h, 1] == [[q, y] | z], P3(2, [], [[]]) != t }, }])
 }
 pub fn case_212(vars: &Vars) -> InferredGoal<DU, DE, Goal<DU, DE>> {
     let x = vars.v[0].clone();
-    proto_vulcan!([matchu x { ['a'] => , }])
+    let y = vars.v[1].clone();
+    proto_vulcan!([append(y, y, [1, 1]), matchu x { 'b' | [x] => [y == [y, 2, []], y == 2], Named { a: 3, b: [_] } => [3, 2] == y, [[[], h, z], [2, t, 2], h] => { onceo { [2, y, 1] == z }, conda { [[1 | t] | x] != x, [true, y != [[], false, 2 | x]] } }, }])
 }
 pub fn case_213(vars: &Vars) -> InferredGoal<DU, DE, Goal<DU, DE>> {
     let x = vars.v[0].clone();
-    proto_vulcan!([matcha x { [_ | _] => , P3([], 3, 2) => false, Named { a: _, b: _ } => { x != [3, x, 2] }, }])
+    let y = vars.v[1].clone();
+    proto_vulcan!([matche y { z => { condu { [[y, [3 | z]] == z, [[1, z, 'b'] | x] != P3([z], z, [z])], x == (1, [1, y]), [true, [[]] == z] }, false }, P3(z, _, _) => , [[t, t, z], [t], [z, _ | t]] => { [], conde { [] == P3([], t, []), false, 1 == x } }, }])
 }
 pub fn case_214(vars: &Vars) -> InferredGoal<DU, DE, Goal<DU, DE>> {
-    let q = vars.v[0].clone();
-    let x = vars.v[1].clone();
-    proto_vulcan!([matchu x { [[[], 1], 2] => x == P3([x, x], _, 3), Named { a: x, b: z } => , }])
+    let x = vars.v[0].clone();
+    let y = vars.v[1].clone();
+    proto_vulcan!([matcha x { _ => { y == 3 }, }])
 }
 pub fn case_215(vars: &Vars) -> InferredGoal<DU, DE, Goal<DU, DE>> {
     let x = vars.v[0].clone();
-    proto_vulcan!([x != _, matchu x { Named { a: _, b: 3 } | [[1]] => [member(x, [1]), true], [true, [_, 2, 2]] => { match x { [[t | x], [h, [], x], [false, y]] | [h] => h != (h, []), [[3], [x, false], 1 | [2]] => , }, matchu x { [y, [t, _ | x]] => { member(t, []) }, } }, [z, 1, [_]] => , }])
+    let y = vars.v[1].clone();
+    proto_vulcan!([match y { z => [[[x, _, x]] == z, match [] { x | P3(x, 1, 1) => member(y, [2]), }], [[t, 3 | t], [z | h]] | h => , _ => , }])
 }
 pub fn case_216(vars: &Vars) -> InferredGoal<DU, DE, Goal<DU, DE>> {
-    let q = vars.v[0].clone();
-    let x = vars.v[1].clone();
-    proto_vulcan!([conde { [|tz| { tz == [2], [2, 2] != [2 | tz] }, q == 1], [true, [[2 | x], 2] == q], false }, match [q, 2] { 2 => |y, h| { member(x, [1]), true }, }])
+    let x = vars.v[0].clone();
+    let y = vars.v[1].clone();
+    proto_vulcan!([matcha x { _ => { member(y, [1, 2, 3]) }, [1, y, [t, 1]] | _ => [condu { [x == x, x == [false, [3, x | []], [_, 2]]], [|tz| { tz == [2, 2], [1 | tz] != [1, 2, 2] }, member(x, [])] }, |y| { y == _, y == y }], }])
 }
 pub fn case_217(vars: &Vars) -> InferredGoal<DU, DE, Goal<DU, DE>> {
     let q = vars.v[0].clone();
     let x = vars.v[1].clone();
-    proto_vulcan!([[[x, [], q] == q], matchu q { h => { h != [1, 1 | h], matchu x { _ => { member(h, [1, 2, 3]) }, _ => member(q, [1, 2, 3]), } }, _ | [h] => , }])
+    proto_vulcan!([matcha x { [_ | 2] => { matchu q { [[h, h, 1 | [x, z]]] => , 3 | _ => [x, x, false | q] == x, } }, _ => { member(q, [1, 2, 3]) }, _ => { x == 7, x == 8 }, }])
 }
 pub fn case_218(vars: &Vars) -> InferredGoal<DU, DE, Goal<DU, DE>> {
-    let q = vars.v[0].clone();
-    let x = vars.v[1].clone();
-    proto_vulcan!([matcha 1 { _ | [[2] | true] => [[q == [[], 2, _ | x], append(x, x, []), [2, _, 3] == x]], }])
+    let x = vars.v[0].clone();
+    proto_vulcan!([matcha x { [] => , [[1, t | y], ['b', x | []], [1, [] | h]] => { append(t, x, [1]) }, }])
 }
 pub fn case_219(vars: &Vars) -> InferredGoal<DU, DE, Goal<DU, DE>> {
     let x = vars.v[0].clone();
-    let y = vars.v[1].clone();
-    proto_vulcan!([x == [], matchu y { P3(1, _, 2) => conde { [1 == 2, true], [y != [_], true], [] }, }])
+    proto_vulcan!([matcha x { [[_ | y], [h], []] => append(x, h, [3, 3]), _ => , 2 => x == [3], }])
 }
 pub fn case_220(vars: &Vars) -> InferredGoal<DU, DE, Goal<DU, DE>> {
     let q = vars.v[0].clone();
     let x = vars.v[1].clone();
-    proto_vulcan!([match _ { [_, 2, 2 | _] => { q == [q, _], match x { [[_], [1, 3, [] | _] | y] => { P3(3, x, [[], 3]) != x, q == [y, y | y] }, _ => { member(q, [1, 2, 3]) }, } }, _ => , }])
+    proto_vulcan!([[x != [_], ([q, 3], 1) == q], match x { x => , }])
 }
 pub fn case_221(vars: &Vars) -> InferredGoal<DU, DE, Goal<DU, DE>> {
     let x = vars.v[0].clone();
-    proto_vulcan!([[x] == x, matcha [1, _, []] { [3] => { member(x, []) }, }])
+    proto_vulcan!([matche x { [[y, t, 2 | z], 3 | h] => , Named { a: [], b: t } => conde { [|tz| { tz == [2], [3, 1, 2] != [3, 1 | tz] }, (t, t) == t], false }, }])
 }
 pub fn case_222(vars: &Vars) -> InferredGoal<DU, DE, Goal<DU, DE>> {
     let x = vars.v[0].clone();
-    let y = vars.v[1].clone();
-    proto_vulcan!([[] == ([_, y], []), match x { x => { [[[], x], [1, _, y] | x] != [x, y], [['b' | y], [2, y, x]] == [2] }, t => [|x| {  }, [P3(3, [], _) == x, t == [[2, [], 'b'], [y, 3, 1]], P3(t, x, [_, []]) != y]], P3(x, [x], y) => conde { [[], y] == y, [y == [y, false, x], y == y] }, }])
+    proto_vulcan!([match x { 1 => , [1, 2] => { 2 == P3(2, x, _), conda { [false, [1 | _] == x], [2 == x, _ == P3([x, 3], x, 1)] } }, }])
 }
 pub fn case_223(vars: &Vars) -> InferredGoal<DU, DE, Goal<DU, DE>> {
     let q = vars.v[0].clone();
     let x = vars.v[1].clone();
-    proto_vulcan!([matcha x { t | _ => { [false, [true] == q, [2, [] | q] == q] }, }])
+    proto_vulcan!([x != q, matchu q { [[h], [y], [1] | _] => , [[2, 3, 1 | _], [_, x, h]] => , [[2, t, h], 2, [_, t, z | z] | h] => x == x, }])
 }
 pub fn case_224(vars: &Vars) -> InferredGoal<DU, DE, Goal<DU, DE>> {
-    let q = vars.v[0].clone();
-    let x = vars.v[1].clone();
-    proto_vulcan!([|y| { (x, []) == x }, matche x { _ | Named { a: 2, b: [] } => , }])
+    let x = vars.v[0].clone();
+    proto_vulcan!([matchu x { [2] | Named { a: [3, y], b: _ } => , }])
 }
 pub fn case_225(vars: &Vars) -> InferredGoal<DU, DE, Goal<DU, DE>> {
-    let q = vars.v[0].clone();
-    let x = vars.v[1].clone();
-    proto_vulcan!([matche x { P3(1, 2, h) => [|x| { [[], x | h] != h, false }, q == 1], z => P3([x, _], [], 2) != q, Named { a: _, b: z } => , }])
+    let x = vars.v[0].clone();
+    let y = vars.v[1].clone();
+    proto_vulcan!([|z| { x != z, [_, [[], 2, "bc" | [x, "a"]], z] == P3([3, x], [3], [_, []]), member(y, [2, 2, 3]) }, matchu y { P3(1, 3, h) | _ => { condu { |tz| { tz == [2, 2], [1, 2, 2] != [1 | tz] }, |tz| { [1, 3] != [1 | tz], tz == [3] }, [member(y, []), [2, y, 1 | [_]] == P3(3, [3, 3], [])] } }, _ => [x == 7, x == 8], P3([1], [], y) => matchu y { 1 => { append(x, y, [2]) }, _ => [true, x == 1], [[[] | y], [1, h, 1], [y, _, 2]] => [y, [1, h, 2] | y] == P3(3, 2, [3, []]), }, }])
 }
 pub fn case_226(vars: &Vars) -> InferredGoal<DU, DE, Goal<DU, DE>> {
     let x = vars.v[0].clone();
-    proto_vulcan!([match x { z => , P3([2, h], z, 1) => [condu { [[[2, []]] == [[z, z, h | h], [1, 1]], [[], _] == 3], x != [[x, 2, h], h], [append(h, h, [3]), [x, x] != h] }, |h, z| { [[], z, _] == h, member(h, [3]), z == z }], }])
+    proto_vulcan!([matchu [[] | x] { Named { a: [[]], b: h } => , "a" => { (1, 2) == x }, P3([_], t, x) => [onceo { P3([x], 3, x) != _ }, x == x], }])
 }
 pub fn case_227(vars: &Vars) -> InferredGoal<DU, DE, Goal<DU, DE>> {
     let x = vars.v[0].clone();
-    let y = vars.v[1].clone();
-    proto_vulcan!([x == (1, _), matchu x { _ => { [(x, [[], _]) == x] }, _ => [y == 7, y == 8], }])
+    proto_vulcan!([[[x, x, [] | x] == x, [] != x, x == [x, x, 'a']], match x { _ => { |z| { |tz| { [3, 1] != [3 | tz], tz == [1] } } }, t => , }])
 }
 pub fn case_228(vars: &Vars) -> InferredGoal<DU, DE, Goal<DU, DE>> {
     let x = vars.v[0].clone();
     let y = vars.v[1].clone();
-    proto_vulcan!([[x == (2, 1)], match [] { h => , }])
+    proto_vulcan!([matche [2, 2] { _ | [[1, 1, 3 | t], [2, h, 2], ["a", y, y | 2]] => , 2 => [[1, [], y | [x, 1]], [[]]] == x, Named { a: [x], b: [_, []] } => , }])
 }
 pub fn case_229(vars: &Vars) -> InferredGoal<DU, DE, Goal<DU, DE>> {
     let q = vars.v[0].clone();
     let x = vars.v[1].clone();
-    proto_vulcan!([[2, [_, x, q], q] == x, matche q { _ => { x != (_, q), |z, y| { false } }, [[[], 'a', 2], "bc"] => false, P3(2, _, [[]]) => q == [2, q, 2], }])
+    proto_vulcan!([|y, h| { [q, [1, 1 | x], q | [q, h]] != x, [y] == h }, matche x { [[_]] | [h, x] => , [z] => [[z == P3(2, x, _)], [_, 1 | x] == x], }])
 }
 pub fn case_230(vars: &Vars) -> InferredGoal<DU, DE, Goal<DU, DE>> {
     let x = vars.v[0].clone();
-    proto_vulcan!([x == x, match x { [[]] => { x == [[]], [x != P3(x, [[]], [[], 3])] }, _ => { x == 7, x == 8 }, [[2, 2], [2, x, 1], 2] => { conde { [true, append(x, x, [1, 3])], [x != [x | x], x != P3(x, x, x)], |tz| { [3, 2, 1] != [3 | tz], tz == [2, 1] } } }, }])
+    let y = vars.v[1].clone();
+    proto_vulcan!([matchu [2] { 2 => false, P3(z, [_, _], z) => [1 == y, conde { member(x, [3, 3, 3]), true, x == ['b', 1, []] }], Named { a: _, b: 1 } => [y, [] | []] != x, }])
 }
 pub fn case_231(vars: &Vars) -> InferredGoal<DU, DE, Goal<DU, DE>> {
     let q = vars.v[0].clone();
     let x = vars.v[1].clone();
-    proto_vulcan!([matche x { _ => { member(x, [1, 2, 3]) }, "bc" => { append(q, x, [1]), [[_, [] | [_, x]] != [[_, _, 2 | q] | _], q == q] }, [[3], [2, _, 2]] => , }])
+    proto_vulcan!([([], 3) == q, matche x { P3(t, 1, z) => , }])
 }
 pub fn case_232(vars: &Vars) -> InferredGoal<DU, DE, Goal<DU, DE>> {
-    let x = vars.v[0].clone();
-    proto_vulcan!([matche x { [h] | P3(2, 1, h) => [2 == x, match x { [] => [false, x == P3([2], _, [])], [[z, y], [x | 2]] => { x == 1 }, [[y]] | [] => , }], [x, [2, []]] => , [[z | _] | z] | [[t, t | x], 3 | z] => matchu z { _ | h => { 3 == z, member(z, [3, 2]) }, [[_, h | t] | y] | P3([], [z], [x]) => , _ => { z == 7, z == 8 }, }, }])
+    let q = vars.v[0].clone();
+    let x = vars.v[1].clone();
+    proto_vulcan!([|tz| { [1 | tz] != [1, 1, 3], tz == [1, 3] }, matchu q { [["a"]] | Named { a: z, b: 2 } => [[[[], 'a', x] != q, q != [], x == _]], Named { a: [], b: [[]] } => { [true, q == 1, |tz| { tz == [2, 3], [3, 2, 2, 3] != [3, 2 | tz] }] }, [] => { matcha q { _ => [x != [q], |tz| { tz == [1], [2 | tz] != [2, 1] }], true | h => { q == P3([], 1, 3), append(q, x, [2]) }, x => , }, x == [[q | x]] }, }])
 }
 pub fn case_233(vars: &Vars) -> InferredGoal<DU, DE, Goal<DU, DE>> {
-    let x = vars.v[0].clone();
-    proto_vulcan!([[x] == 2, matche x { P3(2, 1, _) => [matche x { [h] => h == "a", }, conde { [x == [3], append(x, x, [2, 1])], [] }], [[] | y] => { [[_, [], 2], [x], x] == [2, x, 1 | x], |y| { true, y != _, y == [[]] } }, }])
+    let q = vars.v[0].clone();
+    let x = vars.v[1].clone();
+    proto_vulcan!([match x { _ | [x, x] => , 2 => |tz| { [3, 3, 3] != [3, 3 | tz], tz == [3] }, _ => { |x, y| { false } }, }])
 }
 pub fn case_234(vars: &Vars) -> InferredGoal<DU, DE, Goal<DU, DE>> {
     let q = vars.v[0].clone();
     let x = vars.v[1].clone();
-    proto_vulcan!([x != ["bc" | q], match q { P3(3, z, 2) | y => [matche x { [[x, _, 3], [], [x, true | h]] | _ => { [["a", q] | q] == q, P3(q, [q], 1) == q }, [[1, 1, []], [x | _], 'b'] => { x == (x, q), q == 1 }, y => , }, conde { append(x, x, [2, 2]), [] }], Named { a: 1, b: [] } => { matche q { [_] => [x != "bc", |tz| { [3, 1, 2, 1] != [3, 1 | tz], tz == [2, 1] }], }, ([], 2) == q }, }])
+    proto_vulcan!([2 == x, match [x, 1, q] { [[3, _], [t] | _] | 2 => conde { |tz| { tz == [2, 3], [2, 2 | tz] != [2, 2, 2, 3] }, [[], 2 | q] == q, append(x, x, [2, 3]) }, 2 => , [[t, _, z | [x, 1]], [t, t | x]] | 1 => , }])
 }
 pub fn case_235(vars: &Vars) -> InferredGoal<DU, DE, Goal<DU, DE>> {
-    let q = vars.v[0].clone();
-    let x = vars.v[1].clone();
-    proto_vulcan!([P3([[]], _, 3) == q, matchu 3 { 1 => { |tz| { tz == [3, 2], [3, 3 | tz] != [3, 3, 3, 2] }, conde { [false, true] } }, Named { a: 3, b: [y] } => [member(y, [1, 1]), []], }])
+    let x = vars.v[0].clone();
+    proto_vulcan!([x == [3, 2, x], match x { t => [member(x, []), matche t { Named { a: y, b: y } => [[t | x] == y, |tz| { [3, 3 | tz] != [3, 3, 2], tz == [2] }], }], }])
 }
 pub fn case_236(vars: &Vars) -> InferredGoal<DU, DE, Goal<DU, DE>> {
-    let x = vars.v[0].clone();
-    let y = vars.v[1].clone();
-    proto_vulcan!([match y { [y | []] => [onceo { append(y, y, [1]) }, conde { [member(x, [1]), y == [2]], true, ['b' != 1, [y, 2 | y] == y] }], [true] => , }])
+    let q = vars.v[0].clone();
+    let x = vars.v[1].clone();
+    proto_vulcan!([q == (2, [x, 3]), matche x { [_ | _] => , [[], 'b', [1, [], _]] => { x != [x, 1, _ | q], [[1, x, x] == [q, [1, x, q]], ([], _) == q] }, }])
 }
 pub fn case_237(vars: &Vars) -> InferredGoal<DU, DE, Goal<DU, DE>> {
     let q = vars.v[0].clone();
     let x = vars.v[1].clone();
-    proto_vulcan!([conda { member(q, []) }, matche [1] { _ => { x == 7, x == 8 }, }])
+    proto_vulcan!([matcha x { y => conda { [[1, _, 2] == [[2, x, 2], q, [1, x, [] | x]], member(q, [1])], [member(y, []), y == 2], [true, |tz| { [3 | tz] != [3, 1, 2], tz == [1, 2] }] }, [[false, _ | _]] => , z => [[], matcha q { [[[]] | [[]]] => { |tz| { [3 | tz] != [3, 2, 1], tz == [2, 1] }, z == ([3, x], 2) }, }], }])
 }
 pub fn case_238(vars: &Vars) -> InferredGoal<DU, DE, Goal<DU, DE>> {
     let q = vars.v[0].clone();
     let x = vars.v[1].clone();
-    proto_vulcan!([matche q { [3, ["bc", 2 | [1]]] | t => , _ => { |y| { append(q, q, [1]), true } }, }])
+    proto_vulcan!([member(q, []), matche q { [[_], [x, 2 | z] | [[], []]] | t => , [[x, x, 1], 2] => , [["bc" | _], z] | [[2, t], [[]]] => [|h| { x == [1], h == q }, matche x { t => [1 == t, x == P3(2, _, _)], P3([2, 3], [h], h) => , }], }])
 }
 pub fn case_239(vars: &Vars) -> InferredGoal<DU, DE, Goal<DU, DE>> {
     let q = vars.v[0].clone();
     let x = vars.v[1].clone();
-    proto_vulcan!([match q { y | [2, [x, 2, z]] => { q == q }, [[1, h, z] | _] | [[] | t] => { |tz| { tz == [1], [2, 2 | tz] != [2, 2, 1] }, x != x }, [["a", 1], [z], 1] => [1 == x, onceo { q == 2 }], }])
+    proto_vulcan!([conda { [1] == q, append(x, q, []), [q == [x, 3 | q], false] }, matcha [true, x | x] { [1] => , [[2 | _], [1]] | Named { a: _, b: [2] } => { |y| { append(x, y, [2]) }, [[], _] == q }, _ => { member(x, [1, 2, 3]) }, }])
 }
 pub fn case_240(vars: &Vars) -> InferredGoal<DU, DE, Goal<DU, DE>> {
     let x = vars.v[0].clone();
-    proto_vulcan!([matche x { h => { [x, h, _] == h }, _ => { x == 7, x == 8 }, }])
+    proto_vulcan!([matche x { P3(y, [[], 1], [_]) => , }])
 }
 pub fn case_241(vars: &Vars) -> InferredGoal<DU, DE, Goal<DU, DE>> {
     let x = vars.v[0].clone();
-    proto_vulcan!([x == P3([[], x], _, 1), match 3 { ["a"] => { x == x, match x { Named { a: [], b: y } | [[x], [y], _] => [y == y, append(y, y, [3])], } }, 1 => [conda { [member(x, [3, 1]), x == [x, x, _]], 2 == x }, conde { |tz| { [3 | tz] != [3, 1], tz == [1] }, [x == ['a', 'b', _], |tz| { tz == [1], [2, 3, 1] != [2, 3 | tz] }], [3, x, 'b'] != x }], [[[] | [true]], [y, x, 2] | t] => { |h| { false, false, [[y, _, 1], h, [x | x]] == x } }, }])
+    let y = vars.v[1].clone();
+    proto_vulcan!([|y, x| { append(y, y, [3]), member(x, [1, 1]) }, matche x { _ => { matcha y { [[3, 2], z, _ | h] => { ["bc", [[], x]] == [], true }, [[3, 2, true], [h, x, x | 1], [y, [] | y]] | P3(h, _, t) => { h != [h, _, 1], [['a', 2, _], 1] == h }, }, [member(y, [1, 3, 3]), [x] != y] }, _ => { conda { [y == (2, 3), ['b', [[] | x]] == 2], y != [], [x, 2, y] == y } }, [[y, "a"], t] => , }])
 }
 pub fn case_242(vars: &Vars) -> InferredGoal<DU, DE, Goal<DU, DE>> {
-    let q = vars.v[0].clone();
-    let x = vars.v[1].clone();
-    proto_vulcan!([match x { [[h, x, []]] => [onceo { [] == x }, q == [["bc", h, 'a'] | x]], }])
+    let x = vars.v[0].clone();
+    proto_vulcan!([true, matche "a" { P3([[], _], t, z) | _ => , P3([1, _], 3, 3) => matche x { [[_, 2, []], [z, 3]] => [x == [[], x | x], [[2, 2, _], [z | z] | z] == x], [z, y | x] | P3([x], t, 3) => [x == x, x == x], }, }])
 }
 pub fn case_243(vars: &Vars) -> InferredGoal<DU, DE, Goal<DU, DE>> {
     let x = vars.v[0].clone();
     let y = vars.v[1].clone();
-    proto_vulcan!([conda { [[[1, y, 3]] != P3([[]], 2, [2]), true] }, matchu y { [x] | _ => , _ => { conde { [[]] != y, [] } }, }])
+    proto_vulcan!([matchu [] { [[h, [], []], [z | x]] | _ => , _ | [[2, t, h]] => { y == [[x, 2 | []], [x, _, _]] }, }])
 }
 pub fn case_244(vars: &Vars) -> InferredGoal<DU, DE, Goal<DU, DE>> {
     let q = vars.v[0].clone();
     let x = vars.v[1].clone();
-    proto_vulcan!([q == ([], [_, []]), matcha "a" { [[x, x, 2 | z], [3, t, t], [2]] => [condu { z == [[1, 1 | x]], [q == [_, x], x == [2, false]], [[], z, q] == z }, (1, _) == t], [false] => [|h, z| { z == [[2], "a"], (x, 3) == q }, |tz| { [2, 2, 2] != [2, 2 | tz], tz == [2] }], }])
+    proto_vulcan!([|t| { t != [x], (_, 2) != x, P3([], 3, [x, _]) == q }, match x { Named { a: [1, []], b: [t] } => , _ => , P3([_], [], _) => { false, |z| { [x, _ | q] == x, member(x, []), z != [[z], x, [2]] } }, }])
 }
 pub fn case_245(vars: &Vars) -> InferredGoal<DU, DE, Goal<DU, DE>> {
     let x = vars.v[0].clone();
-    proto_vulcan!([matcha x { [[], [_, z, y | 1] | _] => , }])
+    let y = vars.v[1].clone();
+    proto_vulcan!([onceo { [1 | x] == x }, matchu _ { [[1, 1], t | h] => { onceo { |tz| { tz == [3, 3], [2, 2, 3, 3] != [2, 2 | tz] } }, |h, x| { member(h, [3]), append(t, h, []) } }, _ => y == x, }])
 }
 pub fn case_246(vars: &Vars) -> InferredGoal<DU, DE, Goal<DU, DE>> {
-    let q = vars.v[0].clone();
-    let x = vars.v[1].clone();
-    proto_vulcan!([matcha q { P3([_], _, 2) => , }])
-}
-pub fn case_247(vars: &Vars) -> InferredGoal<DU, DE, Goal<DU, DE>> {
     let x = vars.v[0].clone();
     let y = vars.v[1].clone();
-    proto_vulcan!([matche x { 3 => , _ | t => |h, z| { y == (3, 1), y == y, (3, z) != [[h, z], ['a', []] | 2] }, [3, [x, 2], [2]] | [[[], y, _], ["bc"], [2, y]] => , }])
+    proto_vulcan!([matchu y { 3 => { y == [y, [], _], append(y, y, [1, 2]) }, P3(t, [1, 2], 1) => , }])
+}
+pub fn case_247(vars: &Vars) -> InferredGoal<DU, DE, Goal<DU, DE>> {
+    let q = vars.v[0].clone();
+    let x = vars.v[1].clone();
+    proto_vulcan!([2 != q, matche x { [[1, 1], [x | _]] => , [[3], [t, z], x] => [x == (3, 3), append(z, q, [1])], P3(1, h, 3) | [[z], [2, h], 1] => , }])
 }
 pub fn case_248(vars: &Vars) -> InferredGoal<DU, DE, Goal<DU, DE>> {
     let x = vars.v[0].clone();
-    let y = vars.v[1].clone();
-    proto_vulcan!([matcha x { [z, [1, 1, z], t] => [[_ == x]], }])
+    proto_vulcan!([x == x, matche [] { t => { |x, h| {  }, [2, t] == t }, }])
 }
 pub fn case_249(vars: &Vars) -> InferredGoal<DU, DE, Goal<DU, DE>> {
     let x = vars.v[0].clone();
     let y = vars.v[1].clone();
-    proto_vulcan!([[1, x, [] | []] == x, matcha x { _ => { member(x, [1, 2, 3]) }, }])
+    proto_vulcan!([matche x { [[2, 2, 3]] => { |y| { |tz| { tz == [2, 1], [1, 2, 1] != [1 | tz] }, [x, y] == y }, x == (2, _) }, }])
 }
 pub fn case_250(vars: &Vars) -> InferredGoal<DU, DE, Goal<DU, DE>> {
     let x = vars.v[0].clone();
     let y = vars.v[1].clone();
-    proto_vulcan!([matcha y { Named { a: [], b: [_, []] } => { true, [[x], [_, y | x]] == x }, _ | [y, [x, false | h], [z]] => , }])
+    proto_vulcan!([y == y, matcha x { [[]] => { [append(y, x, [])] }, }])
 }
 pub fn case_251(vars: &Vars) -> InferredGoal<DU, DE, Goal<DU, DE>> {
-    let q = vars.v[0].clone();
-    let x = vars.v[1].clone();
-    proto_vulcan!([matcha [] { _ | [[x, _, z | [true, z]], [1, 1]] => , [t, t, [[]] | h] => { [] == (1, h) }, }])
+    let x = vars.v[0].clone();
+    let y = vars.v[1].clone();
+    proto_vulcan!([matche x { [[3], [false, z, 2]] | y => , [_, [2] | h] => { matcha h { _ | 'b' => { h == [y, [] | [2, 1]], [3] == y }, [[1], x, 3] => , t | Named { a: h, b: 3 } => , } }, }])
 }
 pub fn case_252(vars: &Vars) -> InferredGoal<DU, DE, Goal<DU, DE>> {
-    let x = vars.v[0].clone();
-    proto_vulcan!([x == x, matchu x { _ | _ => { 3 == x, true }, x | [h, 2, [y, x, 2]] => matchu x { _ => [x == 7, x == 8], Named { a: 3, b: [2, z] } => , }, x => , }])
+    let q = vars.v[0].clone();
+    let x = vars.v[1].clone();
+    proto_vulcan!([matcha [2] { Named { a: 1, b: [[], []] } => [x != x, x == ([3], 3)], }])
 }
 pub fn case_253(vars: &Vars) -> InferredGoal<DU, DE, Goal<DU, DE>> {
     let q = vars.v[0].clone();
     let x = vars.v[1].clone();
-    proto_vulcan!([matcha q { x => { matchu [[]] { [2] => , [[_], [z, [], t | 'a'], 'b'] => { true, 1 == P3([1], t, x) }, }, [q == [x, []]] }, [t] | Named { a: [3], b: x } => { [] }, [[x], [x | z]] | [[2, x, y], [[], _]] => { conde { x == x } }, }])
+    proto_vulcan!([matchu q { [[1, t]] => { |h| { [h, true | [3]] == x, h != (x, [2]), member(t, [1, 3]) }, conda { [_ == q, [1 | q] == x] } }, ['b'] => [[append(q, q, [1, 3]), append(x, q, [3, 2]), P3(1, x, [3, []]) != x], []], }])
 }
 pub fn case_254(vars: &Vars) -> InferredGoal<DU, DE, Goal<DU, DE>> {
     let x = vars.v[0].clone();
     let y = vars.v[1].clone();
-    proto_vulcan!([[x, y, [] | y] == x, matchu y { _ | Named { a: [3, x], b: [1, t] } => [|x| { member(y, [2]) }, |h| { y == h, [h, y] == [["bc", [], 1 | h] | h], (_, y) == h }], }])
+    proto_vulcan!([["bc" == x, y == (2, _), [y] == y], matche y { [[x], 2, y] => { |z| { true, y == 1, x == [x] }, conde { [[[[] | [[]]]] == P3([x], _, 1), true], y == ([[]], [[], y]), [member(x, [2, 3]), y == [_, x, x]] } }, 3 | _ => { match y { [y | h] | [[]] => 2 == x, }, conda { true, [x, [], _] == x, [2 != x, y == "a"] } }, }])
 }
 pub fn case_255(vars: &Vars) -> InferredGoal<DU, DE, Goal<DU, DE>> {
-    let x = vars.v[0].clone();
-    let y = vars.v[1].clone();
-    proto_vulcan!([x == [3, y, []], matcha x { [] => { false, [[y, "bc", []] != x, [x, [], []] == x] }, [z, [t, "a", 1 | z], [z]] => , }])
-}
-pub fn case_256(vars: &Vars) -> InferredGoal<DU, DE, Goal<DU, DE>> {
     let q = vars.v[0].clone();
     let x = vars.v[1].clone();
-    proto_vulcan!([x == [3 | x], matche x { ['a', [1, h], [x, _]] => { [_, x, x | h] == P3(_, [_], 2), onceo { [x | h] == [3, [h, h, x]] } }, [] => , h => , }])
+    proto_vulcan!([[q == [1, [x, q], [q] | x], false], matche q { [x] => P3(2, [_, 2], [3, x]) == x, _ => member(x, [1, 2, 3]), P3(_, [t, []], 1) => , }])
+}
+pub fn case_256(vars: &Vars) -> InferredGoal<DU, DE, Goal<DU, DE>> {
+    let x = vars.v[0].clone();
+    proto_vulcan!([matcha x { Named { a: [_], b: x } => , }])
 }
 pub fn case_257(vars: &Vars) -> InferredGoal<DU, DE, Goal<DU, DE>> {
-    let x = vars.v[0].clone();
-    let y = vars.v[1].clone();
-    proto_vulcan!([matcha x { _ => , P3(h, 2, y) => [h == P3(x, y, 1), false], _ => condu { append(x, x, [1]) }, }])
+    let q = vars.v[0].clone();
+    let x = vars.v[1].clone();
+    proto_vulcan!([matche x { _ => { q == 7, q == 8 }, 1 => { [x, x, q] == q }, _ | P3(h, 3, []) => { q == [x, q, 1], [[_, x, 'b'] | _] == P3(_, [], []) }, }])
 }
 pub fn case_258(vars: &Vars) -> InferredGoal<DU, DE, Goal<DU, DE>> {
     let x = vars.v[0].clone();
-    proto_vulcan!([matcha x { Named { a: _, b: x } | _ => , t | 'b' => [|t| { 1 == [false, t], t == t, append(x, x, [3, 1]) }, append(x, x, [1])], [[3 | x], [_]] => |z, x| { false }, }])
+    let y = vars.v[1].clone();
+    proto_vulcan!([matchu y { [z] | Named { a: 3, b: [_, x] } => ([y], []) == y, }])
 }
 pub fn case_259(vars: &Vars) -> InferredGoal<DU, DE, Goal<DU, DE>> {
-    let q = vars.v[0].clone();
-    let x = vars.v[1].clone();
-    proto_vulcan!([matche q { [[1, h] | t] => { |h| { true, q == [x | q], P3(t, 3, [_]) != t }, true }, _ => conde { [], [q == x, [[x, []]] == q] }, [[2], ['b']] | _ => [matcha x { z => , [[x, 1, x] | t] => { 3 == t, t == x }, _ => { member(x, [1, 2, 3]) }, }, |z| {  }], }])
+    let x = vars.v[0].clone();
+    proto_vulcan!([matcha x { [[2, z, []], [h | t], []] | 2 => , }])
 }
 pub fn case_260(vars: &Vars) -> InferredGoal<DU, DE, Goal<DU, DE>> {
     let x = vars.v[0].clone();
-    proto_vulcan!([|tz| { tz == [1], [2, 1, 1] != [2, 1 | tz] }, match x { 1 => , }])
+    proto_vulcan!([[x == P3([1], _, 2), [[x, 'a' | x], [2, 2 | x] | x] == x, false], matchu x { _ => { member(x, [1, 2, 3]) }, }])
 }
 pub fn case_261(vars: &Vars) -> InferredGoal<DU, DE, Goal<DU, DE>> {
     let x = vars.v[0].clone();
-    proto_vulcan!([condu { [|tz| { tz == [2, 1], [2, 3 | tz] != [2, 3, 2, 1] }, x != [x, true | [x]]], [x == [[x, 1], [x, x]], x != 3], [append(x, x, [3, 3]), [[], _, x] != x] }, matche [_ | x] { 1 | [[[], t]] => , P3(3, y, z) | [[_, h]] => , }])
+    let y = vars.v[1].clone();
+    proto_vulcan!([matchu y { [["bc"], 3, h | _] => { [x] == y }, [h, [_, t, t]] => { onceo { t == P3([t, 3], h, []) }, match t { [[_]] => P3(x, 2, []) == x, P3([1, []], 3, _) => , z => , } }, ['b', ["a", 'b' | _]] | [[x, 3, t], [[], z], 2 | z] => conde { [y == [y], member(y, [2, 3, 3])], [[y, y, []] == 2, y != [y]] }, }])
 }
 pub fn case_262(vars: &Vars) -> InferredGoal<DU, DE, Goal<DU, DE>> {
     let x = vars.v[0].clone();
-    let y = vars.v[1].clone();
-    proto_vulcan!([[true, 3, y] == y, matchu x { [["a", t, 2], [_], [z, "a", 1]] => , _ => { conde { [[3, 2, _ | y] == x, true], [y == x, y == [[y, y], _, [x]]] }, [y, y, 2] == y }, }])
+    proto_vulcan!([matcha x { y => { matcha x { _ | [[1, t], "bc"] => { |tz| { [1, 1 | tz] != [1, 1, 3, 3], tz == [3, 3] } }, _ => { x == 7, x == 8 }, [_, _] | Named { a: [], b: 3 } => , } }, }])
 }
 pub fn case_263(vars: &Vars) -> InferredGoal<DU, DE, Goal<DU, DE>> {
-    let x = vars.v[0].clone();
-    let y = vars.v[1].clone();
-    proto_vulcan!([3 == y, matche [x, x] { _ => [x == 7, x == 8], }])
+    let q = vars.v[0].clone();
+    let x = vars.v[1].clone();
+    proto_vulcan!([matchu x { P3([], _, t) => [[|tz| { [3 | tz] != [3, 2], tz == [2] }], x == q], y => { conde { [y == 1, P3([[]], [_, _], [[], 3]) != q], [_ == q, x == [[]]], "a" == q } }, }])
 }
 pub fn case_264(vars: &Vars) -> InferredGoal<DU, DE, Goal<DU, DE>> {
-    let q = vars.v[0].clone();
-    let x = vars.v[1].clone();
-    proto_vulcan!([q == [[false, 3], q], matchu x { P3(z, 3, 3) => , y => { [true, 2 | x] == q, [[] | x] == x }, 2 | [[3, 2 | z], y | x] => { [append(q, q, [2, 2]), member(q, [1, 1])] }, }])
+    let x = vars.v[0].clone();
+    let y = vars.v[1].clone();
+    proto_vulcan!([matche y { [z, [2, y], [z, z]] => [onceo { true }, [([1], _) == z, member(z, []), [[1], 2] == z]], _ => [y == 7, y == 8], [[1 | _], [h, h | x], _ | z] => , }])
 }
 pub fn case_265(vars: &Vars) -> InferredGoal<DU, DE, Goal<DU, DE>> {
-    let q = vars.v[0].clone();
-    let x = vars.v[1].clone();
-    proto_vulcan!([[[1, x, 2 | [true]], x, [] | q] != (2, x), matchu [x] { _ => { |h, z| { true, member(z, []), |tz| { tz == [1], [2, 1, 1] != [2, 1 | tz] } } }, Named { a: 2, b: 3 } => { x == (x, 1) }, P3(_, [], [h]) | [y, [t], [h, t]] => , }])
+    let x = vars.v[0].clone();
+    proto_vulcan!([matche x { x => [conde { [[x, 2, [2, 2, x] | x] == [x, [], x], x == []], [], [|tz| { tz == [1], [2 | tz] != [2, 1] }, false] }, [] == x], }])
 }
 pub fn case_266(vars: &Vars) -> InferredGoal<DU, DE, Goal<DU, DE>> {
-    let q = vars.v[0].clone();
-    let x = vars.v[1].clone();
-    proto_vulcan!([[append(x, q, [1, 3]), append(x, q, [])], match q { [z, [3, 2]] => , }])
+    let x = vars.v[0].clone();
+    proto_vulcan!([condu { [[x | 3] == x, [] == P3(_, x, [3])], ([], x) == [1], [member(x, []), append(x, x, [])] }, match [x] { [[2], [h], [3, _]] => , }])
 }
 pub fn case_267(vars: &Vars) -> InferredGoal<DU, DE, Goal<DU, DE>> {
     let x = vars.v[0].clone();
-    proto_vulcan!([match [[], x, 3 | x] { _ => { member(x, [1, 2, 3]) }, _ | [] => , }])
+    let y = vars.v[1].clone();
+    proto_vulcan!([[x, ['a', 2 | y] | y] != y, match y { [x, [[], 1, 3], [1, t | z]] => , }])
 }
 pub fn case_268(vars: &Vars) -> InferredGoal<DU, DE, Goal<DU, DE>> {
-    let q = vars.v[0].clone();
-    let x = vars.v[1].clone();
-    proto_vulcan!([match x { [[h, x | h], [x]] => , _ => { member(q, [1, 2, 3]) }, }])
+    let x = vars.v[0].clone();
+    proto_vulcan!([matcha x { _ | Named { a: [], b: [] } => { [x] == P3(3, [x, _], [_]), onceo { x == P3(_, x, x) } }, Named { a: [1], b: [3, 1] } => { conde { [], member(x, [2, 2]) } }, _ => [x == 7, x == 8], }])
 }
 pub fn case_269(vars: &Vars) -> InferredGoal<DU, DE, Goal<DU, DE>> {
     let x = vars.v[0].clone();
     let y = vars.v[1].clone();
-    proto_vulcan!([match [y, x, _ | x] { [[2], [false, z, t | t] | _] => , }])
+    proto_vulcan!([[_, _, x] != x, matche [] { Named { a: _, b: [t] } | [_, [false, _], x] => { [y == [_, 2], ['a'] == y], false }, [[_, 2 | z]] => |z, h| {  }, }])
 }
 pub fn case_270(vars: &Vars) -> InferredGoal<DU, DE, Goal<DU, DE>> {
-    let q = vars.v[0].clone();
-    let x = vars.v[1].clone();
-    proto_vulcan!([matche q { ["bc", ['b', 2], [2, t]] => { conde { [member(t, [2]), append(t, x, [])] }, [member(q, [2, 2, 1]), false] }, P3(_, [1, _], []) => [[[1, x | []] == q, [] != [[3, 1 | 3]]]], [_, t] | ['a', [1, []] | [x]] => , }])
+    let x = vars.v[0].clone();
+    proto_vulcan!([matchu x { h | _ => [['a', 3, []] == x, [x == x, [x] == x]], P3(x, y, x) => [true, y == [x, y, x]], z => [condu { z == [x, z, z], x == [], [x == z, true] }, matcha 1 { _ => { P3(_, [], _) == x }, }], }])
 }
 pub fn case_271(vars: &Vars) -> InferredGoal<DU, DE, Goal<DU, DE>> {
     let x = vars.v[0].clone();
-    proto_vulcan!([P3(x, [3], [x]) == x, matche x { _ => [x == 7, x == 8], }])
+    proto_vulcan!([matchu x { _ => [[x, 1, 1] == x, |h| {  }], }])
 }
 pub fn case_272(vars: &Vars) -> InferredGoal<DU, DE, Goal<DU, DE>> {
     let x = vars.v[0].clone();
-    let y = vars.v[1].clone();
-    proto_vulcan!([|y, h| { 3 == x, true }, match x { [z] => { z != [2, "a"], |z, t| { 2 == y } }, _ => member(y, [1, 2, 3]), }])
+    proto_vulcan!([|x, h| { true }, matchu x { _ => , _ => [x == 7, x == 8], }])
 }
 pub fn case_273(vars: &Vars) -> InferredGoal<DU, DE, Goal<DU, DE>> {
-    let q = vars.v[0].clone();
-    let x = vars.v[1].clone();
-    proto_vulcan!([matcha x { P3(2, _, _) => , }])
+    let x = vars.v[0].clone();
+    let y = vars.v[1].clone();
+    proto_vulcan!([match x { [[h, [], "bc"], [_], z] => onceo { 1 != z }, }])
 }
 pub fn case_274(vars: &Vars) -> InferredGoal<DU, DE, Goal<DU, DE>> {
-    let x = vars.v[0].clone();
-    proto_vulcan!([match x { [[1, t | x], 1, [y, 3, 1 | x]] => , [[[]], [h, 2, 2] | y] | [2, [2, []]] => { (x, 2) != x, x != [2, 1, _] }, [] => { P3(x, _, [x, _]) != x, append(x, x, []) }, }])
+    let q = vars.v[0].clone();
+    let x = vars.v[1].clone();
+    proto_vulcan!([[[], 3, 1] != x, matchu q { _ => { member(q, [1, 2, 3]) }, }])
 }
 pub fn case_275(vars: &Vars) -> InferredGoal<DU, DE, Goal<DU, DE>> {
     let x = vars.v[0].clone();
-    let y = vars.v[1].clone();
-    proto_vulcan!([P3(_, x, []) != _, matchu x { [[3, 2, h | x], [[], _]] => , }])
+    proto_vulcan!([matche [1] { [3, 1, [h, 1]] => { [[2, _, 2] | h] != _ }, [["bc" | x], [y, y, 1 | 3], [1, 2, z | 1]] => { conde { [], x == [x, "bc"] }, y == z }, _ | P3(y, 3, _) => true, }])
 }
 pub fn case_276(vars: &Vars) -> InferredGoal<DU, DE, Goal<DU, DE>> {
-    let q = vars.v[0].clone();
-    let x = vars.v[1].clone();
-    proto_vulcan!([[member(x, [3]), false, q == x], matche q { _ | z => { [q != (x, [q]), (3, q) == x, append(x, x, [3, 2])], |h, z| {  } }, P3([[], t], _, 3) => |h, t| { x == P3([], h, []) }, }])
+    let x = vars.v[0].clone();
+    proto_vulcan!([|t| { [[3, [], 1], [2, x, x] | t] == t }, matcha x { [y] | _ => { |z, h| { z == [2, false, x], append(h, x, [1, 2]), append(x, h, [1]) } }, [t, [2, y | t]] => { ([_], 3) == [[t, 2, []], [t], y] }, }])
 }
 pub fn case_277(vars: &Vars) -> InferredGoal<DU, DE, Goal<DU, DE>> {
     let x = vars.v[0].clone();
-    proto_vulcan!([x != x, match x { t => { condu { x == [t, 2, t | t], true, [t] != x }, [x, 2, t | t] == t }, t => { [t == 1] }, }])
+    proto_vulcan!([conde { [], [_, x, x | x] == x }, matcha x { 'b' | P3([z, _], y, [t, 3]) => { 1 != (_, []) }, [z] => conde { [[z, 3, 2 | [_, _]] == x, [[x], 'a'] == [[]]], [true, true], [[true, x] == [], [z, [z, z], [z, 'a'] | x] != x] }, Named { a: 3, b: x } => { |tz| { tz == [1], [2 | tz] != [2, 1] } }, }])
 }
 pub fn case_278(vars: &Vars) -> InferredGoal<DU, DE, Goal<DU, DE>> {
     let x = vars.v[0].clone();
-    proto_vulcan!([member(x, [2]), matche [2, x, x] { Named { a: [1, []], b: [_, _] } => { x == P3([], _, x), x == P3([x], [], [x, _]) }, P3([], z, [h]) => [[h == [2, z], [] == x]], [[z, 1, []], [h, "a"], [h, 1]] => { |y, z| { true } }, }])
+    proto_vulcan!([matchu x { ['b', [2, x], [1, z, _]] => [|z| { member(x, [2, 3, 2]), P3([z], x, z) == x }, append(x, x, [2])], 1 => |x, h| { true }, }])
 }
 pub fn case_279(vars: &Vars) -> InferredGoal<DU, DE, Goal<DU, DE>> {
     let q = vars.v[0].clone();
     let x = vars.v[1].clone();
-    proto_vulcan!([|tz| { tz == [2], [1, 2] != [1 | tz] }, matche q { _ | x => { false == q, conda { false, [false, [[q, _], _] == q], [[q, q] | q] != q } }, }])
+    proto_vulcan!([matcha q { _ => , 2 => , }])
 }
 pub fn case_280(vars: &Vars) -> InferredGoal<DU, DE, Goal<DU, DE>> {
-    let q = vars.v[0].clone();
-    let x = vars.v[1].clone();
-    proto_vulcan!([matchu q { y => append(q, x, [1]), _ => { q == 7, q == 8 }, }])
+    let x = vars.v[0].clone();
+    let y = vars.v[1].clone();
+    proto_vulcan!([match [y | x] { [_, [] | y] | [y] => , }])
 }
 pub fn case_281(vars: &Vars) -> InferredGoal<DU, DE, Goal<DU, DE>> {
     let x = vars.v[0].clone();
-    let y = vars.v[1].clone();
-    proto_vulcan!([matche y { [[t], h | _] => { onceo { x == [] }, matche y { z => , [[true, _], [_, y, []], 'a' | _] => { [y | t] != x, h == [false, y, _] }, 2 => { t == P3([[]], [_], []), [[t | h], [_ | y]] == x }, } }, }])
+    proto_vulcan!([x == ([], 3), match x { h => , }])
 }
 pub fn case_282(vars: &Vars) -> InferredGoal<DU, DE, Goal<DU, DE>> {
     let x = vars.v[0].clone();
-    let y = vars.v[1].clone();
-    proto_vulcan!([match y { P3([_, _], [], z) => z == y, P3(1, t, [1]) => { conde { [|tz| { [1, 2 | tz] != [1, 2, 2, 3], tz == [2, 3] }, [] == x], [1, x] == P3([x], _, t), [[[], t, [] | t] | x] == [x, y, t] }, conde { |tz| { tz == [3, 1], [3, 3, 1] != [3 | tz] }, append(x, x, [2]), [['b', 1] == t, append(y, t, [1])] } }, _ => member(y, [1, 2, 3]), }])
+    proto_vulcan!([onceo { [true, x] == x }, matchu x { [[y, _, 3], [t | _], [t, 1 | _]] => [matche [t, x] { _ => { x == 7, x == 8 }, [_] => t == "a", }, conde { false, [[t, 3 | []] == t, y == [[x, x | t], [x, t], [x, [], []] | x]], [] }], [3, [3, t, t]] => , [_] => [[[2], 1, x] != x, ["a", [3, 2]] == [_ | x]], }])
 }
 pub fn case_283(vars: &Vars) -> InferredGoal<DU, DE, Goal<DU, DE>> {
     let x = vars.v[0].clone();
-    proto_vulcan!([matchu 1 { ['a', [_], _] => , }])
+    proto_vulcan!([_ == x, matche x { _ => { x == 7, x == 8 }, }])
 }
 pub fn case_284(vars: &Vars) -> InferredGoal<DU, DE, Goal<DU, DE>> {
     let x = vars.v[0].clone();
-    proto_vulcan!([|h, z| { h == x }, matche x { [2] => { matcha x { [[]] => false, }, [|tz| { tz == [1, 3], [3 | tz] != [3, 1, 3] }, (x, x) == x] }, [2, []] => , [[t, y], [3, h | t], [2, 2, []]] => { append(y, t, [2, 2]), [h, _, y] == [x, 2, _] }, }])
+    proto_vulcan!([matchu [x] { [[1, false], [1 | []], _] => , }])
 }
 pub fn case_285(vars: &Vars) -> InferredGoal<DU, DE, Goal<DU, DE>> {
     let x = vars.v[0].clone();
-    proto_vulcan!([matcha x { y => , [[], [z, h]] | x => , h => { 2 == h }, }])
+    let y = vars.v[1].clone();
+    proto_vulcan!([matcha x { [[2, 3], [t, false]] => [t == [y], matche x { _ => [[[y, 'a']] == t, member(y, [1, 1])], }], Named { a: y, b: h } => [conde { [y == [_, 1, x], y == h], [member(y, [1, 1, 2]), y != [1, 1, h]] }, |t| { |tz| { [2, 1 | tz] != [2, 1, 2, 3], tz == [2, 3] } }], }])
 }
 pub fn case_286(vars: &Vars) -> InferredGoal<DU, DE, Goal<DU, DE>> {
-    let q = vars.v[0].clone();
-    let x = vars.v[1].clone();
-    proto_vulcan!([x == [q, x], matchu q { P3(1, h, [[], h]) => { matcha q { _ => { h == 7, h == 8 }, _ | [[false, t]] => [[h, q | []], [h, _] | q] == [x, _], } }, }])
+    let x = vars.v[0].clone();
+    proto_vulcan!([[2 | 2] == x, match x { 2 => [conde { x == [], [] }, matchu x { Named { a: y, b: 2 } => , Named { a: [x, z], b: [] } => { [x] == x, P3([3], x, z) == x }, }], [[y], y, [h | z]] | Named { a: [1], b: [] } => x == x, 'b' => , }])
 }
 pub fn case_287(vars: &Vars) -> InferredGoal<DU, DE, Goal<DU, DE>> {
     let q = vars.v[0].clone();
     let x = vars.v[1].clone();
-    proto_vulcan!([matche x { [[[]]] => { [x, 2, x] == q }, x => , }])
+    proto_vulcan!([[2] != q, match q { Named { a: 2, b: 2 } => , }])
 }
 pub fn case_288(vars: &Vars) -> InferredGoal<DU, DE, Goal<DU, DE>> {
     let x = vars.v[0].clone();
-    proto_vulcan!([match x { [[t, 2 | _], [[]], [3]] => , }])
+    proto_vulcan!([matcha 2 { P3(y, [t, []], 1) | [[2, 1 | h], [h, []]] => , 2 => , }])
 }
 pub fn case_289(vars: &Vars) -> InferredGoal<DU, DE, Goal<DU, DE>> {
-    let x = vars.v[0].clone();
-    proto_vulcan!([matchu [x] { [[], 'a', "a"] => { [x == ([[], x], x), false], conde { x != [x, 2 | x], [2, [x, 1 | x] | []] == x, [1 != 2, x == 1] } }, _ => { [true, 1, x] != x }, }])
+    let q = vars.v[0].clone();
+    let x = vars.v[1].clone();
+    proto_vulcan!([false == [1, _], match x { _ | [[h]] => , [[1] | z] => [matcha x { 2 => { x == ([1], _) }, h => [h == ([[], _], h), true], [z, x, []] => [[1, 3] | x] == 3, }, [[[]]] != [[q, 1], x, [q, 2, []]]], }])
 }
 pub fn case_290(vars: &Vars) -> InferredGoal<DU, DE, Goal<DU, DE>> {
-    let x = vars.v[0].clone();
-    proto_vulcan!([matchu x { _ => { x == 7, x == 8 }, _ => member(x, [1, 2, 3]), }])
+    let q = vars.v[0].clone();
+    let x = vars.v[1].clone();
+    proto_vulcan!([P3(q, 1, _) == x, match q { x => { |h| { 3 == q, [1, x] == q }, true }, }])
 }
 pub fn case_291(vars: &Vars) -> InferredGoal<DU, DE, Goal<DU, DE>> {
     let x = vars.v[0].clone();
     let y = vars.v[1].clone();
-    proto_vulcan!([matche y { _ => , }])
+    proto_vulcan!([matcha y { [[_ | h], [_, x, 1], 1] => , }])
 }
 pub fn case_292(vars: &Vars) -> InferredGoal<DU, DE, Goal<DU, DE>> {
-    let x = vars.v[0].clone();
-    proto_vulcan!([match 1 { P3(z, [], 2) => [[z == ([z], x), [] == [x], x == z]], y => [|h, x| { x == [3, "bc", 3 | x] }, matchu y { P3(1, [[]], [[], y]) => { true }, [[_]] => { true }, [h, [1, 2]] => , }], }])
+    let q = vars.v[0].clone();
+    let x = vars.v[1].clone();
+    proto_vulcan!([matche q { [y, [_, true], [y, z, _ | 2] | _] | [[1, _ | _]] => [P3([_], [q, x], _) == x, onceo { [x] == x }], [[x]] => [[P3([1, []], [3], _) == q, q == [1, [], q], q == x], matchu q { P3(3, 2, _) => , }], }])
 }
 pub fn case_293(vars: &Vars) -> InferredGoal<DU, DE, Goal<DU, DE>> {
-    let q = vars.v[0].clone();
-    let x = vars.v[1].clone();
-    proto_vulcan!([match x { [[[], t, []]] => { condu { t != ([t, x], []) } }, Named { a: [3], b: 1 } => { |x| { false } }, }])
+    let x = vars.v[0].clone();
+    let y = vars.v[1].clone();
+    proto_vulcan!([match x { [[_, 2 | _] | [2]] => { condu { [[y, 'b', [] | []] == x, [1, ['a', []]] == y], [member(y, []), [y | x] == [[y, 1, x], 1, [[], [], 1]]], [[] == x, x == 'a'] }, [[x, x, _] == x, y != _, false] }, }])
 }
 pub fn case_294(vars: &Vars) -> InferredGoal<DU, DE, Goal<DU, DE>> {
-    let q = vars.v[0].clone();
-    let x = vars.v[1].clone();
-    proto_vulcan!([x == [x, 2 | q], matchu [[], q, x | x] { [[t, y | h], t, [_ | _] | t] => [conde { [y == 2, x == ([], [])], [y == P3(x, _, 3), [[], q, x] == y] }, conde { [false, append(h, t, [2])], [[[], []]] == ["bc", _ | x] }], }])
+    let x = vars.v[0].clone();
+    proto_vulcan!([matcha x { [[t, 2 | [t, x]]] => { t == x, |z, x| { (x, 2) == t } }, }])
 }
 pub fn case_295(vars: &Vars) -> InferredGoal<DU, DE, Goal<DU, DE>> {
-    let q = vars.v[0].clone();
-    let x = vars.v[1].clone();
-    proto_vulcan!([matche x { Named { a: [y, h], b: _ } => { P3([], [_, 3], h) != [[1, q, 3 | h], [1, q, y | x]] }, P3([1, 1], y, _) => , }])
+    let x = vars.v[0].clone();
+    let y = vars.v[1].clone();
+    proto_vulcan!([matche y { [[], 2] => { [2, 2 | x] != _, conde { [[3] == y, [3] == y], [[[3], x, [y]] == [[2]], y != (1, 2)], [y] != x } }, [[h, x | [h, 2]], [1, x, z]] => { onceo { x == [[_, y, 2], [h, 1]] } }, _ | [[2, h | x]] => [y == (1, _), conde { y == y, [true, |tz| { [1, 1, 3, 2] != [1, 1 | tz], tz == [3, 2] }], false }], }])
 }
 pub fn case_296(vars: &Vars) -> InferredGoal<DU, DE, Goal<DU, DE>> {
-    let q = vars.v[0].clone();
-    let x = vars.v[1].clone();
-    proto_vulcan!([|x, y| { [] == 2, 1 == x, P3([], 2, _) != [x | x] }, matchu q { z => { ([], _) != x, [z, q, x] != z }, }])
+    let x = vars.v[0].clone();
+    proto_vulcan!([match x { P3([], y, _) => |t| { t == 1, [_, t] != [[2, 2], t, [[], x, y]], [[y, false, 'b']] == t }, }])
 }
 pub fn case_297(vars: &Vars) -> InferredGoal<DU, DE, Goal<DU, DE>> {
     let x = vars.v[0].clone();
@@ -1630,665 +1623,665 @@ pub fn case_306(vars: &Vars) -> InferredGoal<DU, DE, Goal<DU, DE>> {
     proto_vulcan!([x != [1 | []], conde { x == [1], x == [1, []] }])
 }
 pub fn case_307(vars: &Vars) -> InferredGoal<DU, DE, Goal<DU, DE>> {
-    let q = vars.v[0].clone();
-    let x = vars.v[1].clone();
-    proto_vulcan!([|t| { q != (1, x), t == P3([q], q, [_]) }])
-}
-pub fn case_308(vars: &Vars) -> InferredGoal<DU, DE, Goal<DU, DE>> {
     let x = vars.v[0].clone();
     let y = vars.v[1].clone();
-    proto_vulcan!([conda { conde { x == [x, [y, x, 2]], |x, t| {  }, onceo { [y] == y } }, (_, [x]) == x, true }])
+    proto_vulcan!([x == P3(x, [], x)])
+}
+pub fn case_308(vars: &Vars) -> InferredGoal<DU, DE, Goal<DU, DE>> {
+    let q = vars.v[0].clone();
+    let x = vars.v[1].clone();
+    proto_vulcan!([[q == 2, [q == q], ([], 2) == (1, [x])], |z| { |x| { x == x }, [[x == [3, z | q], P3([_], 2, x) != x, member(x, [1, 1])]], false }, |t| {  }])
 }
 pub fn case_309(vars: &Vars) -> InferredGoal<DU, DE, Goal<DU, DE>> {
     let q = vars.v[0].clone();
     let x = vars.v[1].clone();
-    proto_vulcan!([[], { let c__: InferredGoal<DU, DE, Goal<DU, DE>> = proto_vulcan_closure!(|yy| { conde { [q == [yy | _], yy == 1], [q == [_, yy | _], yy == 2] } }); let g__: Goal<DU, DE> = ::proto_vulcan::GoalCast::cast_into(c__); let r__: InferredGoal<DU, DE, Goal<DU, DE>> = proto_vulcan!([g__.clone(), g__]); r__ }])
+    proto_vulcan!([conde { x != [x, x, false], append(q, x, []) }, condu { [conde { [|tz| { [2, 2] != [2 | tz], tz == [2] }, |h| { [[], 1, q | [3, []]] != q, x == [[_, h, q], [false, h, q | x], [[], "a", []]] }], [conda { |tz| { tz == [3], [1, 2, 3] != [1, 2 | tz] } }, [x] != x], x == x }, 2 != ([], [x])] }, [[]] == q])
 }
 pub fn case_310(vars: &Vars) -> InferredGoal<DU, DE, Goal<DU, DE>> {
     let q = vars.v[0].clone();
     let x = vars.v[1].clone();
-    proto_vulcan!([onceo { [q, 1] == x }, x == 1, q == [1, x, x]])
+    proto_vulcan!([[2, [], q | q] == x, |tz| { tz == [2, 2], [3 | tz] != [3, 2, 2] }, true, { let c__: InferredGoal<DU, DE, Goal<DU, DE>> = proto_vulcan_closure!(|yy| { conde { [x == [yy | _], yy == 1], [x == [_, yy | _], yy == 2] } }); let g__: Goal<DU, DE> = ::proto_vulcan::GoalCast::cast_into(c__); let r__: InferredGoal<DU, DE, Goal<DU, DE>> = proto_vulcan!([g__.clone(), g__]); r__ }])
 }
 pub fn case_311(vars: &Vars) -> InferredGoal<DU, DE, Goal<DU, DE>> {
     let x = vars.v[0].clone();
-    proto_vulcan!([x != 2, [|x| { 'a' == x }, conde { [x == 3, onceo { x == (2, _) }], 1 != x, [onceo { (1, _) == x }, [3] == x] }], x == "bc"])
+    let y = vars.v[1].clone();
+    proto_vulcan!([condu { |t, x| { 2 != (_, _), t == (2, [[]]) } }, x == "bc", { let c__: InferredGoal<DU, DE, Goal<DU, DE>> = proto_vulcan_closure!([|yy| { conde { [y == [yy | _], yy == 1], [y == [_, yy | _], yy == 2] } }, conda { P3([[], _], y, 2) == y }]); let g__: Goal<DU, DE> = ::proto_vulcan::GoalCast::cast_into(c__); let r__: InferredGoal<DU, DE, Goal<DU, DE>> = proto_vulcan!([g__.clone(), g__]); r__ }])
 }
 pub fn case_312(vars: &Vars) -> InferredGoal<DU, DE, Goal<DU, DE>> {
-    let q = vars.v[0].clone();
-    let x = vars.v[1].clone();
-    proto_vulcan!([[] == q, [q, 3] == x, { let c__: InferredGoal<DU, DE, Goal<DU, DE>> = proto_vulcan_closure!(|yy| { conde { [x == [yy | _], yy == 1], [x == [_, yy | _], yy == 2] } }); let g__: Goal<DU, DE> = ::proto_vulcan::GoalCast::cast_into(c__); let r__: InferredGoal<DU, DE, Goal<DU, DE>> = proto_vulcan!([g__.clone(), g__]); r__ }])
+    let x = vars.v[0].clone();
+    let y = vars.v[1].clone();
+    proto_vulcan!([P3(3, 3, y) == x, conda { [y == x, y == 2] }, { let c__: InferredGoal<DU, DE, Goal<DU, DE>> = proto_vulcan_closure!(|yy| { conde { [x == [yy | _], yy == 1], [x == [_, yy | _], yy == 2] } }); let g__: Goal<DU, DE> = ::proto_vulcan::GoalCast::cast_into(c__); let r__: InferredGoal<DU, DE, Goal<DU, DE>> = proto_vulcan!([g__.clone(), g__]); r__ }])
 }
 pub fn case_313(vars: &Vars) -> InferredGoal<DU, DE, Goal<DU, DE>> {
-    let q = vars.v[0].clone();
-    let x = vars.v[1].clone();
-    proto_vulcan!([q == q, [x | _] == x, closure { [[onceo { append(x, q, [1]) }, x == 3]] }])
+    let x = vars.v[0].clone();
+    let y = vars.v[1].clone();
+    proto_vulcan!([true, [|x| { (2, x) != y, conde { [[], y] == y, [y | x] == y }, [_, 2] == x }], |z| { x != ([2], [[]]), true == y, onceo { true } }, { let c__: InferredGoal<DU, DE, Goal<DU, DE>> = proto_vulcan_closure!([|yy| { conde { [x == [yy | _], yy == 1], [x == [_, yy | _], yy == 2] } }, x == [[y, x, 3], [_, y]]]); let g__: Goal<DU, DE> = ::proto_vulcan::GoalCast::cast_into(c__); let r__: InferredGoal<DU, DE, Goal<DU, DE>> = proto_vulcan!([g__.clone(), g__]); r__ }])
 }
 pub fn case_314(vars: &Vars) -> InferredGoal<DU, DE, Goal<DU, DE>> {
-    let q = vars.v[0].clone();
-    let x = vars.v[1].clone();
-    proto_vulcan!([q == [q, 3, _], [3] == q])
+    let x = vars.v[0].clone();
+    proto_vulcan!([[x, x] == x, [1, true] == x, [[x, x] | x] == x])
 }
 pub fn case_315(vars: &Vars) -> InferredGoal<DU, DE, Goal<DU, DE>> {
-    let q = vars.v[0].clone();
-    let x = vars.v[1].clone();
-    proto_vulcan!([(_, [[]]) == q, x == P3(2, [x, q], []), closure { [[x != [_], [[x, 1] | q] != q], |t| { [[t, t], [_, _, x]] == q }] }])
+    let x = vars.v[0].clone();
+    let y = vars.v[1].clone();
+    proto_vulcan!([|tz| { [1, 2 | tz] != [1, 2, 3], tz == [3] }, x == [y, [], true | y], conde { [] }, closure { [x == x, [[2 | x] != [[y, y, x], [y, 2], 2], [3, y, y | x] == y, onceo { x != [_, x] }]] }])
 }
 pub fn case_316(vars: &Vars) -> InferredGoal<DU, DE, Goal<DU, DE>> {
     let x = vars.v[0].clone();
-    let y = vars.v[1].clone();
-    proto_vulcan!([|h, x| { onceo { true }, h == x, member(y, [3, 3]) }])
+    proto_vulcan!([x == x])
 }
 pub fn case_317(vars: &Vars) -> InferredGoal<DU, DE, Goal<DU, DE>> {
     let q = vars.v[0].clone();
     let x = vars.v[1].clone();
-    proto_vulcan!([|t| { [q, 2] == t }, x == P3([], [1], [2, []])])
+    proto_vulcan!([onceo { member(q, [1]) }, ([[], _], q) == x, |z, x| { ([3, 3], [1, 3]) == x }])
 }
 pub fn case_318(vars: &Vars) -> InferredGoal<DU, DE, Goal<DU, DE>> {
-    let x = vars.v[0].clone();
-    let y = vars.v[1].clone();
-    proto_vulcan!([[x, 2, x] == x, onceo { |z| { x == [1], [] } }, closure { [[3 != x, [[x] != x], [3, x] == y]] }])
+    let q = vars.v[0].clone();
+    let x = vars.v[1].clone();
+    proto_vulcan!([P3(3, [], [q, _]) == q, ['a'] == q, q != [_, 1, 1 | q], closure { [q == ['a' | q], x == P3(x, [q, 2], x)] }])
 }
 pub fn case_319(vars: &Vars) -> InferredGoal<DU, DE, Goal<DU, DE>> {
     let x = vars.v[0].clone();
     let y = vars.v[1].clone();
-    proto_vulcan!([[1, y, 2] != x, |h| { [y] == y, y != h, [h == [y, 1, "bc"], append(x, h, [3, 1])] }, member(y, [2, 1, 2])])
+    proto_vulcan!([|tz| { tz == [3, 3], [2, 3 | tz] != [2, 3, 3, 3] }, _ == y, y == x])
 }
 pub fn case_320(vars: &Vars) -> InferredGoal<DU, DE, Goal<DU, DE>> {
     let q = vars.v[0].clone();
     let x = vars.v[1].clone();
-    proto_vulcan!([q == [x, x], 1 != x])
+    proto_vulcan!([P3(2, x, 1) == [3, q, 1 | q], append(q, x, [1, 3]), |x| { q != P3(1, q, _), x != [_, x, q] }, { let c__: InferredGoal<DU, DE, Goal<DU, DE>> = proto_vulcan_closure!(|yy| { conde { [q == [yy | _], yy == 1], [q == [_, yy | _], yy == 2] } }); let g__: Goal<DU, DE> = ::proto_vulcan::GoalCast::cast_into(c__); let r__: InferredGoal<DU, DE, Goal<DU, DE>> = proto_vulcan!([g__.clone(), g__]); r__ }])
 }
 pub fn case_321(vars: &Vars) -> InferredGoal<DU, DE, Goal<DU, DE>> {
     let q = vars.v[0].clone();
     let x = vars.v[1].clone();
-    proto_vulcan!([[], _ == q])
+    proto_vulcan!([x == P3(q, x, [x]), [q == _, P3([q], 1, _) == ([x, q], [2])], 1 == (q, _)])
 }
 pub fn case_322(vars: &Vars) -> InferredGoal<DU, DE, Goal<DU, DE>> {
-    let q = vars.v[0].clone();
-    let x = vars.v[1].clone();
-    proto_vulcan!([q == [[true], q], member(x, []), |t, h| { onceo { |t, z| { 2 != x, P3(_, 1, 3) == q, 3 == [1] } }, [|t, h| {  }, 2 == q, |z| {  }] }])
+    let x = vars.v[0].clone();
+    let y = vars.v[1].clone();
+    proto_vulcan!([y == ([1], x), y != []])
 }
 pub fn case_323(vars: &Vars) -> InferredGoal<DU, DE, Goal<DU, DE>> {
     let x = vars.v[0].clone();
-    proto_vulcan!([x == [2, 3], x != [[], 1, x]])
+    let y = vars.v[1].clone();
+    proto_vulcan!([|y| { y == P3(_, y, y), conde { [[y] == x, condu { |tz| { [3, 3] != [3 | tz], tz == [3] }, [member(y, [1]), |tz| { tz == [1, 3], [1, 1, 3] != [1 | tz] }], [1 == y, false] }], [[false, x == ["bc", 1 | y]], |tz| { [2, 3, 2] != [2, 3 | tz], tz == [2] }] }, 3 != y }, [[]] == x, { let c__: InferredGoal<DU, DE, Goal<DU, DE>> = proto_vulcan_closure!([|yy| { conde { [y == [yy | _], yy == 1], [y == [_, yy | _], yy == 2] } }, [[x, y] == [[_, [], _], 3, [2, _, x | x] | y], 3 == x, [x, [y, x], x] == [[], 'a']]]); let g__: Goal<DU, DE> = ::proto_vulcan::GoalCast::cast_into(c__); let r__: InferredGoal<DU, DE, Goal<DU, DE>> = proto_vulcan!([g__.clone(), g__]); r__ }])
 }
 pub fn case_324(vars: &Vars) -> InferredGoal<DU, DE, Goal<DU, DE>> {
     let x = vars.v[0].clone();
-    proto_vulcan!([conde { false, [x == [[]], conde { [conde { [member(x, []), [_] == x] }, 'a' == x], P3([x, 3], [_, _], _) == x }], [[[_]] == x, false] }, member(x, [2, 1])])
+    let y = vars.v[1].clone();
+    proto_vulcan!([true, y != [[1], _], [_, _ | x] == y, closure { |tz| { [1, 2, 1] != [1 | tz], tz == [2, 1] } }])
 }
 pub fn case_325(vars: &Vars) -> InferredGoal<DU, DE, Goal<DU, DE>> {
     let q = vars.v[0].clone();
     let x = vars.v[1].clone();
-    proto_vulcan!([|x, z| { [], ([[]], x) == x }, condu { [_ != x, |h, z| { true, conde { append(h, q, [3, 2]) }, [q, 1, 2] != x }], [conde { |t| { append(q, q, []), (t, [1]) == t }, [|h, x| { q == [x, [] | x] }, |z| {  }], [[1, 2] == q, conde { [append(q, q, [2]), member(x, [3])], [[2, 'a' | [q]] == x, q == "bc"], [[], [], x | q] == q }] }, false], q != [[q, x, x], [_, 3 | x], [[], _, 3] | x] }, closure { [[], [] == q] }])
+    proto_vulcan!([x == [q | q]])
 }
 pub fn case_326(vars: &Vars) -> InferredGoal<DU, DE, Goal<DU, DE>> {
-    let q = vars.v[0].clone();
-    let x = vars.v[1].clone();
-    proto_vulcan!([conde { [], q == [q, _, q], |y, x| { q == y, condu { [_ | x] == x, [x == y, [[], y, x] == x] } } }, (_, 1) == [], ([], q) == q, { let c__: InferredGoal<DU, DE, Goal<DU, DE>> = proto_vulcan_closure!(|yy| { conde { [q == [yy | _], yy == 1], [q == [_, yy | _], yy == 2] } }); let g__: Goal<DU, DE> = ::proto_vulcan::GoalCast::cast_into(c__); let r__: InferredGoal<DU, DE, Goal<DU, DE>> = proto_vulcan!([g__.clone(), g__]); r__ }])
+    let x = vars.v[0].clone();
+    let y = vars.v[1].clone();
+    proto_vulcan!([y != [2, 2, _]])
 }
 pub fn case_327(vars: &Vars) -> InferredGoal<DU, DE, Goal<DU, DE>> {
     let x = vars.v[0].clone();
-    let y = vars.v[1].clone();
-    proto_vulcan!([|y, x| { ([x], y) == y, conde { |t, z| { t != [[], 1, 3] }, conde { member(y, [1]), 'a' == y }, member(x, [3, 1, 1]) }, y == 2 }, closure { [|tz| { tz == [3], [3, 3] != [3 | tz] }, [y] != y] }])
+    proto_vulcan!([|y| { |tz| { tz == [1], [3, 3 | tz] != [3, 3, 1] }, x != [2, _ | y] }, [["a"]] == x, [_, _ | x] != x])
 }
 pub fn case_328(vars: &Vars) -> InferredGoal<DU, DE, Goal<DU, DE>> {
     let x = vars.v[0].clone();
-    proto_vulcan!([x == "a"])
+    proto_vulcan!([x != x, x == ([x], 3), |x| { [[append(x, x, []), x == x, x == x], 3 == x, onceo { _ == x }] }])
 }
 pub fn case_329(vars: &Vars) -> InferredGoal<DU, DE, Goal<DU, DE>> {
     let x = vars.v[0].clone();
-    let y = vars.v[1].clone();
-    proto_vulcan!([|x| { x == y, y == [2, y, [true]] }])
+    proto_vulcan!([[3, x | x] == x, closure { [|y| { |z, x| { [1, 2] == z, [y, 1, y] == z, y != y }, x == P3([x], _, [x]) }, |y| { P3([x, _], _, x) != y, y == [[_, 2, true | x], x, [x, x, x]] }] }])
 }
 pub fn case_330(vars: &Vars) -> InferredGoal<DU, DE, Goal<DU, DE>> {
-    let q = vars.v[0].clone();
-    let x = vars.v[1].clone();
-    proto_vulcan!([|h, z| { member(q, [2, 2, 1]), |tz| { [1, 2, 3, 2] != [1, 2 | tz], tz == [3, 2] } }])
+    let x = vars.v[0].clone();
+    proto_vulcan!([([1, 3], [x, 2]) != x, x == x, |h| { [1 | h] == x, |h| { conda { [] == [[3, 2], _], member(h, [2, 1]) }, x == x, [3, 2] == ([h], _) } }])
 }
 pub fn case_331(vars: &Vars) -> InferredGoal<DU, DE, Goal<DU, DE>> {
     let q = vars.v[0].clone();
     let x = vars.v[1].clone();
-    proto_vulcan!([conde { [|t| { |y, z| { [[] | q] == z, |tz| { [3 | tz] != [3, 1], tz == [1] }, [[3, t], [2 | x], [x] | [1, []]] == 1 } }, conde { [conde { [append(x, q, []), q != [x]], [[[x, [], 1 | q], [q | q]] == x, x != [[], false]], [x == P3([_], q, q), |tz| { tz == [3, 1], [2 | tz] != [2, 3, 1] }] }, true], conde { [1, 1, _] == x, false } }] }, [3, 2] != [1, q, q], |y, z| { z == [q | z], condu { |x, y| { member(x, []), x == [1] }, [[y, 1 | z] == 2, |h, y| { [[], z, x] == h, [2] == [x, [[], 1] | y] }] } }])
+    proto_vulcan!([condu { conde { true, [_, x] != q, q != 2 }, [[x | q] == x, x == q], conda { [|tz| { tz == [2, 2], [3, 2, 2] != [3 | tz] }, member(q, [1, 1])], [[], 2 | q] != q, false } }, { let c__: InferredGoal<DU, DE, Goal<DU, DE>> = proto_vulcan_closure!(|yy| { conde { [q == [yy | _], yy == 1], [q == [_, yy | _], yy == 2] } }); let g__: Goal<DU, DE> = ::proto_vulcan::GoalCast::cast_into(c__); let r__: InferredGoal<DU, DE, Goal<DU, DE>> = proto_vulcan!([g__.clone(), g__]); r__ }])
 }
 pub fn case_332(vars: &Vars) -> InferredGoal<DU, DE, Goal<DU, DE>> {
     let x = vars.v[0].clone();
-    let y = vars.v[1].clone();
-    proto_vulcan!([y != 3, |y| { onceo { [[member(y, [2, 1])]] } }, y == [[y, "a", y], []]])
+    proto_vulcan!([x == [2, [x | x], 1]])
 }
 pub fn case_333(vars: &Vars) -> InferredGoal<DU, DE, Goal<DU, DE>> {
-    let q = vars.v[0].clone();
-    let x = vars.v[1].clone();
-    proto_vulcan!([|h| { onceo { |y| { |tz| { [3, 1, 1] != [3 | tz], tz == [1, 1] }, x != [[_ | q] | x] } } }, 1 != q, [[1] == q]])
+    let x = vars.v[0].clone();
+    proto_vulcan!([[3, 3, _] == x, ["bc" == x, P3(x, 1, [_, 2]) != x], conde { [[[], []] != x, [x, x | x] == x], [x == _, conde { false, [|z| { [[[], 2] | z] != x, [[1], "a", ["bc" | x]] == x, [3, 3, [false, x, 1]] == z }, onceo { x == [x, x, 'b' | x] }] }], [x != x, |tz| { tz == [2], [1, 3, 2] != [1, 3 | tz] }] }])
 }
 pub fn case_334(vars: &Vars) -> InferredGoal<DU, DE, Goal<DU, DE>> {
     let x = vars.v[0].clone();
-    proto_vulcan!([[1 | x] == x, ([1, 2], []) == x, [] == x, { let c__: InferredGoal<DU, DE, Goal<DU, DE>> = proto_vulcan_closure!([|yy| { conde { [x == [yy | _], yy == 1], [x == [_, yy | _], yy == 2] } }, |h, z| { z == [z, 1, _ | x], 'a' != x, h != ([[]], z) }]); let g__: Goal<DU, DE> = ::proto_vulcan::GoalCast::cast_into(c__); let r__: InferredGoal<DU, DE, Goal<DU, DE>> = proto_vulcan!([g__.clone(), g__]); r__ }])
+    let y = vars.v[1].clone();
+    proto_vulcan!([y != [], [y | y] == x])
 }
 pub fn case_335(vars: &Vars) -> InferredGoal<DU, DE, Goal<DU, DE>> {
-    let x = vars.v[0].clone();
-    let y = vars.v[1].clone();
-    proto_vulcan!([y == [[y, 'b']], [[y, 1], [2, false], 2] == "a", [|h| { |z| { ([[]], 1) == h, [y, 2] == ['a'], member(y, [2]) }, |x| { |tz| { tz == [2], [3, 2] != [3 | tz] }, |tz| { [3, 2 | tz] != [3, 2, 2], tz == [2] }, y == [h, x | h] }, |t| { member(h, [1, 1]), h != [_] } }, y == [y, "bc", 1 | x], [_, 3] == y], closure { [[], [1, y, 1], [3 | y] | y] == x }])
+    let q = vars.v[0].clone();
+    let x = vars.v[1].clone();
+    proto_vulcan!([["bc", 2] != q, |t, h| { member(q, [2, 1, 2]), conde { onceo { append(h, t, [2]) }, [append(h, q, []), conde { |tz| { tz == [3], [1 | tz] != [1, 3] }, [member(t, [3, 2, 1]), (1, x) == [["bc", []]]] }] } }])
 }
 pub fn case_336(vars: &Vars) -> InferredGoal<DU, DE, Goal<DU, DE>> {
     let x = vars.v[0].clone();
-    proto_vulcan!([[[x, 2 | x], [2, x | x]] == x, closure { [[[], _] != x, x == x] }])
+    let y = vars.v[1].clone();
+    proto_vulcan!([P3(x, [1], 3) != 2])
 }
 pub fn case_337(vars: &Vars) -> InferredGoal<DU, DE, Goal<DU, DE>> {
-    let q = vars.v[0].clone();
-    let x = vars.v[1].clone();
-    proto_vulcan!([|z| { |h| { condu { [(q, q) != x, (_, [2, []]) != x], [[[2, 1, h], h] != [q], [2] == h], true } } }, closure { [_ != q, x == (x, [1])] }])
+    let x = vars.v[0].clone();
+    proto_vulcan!([conde { x == [x, 2, x], [], [|tz| { tz == [2, 1], [2 | tz] != [2, 2, 1] }, [condu { [[x, 1, []] == x, [x, 1] == x] }, |t, h| { x != [false, 2, 2], t != P3(x, _, 2), 2 == h }]] }])
 }
 pub fn case_338(vars: &Vars) -> InferredGoal<DU, DE, Goal<DU, DE>> {
-    let q = vars.v[0].clone();
-    let x = vars.v[1].clone();
-    proto_vulcan!([conde { q == q, [condu { conde { [append(q, q, [1]), false] }, [|t, h| { q == [2] }, |tz| { tz == [1, 3], [1, 1, 3] != [1 | tz] }], [|h| { h != [_, _], [2, q, 3 | h] != h, member(x, [3, 2]) }, append(x, q, [3, 2])] }, ([x, q], 3) != x] }])
+    let x = vars.v[0].clone();
+    proto_vulcan!([[|x| { [[] != [x], (x, x) != x, false], x == 1, |h| { |tz| { [2, 3, 1] != [2, 3 | tz], tz == [1] } } }, |z, y| { [z == [2, 2]], z == 'b' }]])
 }
 pub fn case_339(vars: &Vars) -> InferredGoal<DU, DE, Goal<DU, DE>> {
     let x = vars.v[0].clone();
-    let y = vars.v[1].clone();
-    proto_vulcan!([conda { x == P3(3, y, _), [[]] }, [x, 3] == y, |y| { [y == P3(2, 1, [y, _]), onceo { append(x, x, []) }] }])
+    proto_vulcan!([[x, [_, x], x] == [_, _, 2], onceo { [[]] }, [[3] | [3]] == x, { let c__: InferredGoal<DU, DE, Goal<DU, DE>> = proto_vulcan_closure!(|yy| { conde { [x == [yy | _], yy == 1], [x == [_, yy | _], yy == 2] } }); let g__: Goal<DU, DE> = ::proto_vulcan::GoalCast::cast_into(c__); let r__: InferredGoal<DU, DE, Goal<DU, DE>> = proto_vulcan!([g__.clone(), g__]); r__ }])
 }
 pub fn case_340(vars: &Vars) -> InferredGoal<DU, DE, Goal<DU, DE>> {
-    let x = vars.v[0].clone();
-    let y = vars.v[1].clone();
-    proto_vulcan!([|tz| { [1, 3, 1] != [1 | tz], tz == [3, 1] }, onceo { |x| { |z| { ([2, []], []) == x, false } } }, [2, _, x | 1] == x])
+    let q = vars.v[0].clone();
+    let x = vars.v[1].clone();
+    proto_vulcan!([x == q, { let c__: InferredGoal<DU, DE, Goal<DU, DE>> = proto_vulcan_closure!(|yy| { conde { [q == [yy | _], yy == 1], [q == [_, yy | _], yy == 2] } }); let g__: Goal<DU, DE> = ::proto_vulcan::GoalCast::cast_into(c__); let r__: InferredGoal<DU, DE, Goal<DU, DE>> = proto_vulcan!([g__.clone(), g__]); r__ }])
 }
 pub fn case_341(vars: &Vars) -> InferredGoal<DU, DE, Goal<DU, DE>> {
     let x = vars.v[0].clone();
-    proto_vulcan!([|x, y| { [conde { [], member(x, [3, 1]), [member(x, [1, 3]), true] }, |x, z| { P3([], _, _) == x, true, [[] | 3] == x }, |x| { ["a", x, _ | y] != [[1], [1, [], x], [3, 1]], |tz| { [2, 1 | tz] != [2, 1, 2, 1], tz == [2, 1] } }], true, (x, [[]]) != x }, x != x, x == _])
+    proto_vulcan!([[[|tz| { [3 | tz] != [3, 1, 1], tz == [1, 1] }]], x == ["a", x, 1], []])
 }
 pub fn case_342(vars: &Vars) -> InferredGoal<DU, DE, Goal<DU, DE>> {
     let x = vars.v[0].clone();
-    proto_vulcan!([[|z| { [z | x] != x, [z, z | x] != x, (1, _) == x }, conda { [[], conde { [[[1, x, []], 2 | x] == x, [x] == x], false, [[x, _ | _] == x, x != P3(3, x, [[], x])] }] }, x == P3(3, 1, x)], [x, [1, x, 2], []] == x, onceo { [[onceo { |tz| { [3 | tz] != [3, 1], tz == [1] } }]] }, { let c__: InferredGoal<DU, DE, Goal<DU, DE>> = proto_vulcan_closure!([|yy| { conde { [x == [yy | _], yy == 1], [x == [_, yy | _], yy == 2] } }, onceo { [_, x, x | x] == x }]); let g__: Goal<DU, DE> = ::proto_vulcan::GoalCast::cast_into(c__); let r__: InferredGoal<DU, DE, Goal<DU, DE>> = proto_vulcan!([g__.clone(), g__]); r__ }])
+    proto_vulcan!([false, x == [[], x, x]])
 }
 pub fn case_343(vars: &Vars) -> InferredGoal<DU, DE, Goal<DU, DE>> {
     let x = vars.v[0].clone();
-    proto_vulcan!([[onceo { |z| { x == z, z == _, [1, true, true] == [[[]] | _] } }], conde { [], P3([3], [[]], 3) == x, conde { [|x, h| { member(h, []), member(h, [3]), true }, x == [2]], [P3([3], _, x) == [x | x], condu { [false, [[], x | x] == [x | x]], x == [] }], [x == true, x == [[x], x, [x]]] } }, ["a", 2] == x])
+    let y = vars.v[1].clone();
+    proto_vulcan!([conde { |t| { [_ | x] != t }, conde { [[x, 'a'], [1]] == y, [], y == x }, [[[[], false, true | y] != y, [y] == y], condu { "a" == y, [condu { [[], _, 'a'] != x }, conde { [], false, |tz| { tz == [3, 3], [1 | tz] != [1, 3, 3] } }] }] }, y == [2, x], [[]] == x])
 }
 pub fn case_344(vars: &Vars) -> InferredGoal<DU, DE, Goal<DU, DE>> {
-    let x = vars.v[0].clone();
-    proto_vulcan!([[|t| { |t, x| { (_, []) == [[2, t, x | t], t, t], x != ['a', 3 | x], 1 == x }, [2, 2] != x }], [2, x | x] == P3(_, [3, 1], 3)])
+    let q = vars.v[0].clone();
+    let x = vars.v[1].clone();
+    proto_vulcan!([q != q, onceo { onceo { false } }, q == _, closure { [(2, 2) == [1 | x], P3(3, [[], _], x) != x] }])
 }
 pub fn case_345(vars: &Vars) -> InferredGoal<DU, DE, Goal<DU, DE>> {
     let x = vars.v[0].clone();
     let y = vars.v[1].clone();
-    proto_vulcan!([1 == y])
+    proto_vulcan!([conda { x == y }, x == y, |x| { [2, [], x] == y }, closure { conda { [1, [1] | x] == 1, [y == [y | y], y != [x, 3, _]] } }])
 }
 pub fn case_346(vars: &Vars) -> InferredGoal<DU, DE, Goal<DU, DE>> {
     let x = vars.v[0].clone();
-    let y = vars.v[1].clone();
-    proto_vulcan!([[[2, x], y | y] == y, |x| {  }, onceo { |y, t| { t == [[1, y]], (t, []) != y } }])
+    proto_vulcan!([|y, t| { t == P3(t, [[], _], 3), [[[], 2]] == 'b', 3 != y }, [x == x, []]])
 }
 pub fn case_347(vars: &Vars) -> InferredGoal<DU, DE, Goal<DU, DE>> {
     let x = vars.v[0].clone();
-    proto_vulcan!([condu { [[[], x | x], [x, 2, 2]] == [1], [[], ['a', x, []] == x] }, x == 2, { let c__: InferredGoal<DU, DE, Goal<DU, DE>> = proto_vulcan_closure!(|yy| { conde { [x == [yy | _], yy == 1], [x == [_, yy | _], yy == 2] } }); let g__: Goal<DU, DE> = ::proto_vulcan::GoalCast::cast_into(c__); let r__: InferredGoal<DU, DE, Goal<DU, DE>> = proto_vulcan!([g__.clone(), g__]); r__ }])
+    let y = vars.v[1].clone();
+    proto_vulcan!([[condu { false }, conde { ["bc", 2 | y] == 1, |x| { x != [_, 2, 'a'], [1] == x }, [true, y == ([], [])] }, |x| { x != [1] }], (x, [[]]) == x])
 }
 pub fn case_348(vars: &Vars) -> InferredGoal<DU, DE, Goal<DU, DE>> {
-    let q = vars.v[0].clone();
-    let x = vars.v[1].clone();
-    proto_vulcan!([conde { conde { [|tz| { [1, 2 | tz] != [1, 2, 3, 2], tz == [3, 2] }, true], [x != [3, "a", q | q], |h, z| {  }], [q == [2, 1, 2], |z| { P3(_, [q, 3], []) == 2, append(q, x, [3, 2]) }] }, [], [[x == [q], P3([3], [], _) == P3(3, x, 2), |tz| { tz == [2, 2], [3, 3 | tz] != [3, 3, 2, 2] }]] }])
+    let x = vars.v[0].clone();
+    let y = vars.v[1].clone();
+    proto_vulcan!([|h| { h == [x, x, x], [1, 1] == h, 'a' == y }, P3([_, []], x, [[]]) == [y | y], onceo { conde { [x == P3([], y, y), []], [[_, x | x] == x, y == [1, 2]], false } }])
 }
 pub fn case_349(vars: &Vars) -> InferredGoal<DU, DE, Goal<DU, DE>> {
     let x = vars.v[0].clone();
-    let y = vars.v[1].clone();
-    proto_vulcan!([conde { true, [|t| { member(t, []) }, x == [x, 1]], [conde { [[y != ([1], y)], |h| { true, append(x, y, [2, 3]), y == x }] }, conde { |z, y| { [[x, y, x]] == [[y, x | y], [2, z, 3]], false == x, z == _ }, |x| { x == ["bc", x, x | x], [x | x] == y, [false, y] == y }, [y, 1 | y] == [[]] }] }, closure { [2 == [y, [[], 2, x]], |y| {  }] }])
+    proto_vulcan!([x == P3(x, x, [3, []]), true])
 }
 pub fn case_350(vars: &Vars) -> InferredGoal<DU, DE, Goal<DU, DE>> {
-    let q = vars.v[0].clone();
-    let x = vars.v[1].clone();
-    proto_vulcan!([q != x, [q == x]])
+    let x = vars.v[0].clone();
+    proto_vulcan!([onceo { 3 == x }, |z| { onceo { x == P3([x], [3], 3) }, member(x, [3, 1]), [] }, condu { [1 == x, x == [2, 3, x]] }])
 }
 pub fn case_351(vars: &Vars) -> InferredGoal<DU, DE, Goal<DU, DE>> {
     let x = vars.v[0].clone();
     let y = vars.v[1].clone();
-    proto_vulcan!([[x, y, 3] != x])
+    proto_vulcan!([|tz| { [3, 2, 3] != [3 | tz], tz == [2, 3] }, x == y, closure { P3(1, 1, x) == [[1, _], [x | x]] }])
 }
 pub fn case_352(vars: &Vars) -> InferredGoal<DU, DE, Goal<DU, DE>> {
     let x = vars.v[0].clone();
-    proto_vulcan!([x != x])
+    let y = vars.v[1].clone();
+    proto_vulcan!([[y, []] == x, |x, t| { conde { [[_] == y, append(y, x, [])], [conde { [[1, x] == x, [[x, 1 | t], y] == x] }, conde { [_ != y, t != [_, t]], [] }], [[x == 3, x != P3(1, 2, [t])], true] }, |tz| { [1, 1 | tz] != [1, 1, 2], tz == [2] } }])
 }
 pub fn case_353(vars: &Vars) -> InferredGoal<DU, DE, Goal<DU, DE>> {
-    let x = vars.v[0].clone();
-    proto_vulcan!([2 != x, conda { [[condu { x == [1] }], |x, y| { x != x, member(x, [1, 1]), onceo { x == [[], _] } }], [false, |x| {  }], [conde { [], [], conde { x == [x, [], 3] } }, [|tz| { [2 | tz] != [2, 3], tz == [3] }]] }, conde { [true, [conde { [x == x, x == ['b']], x == [[x, false, x | x]], [[[2]] == 2, member(x, [2])] }]], [x == [2, [[], x, 1]], [[], 1, 1] != [2]], [[onceo { false }], |y| { y == ([], x) }] }, { let c__: InferredGoal<DU, DE, Goal<DU, DE>> = proto_vulcan_closure!([|yy| { conde { [x == [yy | _], yy == 1], [x == [_, yy | _], yy == 2] } }, 3 == x]); let g__: Goal<DU, DE> = ::proto_vulcan::GoalCast::cast_into(c__); let r__: InferredGoal<DU, DE, Goal<DU, DE>> = proto_vulcan!([g__.clone(), g__]); r__ }])
+    let q = vars.v[0].clone();
+    let x = vars.v[1].clone();
+    proto_vulcan!([onceo { |tz| { [3, 2] != [3 | tz], tz == [2] } }, [1, "bc" | x] == x, x == ([], [q, 1])])
 }
 pub fn case_354(vars: &Vars) -> InferredGoal<DU, DE, Goal<DU, DE>> {
     let x = vars.v[0].clone();
     let y = vars.v[1].clone();
-    proto_vulcan!([conde { [1 != [_, [2, "a", x] | x], false], [P3(x, x, [_, y]) == y, x != [[]]], true }, closure { [|tz| { [2 | tz] != [2, 1, 1], tz == [1, 1] }, y == y] }])
+    proto_vulcan!([[y, [3], [x, 2] | false] == y, { let c__: InferredGoal<DU, DE, Goal<DU, DE>> = proto_vulcan_closure!([|yy| { conde { [x == [yy | _], yy == 1], [x == [_, yy | _], yy == 2] } }, [[], 1, 2 | y] == x]); let g__: Goal<DU, DE> = ::proto_vulcan::GoalCast::cast_into(c__); let r__: InferredGoal<DU, DE, Goal<DU, DE>> = proto_vulcan!([g__.clone(), g__]); r__ }])
 }
 pub fn case_355(vars: &Vars) -> InferredGoal<DU, DE, Goal<DU, DE>> {
     let x = vars.v[0].clone();
     let y = vars.v[1].clone();
-    proto_vulcan!([x != [y, []], [1] == y, |tz| { [1, 3 | tz] != [1, 3, 1, 2], tz == [1, 2] }])
+    proto_vulcan!([conde { [x != x, |tz| { tz == [2], [2, 1 | tz] != [2, 1, 2] }], [conda { [[[2]] == x, |x, h| { [x, []] != _, false }], y == ([y, x], []) }, conde { [([[]], []) == y, y != x], [[y != [x, [], x]]], onceo { y == x } }] }, { let c__: InferredGoal<DU, DE, Goal<DU, DE>> = proto_vulcan_closure!([|yy| { conde { [y == [yy | _], yy == 1], [y == [_, yy | _], yy == 2] } }, P3(x, 3, 3) == y]); let g__: Goal<DU, DE> = ::proto_vulcan::GoalCast::cast_into(c__); let r__: InferredGoal<DU, DE, Goal<DU, DE>> = proto_vulcan!([g__.clone(), g__]); r__ }])
 }
 pub fn case_356(vars: &Vars) -> InferredGoal<DU, DE, Goal<DU, DE>> {
     let x = vars.v[0].clone();
-    proto_vulcan!([[x] == x])
+    let y = vars.v[1].clone();
+    proto_vulcan!([[], onceo { y != [2 | y] }, y == [x, 2]])
 }
 pub fn case_357(vars: &Vars) -> InferredGoal<DU, DE, Goal<DU, DE>> {
     let q = vars.v[0].clone();
     let x = vars.v[1].clone();
-    proto_vulcan!([2 == q, condu { [|t, z| { conde { [x == [2], 2 == t], [[t, q] == z, member(x, [])], [[z, [q], [1 | t] | t] == t, append(t, z, [])] }, [_ | t] == z, |t| {  } }, [[2, x, q], [], [2, [], q | 'b'] | x] != [2, "a"]], |h, y| { [1, _, y | q] == [false] } }, P3([], _, _) != [_, 3]])
+    proto_vulcan!([condu { [[[[x, 2, 2] != x]], conde { x == x }] }, conde { [[|tz| { [1, 2] != [1 | tz], tz == [2] }, |x, t| { x != _, ([2, q], 1) == t, false }], [(2, q) != [], q == [x], conde { [false, q == q], (2, [_]) != q, [q != 1, q == 'a'] }]], |x| { [x] == x } }, conde { [q, 'b'] == x, |h, t| {  }, ([_, 2], x) == q }])
 }
 pub fn case_358(vars: &Vars) -> InferredGoal<DU, DE, Goal<DU, DE>> {
     let q = vars.v[0].clone();
     let x = vars.v[1].clone();
-    proto_vulcan!([true, { let c__: InferredGoal<DU, DE, Goal<DU, DE>> = proto_vulcan_closure!([|yy| { conde { [x == [yy | _], yy == 1], [x == [_, yy | _], yy == 2] } }, q != P3(x, 3, [3, _])]); let g__: Goal<DU, DE> = ::proto_vulcan::GoalCast::cast_into(c__); let r__: InferredGoal<DU, DE, Goal<DU, DE>> = proto_vulcan!([g__.clone(), g__]); r__ }])
+    proto_vulcan!([[q | []] == [[false], q]])
 }
 pub fn case_359(vars: &Vars) -> InferredGoal<DU, DE, Goal<DU, DE>> {
     let x = vars.v[0].clone();
     let y = vars.v[1].clone();
-    proto_vulcan!([onceo { (2, 2) == y }, P3(y, [], [y]) == x, y == x, { let c__: InferredGoal<DU, DE, Goal<DU, DE>> = proto_vulcan_closure!(|yy| { conde { [x == [yy | _], yy == 1], [x == [_, yy | _], yy == 2] } }); let g__: Goal<DU, DE> = ::proto_vulcan::GoalCast::cast_into(c__); let r__: InferredGoal<DU, DE, Goal<DU, DE>> = proto_vulcan!([g__.clone(), g__]); r__ }])
+    proto_vulcan!([conde { y == [1], (2, x) == ([], _) }, [[y], 1] != 2])
 }
 pub fn case_360(vars: &Vars) -> InferredGoal<DU, DE, Goal<DU, DE>> {
     let x = vars.v[0].clone();
     let y = vars.v[1].clone();
-    proto_vulcan!([member(y, [2, 2, 1]), x == (_, []), conde { [conde { y == [3, 1], [|h, z| { |tz| { tz == [1], [1, 2, 1] != [1, 2 | tz] }, x == h }, [y == x, member(x, [])]], [x] == x }, append(x, x, [1, 2])], [] }])
+    proto_vulcan!([conde { [|z| { y == [_, _, 1], |t| { [t, 2 | [y]] == x }, _ == [] }, |x| { |tz| { tz == [2], [3, 1 | tz] != [3, 1, 2] } }], [[[y] == [[y, x, []], y, [y, x] | [x]], y == [[x]]], [false] == y] }, onceo { 2 == y }])
 }
 pub fn case_361(vars: &Vars) -> InferredGoal<DU, DE, Goal<DU, DE>> {
     let x = vars.v[0].clone();
     let y = vars.v[1].clone();
-    proto_vulcan!([[1] == x])
+    proto_vulcan!([|h| { conde { onceo { x == [2, false | h] }, member(h, [3]) }, x == [[1, y] | h], h != _ }, |tz| { tz == [2, 3], [2, 1, 2, 3] != [2, 1 | tz] }, { let c__: InferredGoal<DU, DE, Goal<DU, DE>> = proto_vulcan_closure!([|yy| { conde { [y == [yy | _], yy == 1], [y == [_, yy | _], yy == 2] } }, P3([], _, y) == x]); let g__: Goal<DU, DE> = ::proto_vulcan::GoalCast::cast_into(c__); let r__: InferredGoal<DU, DE, Goal<DU, DE>> = proto_vulcan!([g__.clone(), g__]); r__ }])
 }
 pub fn case_362(vars: &Vars) -> InferredGoal<DU, DE, Goal<DU, DE>> {
     let x = vars.v[0].clone();
-    let y = vars.v[1].clone();
-    proto_vulcan!([["a", 1, 1] == x, { let c__: InferredGoal<DU, DE, Goal<DU, DE>> = proto_vulcan_closure!([|yy| { conde { [y == [yy | _], yy == 1], [y == [_, yy | _], yy == 2] } }, [[]] != [3, 1]]); let g__: Goal<DU, DE> = ::proto_vulcan::GoalCast::cast_into(c__); let r__: InferredGoal<DU, DE, Goal<DU, DE>> = proto_vulcan!([g__.clone(), g__]); r__ }])
+    proto_vulcan!([|y| { y == (x, _) }, onceo { [1, x, 2] == [[3, false], [x, 1], [true, 2]] }, { let c__: InferredGoal<DU, DE, Goal<DU, DE>> = proto_vulcan_closure!(|yy| { conde { [x == [yy | _], yy == 1], [x == [_, yy | _], yy == 2] } }); let g__: Goal<DU, DE> = ::proto_vulcan::GoalCast::cast_into(c__); let r__: InferredGoal<DU, DE, Goal<DU, DE>> = proto_vulcan!([g__.clone(), g__]); r__ }])
 }
 pub fn case_363(vars: &Vars) -> InferredGoal<DU, DE, Goal<DU, DE>> {
-    let x = vars.v[0].clone();
-    let y = vars.v[1].clone();
-    proto_vulcan!([conde { [], (x, 1) == y }, y == y, closure { [x == ([y, _], []), [true, false, |t, z| {  }]] }])
+    let q = vars.v[0].clone();
+    let x = vars.v[1].clone();
+    proto_vulcan!([|y, h| { false }, [x == ["a", q, q], x == x], ['b', [], 2 | q] == x])
 }
 pub fn case_364(vars: &Vars) -> InferredGoal<DU, DE, Goal<DU, DE>> {
     let x = vars.v[0].clone();
-    let y = vars.v[1].clone();
-    proto_vulcan!([|tz| { [2, 3, 3] != [2 | tz], tz == [3, 3] }, [true, 1, 1] == [y, [1, _, x], [y, 1 | y]]])
+    proto_vulcan!([[_] != x, [[false] == ([1], _)]])
 }
 pub fn case_365(vars: &Vars) -> InferredGoal<DU, DE, Goal<DU, DE>> {
     let q = vars.v[0].clone();
     let x = vars.v[1].clone();
-    proto_vulcan!([onceo { onceo { conde { [q != q, true], [], (x, q) == x } } }])
+    proto_vulcan!([q != _, |z, x| { |h| { append(q, x, [1]), conde { [true, false], [[x] == (x, h), append(h, x, [2])] }, |t| { x == (2, _), P3(_, t, q) == h, h == [] } } }])
 }
 pub fn case_366(vars: &Vars) -> InferredGoal<DU, DE, Goal<DU, DE>> {
-    let x = vars.v[0].clone();
-    proto_vulcan!([x == (_, 2), x == 2, closure { ["a" != x, conde { false }] }])
+    let q = vars.v[0].clone();
+    let x = vars.v[1].clone();
+    proto_vulcan!([P3(1, 1, x) == q, { let c__: InferredGoal<DU, DE, Goal<DU, DE>> = proto_vulcan_closure!([|yy| { conde { [x == [yy | _], yy == 1], [x == [_, yy | _], yy == 2] } }, conde { append(q, x, [1, 3]) }]); let g__: Goal<DU, DE> = ::proto_vulcan::GoalCast::cast_into(c__); let r__: InferredGoal<DU, DE, Goal<DU, DE>> = proto_vulcan!([g__.clone(), g__]); r__ }])
 }
 pub fn case_367(vars: &Vars) -> InferredGoal<DU, DE, Goal<DU, DE>> {
     let x = vars.v[0].clone();
-    let y = vars.v[1].clone();
-    proto_vulcan!([conde { [x == x, conde { [] == y }] }, onceo { false }, P3([1, y], x, 2) == y, closure { [|t| { [[x, y]] == t }, 3 == y] }])
+    proto_vulcan!([x == [x], |z| {  }])
 }
 pub fn case_368(vars: &Vars) -> InferredGoal<DU, DE, Goal<DU, DE>> {
-    let q = vars.v[0].clone();
-    let x = vars.v[1].clone();
-    proto_vulcan!([conde { [x == x, x != [1, [] | 3]], [conde { x == (1, 1), [conda { [append(x, x, []), q != [1, true, 3]], [append(x, q, [1, 3]), true], [[q, x, q | q] == x, |tz| { tz == [3, 3], [2, 3, 3] != [2 | tz] }] }, append(q, x, [])] }, 3 != x], P3(1, x, []) == q }, { let c__: InferredGoal<DU, DE, Goal<DU, DE>> = proto_vulcan_closure!([|yy| { conde { [x == [yy | _], yy == 1], [x == [_, yy | _], yy == 2] } }, x != P3([], [3, []], q)]); let g__: Goal<DU, DE> = ::proto_vulcan::GoalCast::cast_into(c__); let r__: InferredGoal<DU, DE, Goal<DU, DE>> = proto_vulcan!([g__.clone(), g__]); r__ }])
+    let x = vars.v[0].clone();
+    proto_vulcan!([|y, x| { y == y }, [["a", x], [x, []], x] == x, ['b', x, x | x] == [[true, [], true], [[]], [x, _] | [[], 2]]])
 }
 pub fn case_369(vars: &Vars) -> InferredGoal<DU, DE, Goal<DU, DE>> {
-    let q = vars.v[0].clone();
-    let x = vars.v[1].clone();
-    proto_vulcan!([conde { [q != x, onceo { 1 == x }], [conde { [] }, |tz| { [3 | tz] != [3, 1], tz == [1] }], _ == [[q, _], [2]] }, |y, t| { member(x, [1, 2]) }, conde { P3(q, x, q) == q, [2 == [3, q], conde { [|z, y| { q == [2, y, 1 | x], append(y, q, []), append(x, z, [2, 2]) }, |t| { false, member(q, [2]) }], [x == [[], [2], x], _ == x] }], [q == 'b', q == [2]] }])
+    let x = vars.v[0].clone();
+    let y = vars.v[1].clone();
+    proto_vulcan!([|t, h| {  }, [true], conde { [condu { [x == y, ([], []) != y], x == y, [[x, true, y | y], [[] | [y]] | x] != y }, x == [1, [] | x]], |tz| { tz == [2, 2], [3, 1, 2, 2] != [3, 1 | tz] } }, closure { [onceo { |h, x| { [2, [] | x] != y, |tz| { [2, 1 | tz] != [2, 1, 3, 1], tz == [3, 1] } } }, conde { [], [[x, x, 2] == y, onceo { x == [y, [] | y] }], [[y, x | [3]] != x, P3(y, 2, 3) != y] }] }])
 }
 pub fn case_370(vars: &Vars) -> InferredGoal<DU, DE, Goal<DU, DE>> {
     let x = vars.v[0].clone();
-    let y = vars.v[1].clone();
-    proto_vulcan!([3 != [x, [true, x]], conde { [[[x, [], 2], [y, [], []], [1, 1, _ | x] | x] == y, y != y], [], [onceo { conde { |tz| { tz == [2], [3 | tz] != [3, 2] }, [x == x, y == ([], 1)], ([[], []], [y, _]) == y } }, condu { [[], [_ | x] | y] == y, [y == P3(y, [y, []], 1), member(x, [])], [[[y, y, x], [1, _, 3]] == x, conda { [1] == y, x == 2, y != (y, x) }] }] }])
+    proto_vulcan!([[], condu { |h, z| { [h != "a", x == (2, _)] }, [onceo { conde { [_ == x, [_] == x], append(x, x, []), [] } }, x == _], x == "a" }, closure { 1 == x }])
 }
 pub fn case_371(vars: &Vars) -> InferredGoal<DU, DE, Goal<DU, DE>> {
     let x = vars.v[0].clone();
     let y = vars.v[1].clone();
-    proto_vulcan!([y == y, [['a', "a" | y], [y, x], [y, x, x] | []] != y, x == y])
+    proto_vulcan!([conde { [[]], [|t, z| { P3([z], [y, y], []) != x }, x == [[2]]], [[onceo { x != x }, conde { [_, 3] == y, [[x] != y, true], [|tz| { [3, 2] != [3 | tz], tz == [2] }, y == 2] }]] }])
 }
 pub fn case_372(vars: &Vars) -> InferredGoal<DU, DE, Goal<DU, DE>> {
-    let x = vars.v[0].clone();
-    let y = vars.v[1].clone();
-    proto_vulcan!([conde { [], [y == x, |x| { |tz| { [1, 3 | tz] != [1, 3, 1, 2], tz == [1, 2] } }], true }, [y, y, 2 | y] != 1, |x, y| { P3(_, [[], x], 2) == [[x]], |t, x| { x == 3 }, y == x }])
+    let q = vars.v[0].clone();
+    let x = vars.v[1].clone();
+    proto_vulcan!([q == x, true, conde { [[[] | x] == [_, []], q == ([_, []], q)], [P3([_], [], 3) == q, false] }])
 }
 pub fn case_373(vars: &Vars) -> InferredGoal<DU, DE, Goal<DU, DE>> {
     let q = vars.v[0].clone();
     let x = vars.v[1].clone();
-    proto_vulcan!([x != []])
+    proto_vulcan!([P3(x, 1, []) == [[q, 3]]])
 }
 pub fn case_374(vars: &Vars) -> InferredGoal<DU, DE, Goal<DU, DE>> {
-    let q = vars.v[0].clone();
-    let x = vars.v[1].clone();
-    proto_vulcan!([onceo { ([q], [[], 3]) == q }, closure { |tz| { [2 | tz] != [2, 2, 2], tz == [2, 2] } }])
+    let x = vars.v[0].clone();
+    let y = vars.v[1].clone();
+    proto_vulcan!([onceo { |x, t| { conde { x == [_, [], _ | 3] }, (t, [_, _]) == y } }, member(x, [1, 2, 1])])
 }
 pub fn case_375(vars: &Vars) -> InferredGoal<DU, DE, Goal<DU, DE>> {
-    let x = vars.v[0].clone();
-    let y = vars.v[1].clone();
-    proto_vulcan!([member(y, [1, 1, 1]), member(x, [1, 2, 3]), |y| { conde { [], member(y, [1, 1]) }, [3, x | x] == y }])
+    let q = vars.v[0].clone();
+    let x = vars.v[1].clone();
+    proto_vulcan!([member(q, []), ([q, 2], [2]) == [[_, _ | [1]], _ | q], [1, q, 3] == q])
 }
 pub fn case_376(vars: &Vars) -> InferredGoal<DU, DE, Goal<DU, DE>> {
-    let x = vars.v[0].clone();
-    let y = vars.v[1].clone();
-    proto_vulcan!([|y, x| {  }, |z| { true, [[_ | y] == [x], |tz| { [1, 1] != [1 | tz], tz == [1] }, onceo { |tz| { [1, 2 | tz] != [1, 2, 2, 1], tz == [2, 1] } }], [y | y] == z }, _ == y])
+    let q = vars.v[0].clone();
+    let x = vars.v[1].clone();
+    proto_vulcan!([|z| { conde { (2, 2) != q, 2 != z, [[1, _ | x] == (_, []), |h, x| {  }] }, [z | z] != [[z, _, "a" | x], q, q] }, |h, y| { P3([2], x, h) == h, conda { x == P3([2], [], 2), [append(x, h, [3, 3]), q != [[]]] } }, [2, [] | x] != q])
 }
 pub fn case_377(vars: &Vars) -> InferredGoal<DU, DE, Goal<DU, DE>> {
-    let x = vars.v[0].clone();
-    proto_vulcan!([[[], [], 2] == x, |t, z| {  }])
+    let q = vars.v[0].clone();
+    let x = vars.v[1].clone();
+    proto_vulcan!([|h| { h == [3, h], x == [q] }, |x| { P3([x, q], q, x) == x }, onceo { [[condu { (_, _) == q }]] }])
 }
 pub fn case_378(vars: &Vars) -> InferredGoal<DU, DE, Goal<DU, DE>> {
     let x = vars.v[0].clone();
-    let y = vars.v[1].clone();
-    proto_vulcan!([[['a', "a"], y | y] == y, conde { |y, h| {  }, [conde { |x, y| { [3, []] == x, |tz| { tz == [2], [3, 1 | tz] != [3, 1, 2] } }, [3, 1] == y }, |z, y| { [2 | y] != z, [true, member(z, [2]), x == P3(2, [], [])], |tz| { [3 | tz] != [3, 1], tz == [1] } }] }, true, closure { [x, 2, x] != y }])
+    proto_vulcan!([onceo { x == [[1, x, x | _], [[]]] }, x != [_ | x], [x, x] == x])
 }
 pub fn case_379(vars: &Vars) -> InferredGoal<DU, DE, Goal<DU, DE>> {
     let x = vars.v[0].clone();
-    proto_vulcan!([|tz| { [3 | tz] != [3, 3, 2], tz == [3, 2] }])
+    proto_vulcan!([conda { [1, x] == x, [P3(x, [x], _) == x, []] }, closure { [|z| { |x| { false, P3(x, x, z) == z }, z != P3(1, [3, _], []), x == [x, x] }, x == ["a", [x, _]]] }])
 }
 pub fn case_380(vars: &Vars) -> InferredGoal<DU, DE, Goal<DU, DE>> {
-    let x = vars.v[0].clone();
-    let y = vars.v[1].clone();
-    proto_vulcan!([[[y | x], [1] | y] != x, y == y])
+    let q = vars.v[0].clone();
+    let x = vars.v[1].clone();
+    proto_vulcan!([false, closure { q == [x, 1] }])
 }
 pub fn case_381(vars: &Vars) -> InferredGoal<DU, DE, Goal<DU, DE>> {
     let x = vars.v[0].clone();
-    proto_vulcan!([|z| { z == [], [x, z] == [[x, x, 3]] }, closure { |y| { x != [y, 1] } }])
+    proto_vulcan!([x == [[_, x]], x != [[x, x | x], [x, [], []], 3], closure { |x| { conda { x == x }, x != (_, x), [[x, _, false] == x] } }])
 }
 pub fn case_382(vars: &Vars) -> InferredGoal<DU, DE, Goal<DU, DE>> {
     let x = vars.v[0].clone();
-    proto_vulcan!([2 == [1, [x]], closure { |t, y| { conde { [|tz| { [2, 2 | tz] != [2, 2, 3, 2], tz == [3, 2] }, 1 == y], |tz| { tz == [2, 1], [3, 1, 2, 1] != [3, 1 | tz] } }, |tz| { tz == [2, 3], [1, 1, 2, 3] != [1, 1 | tz] }, [x, y | t] == t } }])
+    let y = vars.v[1].clone();
+    proto_vulcan!([conda { [conde { condu { y == x }, [conde { [x == y, append(y, x, [3, 1])], member(x, []), [[x] == x, y == (x, x)] }, onceo { [2, 2, [] | x] == x }] }, x == 3], conda { false, [conde { |tz| { [3, 3, 1, 3] != [3, 3 | tz], tz == [1, 3] }, |tz| { [2, 2] != [2 | tz], tz == [2] } }, conde { [y == P3([1, y], [], x), member(y, [2, 2, 1])], [x == "a", x == [1, 2]], [true, true] }], [[x != x]] }, [['a', y, x] != x, y == true] }])
 }
 pub fn case_383(vars: &Vars) -> InferredGoal<DU, DE, Goal<DU, DE>> {
     let x = vars.v[0].clone();
     let y = vars.v[1].clone();
-    proto_vulcan!([1 != [[], 1, [3, 1 | x] | []], append(x, x, [1, 1])])
+    proto_vulcan!([conde { [conde { [y, [x, y, _], [x]] == [[], [2]] }, 2 != y], [|h, y| { |t| {  }, conde { member(x, [1, 2]), [(3, [[]]) == h, true], append(y, x, [1]) } }, member(y, [1, 1, 2])], conda { x == P3(x, [3], y) } }, append(y, x, [2]), closure { x == P3(3, [], [3]) }])
 }
 pub fn case_384(vars: &Vars) -> InferredGoal<DU, DE, Goal<DU, DE>> {
     let x = vars.v[0].clone();
-    proto_vulcan!([x == [_], conde { x == P3(_, 1, [x]), x == [[], ["a", x], x], [[[x, []] == x, [1, x, []] != x, |t| {  }]] }, [2, 1, [] | x] == x])
+    let y = vars.v[1].clone();
+    proto_vulcan!([conde { x == y, onceo { y != [_, x | x] } }, conde { x == [y, [2, y, 2 | "bc"], [[], false] | x], y == y, [(_, x) != y, [y | [2, 1]] == y] }, x == [y, x], { let c__: InferredGoal<DU, DE, Goal<DU, DE>> = proto_vulcan_closure!(|yy| { conde { [y == [yy | _], yy == 1], [y == [_, yy | _], yy == 2] } }); let g__: Goal<DU, DE> = ::proto_vulcan::GoalCast::cast_into(c__); let r__: InferredGoal<DU, DE, Goal<DU, DE>> = proto_vulcan!([g__.clone(), g__]); r__ }])
 }
 pub fn case_385(vars: &Vars) -> InferredGoal<DU, DE, Goal<DU, DE>> {
     let x = vars.v[0].clone();
-    let y = vars.v[1].clone();
-    proto_vulcan!([condu { |x, z| { |t| { member(y, [1, 1, 3]), member(z, [3, 3, 3]) }, conde { [[] == y, x == y], [|tz| { tz == [3, 3], [1, 3, 3] != [1 | tz] }, x == 1] } }, [2] != x }])
+    proto_vulcan!([x != [[x, 'a', "a" | x], _, 1 | x], closure { [|y| { condu { [x == 3, true] } }, x == (3, [1])] }])
 }
 pub fn case_386(vars: &Vars) -> InferredGoal<DU, DE, Goal<DU, DE>> {
-    let q = vars.v[0].clone();
-    let x = vars.v[1].clone();
-    proto_vulcan!([|z, x| { conde { [[2] == z, q == [1, 3, []]], [x != P3(z, x, z), |t| { q == [[_, x, []]] }], [] } }])
+    let x = vars.v[0].clone();
+    let y = vars.v[1].clone();
+    proto_vulcan!([|y| { [x, 1 | x] == y, [[[], y, 1 | x]] == [], y == [[x, x], [_, _, "bc"]] }, { let c__: InferredGoal<DU, DE, Goal<DU, DE>> = proto_vulcan_closure!(|yy| { conde { [y == [yy | _], yy == 1], [y == [_, yy | _], yy == 2] } }); let g__: Goal<DU, DE> = ::proto_vulcan::GoalCast::cast_into(c__); let r__: InferredGoal<DU, DE, Goal<DU, DE>> = proto_vulcan!([g__.clone(), g__]); r__ }])
 }
 pub fn case_387(vars: &Vars) -> InferredGoal<DU, DE, Goal<DU, DE>> {
-    let x = vars.v[0].clone();
-    proto_vulcan!([x == false, |t, x| { x == x, condu { [[member(x, [2, 3])]], false, [x == ['a'], |tz| { [3, 1, 3] != [3 | tz], tz == [1, 3] }] }, |x| { x == ['b'], true != x } }, { let c__: InferredGoal<DU, DE, Goal<DU, DE>> = proto_vulcan_closure!([|yy| { conde { [x == [yy | _], yy == 1], [x == [_, yy | _], yy == 2] } }, |z, t| { t != (x, [z, _]), [[2], [z, [], x | t]] == t, |tz| { [3, 2, 2] != [3, 2 | tz], tz == [2] } }]); let g__: Goal<DU, DE> = ::proto_vulcan::GoalCast::cast_into(c__); let r__: InferredGoal<DU, DE, Goal<DU, DE>> = proto_vulcan!([g__.clone(), g__]); r__ }])
-}
-pub fn case_388(vars: &Vars) -> InferredGoal<DU, DE, Goal<DU, DE>> {
     let q = vars.v[0].clone();
     let x = vars.v[1].clone();
-    proto_vulcan!([x == P3([1, []], x, []), [[_ | x], [3, x, x], 2 | q] != x, x != [q, q]])
+    proto_vulcan!([[1] == P3(2, q, q), |y, t| { onceo { x == [x, 1, _ | q] }, t != x, _ == t }, |y, t| { P3(3, q, []) == [y, y, "a" | y], |tz| { tz == [2, 1], [2, 2, 1] != [2 | tz] }, [1, q] == y }])
+}
+pub fn case_388(vars: &Vars) -> InferredGoal<DU, DE, Goal<DU, DE>> {
+    let x = vars.v[0].clone();
+    let y = vars.v[1].clone();
+    proto_vulcan!([[|z, t| { (2, _) == t, conde { [], |tz| { [3, 1 | tz] != [3, 1, 1, 2], tz == [1, 2] }, false }, |t, x| { 1 == x, 1 == [[z, "bc", y], [x, [], 1], t | t], false } }, conde { [|t| { [1, [false, true, y], [_, 3, []] | x] == x }, [_, 1, [] | [_]] == [[_, 1, _], [y, [] | [_]], [1, 'b', 1]]] }]])
 }
 pub fn case_389(vars: &Vars) -> InferredGoal<DU, DE, Goal<DU, DE>> {
     let x = vars.v[0].clone();
-    proto_vulcan!([[1, x] == [[1, _] | [false, x]]])
+    let y = vars.v[1].clone();
+    proto_vulcan!([[|y| { [2, y, "a" | y] == y, y == [[_, [] | y], [x, [], x], ["a", 2, y | x]] }, [] != x, y != [[x | y] | x]], y == y])
 }
 pub fn case_390(vars: &Vars) -> InferredGoal<DU, DE, Goal<DU, DE>> {
-    let x = vars.v[0].clone();
-    let y = vars.v[1].clone();
-    proto_vulcan!([[['b', 2, y], [_, x, y | x]] != x, P3([y, 2], [x, []], [y]) == x, |x, y| { |tz| { [2 | tz] != [2, 3, 2], tz == [3, 2] } }, { let c__: InferredGoal<DU, DE, Goal<DU, DE>> = proto_vulcan_closure!([|yy| { conde { [y == [yy | _], yy == 1], [y == [_, yy | _], yy == 2] } }, [true]]); let g__: Goal<DU, DE> = ::proto_vulcan::GoalCast::cast_into(c__); let r__: InferredGoal<DU, DE, Goal<DU, DE>> = proto_vulcan!([g__.clone(), g__]); r__ }])
+    let q = vars.v[0].clone();
+    let x = vars.v[1].clone();
+    proto_vulcan!([([1], []) == q, |t, x| { ([3], _) != x }, append(x, q, [1, 3]), { let c__: InferredGoal<DU, DE, Goal<DU, DE>> = proto_vulcan_closure!(|yy| { conde { [q == [yy | _], yy == 1], [q == [_, yy | _], yy == 2] } }); let g__: Goal<DU, DE> = ::proto_vulcan::GoalCast::cast_into(c__); let r__: InferredGoal<DU, DE, Goal<DU, DE>> = proto_vulcan!([g__.clone(), g__]); r__ }])
 }
 pub fn case_391(vars: &Vars) -> InferredGoal<DU, DE, Goal<DU, DE>> {
     let x = vars.v[0].clone();
-    proto_vulcan!([3 == x])
+    let y = vars.v[1].clone();
+    proto_vulcan!([["a", 'b'] != x])
 }
 pub fn case_392(vars: &Vars) -> InferredGoal<DU, DE, Goal<DU, DE>> {
-    let q = vars.v[0].clone();
-    let x = vars.v[1].clone();
-    proto_vulcan!([_ == x, ['a', q, 'a'] == [[1, 2, 3 | q], [x | q], [1]]])
+    let x = vars.v[0].clone();
+    let y = vars.v[1].clone();
+    proto_vulcan!([[x, 1, []] == x, |h, x| {  }])
 }
 pub fn case_393(vars: &Vars) -> InferredGoal<DU, DE, Goal<DU, DE>> {
     let x = vars.v[0].clone();
     let y = vars.v[1].clone();
-    proto_vulcan!([condu { [y == ([], y), [2, [x | x]] != P3(3, 2, [])] }, y == x])
+    proto_vulcan!([|tz| { tz == [1], [3, 1, 1] != [3, 1 | tz] }, [condu { |tz| { [1, 1 | tz] != [1, 1, 2, 2], tz == [2, 2] } }], [x != [[[], x, _]], |x| { y == [y, 1 | x], x != y }]])
 }
 pub fn case_394(vars: &Vars) -> InferredGoal<DU, DE, Goal<DU, DE>> {
-    let q = vars.v[0].clone();
-    let x = vars.v[1].clone();
-    proto_vulcan!([['a'] == q, closure { [x == q, ([[], x], 3) == q] }])
+    let x = vars.v[0].clone();
+    let y = vars.v[1].clone();
+    proto_vulcan!([conde { [y] == y, ([2], 3) == y, [[] != x, conda { [y == x, conda { P3(2, x, []) == y }] }] }])
 }
 pub fn case_395(vars: &Vars) -> InferredGoal<DU, DE, Goal<DU, DE>> {
     let q = vars.v[0].clone();
     let x = vars.v[1].clone();
-    proto_vulcan!([[] == q, ([3, q], []) == q, q == [1, [] | x]])
+    proto_vulcan!([3 == (x, [x]), closure { onceo { conde { ([1, q], _) == q, [q == q, [x] == ([[]], q)], (q, 2) != [[x, 1, 2], ["bc"], [2, [], 2]] } } }])
 }
 pub fn case_396(vars: &Vars) -> InferredGoal<DU, DE, Goal<DU, DE>> {
     let x = vars.v[0].clone();
     let y = vars.v[1].clone();
-    proto_vulcan!([onceo { [[2], [1] | [x]] == ([], 3) }, onceo { conde { onceo { true }, [] } }, |y, z| { |z| { |x| { z == x, x != z, [[], 1] == y }, [true, y != [[], x], append(y, x, [1])], |x| { [y, [[], 1, x], [z, y, z | z]] == P3([x], [x], 1) } } }])
+    proto_vulcan!([condu { [conde { [], [1, _ | x] != x, x == 1 }, P3(1, [y], x) == y] }, closure { conde { [P3(x, y, _) != y, y == [[1, x] | x]] } }])
 }
 pub fn case_397(vars: &Vars) -> InferredGoal<DU, DE, Goal<DU, DE>> {
     let x = vars.v[0].clone();
-    proto_vulcan!([[onceo { |z| { [[z, 2, 1], x, z | [z]] == [true, []], false, (x, [3]) == x } }, |t| { |x, y| { false, (2, 1) == y } }]])
+    let y = vars.v[1].clone();
+    proto_vulcan!([[(y, y) == y], closure { conde { x == [[2, x | []], y | y], [|t| { x == [[t], y, 2] }, |t| { |tz| { tz == [2, 2], [2, 1 | tz] != [2, 1, 2, 2] }, t != [3], true }] } }])
 }
 pub fn case_398(vars: &Vars) -> InferredGoal<DU, DE, Goal<DU, DE>> {
-    let x = vars.v[0].clone();
-    proto_vulcan!([onceo { [2 | x] == x }, [|tz| { tz == [2, 2], [3, 2, 2] != [3 | tz] }, x != [[_, x, x], [[]] | [2, x]]]])
-}
-pub fn case_399(vars: &Vars) -> InferredGoal<DU, DE, Goal<DU, DE>> {
     let q = vars.v[0].clone();
     let x = vars.v[1].clone();
-    proto_vulcan!([conde { [[[q, x] == x, []], condu { x != [[] | [x]], onceo { append(q, x, [2, 3]) }, conda { q != [[q], [3, 2 | q], [2, 1, q] | x] } }], conde { q == x, |x| { true, |tz| { tz == [3], [2, 3, 3] != [2, 3 | tz] }, x == [[q, q], [2 | q], [true]] } } }, conde { [], _ == x }, (1, x) == x])
+    proto_vulcan!([[condu { [conde { [q == [q, q, x | q], ([], []) == q], member(x, [1]) }, member(x, [2, 3])], [P3(2, q, _) == x, conde { q == [x] }], |y| { P3(2, x, 3) == x, P3([[], x], [3, x], []) == y } }], conde { [|x| { P3([], 2, 2) == q }, |z| {  }], [] }])
+}
+pub fn case_399(vars: &Vars) -> InferredGoal<DU, DE, Goal<DU, DE>> {
+    let x = vars.v[0].clone();
+    let y = vars.v[1].clone();
+    proto_vulcan!([|z, t| { conde { [[3, z] | x] == x, true, [conde { [append(t, x, [3, 3]), false], [append(t, z, [2]), x == [[], z]], [true, t == [z]] }, |tz| { tz == [2, 1], [3, 1 | tz] != [3, 1, 2, 1] }] }, |tz| { tz == [1, 1], [2, 2, 1, 1] != [2, 2 | tz] }, x == z }, conde { [x != x, |t| { member(x, [2]), conde { [([], [t, 3]) == "a", t != [1]], [_ | t] == [], [append(y, t, [2, 2]), t == [1, 3, 2 | y]] } }], [[conde { [y == x, false], [[1, 1, _], x] != x }, true, conde { [[[[], 1], x] == y, member(y, [3, 1, 1])], x != [x, [], _ | []], [|tz| { tz == [3], [3 | tz] != [3, 3] }, x != [y | x]] }]] }, x != 3, closure { onceo { onceo { x == x } } }])
 }
 pub fn case_400(vars: &Vars) -> InferredGoal<DU, DE, Goal<DU, DE>> {
     let x = vars.v[0].clone();
     let y = vars.v[1].clone();
-    proto_vulcan!([|tz| { tz == [1, 1], [2, 3 | tz] != [2, 3, 1, 1] }])
+    proto_vulcan!([conde { member(x, []), append(y, x, [3]) }, conde { y != [["bc"], [1, x, true]] }, closure { [true, onceo { _ != y }] }])
 }
 pub fn case_401(vars: &Vars) -> InferredGoal<DU, DE, Goal<DU, DE>> {
-    let x = vars.v[0].clone();
-    proto_vulcan!([P3(x, [], x) == x, x != P3(x, [[], 1], x), [x != [1]]])
+    let q = vars.v[0].clone();
+    let x = vars.v[1].clone();
+    proto_vulcan!([|h| { append(x, x, []) }, q == [1, q, _], q == [2, 1]])
 }
 pub fn case_402(vars: &Vars) -> InferredGoal<DU, DE, Goal<DU, DE>> {
     let q = vars.v[0].clone();
     let x = vars.v[1].clone();
-    proto_vulcan!([[append(q, x, [3]), |z| {  }, conde { [q == P3([], [3], [[]]), |x| { (_, [x, x]) == x }] }]])
+    proto_vulcan!([[] == [1]])
 }
 pub fn case_403(vars: &Vars) -> InferredGoal<DU, DE, Goal<DU, DE>> {
-    let q = vars.v[0].clone();
-    let x = vars.v[1].clone();
-    proto_vulcan!([[|t| { onceo { [] == [[1, _ | t], [2, x]] }, |y| { [[]] != q, y == [1, q] }, conde { [x == [x, 2, x], [2, 2 | x] == x], x != t, [q != q, ([t], 3) == x] } }, [q, 2, 2 | q] == x], append(x, q, [2, 2]), closure { [P3([x], [q], [_, _]) == 3, [[q, x] != [[q, [], x | x], [x, _ | q] | 2]]] }])
+    let x = vars.v[0].clone();
+    let y = vars.v[1].clone();
+    proto_vulcan!([P3([], 2, 2) != x, conde { [false, condu { [x == [_ | 'b'], x != 3], [member(y, []), |h, z| { y == [[2, [] | []], 2], |tz| { [3, 1, 1] != [3 | tz], tz == [1, 1] } }] }] }, onceo { x == x }])
 }
 pub fn case_404(vars: &Vars) -> InferredGoal<DU, DE, Goal<DU, DE>> {
-    let q = vars.v[0].clone();
-    let x = vars.v[1].clone();
-    proto_vulcan!([conde { q == [[2 | 2], [_ | x]], [|h, t| { P3(x, h, _) != t, t == [q, 1, "a" | t] }, x == []] }, [2, q, "a" | x] == q, closure { [|x| { q == q, q == P3([x, x], [], _), x == [2, x | x] }, member(q, [1, 1, 1])] }])
+    let x = vars.v[0].clone();
+    let y = vars.v[1].clone();
+    proto_vulcan!([|tz| { [3, 3, 3, 3] != [3, 3 | tz], tz == [3, 3] }])
 }
 pub fn case_405(vars: &Vars) -> InferredGoal<DU, DE, Goal<DU, DE>> {
     let q = vars.v[0].clone();
     let x = vars.v[1].clone();
-    proto_vulcan!([x == q, q == q])
+    proto_vulcan!([q != x, |t, x| { [true, [2 | q]] != [[1, [], "a"], [t, 3, 1], [[]]] }, [[_], [], [[], x]] != q, { let c__: InferredGoal<DU, DE, Goal<DU, DE>> = proto_vulcan_closure!(|yy| { conde { [q == [yy | _], yy == 1], [q == [_, yy | _], yy == 2] } }); let g__: Goal<DU, DE> = ::proto_vulcan::GoalCast::cast_into(c__); let r__: InferredGoal<DU, DE, Goal<DU, DE>> = proto_vulcan!([g__.clone(), g__]); r__ }])
 }
 pub fn case_406(vars: &Vars) -> InferredGoal<DU, DE, Goal<DU, DE>> {
     let x = vars.v[0].clone();
-    proto_vulcan!([|z| { x == [x, z], P3(z, [], 2) == x }, append(x, x, [1, 3])])
+    proto_vulcan!([[x, x, "bc"] != [x], |tz| { tz == [3, 2], [3 | tz] != [3, 3, 2] }, append(x, x, []), { let c__: InferredGoal<DU, DE, Goal<DU, DE>> = proto_vulcan_closure!(|yy| { conde { [x == [yy | _], yy == 1], [x == [_, yy | _], yy == 2] } }); let g__: Goal<DU, DE> = ::proto_vulcan::GoalCast::cast_into(c__); let r__: InferredGoal<DU, DE, Goal<DU, DE>> = proto_vulcan!([g__.clone(), g__]); r__ }])
 }
 pub fn case_407(vars: &Vars) -> InferredGoal<DU, DE, Goal<DU, DE>> {
-    let q = vars.v[0].clone();
-    let x = vars.v[1].clone();
-    proto_vulcan!([x == P3(q, q, x), 1 == x, { let c__: InferredGoal<DU, DE, Goal<DU, DE>> = proto_vulcan_closure!(|yy| { conde { [q == [yy | _], yy == 1], [q == [_, yy | _], yy == 2] } }); let g__: Goal<DU, DE> = ::proto_vulcan::GoalCast::cast_into(c__); let r__: InferredGoal<DU, DE, Goal<DU, DE>> = proto_vulcan!([g__.clone(), g__]); r__ }])
+    let x = vars.v[0].clone();
+    proto_vulcan!([[condu { x == [x, _ | x] }, [[_, x, []], [false, x, 3], 2] == x], P3(x, x, x) != x])
 }
 pub fn case_408(vars: &Vars) -> InferredGoal<DU, DE, Goal<DU, DE>> {
     let x = vars.v[0].clone();
-    let y = vars.v[1].clone();
-    proto_vulcan!([[_ != y, y == [y, 3]], y == [_], { let c__: InferredGoal<DU, DE, Goal<DU, DE>> = proto_vulcan_closure!([|yy| { conde { [y == [yy | _], yy == 1], [y == [_, yy | _], yy == 2] } }, [[], x] != x]); let g__: Goal<DU, DE> = ::proto_vulcan::GoalCast::cast_into(c__); let r__: InferredGoal<DU, DE, Goal<DU, DE>> = proto_vulcan!([g__.clone(), g__]); r__ }])
+    proto_vulcan!([|x| { |y| { |t| { |tz| { [1 | tz] != [1, 3, 3], tz == [3, 3] }, false, [2] == t }, (1, x) == y, 1 != [_] }, |x, z| { |z| { member(z, [1, 3, 1]) } } }, (3, []) != x])
 }
 pub fn case_409(vars: &Vars) -> InferredGoal<DU, DE, Goal<DU, DE>> {
     let x = vars.v[0].clone();
-    let y = vars.v[1].clone();
-    proto_vulcan!([append(y, x, [2]), P3(2, [x], x) != [y, 'a', _], y != P3(2, _, [[]])])
+    proto_vulcan!([|z, h| { [[x == (x, [2])]], x == z }, [x | x] == x, closure { 3 == _ }])
 }
 pub fn case_410(vars: &Vars) -> InferredGoal<DU, DE, Goal<DU, DE>> {
-    let x = vars.v[0].clone();
-    proto_vulcan!([onceo { member(x, [1]) }, { let c__: InferredGoal<DU, DE, Goal<DU, DE>> = proto_vulcan_closure!(|yy| { conde { [x == [yy | _], yy == 1], [x == [_, yy | _], yy == 2] } }); let g__: Goal<DU, DE> = ::proto_vulcan::GoalCast::cast_into(c__); let r__: InferredGoal<DU, DE, Goal<DU, DE>> = proto_vulcan!([g__.clone(), g__]); r__ }])
+    let q = vars.v[0].clone();
+    let x = vars.v[1].clone();
+    proto_vulcan!([|z, x| { onceo { 3 == (_, []) }, [2, x | x] == x }, closure { [q == (2, _), |x| { true, onceo { x != [x] }, |x, y| { true, 1 == x } }] }])
 }
 pub fn case_411(vars: &Vars) -> InferredGoal<DU, DE, Goal<DU, DE>> {
-    let x = vars.v[0].clone();
-    let y = vars.v[1].clone();
-    proto_vulcan!([member(y, [])])
+    let q = vars.v[0].clone();
+    let x = vars.v[1].clone();
+    proto_vulcan!([conde { x == ([], _), conde { [|z| { [[z, 2, 1 | [1]] | 1] == [_], [['b', 2, 1 | z], z] == (1, [_, _]) }, conda { true, [[3 | x] == x, x != [[], [], 2]] }], [conde { [["bc", [q, true, q], q] == [[], q, []], [1, "bc", [] | x] == q] }, |y, h| { [1] == h }] } }, [(_, x) == P3([1, q], q, [1]), q == _, _ == q], [[], "bc" | x] != x, { let c__: InferredGoal<DU, DE, Goal<DU, DE>> = proto_vulcan_closure!(|yy| { conde { [q == [yy | _], yy == 1], [q == [_, yy | _], yy == 2] } }); let g__: Goal<DU, DE> = ::proto_vulcan::GoalCast::cast_into(c__); let r__: InferredGoal<DU, DE, Goal<DU, DE>> = proto_vulcan!([g__.clone(), g__]); r__ }])
 }
 pub fn case_412(vars: &Vars) -> InferredGoal<DU, DE, Goal<DU, DE>> {
-    let x = vars.v[0].clone();
-    let y = vars.v[1].clone();
-    proto_vulcan!([conde { [[true], [[]] == x], [x != y, [2, y, 3] == y] }, [x == P3(3, 3, 1)], x == [[]]])
+    let q = vars.v[0].clone();
+    let x = vars.v[1].clone();
+    proto_vulcan!(["a" == x])
 }
 pub fn case_413(vars: &Vars) -> InferredGoal<DU, DE, Goal<DU, DE>> {
     let x = vars.v[0].clone();
-    proto_vulcan!([[onceo { conde { [[2] == x, x == [3]] } }]])
+    proto_vulcan!([x != P3([x, _], [1], [x, 1]), x == [x, 1, _], [|tz| { tz == [1, 2], [1, 1, 1, 2] != [1, 1 | tz] }]])
 }
 pub fn case_414(vars: &Vars) -> InferredGoal<DU, DE, Goal<DU, DE>> {
     let x = vars.v[0].clone();
-    proto_vulcan!([x == (x, [x]), [x] == x, [x == ['a'], [2] == x, P3(3, [], _) == x]])
+    proto_vulcan!([[2, x, false | x] == x, conde { false, [|z| { (2, _) == x, [x == [], [x] == z, [x] == z], ([], []) == [] }, ["a", 2] == x], [|z| { [z, 2 | z] == z, conde { [false, |tz| { tz == [1, 1], [1, 2 | tz] != [1, 2, 1, 1] }], false }, member(x, [2]) }, x == [x, 2]] }, { let c__: InferredGoal<DU, DE, Goal<DU, DE>> = proto_vulcan_closure!(|yy| { conde { [x == [yy | _], yy == 1], [x == [_, yy | _], yy == 2] } }); let g__: Goal<DU, DE> = ::proto_vulcan::GoalCast::cast_into(c__); let r__: InferredGoal<DU, DE, Goal<DU, DE>> = proto_vulcan!([g__.clone(), g__]); r__ }])
 }
 pub fn case_415(vars: &Vars) -> InferredGoal<DU, DE, Goal<DU, DE>> {
-    let x = vars.v[0].clone();
-    proto_vulcan!([false, |t, h| { conde { [onceo { [[], [], h] == x }, |tz| { [3, 2] != [3 | tz], tz == [2] }], x != false, [t == P3(t, [_, _], []), [true, [h, 1 | t] == P3(h, x, x), P3([], _, h) == x]] }, [[], h, 2] == x, |y| { (1, []) != 3, conde { |tz| { tz == [1, 1], [2, 2 | tz] != [2, 2, 1, 1] } }, (x, []) == x } }, [[]] != 2, { let c__: InferredGoal<DU, DE, Goal<DU, DE>> = proto_vulcan_closure!([|yy| { conde { [x == [yy | _], yy == 1], [x == [_, yy | _], yy == 2] } }, _ == x]); let g__: Goal<DU, DE> = ::proto_vulcan::GoalCast::cast_into(c__); let r__: InferredGoal<DU, DE, Goal<DU, DE>> = proto_vulcan!([g__.clone(), g__]); r__ }])
-}
-pub fn case_416(vars: &Vars) -> InferredGoal<DU, DE, Goal<DU, DE>> {
-    let x = vars.v[0].clone();
-    let y = vars.v[1].clone();
-    proto_vulcan!([(1, 2) != [3 | [x]]])
-}
-pub fn case_417(vars: &Vars) -> InferredGoal<DU, DE, Goal<DU, DE>> {
     let q = vars.v[0].clone();
     let x = vars.v[1].clone();
-    proto_vulcan!([[(1, x) != x, member(x, [3, 1]), conde { x == (_, [[]]), [|t| { q == q }, x == q] }]])
+    proto_vulcan!([conde { [x == P3(1, [1], _), [[]] == [2, "bc" | x]], |y, z| { 3 == y, y == [[2]] } }, conde { conda { [condu { [[[] | q] == x, false] }, onceo { x != [2] }], [|z, t| { [x | z] != q }, [true]], [[["bc"], 1 | q] == q, conde { [q != x, member(q, [1, 1])] }] } }])
+}
+pub fn case_416(vars: &Vars) -> InferredGoal<DU, DE, Goal<DU, DE>> {
+    let q = vars.v[0].clone();
+    let x = vars.v[1].clone();
+    proto_vulcan!([conde { [|x| { x == x, conde { [|tz| { tz == [2, 3], [3, 3, 2, 3] != [3, 3 | tz] }, x == [[3], x, [q, x, 1] | x]], [q != ([], x), x == P3(2, _, [])] } }, append(x, x, [3])], [q == q, true], (3, []) == q }, conde { |x, y| { [3, q, 1] == y }, P3(x, x, []) == x }, { let c__: InferredGoal<DU, DE, Goal<DU, DE>> = proto_vulcan_closure!([|yy| { conde { [x == [yy | _], yy == 1], [x == [_, yy | _], yy == 2] } }, [P3(3, [_], []) == q]]); let g__: Goal<DU, DE> = ::proto_vulcan::GoalCast::cast_into(c__); let r__: InferredGoal<DU, DE, Goal<DU, DE>> = proto_vulcan!([g__.clone(), g__]); r__ }])
+}
+pub fn case_417(vars: &Vars) -> InferredGoal<DU, DE, Goal<DU, DE>> {
+    let x = vars.v[0].clone();
+    let y = vars.v[1].clone();
+    proto_vulcan!([condu { [member(x, [1, 3, 2]), onceo { [[_, x, 'b'], ["bc", x, _ | x] | y] != y }], [condu { [[true, false]], [[], |z| { [2, 3, [] | z] != y, z == 'b', ([3], 3) == x }], [_ == y, y == [y, x, false | y]] }, x == [_, y, _ | y]], [x == x, onceo { x == (2, []) }] }, onceo { |x| { |t, y| { [[], 3, "bc"] == y, [x] != P3(t, 1, x), t != 1 } } }])
 }
 pub fn case_418(vars: &Vars) -> InferredGoal<DU, DE, Goal<DU, DE>> {
     let x = vars.v[0].clone();
     let y = vars.v[1].clone();
-    proto_vulcan!([append(y, x, [3, 2])])
+    proto_vulcan!([[2, x, 1] != x])
 }
 pub fn case_419(vars: &Vars) -> InferredGoal<DU, DE, Goal<DU, DE>> {
     let x = vars.v[0].clone();
-    proto_vulcan!([|y| { [] }, true, [_] == x])
+    proto_vulcan!([conde { x != [2], [[x == ['b', x, x], (x, x) != x, |z, y| { [2, x] == x, y == P3([], 3, 2) }], false], true }, x == (_, 3), member(x, [])])
 }
 pub fn case_420(vars: &Vars) -> InferredGoal<DU, DE, Goal<DU, DE>> {
     let q = vars.v[0].clone();
     let x = vars.v[1].clone();
-    proto_vulcan!([[[[]], [[], x | x], true | [x, _]] == q])
+    proto_vulcan!([true, x == x, true])
 }
 pub fn case_421(vars: &Vars) -> InferredGoal<DU, DE, Goal<DU, DE>> {
     let x = vars.v[0].clone();
-    let y = vars.v[1].clone();
-    proto_vulcan!([x == x, member(x, [2, 1, 2])])
+    proto_vulcan!([[|y, h| { y == [3, 3] }, |h| { onceo { h == x }, x == [_, 2, _] }, _ == x], { let c__: InferredGoal<DU, DE, Goal<DU, DE>> = proto_vulcan_closure!([|yy| { conde { [x == [yy | _], yy == 1], [x == [_, yy | _], yy == 2] } }, onceo { x == [true, x] }]); let g__: Goal<DU, DE> = ::proto_vulcan::GoalCast::cast_into(c__); let r__: InferredGoal<DU, DE, Goal<DU, DE>> = proto_vulcan!([g__.clone(), g__]); r__ }])
 }
 pub fn case_422(vars: &Vars) -> InferredGoal<DU, DE, Goal<DU, DE>> {
     let x = vars.v[0].clone();
-    proto_vulcan!([[[]] == x, x == [[x], [[], x], []]])
+    let y = vars.v[1].clone();
+    proto_vulcan!([condu { [onceo { x != 2 }, [y, y, y] == x], P3(y, 2, _) == y }, [['b', 3 | y], [3], "a"] == x, |y| { condu { [y == [1, y], y == P3(y, [], [])], onceo { [2] != y } } }])
 }
 pub fn case_423(vars: &Vars) -> InferredGoal<DU, DE, Goal<DU, DE>> {
     let x = vars.v[0].clone();
-    let y = vars.v[1].clone();
-    proto_vulcan!([x == ([1, _], [y, 1]), append(y, y, [3, 1]), closure { [|z, y| { [[1], _] == [], [[] == y] }, y == y] }])
+    proto_vulcan!([|x| { |x, y| { x == [[], x] } }])
 }
 pub fn case_424(vars: &Vars) -> InferredGoal<DU, DE, Goal<DU, DE>> {
-    let q = vars.v[0].clone();
-    let x = vars.v[1].clone();
-    proto_vulcan!([|tz| { [1, 3, 3] != [1, 3 | tz], tz == [3] }])
+    let x = vars.v[0].clone();
+    proto_vulcan!([x != []])
 }
 pub fn case_425(vars: &Vars) -> InferredGoal<DU, DE, Goal<DU, DE>> {
-    let x = vars.v[0].clone();
-    proto_vulcan!([[x, x, 3] == P3([2, 1], x, 1), x != [x, 3, x], closure { onceo { condu { [member(x, [3, 1]), x == (_, [2])], x == [2], [x == [[false, x, "bc" | x], [false, 1], ['b', _ | x] | x], x == x] } } }])
+    let q = vars.v[0].clone();
+    let x = vars.v[1].clone();
+    proto_vulcan!([|h| { [conde { append(q, h, []), [q == [[h, 1], [[], 2 | h], [3, x | h]], member(h, [2])] }, |z| { false, P3(q, h, [_]) == (2, 2) }], (h, [2]) == x }, |h, z| { conda { [[false], q == [[h, 3], [false | x], _]] }, |z| { conda { [z == 2, member(z, [3])], [z == P3([q, z], 3, []), x != q] }, conde { member(h, []), z == z, [] }, member(h, []) } }, false])
 }
 pub fn case_426(vars: &Vars) -> InferredGoal<DU, DE, Goal<DU, DE>> {
-    let x = vars.v[0].clone();
-    proto_vulcan!([[condu { onceo { member(x, [3]) }, x == [x, 'a', 2 | 2], [|x| { x != 1 }, P3(x, [1], [[], x]) == x] }, member(x, [2, 1, 2]), |tz| { tz == [2], [3 | tz] != [3, 2] }], x == [3, [x, x, 'b'] | 2], { let c__: InferredGoal<DU, DE, Goal<DU, DE>> = proto_vulcan_closure!([|yy| { conde { [x == [yy | _], yy == 1], [x == [_, yy | _], yy == 2] } }, false]); let g__: Goal<DU, DE> = ::proto_vulcan::GoalCast::cast_into(c__); let r__: InferredGoal<DU, DE, Goal<DU, DE>> = proto_vulcan!([g__.clone(), g__]); r__ }])
+    let q = vars.v[0].clone();
+    let x = vars.v[1].clone();
+    proto_vulcan!([x == [x, _]])
 }
 pub fn case_427(vars: &Vars) -> InferredGoal<DU, DE, Goal<DU, DE>> {
     let x = vars.v[0].clone();
-    proto_vulcan!([|y| { ['a'] == y, onceo { y == (x, []) }, conde { [y != [1 | y], y == [y, 2 | y]], |h, y| { [_ | h] == x, [[1, 2], [h | [1, []]]] == P3([], _, _), y == [_, 3, 2 | [x, y]] } } }, |t| { 1 == [2, [t, t | []], [t]], append(t, t, []) }, closure { false }])
+    let y = vars.v[1].clone();
+    proto_vulcan!([member(x, []), conde { y == ([y, 1], x), [[x] == y, 3 != 'a'] }, [[y, y | x], [x, x, []]] == x])
 }
 pub fn case_428(vars: &Vars) -> InferredGoal<DU, DE, Goal<DU, DE>> {
-    let q = vars.v[0].clone();
-    let x = vars.v[1].clone();
-    proto_vulcan!([[1] != [x, 2], closure { q == x }])
+    let x = vars.v[0].clone();
+    proto_vulcan!([x == (x, [2, 1]), (2, x) != x])
 }
 pub fn case_429(vars: &Vars) -> InferredGoal<DU, DE, Goal<DU, DE>> {
     let x = vars.v[0].clone();
     let y = vars.v[1].clone();
-    proto_vulcan!([[[1, y], [x, 2 | [x]], ['b'] | y] == [[y]], closure { [|h| { |h, x| { false, append(h, h, []), 1 == y } }, |t, h| { t == [[] | x] }] }])
+    proto_vulcan!([y == ([2], [_, 1])])
 }
 pub fn case_430(vars: &Vars) -> InferredGoal<DU, DE, Goal<DU, DE>> {
     let x = vars.v[0].clone();
     let y = vars.v[1].clone();
-    proto_vulcan!([x == ([2, 2], x)])
+    proto_vulcan!([y == P3(3, 3, []), [y != [x, []], [true, x] == ([y, x], []), [] == y], y != [[x], y, [_] | y], { let c__: InferredGoal<DU, DE, Goal<DU, DE>> = proto_vulcan_closure!(|yy| { conde { [y == [yy | _], yy == 1], [y == [_, yy | _], yy == 2] } }); let g__: Goal<DU, DE> = ::proto_vulcan::GoalCast::cast_into(c__); let r__: InferredGoal<DU, DE, Goal<DU, DE>> = proto_vulcan!([g__.clone(), g__]); r__ }])
 }
 pub fn case_431(vars: &Vars) -> InferredGoal<DU, DE, Goal<DU, DE>> {
-    let q = vars.v[0].clone();
-    let x = vars.v[1].clone();
-    proto_vulcan!([conde { q == [[_ | q]], conda { q != [1] }, [x, 1, 1] != x }, x != [1, [3, [], "bc"]], q == [_, 2]])
-}
-pub fn case_432(vars: &Vars) -> InferredGoal<DU, DE, Goal<DU, DE>> {
-    let q = vars.v[0].clone();
-    let x = vars.v[1].clone();
-    proto_vulcan!([[[x, false, x | x] | q] == ['a']])
-}
-pub fn case_433(vars: &Vars) -> InferredGoal<DU, DE, Goal<DU, DE>> {
     let x = vars.v[0].clone();
     let y = vars.v[1].clone();
-    proto_vulcan!([onceo { onceo { x == (1, x) } }, |x, t| { |z| { 2 == t } }, [conde { |z| { x == ["bc" | y] }, [2 != x, [[2, [], 3 | x], x | [y, []]] != P3(1, 3, x)] }, onceo { conde { [[_] == y, |tz| { tz == [3, 1], [2, 2 | tz] != [2, 2, 3, 1] }], [[2]] == [_, [x, y | y], 'b'], [] } }, |tz| { tz == [2], [3, 2 | tz] != [3, 2, 2] }]])
+    proto_vulcan!([P3(1, [2, 3], x) == P3(3, _, y)])
+}
+pub fn case_432(vars: &Vars) -> InferredGoal<DU, DE, Goal<DU, DE>> {
+    let x = vars.v[0].clone();
+    let y = vars.v[1].clone();
+    proto_vulcan!([y == _, false])
+}
+pub fn case_433(vars: &Vars) -> InferredGoal<DU, DE, Goal<DU, DE>> {
+    let q = vars.v[0].clone();
+    let x = vars.v[1].clone();
+    proto_vulcan!([|z, t| { q != [[], 3 | []] }, |tz| { [3, 1, 1] != [3, 1 | tz], tz == [1] }, |z| { (3, 3) == q, conda { [[[3, 2 | q] != [[[], 2], z, 3]]], conde { [3 == q, z == 2], z == x } }, [q, q] != q }])
 }
 pub fn case_434(vars: &Vars) -> InferredGoal<DU, DE, Goal<DU, DE>> {
     let x = vars.v[0].clone();
-    let y = vars.v[1].clone();
-    proto_vulcan!([[x == _]])
+    proto_vulcan!([[[] | [1, x]] == x, x != []])
 }
 pub fn case_435(vars: &Vars) -> InferredGoal<DU, DE, Goal<DU, DE>> {
-    let x = vars.v[0].clone();
-    proto_vulcan!([false, conda { [3] == x, 2 == x }, [condu { [[x] == x, |tz| { [1 | tz] != [1, 2], tz == [2] }] }, |y| { conde { true, (y, 1) == x } }], closure { x == [x, 1 | x] }])
+    let q = vars.v[0].clone();
+    let x = vars.v[1].clone();
+    proto_vulcan!([|h| { h == P3(3, x, [[]]), [h | x] == q }, [1 | _] != q, conde { [|x| { |tz| { [3, 1 | tz] != [3, 1, 1, 2], tz == [1, 2] }, x == x, |y| { [[2] | q] == y } }, conda { [|x, h| { true, h == h }, x == 3], x == P3(3, 1, []), [2 != q, [false]] }] }, closure { [x != [[_, q, q], [q], [1]], |y| { |tz| { [3, 2, 1] != [3 | tz], tz == [2, 1] }, q == [[q, x] | x] }] }])
 }
 pub fn case_436(vars: &Vars) -> InferredGoal<DU, DE, Goal<DU, DE>> {
     let x = vars.v[0].clone();
     let y = vars.v[1].clone();
-    proto_vulcan!([[x] != x])
+    proto_vulcan!([[[], 2, y] == x, y != 'a'])
 }
 pub fn case_437(vars: &Vars) -> InferredGoal<DU, DE, Goal<DU, DE>> {
-    let x = vars.v[0].clone();
-    proto_vulcan!([[[], conda { [x == [1, 2], |x| { [x] != x, false, P3(1, x, x) == x }], [conde { [x == [false], x == [_, x, x | x]], [3, []] == x, [([], [2]) == x, x != (x, [[]])] }, [x | x] == x] }], |y, z| { [[2, y]] == x, onceo { |x, z| { [[y | z], [2, z], [3] | x] == [z, [x, 1, z] | y], [] == y } }, [] == x }, closure { |h| { |z, x| { true }, [h == [], P3(1, h, [1]) != x] } }])
+    let q = vars.v[0].clone();
+    let x = vars.v[1].clone();
+    proto_vulcan!([member(q, []), |h, z| { false }, [['b', 2, 3 | q], [[], 1, x | x], ["bc", _, 1 | x] | q] == x])
 }
 pub fn case_438(vars: &Vars) -> InferredGoal<DU, DE, Goal<DU, DE>> {
-    let q = vars.v[0].clone();
-    let x = vars.v[1].clone();
-    proto_vulcan!([3 == x])
-}
-pub fn case_439(vars: &Vars) -> InferredGoal<DU, DE, Goal<DU, DE>> {
     let x = vars.v[0].clone();
     let y = vars.v[1].clone();
-    proto_vulcan!([(3, 1) == 1, P3([3], [y], y) == x, false])
+    proto_vulcan!([conda { [[member(y, [])], |t, x| { t != t }] }, |t| { [_, 2, t] == x, [1 | t] != x, [t, t | t] == y }, { let c__: InferredGoal<DU, DE, Goal<DU, DE>> = proto_vulcan_closure!(|yy| { conde { [x == [yy | _], yy == 1], [x == [_, yy | _], yy == 2] } }); let g__: Goal<DU, DE> = ::proto_vulcan::GoalCast::cast_into(c__); let r__: InferredGoal<DU, DE, Goal<DU, DE>> = proto_vulcan!([g__.clone(), g__]); r__ }])
 }
-pub fn case_440(vars: &Vars) -> InferredGoal<DU, DE, Goal<DU, DE>> {
+pub fn case_439(vars: &Vars) -> InferredGoal<DU, DE, Goal<DU, DE>> {
     let q = vars.v[0].clone();
     let x = vars.v[1].clone();
-    proto_vulcan!([|t, z| { 'a' != t }, x == q, closure { q == q }])
+    proto_vulcan!([member(x, [2, 2, 3])])
+}
+pub fn case_440(vars: &Vars) -> InferredGoal<DU, DE, Goal<DU, DE>> {
+    let x = vars.v[0].clone();
+    let y = vars.v[1].clone();
+    proto_vulcan!([P3(x, [[], 3], _) == x, [2 == y, |h| { onceo { y == y }, h == x }, onceo { x == 1 }]])
 }
 pub fn case_441(vars: &Vars) -> InferredGoal<DU, DE, Goal<DU, DE>> {
     let q = vars.v[0].clone();
     let x = vars.v[1].clone();
-    proto_vulcan!([conde { [q != P3([], [2, []], _), q == [3, []]], |y, t| { conda { [false, t == y], [[2] != 3, [_, 1 | t] != [[_], 2]] }, y == [[x, x | t], ["a"]], _ != [2, [q, true, [] | q]] } }, { let c__: InferredGoal<DU, DE, Goal<DU, DE>> = proto_vulcan_closure!([|yy| { conde { [q == [yy | _], yy == 1], [q == [_, yy | _], yy == 2] } }, false]); let g__: Goal<DU, DE> = ::proto_vulcan::GoalCast::cast_into(c__); let r__: InferredGoal<DU, DE, Goal<DU, DE>> = proto_vulcan!([g__.clone(), g__]); r__ }])
+    proto_vulcan!([x == [[]], [] == x])
 }
 pub fn case_442(vars: &Vars) -> InferredGoal<DU, DE, Goal<DU, DE>> {
-    let x = vars.v[0].clone();
-    proto_vulcan!([conde { [conde { [true, [x == [[1, 2, x | x], [x, _ | x], [x]], x != [[], 1 | x]]], [|h| { x == h }, |t, h| { h == 2, member(h, [1, 2, 1]), t == [[2, x, _]] }] }, [[[[3, 1], [3, 1, true]] == x, P3([2, x], [2], x) != x, x == []], |tz| { tz == [3, 1], [3, 3, 3, 1] != [3, 3 | tz] }, |t| { x == 'b', append(t, t, []) }]] }, [P3([x], x, [_, _]) == x, x == [x, x, x]], closure { true }])
+    let q = vars.v[0].clone();
+    let x = vars.v[1].clone();
+    proto_vulcan!([(2, q) == q, |t| { conda { [t, 'a'] != t, member(t, [2]) }, conde { [onceo { |tz| { [2, 3, 3, 2] != [2, 3 | tz], tz == [3, 2] } }, x == P3(3, _, _)], [x, _ | q] == t } }, [conde { [[[], 'b'] != x, []], [[|tz| { tz == [3, 3], [3, 2, 3, 3] != [3, 2 | tz] }]], true }]])
 }
 pub fn case_443(vars: &Vars) -> InferredGoal<DU, DE, Goal<DU, DE>> {
     let q = vars.v[0].clone();
     let x = vars.v[1].clone();
-    proto_vulcan!([[[[], 1 | q], [q, x] | x] != (1, []), { let c__: InferredGoal<DU, DE, Goal<DU, DE>> = proto_vulcan_closure!([|yy| { conde { [x == [yy | _], yy == 1], [x == [_, yy | _], yy == 2] } }, |tz| { tz == [1], [2, 3 | tz] != [2, 3, 1] }]); let g__: Goal<DU, DE> = ::proto_vulcan::GoalCast::cast_into(c__); let r__: InferredGoal<DU, DE, Goal<DU, DE>> = proto_vulcan!([g__.clone(), g__]); r__ }])
+    proto_vulcan!([q == [[[], [], 1 | x], [_], []], { let c__: InferredGoal<DU, DE, Goal<DU, DE>> = proto_vulcan_closure!(|yy| { conde { [q == [yy | _], yy == 1], [q == [_, yy | _], yy == 2] } }); let g__: Goal<DU, DE> = ::proto_vulcan::GoalCast::cast_into(c__); let r__: InferredGoal<DU, DE, Goal<DU, DE>> = proto_vulcan!([g__.clone(), g__]); r__ }])
 }
 pub fn case_444(vars: &Vars) -> InferredGoal<DU, DE, Goal<DU, DE>> {
     let x = vars.v[0].clone();
-    let y = vars.v[1].clone();
-    proto_vulcan!([|tz| { [3, 1 | tz] != [3, 1, 2, 2], tz == [2, 2] }, closure { [onceo { append(x, x, [3]) }, y != [y, [], 1]] }])
+    proto_vulcan!([x == [2, 1, [1] | x], onceo { x == [true] }, |y| { x == P3([3, 2], [y], 3) }, closure { [condu { [[x == x, true, false], x == P3(2, _, x)], x != x }, conde { [3] == x, x == [] }] }])
 }
 pub fn case_445(vars: &Vars) -> InferredGoal<DU, DE, Goal<DU, DE>> {
-    let q = vars.v[0].clone();
-    let x = vars.v[1].clone();
-    proto_vulcan!([|tz| { [3, 2 | tz] != [3, 2, 2, 1], tz == [2, 1] }, { let c__: InferredGoal<DU, DE, Goal<DU, DE>> = proto_vulcan_closure!(|yy| { conde { [x == [yy | _], yy == 1], [x == [_, yy | _], yy == 2] } }); let g__: Goal<DU, DE> = ::proto_vulcan::GoalCast::cast_into(c__); let r__: InferredGoal<DU, DE, Goal<DU, DE>> = proto_vulcan!([g__.clone(), g__]); r__ }])
+    let x = vars.v[0].clone();
+    proto_vulcan!([conda { [[|x, y| { x == "a", [] != 2 }], false], append(x, x, [3]) }, 1 == x, member(x, [2])])
 }
 pub fn case_446(vars: &Vars) -> InferredGoal<DU, DE, Goal<DU, DE>> {
-    let x = vars.v[0].clone();
-    let y = vars.v[1].clone();
-    proto_vulcan!([([x, []], y) == y])
+    let q = vars.v[0].clone();
+    let x = vars.v[1].clone();
+    proto_vulcan!([append(q, x, [3])])
 }
 pub fn case_447(vars: &Vars) -> InferredGoal<DU, DE, Goal<DU, DE>> {
     let x = vars.v[0].clone();
@@ -2325,867 +2318,979 @@ pub fn case_454(vars: &Vars) -> InferredGoal<DU, DE, Goal<DU, DE>> {
 }
 pub fn case_455(vars: &Vars) -> InferredGoal<DU, DE, Goal<DU, DE>> {
     let x = vars.v[0].clone();
-    proto_vulcan!([1 == x, append(x, x, []), ['a', 3, 1] != x, closure { [match [1, x, x] { z | 2 => { |h, y| { append(h, h, []), true } }, 1 => [match x { _ => member(x, [1, 2, 3]), }, x == ["bc" | x]], Named { a: 1, b: [t, h] } => { |y, t| { [[h, t, _ | x], 1, [[], _, 2 | t]] == P3(t, x, t) }, matche t { [[z, 2], [2, true], [h, "a"]] => { x == ["a" | h] }, h => , _ | _ => member(h, [1, 2, 3]), } }, }, match [_, x, x | x] { y => P3([x, x], [], 2) == x, _ => { member(x, [2, 1, 2]), x == x }, }] }])
+    let y = vars.v[1].clone();
+    proto_vulcan!([y == [2 | x], conde { [matche x { t => { conde { [([_, []], [2]) != x, [x, "a", x | y] == x], |tz| { tz == [3, 3], [2, 1 | tz] != [2, 1, 3, 3] } }, false }, }, [2, y, x] == y], [conde { [1, x, 3] == y, [conde { [], [[x | 1] == x, [y, _] == y] }, [2 == y]], y != [[1, 1], [_, y]] }, member(x, [1, 2, 3])], |h, x| { |t| { h == [] }, matche x { Named { a: 2, b: [] } => [x != ([_], h), false], }, member(y, [2, 1, 2]) } }, conde { 3 == 1, match x { "bc" => { |y, z| { append(y, x, [1]), z == 1 } }, 3 => |h, x| { x == [y, false, ['b' | x] | _] }, 1 => { matche y { [['a', 2]] => { y != ([y, _], 2) }, _ | [] => , [[h, 1 | _], 1, true | h] => true, }, member(y, [1]) }, }, conde { [x == [[1 | x]], |tz| { [3, 2] != [3 | tz], tz == [2] }], [[(x, 3) == (y, [_, []]), |tz| { [1, 2, 3] != [1, 2 | tz], tz == [3] }, [y, [] | y] != y], [[x, x | y], [1, _], [x, 2, x | x]] == [_, x | []]] } }])
 }
 pub fn case_456(vars: &Vars) -> InferredGoal<DU, DE, Goal<DU, DE>> {
     let x = vars.v[0].clone();
-    proto_vulcan!([1 == x, append(x, x, []), ['a', 3, 1] != x, closure { [match [1, x, x] { z | 2 => { |fresh_name_9, y| { append(fresh_name_9, fresh_name_9, []), true } }, 1 => [match x { _ => member(x, [1, 2, 3]), }, x == ["bc" | x]], Named { a: 1, b: [t, h] } => { |y, t| { [[h, t, _ | x], 1, [[], _, 2 | t]] == P3(t, x, t) }, matche t { [[z, 2], [2, true], [h, "a"]] => { x == ["a" | h] }, h => , _ | _ => member(h, [1, 2, 3]), } }, }, match [_, x, x | x] { y => P3([x, x], [], 2) == x, _ => { member(x, [2, 1, 2]), x == x }, }] }])
+    let y = vars.v[1].clone();
+    proto_vulcan!([y == [2 | x], conde { [matche x { t => { conde { [([_, []], [2]) != x, [x, "a", x | y] == x], |tz| { tz == [3, 3], [2, 1 | tz] != [2, 1, 3, 3] } }, false }, }, [2, y, x] == y], [conde { [1, x, 3] == y, [conde { [], [[x | 1] == x, [y, _] == y] }, [2 == y]], y != [[1, 1], [_, y]] }, member(x, [1, 2, 3])], |h, x| { |t| { h == [] }, matche x { Named { a: 2, b: [] } => [x != ([_], h), false], }, member(y, [2, 1, 2]) } }, conde { 3 == 1, match x { "bc" => { |y, z| { append(y, x, [1]), z == 1 } }, 3 => |h, x| { x == [y, false, ['b' | x] | _] }, 1 => { matche y { [['a', 2]] => { y != ([y, _], 2) }, _ | [] => , [[fresh_name_9, 1 | _], 1, true | fresh_name_9] => true, }, member(y, [1]) }, }, conde { [x == [[1 | x]], |tz| { [3, 2] != [3 | tz], tz == [2] }], [[(x, 3) == (y, [_, []]), |tz| { [1, 2, 3] != [1, 2 | tz], tz == [3] }, [y, [] | y] != y], [[x, x | y], [1, _], [x, 2, x | x]] == [_, x | []]] } }])
 }
 pub fn case_457(vars: &Vars) -> InferredGoal<DU, DE, Goal<DU, DE>> {
-    let x = vars.v[0].clone();
-    proto_vulcan!([matche [false, x, 2] { [[y, 2 | z], h] => , P3(x, [[]], [1, _]) => , h => { [x == x, conde { x == P3([[], h], h, x) }, ([], [x, 1]) != h] }, }, |t| { [x == [[2, _ | t], 'a', x]], true, match [t | t] { _ | 3 => , } }, [[] | [false, x]] == x, { let c__: InferredGoal<DU, DE, Goal<DU, DE>> = proto_vulcan_closure!(|yy| { conde { [x == [yy | _], yy == 1], [x == [_, yy | _], yy == 2] } }); let g__: Goal<DU, DE> = ::proto_vulcan::GoalCast::cast_into(c__); let r__: InferredGoal<DU, DE, Goal<DU, DE>> = proto_vulcan!([g__.clone(), g__]); r__ }])
+    let q = vars.v[0].clone();
+    let x = vars.v[1].clone();
+    proto_vulcan!([1 != q, q == (x, [[], x]), conde { conde { [conde { x == x, [true, append(x, x, [])] }, match q { P3(x, [[]], [[]]) => [member(q, []), member(x, [1, 3])], }], [[x == [_, x], q == [[], q, 1 | x]]], [[x == [q, q | q]], member(x, [3, 2, 2])] }, [q, q, _ | x] == q, conde { |t| { append(t, x, [1]) }, P3([], x, q) == x, [|z| { [[1 | z], ['b', q], z] == 2 }, q != P3(1, x, 2)] } }])
 }
 pub fn case_458(vars: &Vars) -> InferredGoal<DU, DE, Goal<DU, DE>> {
-    let x = vars.v[0].clone();
-    proto_vulcan!([matche [false, x, 2] { [[y, 2 | z], h] => , P3(x, [[]], [1, _]) => , h => { [x == x, conde { x == P3([[], h], h, x) }, ([], [x, 1]) != h] }, }, |fresh_name_9| { [x == [[2, _ | fresh_name_9], 'a', x]], true, match [fresh_name_9 | fresh_name_9] { _ | 3 => , } }, [[] | [false, x]] == x, { let c__: InferredGoal<DU, DE, Goal<DU, DE>> = proto_vulcan_closure!(|yy| { conde { [x == [yy | _], yy == 1], [x == [_, yy | _], yy == 2] } }); let g__: Goal<DU, DE> = ::proto_vulcan::GoalCast::cast_into(c__); let r__: InferredGoal<DU, DE, Goal<DU, DE>> = proto_vulcan!([g__.clone(), g__]); r__ }])
+    let q = vars.v[0].clone();
+    let x = vars.v[1].clone();
+    proto_vulcan!([1 != q, q == (x, [[], x]), conde { conde { [conde { x == x, [true, append(x, x, [])] }, match q { P3(x, [[]], [[]]) => [member(q, []), member(x, [1, 3])], }], [[x == [_, x], q == [[], q, 1 | x]]], [[x == [q, q | q]], member(x, [3, 2, 2])] }, [q, q, _ | x] == q, conde { |fresh_name_9| { append(fresh_name_9, x, [1]) }, P3([], x, q) == x, [|z| { [[1 | z], ['b', q], z] == 2 }, q != P3(1, x, 2)] } }])
 }
 pub fn case_459(vars: &Vars) -> InferredGoal<DU, DE, Goal<DU, DE>> {
     let x = vars.v[0].clone();
-    let y = vars.v[1].clone();
-    proto_vulcan!([conde { [[match x { [[y]] | [["bc", _ | h], 2, [t, [], z]] => [member(x, [1, 3, 2]), P3([[]], [[], []], 2) == x], }, [] == 2, member(y, [])], matche [1, []] { Named { a: 1, b: 2 } => , }], P3(x, 2, _) == y, x == ['b'] }, |t| { [matche t { _ => { t == 7, t == 8 }, _ => { t == 7, t == 8 }, _ => { member(y, [1, 2, 3]) }, }, |h, t| { h != [true, y, 3] }, y == P3([], t, 3)], |h, y| {  } }])
+    proto_vulcan!([x != [x, _], [true, x | 2] == x, { let c__: InferredGoal<DU, DE, Goal<DU, DE>> = proto_vulcan_closure!(|yy| { conde { [x == [yy | _], yy == 1], [x == [_, yy | _], yy == 2] } }); let g__: Goal<DU, DE> = ::proto_vulcan::GoalCast::cast_into(c__); let r__: InferredGoal<DU, DE, Goal<DU, DE>> = proto_vulcan!([g__.clone(), g__]); r__ }])
 }
 pub fn case_460(vars: &Vars) -> InferredGoal<DU, DE, Goal<DU, DE>> {
     let x = vars.v[0].clone();
-    let y = vars.v[1].clone();
-    proto_vulcan!([conde { [[match x { [[y]] | [["bc", _ | h], 2, [t, [], z]] => [member(x, [1, 3, 2]), P3([[]], [[], []], 2) == x], }, [] == 2, member(y, [])], matche [1, []] { Named { a: 1, b: 2 } => , }], P3(x, 2, _) == y, x == ['b'] }, |t| { [matche t { _ => { t == 7, t == 8 }, _ => { t == 7, t == 8 }, _ => { member(y, [1, 2, 3]) }, }, |h, fresh_name_9| { h != [true, y, 3] }, y == P3([], t, 3)], |h, y| {  } }])
+    proto_vulcan!([x != [x, _], [true, x | 2] == x, { let c__: InferredGoal<DU, DE, Goal<DU, DE>> = proto_vulcan_closure!(|fresh_name_9| { conde { [x == [fresh_name_9 | _], fresh_name_9 == 1], [x == [_, fresh_name_9 | _], fresh_name_9 == 2] } }); let g__: Goal<DU, DE> = ::proto_vulcan::GoalCast::cast_into(c__); let r__: InferredGoal<DU, DE, Goal<DU, DE>> = proto_vulcan!([g__.clone(), g__]); r__ }])
 }
 pub fn case_461(vars: &Vars) -> InferredGoal<DU, DE, Goal<DU, DE>> {
     let x = vars.v[0].clone();
     let y = vars.v[1].clone();
-    proto_vulcan!([match x { [[x, 2], y, [3] | h] => { (y, _) != y }, [_, x] => [x | 3] != y, t => { matche t { P3([1], 2, [_, 3]) => , } }, }, |y, z| { match [z, _, y] { [[2] | _] | t => { [_, z | x] != 2 }, P3(2, _, 1) => [P3(1, [2, 3], 3) == x, y == [z, "a", _]], } }, 3 == y])
+    proto_vulcan!([conde { [1] == y, y != [3, [], 1] }, [[y, _ | y] | 3] == [y, true | x], conde { [([2], 1) != x, |z, t| { |h, t| { y != P3([_], [], [_]) } }], [], [[[x, [], [[]]] == (2, [x, 3]), match x { _ => y != [_, _], true | x => |tz| { tz == [1, 2], [1, 2, 1, 2] != [1, 2 | tz] }, }, [3, y | [y, y]] != x]] }, { let c__: InferredGoal<DU, DE, Goal<DU, DE>> = proto_vulcan_closure!(|yy| { conde { [y == [yy | _], yy == 1], [y == [_, yy | _], yy == 2] } }); let g__: Goal<DU, DE> = ::proto_vulcan::GoalCast::cast_into(c__); let r__: InferredGoal<DU, DE, Goal<DU, DE>> = proto_vulcan!([g__.clone(), g__]); r__ }])
 }
 pub fn case_462(vars: &Vars) -> InferredGoal<DU, DE, Goal<DU, DE>> {
     let x = vars.v[0].clone();
     let y = vars.v[1].clone();
-    proto_vulcan!([match x { [[x, 2], y, [3] | h] => { (y, _) != y }, [_, fresh_name_9] => [fresh_name_9 | 3] != y, t => { matche t { P3([1], 2, [_, 3]) => , } }, }, |y, z| { match [z, _, y] { [[2] | _] | t => { [_, z | x] != 2 }, P3(2, _, 1) => [P3(1, [2, 3], 3) == x, y == [z, "a", _]], } }, 3 == y])
+    proto_vulcan!([conde { [1] == y, y != [3, [], 1] }, [[y, _ | y] | 3] == [y, true | x], conde { [([2], 1) != x, |z, t| { |h, t| { y != P3([_], [], [_]) } }], [], [[[x, [], [[]]] == (2, [x, 3]), match x { _ => y != [_, _], true | x => |fresh_name_9| { fresh_name_9 == [1, 2], [1, 2, 1, 2] != [1, 2 | fresh_name_9] }, }, [3, y | [y, y]] != x]] }, { let c__: InferredGoal<DU, DE, Goal<DU, DE>> = proto_vulcan_closure!(|yy| { conde { [y == [yy | _], yy == 1], [y == [_, yy | _], yy == 2] } }); let g__: Goal<DU, DE> = ::proto_vulcan::GoalCast::cast_into(c__); let r__: InferredGoal<DU, DE, Goal<DU, DE>> = proto_vulcan!([g__.clone(), g__]); r__ }])
 }
 pub fn case_463(vars: &Vars) -> InferredGoal<DU, DE, Goal<DU, DE>> {
-    let x = vars.v[0].clone();
-    proto_vulcan!([(_, x) == _, x != 2, |tz| { [3 | tz] != [3, 1], tz == [1] }])
+    let q = vars.v[0].clone();
+    let x = vars.v[1].clone();
+    proto_vulcan!([x == (x, [_]), false, matche q { y => , y => , }, closure { matche q { _ => [|t, h| { 2 != t, t == [_, 'b', x | x], true }, false], } }])
 }
 pub fn case_464(vars: &Vars) -> InferredGoal<DU, DE, Goal<DU, DE>> {
-    let x = vars.v[0].clone();
-    proto_vulcan!([(_, x) == _, x != 2, |fresh_name_9| { [3 | fresh_name_9] != [3, 1], fresh_name_9 == [1] }])
+    let q = vars.v[0].clone();
+    let x = vars.v[1].clone();
+    proto_vulcan!([x == (x, [_]), false, matche q { y => , y => , }, closure { matche q { _ => [|t, fresh_name_9| { 2 != t, t == [_, 'b', x | x], true }, false], } }])
 }
 pub fn case_465(vars: &Vars) -> InferredGoal<DU, DE, Goal<DU, DE>> {
-    let q = vars.v[0].clone();
-    let x = vars.v[1].clone();
-    proto_vulcan!([[q != [1, 'a'], [conde { [], x == [1], [[[] | [[], q]] == ['a' | q], true] }], [matche "bc" { "bc" | t => x == [2, []], }, [[1, []] == q], [x != [2, [x, x], ["a", _, [] | 2]]]]], false, { let c__: InferredGoal<DU, DE, Goal<DU, DE>> = proto_vulcan_closure!(|yy| { conde { [x == [yy | _], yy == 1], [x == [_, yy | _], yy == 2] } }); let g__: Goal<DU, DE> = ::proto_vulcan::GoalCast::cast_into(c__); let r__: InferredGoal<DU, DE, Goal<DU, DE>> = proto_vulcan!([g__.clone(), g__]); r__ }])
+    let x = vars.v[0].clone();
+    proto_vulcan!([x == P3(3, 3, 2), |h| { |z| { h == [[], [h]] }, x == [x], [conde { [x == (x, 2), [h, h] != h], [3 != h, member(h, [])], [[] != h, true] }, |tz| { tz == [1, 2], [2, 3, 1, 2] != [2, 3 | tz] }, |h, t| { append(h, x, [2]), x != ([[]], _) }] }, [[_, []] | x] == ([], _)])
 }
 pub fn case_466(vars: &Vars) -> InferredGoal<DU, DE, Goal<DU, DE>> {
-    let q = vars.v[0].clone();
-    let x = vars.v[1].clone();
-    proto_vulcan!([[q != [1, 'a'], [conde { [], x == [1], [[[] | [[], q]] == ['a' | q], true] }], [matche "bc" { "bc" | t => x == [2, []], }, [[1, []] == q], [x != [2, [x, x], ["a", _, [] | 2]]]]], false, { let c__: InferredGoal<DU, DE, Goal<DU, DE>> = proto_vulcan_closure!(|fresh_name_9| { conde { [x == [fresh_name_9 | _], fresh_name_9 == 1], [x == [_, fresh_name_9 | _], fresh_name_9 == 2] } }); let g__: Goal<DU, DE> = ::proto_vulcan::GoalCast::cast_into(c__); let r__: InferredGoal<DU, DE, Goal<DU, DE>> = proto_vulcan!([g__.clone(), g__]); r__ }])
+    let x = vars.v[0].clone();
+    proto_vulcan!([x == P3(3, 3, 2), |h| { |z| { h == [[], [h]] }, x == [x], [conde { [x == (x, 2), [h, h] != h], [3 != h, member(h, [])], [[] != h, true] }, |tz| { tz == [1, 2], [2, 3, 1, 2] != [2, 3 | tz] }, |fresh_name_9, t| { append(fresh_name_9, x, [2]), x != ([[]], _) }] }, [[_, []] | x] == ([], _)])
 }
 pub fn case_467(vars: &Vars) -> InferredGoal<DU, DE, Goal<DU, DE>> {
-    let x = vars.v[0].clone();
-    let y = vars.v[1].clone();
-    proto_vulcan!([matche y { _ => [y == 7, y == 8], _ => [x == 7, x == 8], Named { a: _, b: [] } => [P3(1, [], 1) == y, |tz| { tz == [1], [2, 1] != [2 | tz] }], }, { let c__: InferredGoal<DU, DE, Goal<DU, DE>> = proto_vulcan_closure!(|yy| { conde { [y == [yy | _], yy == 1], [y == [_, yy | _], yy == 2] } }); let g__: Goal<DU, DE> = ::proto_vulcan::GoalCast::cast_into(c__); let r__: InferredGoal<DU, DE, Goal<DU, DE>> = proto_vulcan!([g__.clone(), g__]); r__ }])
+    let q = vars.v[0].clone();
+    let x = vars.v[1].clone();
+    proto_vulcan!([[2, x, 2 | q] == q, |h| { [q, [[], h], h] == q, match h { [h, [_], [y]] => { true }, } }, conde { [|y, z| { match q { P3([], [[]], 1) => [y] == x, } }, q == [[[], []], [_, q | x], [2]]], |tz| { [3, 2 | tz] != [3, 2, 1, 1], tz == [1, 1] } }])
 }
 pub fn case_468(vars: &Vars) -> InferredGoal<DU, DE, Goal<DU, DE>> {
-    let x = vars.v[0].clone();
-    let y = vars.v[1].clone();
-    proto_vulcan!([matche y { _ => [y == 7, y == 8], _ => [x == 7, x == 8], Named { a: _, b: [] } => [P3(1, [], 1) == y, |fresh_name_9| { fresh_name_9 == [1], [2, 1] != [2 | fresh_name_9] }], }, { let c__: InferredGoal<DU, DE, Goal<DU, DE>> = proto_vulcan_closure!(|yy| { conde { [y == [yy | _], yy == 1], [y == [_, yy | _], yy == 2] } }); let g__: Goal<DU, DE> = ::proto_vulcan::GoalCast::cast_into(c__); let r__: InferredGoal<DU, DE, Goal<DU, DE>> = proto_vulcan!([g__.clone(), g__]); r__ }])
+    let q = vars.v[0].clone();
+    let x = vars.v[1].clone();
+    proto_vulcan!([[2, x, 2 | q] == q, |h| { [q, [[], h], h] == q, match h { [h, [_], [y]] => { true }, } }, conde { [|fresh_name_9, z| { match q { P3([], [[]], 1) => [fresh_name_9] == x, } }, q == [[[], []], [_, q | x], [2]]], |tz| { [3, 2 | tz] != [3, 2, 1, 1], tz == [1, 1] } }])
 }
 pub fn case_469(vars: &Vars) -> InferredGoal<DU, DE, Goal<DU, DE>> {
-    let x = vars.v[0].clone();
-    proto_vulcan!([|t, h| {  }, [[x, x, x], [x, x | x], [x | x] | x] == 1, conde { [], |y| {  }, [] }, closure { [match x { _ => member(x, [1, 2, 3]), }, ([x], [1, x]) != _] }])
+    let q = vars.v[0].clone();
+    let x = vars.v[1].clone();
+    proto_vulcan!([q == (2, x), match x { [] => , }, x == _, { let c__: InferredGoal<DU, DE, Goal<DU, DE>> = proto_vulcan_closure!(|yy| { conde { [x == [yy | _], yy == 1], [x == [_, yy | _], yy == 2] } }); let g__: Goal<DU, DE> = ::proto_vulcan::GoalCast::cast_into(c__); let r__: InferredGoal<DU, DE, Goal<DU, DE>> = proto_vulcan!([g__.clone(), g__]); r__ }])
 }
 pub fn case_470(vars: &Vars) -> InferredGoal<DU, DE, Goal<DU, DE>> {
-    let x = vars.v[0].clone();
-    proto_vulcan!([|t, h| {  }, [[x, x, x], [x, x | x], [x | x] | x] == 1, conde { [], |fresh_name_9| {  }, [] }, closure { [match x { _ => member(x, [1, 2, 3]), }, ([x], [1, x]) != _] }])
+    let q = vars.v[0].clone();
+    let x = vars.v[1].clone();
+    proto_vulcan!([q == (2, x), match x { [] => , }, x == _, { let c__: InferredGoal<DU, DE, Goal<DU, DE>> = proto_vulcan_closure!(|fresh_name_9| { conde { [x == [fresh_name_9 | _], fresh_name_9 == 1], [x == [_, fresh_name_9 | _], fresh_name_9 == 2] } }); let g__: Goal<DU, DE> = ::proto_vulcan::GoalCast::cast_into(c__); let r__: InferredGoal<DU, DE, Goal<DU, DE>> = proto_vulcan!([g__.clone(), g__]); r__ }])
 }
 pub fn case_471(vars: &Vars) -> InferredGoal<DU, DE, Goal<DU, DE>> {
     let x = vars.v[0].clone();
-    proto_vulcan!([|t| {  }, match x { _ | _ => { member(x, [1, 2, 3]) }, }, 1 == x])
+    let y = vars.v[1].clone();
+    proto_vulcan!([(y, []) != y, |y| { x == ([], y) }])
 }
 pub fn case_472(vars: &Vars) -> InferredGoal<DU, DE, Goal<DU, DE>> {
     let x = vars.v[0].clone();
-    proto_vulcan!([|fresh_name_9| {  }, match x { _ | _ => { member(x, [1, 2, 3]) }, }, 1 == x])
+    let y = vars.v[1].clone();
+    proto_vulcan!([(y, []) != y, |fresh_name_9| { x == ([], fresh_name_9) }])
 }
 pub fn case_473(vars: &Vars) -> InferredGoal<DU, DE, Goal<DU, DE>> {
-    let q = vars.v[0].clone();
-    let x = vars.v[1].clone();
-    proto_vulcan!([x != [1 | q], |tz| { [3 | tz] != [3, 1], tz == [1] }, false])
+    let x = vars.v[0].clone();
+    let y = vars.v[1].clone();
+    proto_vulcan!([match [] { Named { a: t, b: x } => [conde { |h, t| { 1 == t } }, |tz| { [3, 2 | tz] != [3, 2, 2], tz == [2] }], }, [["a", x, 3]] != [1, _], [x, []] != y])
 }
 pub fn case_474(vars: &Vars) -> InferredGoal<DU, DE, Goal<DU, DE>> {
-    let q = vars.v[0].clone();
-    let x = vars.v[1].clone();
-    proto_vulcan!([x != [1 | q], |fresh_name_9| { [3 | fresh_name_9] != [3, 1], fresh_name_9 == [1] }, false])
+    let x = vars.v[0].clone();
+    let y = vars.v[1].clone();
+    proto_vulcan!([match [] { Named { a: t, b: x } => [conde { |h, t| { 1 == t } }, |fresh_name_9| { [3, 2 | fresh_name_9] != [3, 2, 2], fresh_name_9 == [2] }], }, [["a", x, 3]] != [1, _], [x, []] != y])
 }
 pub fn case_475(vars: &Vars) -> InferredGoal<DU, DE, Goal<DU, DE>> {
-    let x = vars.v[0].clone();
-    proto_vulcan!([member(x, [2, 1, 2]), closure { [append(x, x, [1]), match x { Named { a: 1, b: y } => { [[x, y] == x, false, x != ([2], _)] }, }] }])
+    let q = vars.v[0].clone();
+    let x = vars.v[1].clone();
+    proto_vulcan!([|h, t| { x != [q, [true, h], [q, _, t | x]], t == _, [['a' | t] == t] }, x == x, x != [2]])
 }
 pub fn case_476(vars: &Vars) -> InferredGoal<DU, DE, Goal<DU, DE>> {
-    let x = vars.v[0].clone();
-    proto_vulcan!([member(x, [2, 1, 2]), closure { [append(x, x, [1]), match x { Named { a: 1, b: fresh_name_9 } => { [[x, fresh_name_9] == x, false, x != ([2], _)] }, }] }])
+    let q = vars.v[0].clone();
+    let x = vars.v[1].clone();
+    proto_vulcan!([|h, fresh_name_9| { x != [q, [true, h], [q, _, fresh_name_9 | x]], fresh_name_9 == _, [['a' | fresh_name_9] == fresh_name_9] }, x == x, x != [2]])
 }
 pub fn case_477(vars: &Vars) -> InferredGoal<DU, DE, Goal<DU, DE>> {
-    let q = vars.v[0].clone();
-    let x = vars.v[1].clone();
-    proto_vulcan!([[[_ | x]] == [1, q], [[conde { [[[] | x] == x, _ == q], [x == P3([], 1, [1, x]), [] == [_]], [[3] == q, x == (q, x)] }, [append(x, x, []), [false] == ([], 1)]]], |y| { true, 1 == y, match q { P3(y, [], [_]) => { x == [_, q] }, [h] | _ => { _ == y, y == [2, y | y] }, } }])
+    let x = vars.v[0].clone();
+    let y = vars.v[1].clone();
+    proto_vulcan!([match x { [[true, z, y | []]] => , }, [y] == x, match y { _ | 1 => y == x, }])
 }
 pub fn case_478(vars: &Vars) -> InferredGoal<DU, DE, Goal<DU, DE>> {
-    let q = vars.v[0].clone();
-    let x = vars.v[1].clone();
-    proto_vulcan!([[[_ | x]] == [1, q], [[conde { [[[] | x] == x, _ == q], [x == P3([], 1, [1, x]), [] == [_]], [[3] == q, x == (q, x)] }, [append(x, x, []), [false] == ([], 1)]]], |fresh_name_9| { true, 1 == fresh_name_9, match q { P3(y, [], [_]) => { x == [_, q] }, [h] | _ => { _ == fresh_name_9, fresh_name_9 == [2, fresh_name_9 | fresh_name_9] }, } }])
+    let x = vars.v[0].clone();
+    let y = vars.v[1].clone();
+    proto_vulcan!([match x { [[true, z, fresh_name_9 | []]] => , }, [y] == x, match y { _ | 1 => y == x, }])
 }
 pub fn case_479(vars: &Vars) -> InferredGoal<DU, DE, Goal<DU, DE>> {
     let x = vars.v[0].clone();
-    proto_vulcan!([|tz| { tz == [3, 3], [2, 1, 3, 3] != [2, 1 | tz] }, |x, y| { [3 | []] != x, [], conde { [conde { x == [3, x, x], append(y, x, [2, 1]), [3, 2 | x] == x }, match y { 1 => x == 1, }], matche [] { _ => { y == 7, y == 8 }, [[h, [], t | z], 2 | _] => h == [_, h, _], } } }, closure { [conde { [P3([1, x], [], [_, []]) == x, conde { [true == x, (2, 3) != (_, 1)], [x, _, x | x] == x, [false, x == ["bc", [x, 2, x], 3 | x]] }], [|tz| { [1, 2, 1, 3] != [1, 2 | tz], tz == [1, 3] }, |z| { [[x, x, z]] == x }] }, [[x == x]]] }])
+    let y = vars.v[1].clone();
+    proto_vulcan!([['a', "bc", false | x] == y, conde { [], member(x, []), x == (3, 1) }, { let c__: InferredGoal<DU, DE, Goal<DU, DE>> = proto_vulcan_closure!([|yy| { conde { [y == [yy | _], yy == 1], [y == [_, yy | _], yy == 2] } }, conde { [], true }]); let g__: Goal<DU, DE> = ::proto_vulcan::GoalCast::cast_into(c__); let r__: InferredGoal<DU, DE, Goal<DU, DE>> = proto_vulcan!([g__.clone(), g__]); r__ }])
 }
 pub fn case_480(vars: &Vars) -> InferredGoal<DU, DE, Goal<DU, DE>> {
     let x = vars.v[0].clone();
-    proto_vulcan!([|tz| { tz == [3, 3], [2, 1, 3, 3] != [2, 1 | tz] }, |fresh_name_9, y| { [3 | []] != fresh_name_9, [], conde { [conde { fresh_name_9 == [3, fresh_name_9, fresh_name_9], append(y, fresh_name_9, [2, 1]), [3, 2 | fresh_name_9] == fresh_name_9 }, match y { 1 => fresh_name_9 == 1, }], matche [] { _ => { y == 7, y == 8 }, [[h, [], t | z], 2 | _] => h == [_, h, _], } } }, closure { [conde { [P3([1, x], [], [_, []]) == x, conde { [true == x, (2, 3) != (_, 1)], [x, _, x | x] == x, [false, x == ["bc", [x, 2, x], 3 | x]] }], [|tz| { [1, 2, 1, 3] != [1, 2 | tz], tz == [1, 3] }, |z| { [[x, x, z]] == x }] }, [[x == x]]] }])
+    let y = vars.v[1].clone();
+    proto_vulcan!([['a', "bc", false | x] == y, conde { [], member(x, []), x == (3, 1) }, { let c__: InferredGoal<DU, DE, Goal<DU, DE>> = proto_vulcan_closure!([|fresh_name_9| { conde { [y == [fresh_name_9 | _], fresh_name_9 == 1], [y == [_, fresh_name_9 | _], fresh_name_9 == 2] } }, conde { [], true }]); let g__: Goal<DU, DE> = ::proto_vulcan::GoalCast::cast_into(c__); let r__: InferredGoal<DU, DE, Goal<DU, DE>> = proto_vulcan!([g__.clone(), g__]); r__ }])
 }
 pub fn case_481(vars: &Vars) -> InferredGoal<DU, DE, Goal<DU, DE>> {
     let x = vars.v[0].clone();
-    proto_vulcan!([[[_ | x], 3 | x] == x, matche x { t => P3(t, x, t) == x, }, { let c__: InferredGoal<DU, DE, Goal<DU, DE>> = proto_vulcan_closure!([|yy| { conde { [x == [yy | _], yy == 1], [x == [_, yy | _], yy == 2] } }, conde { |tz| { tz == [3, 2], [2, 3, 2] != [2 | tz] }, [[x, 2 | x] != (x, _), 2 != x] }]); let g__: Goal<DU, DE> = ::proto_vulcan::GoalCast::cast_into(c__); let r__: InferredGoal<DU, DE, Goal<DU, DE>> = proto_vulcan!([g__.clone(), g__]); r__ }])
+    proto_vulcan!([[] == x, [|x| { conde { [append(x, x, [2, 3]), P3([], _, 3) == x] } }], conde { [matche x { [[y], h, [y, z, y] | _] | [] => , [_, h, []] => , }, P3(x, 3, x) == [1]], [[[[_ | x], [_, 1] | x] == x, match 2 { "a" => [member(x, [1, 1]), x == ([1, x], [[], _])], }, x == ([], [])], [conde { [x == x, [x, x | x] == x], [member(x, []), x != _], [[x, [[], x, 1] | x] == x, x != ([], _)] }, [false, [x] == P3([[]], [x, 3], [])], false]], [(x, x) == x, x == P3(x, [x, 2], x)] }])
 }
 pub fn case_482(vars: &Vars) -> InferredGoal<DU, DE, Goal<DU, DE>> {
     let x = vars.v[0].clone();
-    proto_vulcan!([[[_ | x], 3 | x] == x, matche x { t => P3(t, x, t) == x, }, { let c__: InferredGoal<DU, DE, Goal<DU, DE>> = proto_vulcan_closure!([|fresh_name_9| { conde { [x == [fresh_name_9 | _], fresh_name_9 == 1], [x == [_, fresh_name_9 | _], fresh_name_9 == 2] } }, conde { |tz| { tz == [3, 2], [2, 3, 2] != [2 | tz] }, [[x, 2 | x] != (x, _), 2 != x] }]); let g__: Goal<DU, DE> = ::proto_vulcan::GoalCast::cast_into(c__); let r__: InferredGoal<DU, DE, Goal<DU, DE>> = proto_vulcan!([g__.clone(), g__]); r__ }])
+    proto_vulcan!([[] == x, [|fresh_name_9| { conde { [append(fresh_name_9, fresh_name_9, [2, 3]), P3([], _, 3) == fresh_name_9] } }], conde { [matche x { [[y], h, [y, z, y] | _] | [] => , [_, h, []] => , }, P3(x, 3, x) == [1]], [[[[_ | x], [_, 1] | x] == x, match 2 { "a" => [member(x, [1, 1]), x == ([1, x], [[], _])], }, x == ([], [])], [conde { [x == x, [x, x | x] == x], [member(x, []), x != _], [[x, [[], x, 1] | x] == x, x != ([], _)] }, [false, [x] == P3([[]], [x, 3], [])], false]], [(x, x) == x, x == P3(x, [x, 2], x)] }])
 }
 pub fn case_483(vars: &Vars) -> InferredGoal<DU, DE, Goal<DU, DE>> {
-    let q = vars.v[0].clone();
-    let x = vars.v[1].clone();
-    proto_vulcan!([conde { [|z| { matche z { [1, h, ['a', t, 'a' | x]] => { |tz| { tz == [1, 2], [2, 1 | tz] != [2, 1, 1, 2] }, [_, [], _] == [[[]]] }, }, ['b'] == z }, |t, h| { [[[]], [3, []] | x] == q }], |y| { y == 2, |h| { member(y, []), h != P3([y], h, [x, []]), true } }, [[], q, q] == x }, [x, 2, "a" | x] == [1, [x] | x]])
+    let x = vars.v[0].clone();
+    let y = vars.v[1].clone();
+    proto_vulcan!([y == P3(1, [y, _], [[]]), { let c__: InferredGoal<DU, DE, Goal<DU, DE>> = proto_vulcan_closure!([|yy| { conde { [x == [yy | _], yy == 1], [x == [_, yy | _], yy == 2] } }, x == 1]); let g__: Goal<DU, DE> = ::proto_vulcan::GoalCast::cast_into(c__); let r__: InferredGoal<DU, DE, Goal<DU, DE>> = proto_vulcan!([g__.clone(), g__]); r__ }])
 }
 pub fn case_484(vars: &Vars) -> InferredGoal<DU, DE, Goal<DU, DE>> {
-    let q = vars.v[0].clone();
-    let x = vars.v[1].clone();
-    proto_vulcan!([conde { [|z| { matche z { [1, h, ['a', t, 'a' | x]] => { |tz| { tz == [1, 2], [2, 1 | tz] != [2, 1, 1, 2] }, [_, [], _] == [[[]]] }, }, ['b'] == z }, |t, h| { [[[]], [3, []] | x] == q }], |y| { y == 2, |fresh_name_9| { member(y, []), fresh_name_9 != P3([y], fresh_name_9, [x, []]), true } }, [[], q, q] == x }, [x, 2, "a" | x] == [1, [x] | x]])
+    let x = vars.v[0].clone();
+    let y = vars.v[1].clone();
+    proto_vulcan!([y == P3(1, [y, _], [[]]), { let c__: InferredGoal<DU, DE, Goal<DU, DE>> = proto_vulcan_closure!([|fresh_name_9| { conde { [x == [fresh_name_9 | _], fresh_name_9 == 1], [x == [_, fresh_name_9 | _], fresh_name_9 == 2] } }, x == 1]); let g__: Goal<DU, DE> = ::proto_vulcan::GoalCast::cast_into(c__); let r__: InferredGoal<DU, DE, Goal<DU, DE>> = proto_vulcan!([g__.clone(), g__]); r__ }])
 }
 pub fn case_485(vars: &Vars) -> InferredGoal<DU, DE, Goal<DU, DE>> {
-    let x = vars.v[0].clone();
-    let y = vars.v[1].clone();
-    proto_vulcan!([y == x, match [x, _, _] { [2, [y, 2, 1], [_, h, 1]] => , _ => [[|z| { true, |tz| { [3 | tz] != [3, 1, 2], tz == [1, 2] }, false }, match x { 3 => , [[x, x, y] | 1] | 1 => , }, |x, t| { t != ['a', 1], [["bc"], [x, y, y | 2] | y] == [[3]], t == x }], x == x], [[x]] => , }, |tz| { tz == [2], [3 | tz] != [3, 2] }])
+    let q = vars.v[0].clone();
+    let x = vars.v[1].clone();
+    proto_vulcan!([|tz| { [1, 1, 3] != [1, 1 | tz], tz == [3] }, |z| { |x, t| { [([1, t], [2, x]) != t, ([x], []) != q, t == 1], x == _ }, conde { [x == x, true], [x, q] == z, [] }, |x, y| { conde { [[1, 'b'] == y, (q, [2, 3]) == y], member(q, [2, 3, 3]) } } }])
 }
 pub fn case_486(vars: &Vars) -> InferredGoal<DU, DE, Goal<DU, DE>> {
-    let x = vars.v[0].clone();
-    let y = vars.v[1].clone();
-    proto_vulcan!([y == x, match [x, _, _] { [2, [fresh_name_9, 2, 1], [_, h, 1]] => , _ => [[|z| { true, |tz| { [3 | tz] != [3, 1, 2], tz == [1, 2] }, false }, match x { 3 => , [[x, x, y] | 1] | 1 => , }, |x, t| { t != ['a', 1], [["bc"], [x, y, y | 2] | y] == [[3]], t == x }], x == x], [[x]] => , }, |tz| { tz == [2], [3 | tz] != [3, 2] }])
+    let q = vars.v[0].clone();
+    let x = vars.v[1].clone();
+    proto_vulcan!([|tz| { [1, 1, 3] != [1, 1 | tz], tz == [3] }, |z| { |x, fresh_name_9| { [([1, fresh_name_9], [2, x]) != fresh_name_9, ([x], []) != q, fresh_name_9 == 1], x == _ }, conde { [x == x, true], [x, q] == z, [] }, |x, y| { conde { [[1, 'b'] == y, (q, [2, 3]) == y], member(q, [2, 3, 3]) } } }])
 }
 pub fn case_487(vars: &Vars) -> InferredGoal<DU, DE, Goal<DU, DE>> {
     let x = vars.v[0].clone();
-    let y = vars.v[1].clone();
-    proto_vulcan!([true, { let c__: InferredGoal<DU, DE, Goal<DU, DE>> = proto_vulcan_closure!(|yy| { conde { [y == [yy | _], yy == 1], [y == [_, yy | _], yy == 2] } }); let g__: Goal<DU, DE> = ::proto_vulcan::GoalCast::cast_into(c__); let r__: InferredGoal<DU, DE, Goal<DU, DE>> = proto_vulcan!([g__.clone(), g__]); r__ }])
+    proto_vulcan!([match x { _ => { |tz| { [1, 3 | tz] != [1, 3, 1, 2], tz == [1, 2] } }, _ => { member(x, [1, 2, 3]) }, [[], [2, 2]] => x == [], }, x != [_, 3], [false, conde { [true, x, _] == x, [match x { 2 | 2 => , [] | P3([1], [_], h) => { [x, x, 1] == x, true }, }, [member(x, [])]] }]])
 }
 pub fn case_488(vars: &Vars) -> InferredGoal<DU, DE, Goal<DU, DE>> {
     let x = vars.v[0].clone();
-    let y = vars.v[1].clone();
-    proto_vulcan!([true, { let c__: InferredGoal<DU, DE, Goal<DU, DE>> = proto_vulcan_closure!(|fresh_name_9| { conde { [y == [fresh_name_9 | _], fresh_name_9 == 1], [y == [_, fresh_name_9 | _], fresh_name_9 == 2] } }); let g__: Goal<DU, DE> = ::proto_vulcan::GoalCast::cast_into(c__); let r__: InferredGoal<DU, DE, Goal<DU, DE>> = proto_vulcan!([g__.clone(), g__]); r__ }])
+    proto_vulcan!([match x { _ => { |fresh_name_9| { [1, 3 | fresh_name_9] != [1, 3, 1, 2], fresh_name_9 == [1, 2] } }, _ => { member(x, [1, 2, 3]) }, [[], [2, 2]] => x == [], }, x != [_, 3], [false, conde { [true, x, _] == x, [match x { 2 | 2 => , [] | P3([1], [_], h) => { [x, x, 1] == x, true }, }, [member(x, [])]] }]])
 }
 pub fn case_489(vars: &Vars) -> InferredGoal<DU, DE, Goal<DU, DE>> {
-    let x = vars.v[0].clone();
-    let y = vars.v[1].clone();
-    proto_vulcan!([append(y, y, [3, 1]), conde { matche 1 { [["bc"]] => { [] }, [['a', 1]] => matche x { [1] => , }, [[[], h, y], z, [t, z, [] | h]] => z == (3, []), }, [[match [3] { [1 | y] => [member(x, [3]), member(y, [2])], y => { y == ([_], [1, 2]), |tz| { [1, 1, 1, 1] != [1, 1 | tz], tz == [1, 1] } }, }, [[true] | x] == ([2], _)], [2] == _] }])
+    let q = vars.v[0].clone();
+    let x = vars.v[1].clone();
+    proto_vulcan!([q == [], { let c__: InferredGoal<DU, DE, Goal<DU, DE>> = proto_vulcan_closure!(|yy| { conde { [x == [yy | _], yy == 1], [x == [_, yy | _], yy == 2] } }); let g__: Goal<DU, DE> = ::proto_vulcan::GoalCast::cast_into(c__); let r__: InferredGoal<DU, DE, Goal<DU, DE>> = proto_vulcan!([g__.clone(), g__]); r__ }])
 }
 pub fn case_490(vars: &Vars) -> InferredGoal<DU, DE, Goal<DU, DE>> {
-    let x = vars.v[0].clone();
-    let y = vars.v[1].clone();
-    proto_vulcan!([append(y, y, [3, 1]), conde { matche 1 { [["bc"]] => { [] }, [['a', 1]] => matche x { [1] => , }, [[[], h, y], z, [t, z, [] | h]] => z == (3, []), }, [[match [3] { [1 | fresh_name_9] => [member(x, [3]), member(fresh_name_9, [2])], y => { y == ([_], [1, 2]), |tz| { [1, 1, 1, 1] != [1, 1 | tz], tz == [1, 1] } }, }, [[true] | x] == ([2], _)], [2] == _] }])
+    let q = vars.v[0].clone();
+    let x = vars.v[1].clone();
+    proto_vulcan!([q == [], { let c__: InferredGoal<DU, DE, Goal<DU, DE>> = proto_vulcan_closure!(|fresh_name_9| { conde { [x == [fresh_name_9 | _], fresh_name_9 == 1], [x == [_, fresh_name_9 | _], fresh_name_9 == 2] } }); let g__: Goal<DU, DE> = ::proto_vulcan::GoalCast::cast_into(c__); let r__: InferredGoal<DU, DE, Goal<DU, DE>> = proto_vulcan!([g__.clone(), g__]); r__ }])
 }
 pub fn case_491(vars: &Vars) -> InferredGoal<DU, DE, Goal<DU, DE>> {
-    let q = vars.v[0].clone();
-    let x = vars.v[1].clone();
-    proto_vulcan!([|y| { 2 == q }, [matche [q, 1] { [[y, 'a'] | y] => { y == [q], (y, 1) != ["a" | q] }, }], q == []])
+    let x = vars.v[0].clone();
+    let y = vars.v[1].clone();
+    proto_vulcan!([[conde { [[y] == y, y == [y | y]], [] }, |z| { [x == [y, 1]] }], |y, h| { h == "bc", |h, y| { match h { [[[]], [1]] => { [x] == [y, x, 3 | y], y == [1, y, h] }, [_] => { (2, [x, y]) == y, y == y }, }, conde { y == [_], h == [[[], 2], ['a', [], 2], [h, []]], [y != _, member(h, [1, 3, 2])] } }, y == ["bc"] }, { let c__: InferredGoal<DU, DE, Goal<DU, DE>> = proto_vulcan_closure!(|yy| { conde { [y == [yy | _], yy == 1], [y == [_, yy | _], yy == 2] } }); let g__: Goal<DU, DE> = ::proto_vulcan::GoalCast::cast_into(c__); let r__: InferredGoal<DU, DE, Goal<DU, DE>> = proto_vulcan!([g__.clone(), g__]); r__ }])
 }
 pub fn case_492(vars: &Vars) -> InferredGoal<DU, DE, Goal<DU, DE>> {
-    let q = vars.v[0].clone();
-    let x = vars.v[1].clone();
-    proto_vulcan!([|y| { 2 == q }, [matche [q, 1] { [[fresh_name_9, 'a'] | fresh_name_9] => { fresh_name_9 == [q], (fresh_name_9, 1) != ["a" | q] }, }], q == []])
+    let x = vars.v[0].clone();
+    let y = vars.v[1].clone();
+    proto_vulcan!([[conde { [[y] == y, y == [y | y]], [] }, |z| { [x == [y, 1]] }], |y, h| { h == "bc", |h, y| { match h { [[[]], [1]] => { [x] == [y, x, 3 | y], y == [1, y, h] }, [_] => { (2, [x, y]) == y, y == y }, }, conde { y == [_], h == [[[], 2], ['a', [], 2], [h, []]], [y != _, member(h, [1, 3, 2])] } }, y == ["bc"] }, { let c__: InferredGoal<DU, DE, Goal<DU, DE>> = proto_vulcan_closure!(|fresh_name_9| { conde { [y == [fresh_name_9 | _], fresh_name_9 == 1], [y == [_, fresh_name_9 | _], fresh_name_9 == 2] } }); let g__: Goal<DU, DE> = ::proto_vulcan::GoalCast::cast_into(c__); let r__: InferredGoal<DU, DE, Goal<DU, DE>> = proto_vulcan!([g__.clone(), g__]); r__ }])
 }
 pub fn case_493(vars: &Vars) -> InferredGoal<DU, DE, Goal<DU, DE>> {
     let x = vars.v[0].clone();
     let y = vars.v[1].clone();
-    proto_vulcan!([matche x { 2 => { match [false, y] { [] => , _ => (2, 1) == P3([[]], 3, [[], y]), _ => , }, [[]] == y }, _ => { match x { 2 => , [t | _] | y => |t| { 1 == x }, false => { [y == [true, 3, x | y], member(x, [3, 2, 1]), "a" == y] }, } }, }, x != [_, y], [matche x { [[z], z, 1] => [[append(z, y, [1, 3]), y != z, z == 1]], 'b' | _ => { match x { _ | [false] => |tz| { [1, 2 | tz] != [1, 2, 2, 1], tz == [2, 1] }, [2, z] | [[] | h] => (_, y) == x, [] | _ => , } }, }], { let c__: InferredGoal<DU, DE, Goal<DU, DE>> = proto_vulcan_closure!([|yy| { conde { [y == [yy | _], yy == 1], [y == [_, yy | _], yy == 2] } }, [1, _] == y]); let g__: Goal<DU, DE> = ::proto_vulcan::GoalCast::cast_into(c__); let r__: InferredGoal<DU, DE, Goal<DU, DE>> = proto_vulcan!([g__.clone(), g__]); r__ }])
+    proto_vulcan!([member(x, [2, 2]), conde { [[matche _ { Named { a: z, b: _ } => , [[x], z | x] => member(z, [3, 2, 3]), }, y != P3([x, []], [_, 1], _)], conde { y != [_, 'a'] }], [false, [[], |tz| { tz == [2, 1], [1, 2, 1] != [1 | tz] }, y != x]], y == [] }, _ == x])
 }
 pub fn case_494(vars: &Vars) -> InferredGoal<DU, DE, Goal<DU, DE>> {
     let x = vars.v[0].clone();
     let y = vars.v[1].clone();
-    proto_vulcan!([matche x { 2 => { match [false, y] { [] => , _ => (2, 1) == P3([[]], 3, [[], y]), _ => , }, [[]] == y }, _ => { match x { 2 => , [t | _] | y => |t| { 1 == x }, false => { [y == [true, 3, x | y], member(x, [3, 2, 1]), "a" == y] }, } }, }, x != [_, y], [matche x { [[fresh_name_9], fresh_name_9, 1] => [[append(fresh_name_9, y, [1, 3]), y != fresh_name_9, fresh_name_9 == 1]], 'b' | _ => { match x { _ | [false] => |tz| { [1, 2 | tz] != [1, 2, 2, 1], tz == [2, 1] }, [2, z] | [[] | h] => (_, y) == x, [] | _ => , } }, }], { let c__: InferredGoal<DU, DE, Goal<DU, DE>> = proto_vulcan_closure!([|yy| { conde { [y == [yy | _], yy == 1], [y == [_, yy | _], yy == 2] } }, [1, _] == y]); let g__: Goal<DU, DE> = ::proto_vulcan::GoalCast::cast_into(c__); let r__: InferredGoal<DU, DE, Goal<DU, DE>> = proto_vulcan!([g__.clone(), g__]); r__ }])
+    proto_vulcan!([member(x, [2, 2]), conde { [[matche _ { Named { a: fresh_name_9, b: _ } => , [[x], z | x] => member(z, [3, 2, 3]), }, y != P3([x, []], [_, 1], _)], conde { y != [_, 'a'] }], [false, [[], |tz| { tz == [2, 1], [1, 2, 1] != [1 | tz] }, y != x]], y == [] }, _ == x])
 }
 pub fn case_495(vars: &Vars) -> InferredGoal<DU, DE, Goal<DU, DE>> {
-    let x = vars.v[0].clone();
-    let y = vars.v[1].clone();
-    proto_vulcan!([|y| { conde { [], [conde { 'b' != x, ([2], _) == [[2], [[], y, y], 3] }, match x { _ => [y == 7, y == 8], }] }, matche y { [[y], z] => { |h| {  } }, Named { a: h, b: h } | "bc" => { conde { [y == (2, []), y != [false, [], y]], _ == x, member(y, []) }, |tz| { tz == [3], [1, 2, 3] != [1, 2 | tz] } }, } }, match y { [x] => { conde { x != 2, [append(y, x, [1]), x != [3, x, 3]], [x == x, [1] == x] } }, }, |tz| { [3, 3] != [3 | tz], tz == [3] }])
+    let q = vars.v[0].clone();
+    let x = vars.v[1].clone();
+    proto_vulcan!([x == _, { let c__: InferredGoal<DU, DE, Goal<DU, DE>> = proto_vulcan_closure!(|yy| { conde { [q == [yy | _], yy == 1], [q == [_, yy | _], yy == 2] } }); let g__: Goal<DU, DE> = ::proto_vulcan::GoalCast::cast_into(c__); let r__: InferredGoal<DU, DE, Goal<DU, DE>> = proto_vulcan!([g__.clone(), g__]); r__ }])
 }
 pub fn case_496(vars: &Vars) -> InferredGoal<DU, DE, Goal<DU, DE>> {
-    let x = vars.v[0].clone();
-    let y = vars.v[1].clone();
-    proto_vulcan!([|fresh_name_9| { conde { [], [conde { 'b' != x, ([2], _) == [[2], [[], fresh_name_9, fresh_name_9], 3] }, match x { _ => [fresh_name_9 == 7, fresh_name_9 == 8], }] }, matche fresh_name_9 { [[y], z] => { |h| {  } }, Named { a: h, b: h } | "bc" => { conde { [fresh_name_9 == (2, []), fresh_name_9 != [false, [], fresh_name_9]], _ == x, member(fresh_name_9, []) }, |tz| { tz == [3], [1, 2, 3] != [1, 2 | tz] } }, } }, match y { [x] => { conde { x != 2, [append(y, x, [1]), x != [3, x, 3]], [x == x, [1] == x] } }, }, |tz| { [3, 3] != [3 | tz], tz == [3] }])
+    let q = vars.v[0].clone();
+    let x = vars.v[1].clone();
+    proto_vulcan!([x == _, { let c__: InferredGoal<DU, DE, Goal<DU, DE>> = proto_vulcan_closure!(|fresh_name_9| { conde { [q == [fresh_name_9 | _], fresh_name_9 == 1], [q == [_, fresh_name_9 | _], fresh_name_9 == 2] } }); let g__: Goal<DU, DE> = ::proto_vulcan::GoalCast::cast_into(c__); let r__: InferredGoal<DU, DE, Goal<DU, DE>> = proto_vulcan!([g__.clone(), g__]); r__ }])
 }
 pub fn case_497(vars: &Vars) -> InferredGoal<DU, DE, Goal<DU, DE>> {
     let x = vars.v[0].clone();
     let y = vars.v[1].clone();
-    proto_vulcan!([|h, z| { conde { z == _, [[[[2, x] | y] != z], [[]] != z] }, conde { [[] == x, |t| { z == [false, [], 2 | y] }], [member(x, []), matche h { [[z, 1, 1], [_, 3, []] | x] | _ => [(2, h) == y, [_, h, []] != y], _ | [[], false, [3 | _]] => { ['b'] == (y, 2) }, [[_], [2 | []], ['b', 3, z]] => { x == x }, }], |x, h| {  } } }, [|t| { x != [x], [x, [] | t] == y }, member(x, [3, 3]), [y, x, 1 | y] == x]])
+    proto_vulcan!([x == ([], 3), |t| { [y, x, 1] == x }, |t| { conde { [match t { Named { a: t, b: 1 } => [|tz| { [2, 1 | tz] != [2, 1, 2, 2], tz == [2, 2] }, x == ([], [[]])], _ => [t == 7, t == 8], [] | h => { y == y }, }, |y, z| {  }], [[(3, y) != y], true], conde { x == [t, [], t], [x != y, append(x, t, [2, 1])], [[[2], [2, t]] == [_], 1 == x] } }, conde { [[t] == x, [member(t, [2, 1, 2]), [x, 1, 2] == t, member(y, [1])]], |x| { true, P3([3], [], [1, 3]) == t } }, [t] == x }])
 }
 pub fn case_498(vars: &Vars) -> InferredGoal<DU, DE, Goal<DU, DE>> {
     let x = vars.v[0].clone();
     let y = vars.v[1].clone();
-    proto_vulcan!([|h, z| { conde { z == _, [[[[2, x] | y] != z], [[]] != z] }, conde { [[] == x, |t| { z == [false, [], 2 | y] }], [member(x, []), matche h { [[z, 1, 1], [_, 3, []] | x] | _ => [(2, h) == y, [_, h, []] != y], _ | [[], false, [3 | _]] => { ['b'] == (y, 2) }, [[_], [2 | []], ['b', 3, z]] => { x == x }, }], |x, h| {  } } }, [|fresh_name_9| { x != [x], [x, [] | fresh_name_9] == y }, member(x, [3, 3]), [y, x, 1 | y] == x]])
+    proto_vulcan!([x == ([], 3), |t| { [y, x, 1] == x }, |fresh_name_9| { conde { [match fresh_name_9 { Named { a: t, b: 1 } => [|tz| { [2, 1 | tz] != [2, 1, 2, 2], tz == [2, 2] }, x == ([], [[]])], _ => [fresh_name_9 == 7, fresh_name_9 == 8], [] | h => { y == y }, }, |y, z| {  }], [[(3, y) != y], true], conde { x == [fresh_name_9, [], fresh_name_9], [x != y, append(x, fresh_name_9, [2, 1])], [[[2], [2, fresh_name_9]] == [_], 1 == x] } }, conde { [[fresh_name_9] == x, [member(fresh_name_9, [2, 1, 2]), [x, 1, 2] == fresh_name_9, member(y, [1])]], |x| { true, P3([3], [], [1, 3]) == fresh_name_9 } }, [fresh_name_9] == x }])
 }
 pub fn case_499(vars: &Vars) -> InferredGoal<DU, DE, Goal<DU, DE>> {
-    let q = vars.v[0].clone();
-    let x = vars.v[1].clone();
-    proto_vulcan!([q != [q, _, x], |z| {  }, { let c__: InferredGoal<DU, DE, Goal<DU, DE>> = proto_vulcan_closure!([|yy| { conde { [q == [yy | _], yy == 1], [q == [_, yy | _], yy == 2] } }, 2 == [[x | [2, []]], q]]); let g__: Goal<DU, DE> = ::proto_vulcan::GoalCast::cast_into(c__); let r__: InferredGoal<DU, DE, Goal<DU, DE>> = proto_vulcan!([g__.clone(), g__]); r__ }])
+    let x = vars.v[0].clone();
+    let y = vars.v[1].clone();
+    proto_vulcan!([y != (_, 1), [y | x] == x, |x, h| { match x { 2 | Named { a: [_], b: z } => , [[y, h, x | h], [_ | t]] => { x == [x] }, } }, { let c__: InferredGoal<DU, DE, Goal<DU, DE>> = proto_vulcan_closure!([|yy| { conde { [x == [yy | _], yy == 1], [x == [_, yy | _], yy == 2] } }, |y| {  }]); let g__: Goal<DU, DE> = ::proto_vulcan::GoalCast::cast_into(c__); let r__: InferredGoal<DU, DE, Goal<DU, DE>> = proto_vulcan!([g__.clone(), g__]); r__ }])
 }
 pub fn case_500(vars: &Vars) -> InferredGoal<DU, DE, Goal<DU, DE>> {
-    let q = vars.v[0].clone();
-    let x = vars.v[1].clone();
-    proto_vulcan!([q != [q, _, x], |fresh_name_9| {  }, { let c__: InferredGoal<DU, DE, Goal<DU, DE>> = proto_vulcan_closure!([|yy| { conde { [q == [yy | _], yy == 1], [q == [_, yy | _], yy == 2] } }, 2 == [[x | [2, []]], q]]); let g__: Goal<DU, DE> = ::proto_vulcan::GoalCast::cast_into(c__); let r__: InferredGoal<DU, DE, Goal<DU, DE>> = proto_vulcan!([g__.clone(), g__]); r__ }])
+    let x = vars.v[0].clone();
+    let y = vars.v[1].clone();
+    proto_vulcan!([y != (_, 1), [y | x] == x, |x, h| { match x { 2 | Named { a: [_], b: z } => , [[y, h, x | h], [_ | fresh_name_9]] => { x == [x] }, } }, { let c__: InferredGoal<DU, DE, Goal<DU, DE>> = proto_vulcan_closure!([|yy| { conde { [x == [yy | _], yy == 1], [x == [_, yy | _], yy == 2] } }, |y| {  }]); let g__: Goal<DU, DE> = ::proto_vulcan::GoalCast::cast_into(c__); let r__: InferredGoal<DU, DE, Goal<DU, DE>> = proto_vulcan!([g__.clone(), g__]); r__ }])
 }
 pub fn case_501(vars: &Vars) -> InferredGoal<DU, DE, Goal<DU, DE>> {
-    let q = vars.v[0].clone();
-    let x = vars.v[1].clone();
-    proto_vulcan!([P3(1, [], [_]) != (2, []), |z| { [] }, q == q, closure { [conde { [2 != x, |z, t| { true, P3([x], 2, 2) != q, member(q, [2, 1, 3]) }], [match q { [_, y] => [] == [[1, q, 1]], [[[] | t], [h, t, y]] | [[false, 1, x], [1]] => , _ => P3([], [x, x], x) != [], }, |z, h| { q != [x, [h], [true]] }], [] }, |x| { q == 2, x != [[], 3 | x], q == [1] }] }])
+    let x = vars.v[0].clone();
+    let y = vars.v[1].clone();
+    proto_vulcan!([[_ == y], [[|tz| { tz == [1], [1, 3 | tz] != [1, 3, 1] }, [2, [], 1] == x, 2 == y], [false]]])
 }
 pub fn case_502(vars: &Vars) -> InferredGoal<DU, DE, Goal<DU, DE>> {
-    let q = vars.v[0].clone();
-    let x = vars.v[1].clone();
-    proto_vulcan!([P3(1, [], [_]) != (2, []), |z| { [] }, q == q, closure { [conde { [2 != x, |z, t| { true, P3([x], 2, 2) != q, member(q, [2, 1, 3]) }], [match q { [_, fresh_name_9] => [] == [[1, q, 1]], [[[] | t], [h, t, y]] | [[false, 1, x], [1]] => , _ => P3([], [x, x], x) != [], }, |z, h| { q != [x, [h], [true]] }], [] }, |x| { q == 2, x != [[], 3 | x], q == [1] }] }])
+    let x = vars.v[0].clone();
+    let y = vars.v[1].clone();
+    proto_vulcan!([[_ == y], [[|fresh_name_9| { fresh_name_9 == [1], [1, 3 | fresh_name_9] != [1, 3, 1] }, [2, [], 1] == x, 2 == y], [false]]])
 }
 pub fn case_503(vars: &Vars) -> InferredGoal<DU, DE, Goal<DU, DE>> {
-    let q = vars.v[0].clone();
-    let x = vars.v[1].clone();
-    proto_vulcan!([q == [[[]], [q]], |t| { matche x { P3([[]], [_, h], []) => [[true, _, x] != q, matche x { [true | false] => , _ => { x == 7, x == 8 }, }], [['a', y | y], [_, 1]] => , }, t == [[2, 3, [] | 3], t, [2, x, _]] }, match x { _ => , _ => conde { x == P3([], 1, 2), match x { _ => { q == 7, q == 8 }, [1] => { |tz| { [2, 3, 2] != [2, 3 | tz], tz == [2] }, [1] != x }, } }, }])
+    let x = vars.v[0].clone();
+    proto_vulcan!([1 != x, conde { x == [_, _], [|tz| { tz == [2, 2], [2, 1 | tz] != [2, 1, 2, 2] }, matche x { 1 => , [] | [] => , }] }, { let c__: InferredGoal<DU, DE, Goal<DU, DE>> = proto_vulcan_closure!(|yy| { conde { [x == [yy | _], yy == 1], [x == [_, yy | _], yy == 2] } }); let g__: Goal<DU, DE> = ::proto_vulcan::GoalCast::cast_into(c__); let r__: InferredGoal<DU, DE, Goal<DU, DE>> = proto_vulcan!([g__.clone(), g__]); r__ }])
 }
 pub fn case_504(vars: &Vars) -> InferredGoal<DU, DE, Goal<DU, DE>> {
-    let q = vars.v[0].clone();
-    let x = vars.v[1].clone();
-    proto_vulcan!([q == [[[]], [q]], |t| { matche x { P3([[]], [_, h], []) => [[true, _, x] != q, matche x { [true | false] => , _ => { x == 7, x == 8 }, }], [['a', y | y], [_, 1]] => , }, t == [[2, 3, [] | 3], t, [2, x, _]] }, match x { _ => , _ => conde { x == P3([], 1, 2), match x { _ => { q == 7, q == 8 }, [1] => { |fresh_name_9| { [2, 3, 2] != [2, 3 | fresh_name_9], fresh_name_9 == [2] }, [1] != x }, } }, }])
+    let x = vars.v[0].clone();
+    proto_vulcan!([1 != x, conde { x == [_, _], [|tz| { tz == [2, 2], [2, 1 | tz] != [2, 1, 2, 2] }, matche x { 1 => , [] | [] => , }] }, { let c__: InferredGoal<DU, DE, Goal<DU, DE>> = proto_vulcan_closure!(|fresh_name_9| { conde { [x == [fresh_name_9 | _], fresh_name_9 == 1], [x == [_, fresh_name_9 | _], fresh_name_9 == 2] } }); let g__: Goal<DU, DE> = ::proto_vulcan::GoalCast::cast_into(c__); let r__: InferredGoal<DU, DE, Goal<DU, DE>> = proto_vulcan!([g__.clone(), g__]); r__ }])
 }
 pub fn case_505(vars: &Vars) -> InferredGoal<DU, DE, Goal<DU, DE>> {
     let x = vars.v[0].clone();
-    let y = vars.v[1].clone();
-    proto_vulcan!([|tz| { [3 | tz] != [3, 3, 1], tz == [3, 1] }, closure { matche y { [[_, y, [] | [_, 1]], [z, 1 | [2, t]]] => [t] == z, [_, [h, 1]] | ["a", 2] => |h, y| { 1 == x }, [[z, 2 | y], h] => [member(y, []), h == 2], } }])
+    proto_vulcan!([|tz| { [2, 1 | tz] != [2, 1, 3, 3], tz == [3, 3] }, [false, true, [x == [[[], true, 2] | [2, 1]], x == [[], 3, x]]], x != _])
 }
 pub fn case_506(vars: &Vars) -> InferredGoal<DU, DE, Goal<DU, DE>> {
     let x = vars.v[0].clone();
-    let y = vars.v[1].clone();
-    proto_vulcan!([|tz| { [3 | tz] != [3, 3, 1], tz == [3, 1] }, closure { matche y { [[_, y, [] | [_, 1]], [fresh_name_9, 1 | [2, t]]] => [t] == fresh_name_9, [_, [h, 1]] | ["a", 2] => |h, y| { 1 == x }, [[z, 2 | y], h] => [member(y, []), h == 2], } }])
+    proto_vulcan!([|fresh_name_9| { [2, 1 | fresh_name_9] != [2, 1, 3, 3], fresh_name_9 == [3, 3] }, [false, true, [x == [[[], true, 2] | [2, 1]], x == [[], 3, x]]], x != _])
 }
 pub fn case_507(vars: &Vars) -> InferredGoal<DU, DE, Goal<DU, DE>> {
     let x = vars.v[0].clone();
-    proto_vulcan!([[conde { ["bc" != x, x == _], [x | x] == x }, true], [x != x], conde { |t, x| { match [1, 2] { 2 | 'b' => , [[z] | 1] => , _ | _ => , } }, |z| { [[_, 1, 1 | x] == [1, 2, z], member(x, [])], match [2] { [[z, z, false]] => , _ | P3(x, 3, 3) => { P3(_, z, [3, 2]) == z }, Named { a: [_, 3], b: [y] } => , } } }, { let c__: InferredGoal<DU, DE, Goal<DU, DE>> = proto_vulcan_closure!([|yy| { conde { [x == [yy | _], yy == 1], [x == [_, yy | _], yy == 2] } }, |z| { |tz| { tz == [1, 1], [3 | tz] != [3, 1, 1] } }]); let g__: Goal<DU, DE> = ::proto_vulcan::GoalCast::cast_into(c__); let r__: InferredGoal<DU, DE, Goal<DU, DE>> = proto_vulcan!([g__.clone(), g__]); r__ }])
+    proto_vulcan!([[x == x], closure { conde { [], [match x { 3 | [_] => [1 | []] == x, 2 => { append(x, x, [3]), [true, "a", x] == x }, Named { a: [x, 3], b: [_, []] } => x == x, }, [1] != x] } }])
 }
 pub fn case_508(vars: &Vars) -> InferredGoal<DU, DE, Goal<DU, DE>> {
     let x = vars.v[0].clone();
-    proto_vulcan!([[conde { ["bc" != x, x == _], [x | x] == x }, true], [x != x], conde { |t, x| { match [1, 2] { 2 | 'b' => , [[z] | 1] => , _ | _ => , } }, |z| { [[_, 1, 1 | x] == [1, 2, z], member(x, [])], match [2] { [[z, z, false]] => , _ | P3(x, 3, 3) => { P3(_, z, [3, 2]) == z }, Named { a: [_, 3], b: [y] } => , } } }, { let c__: InferredGoal<DU, DE, Goal<DU, DE>> = proto_vulcan_closure!([|yy| { conde { [x == [yy | _], yy == 1], [x == [_, yy | _], yy == 2] } }, |fresh_name_9| { |tz| { tz == [1, 1], [3 | tz] != [3, 1, 1] } }]); let g__: Goal<DU, DE> = ::proto_vulcan::GoalCast::cast_into(c__); let r__: InferredGoal<DU, DE, Goal<DU, DE>> = proto_vulcan!([g__.clone(), g__]); r__ }])
+    proto_vulcan!([[x == x], closure { conde { [], [match x { 3 | [_] => [1 | []] == x, 2 => { append(x, x, [3]), [true, "a", x] == x }, Named { a: [fresh_name_9, 3], b: [_, []] } => fresh_name_9 == fresh_name_9, }, [1] != x] } }])
 }
 pub fn case_509(vars: &Vars) -> InferredGoal<DU, DE, Goal<DU, DE>> {
-    let x = vars.v[0].clone();
-    let y = vars.v[1].clone();
-    proto_vulcan!([|x, y| { conde { |h, z| { [_] == z, |tz| { [3, 2, 1, 1] != [3, 2 | tz], tz == [1, 1] } }, conde { [], x == 'b' } } }, [matche x { P3(1, _, []) => { [y == [y | 3], append(y, x, [])] }, }, matche x { P3(_, x, []) => { matche x { [x, [t | _], y | h] => { true }, _ => [member(x, [3]), x == [_]], _ => { [y, [1, 3, 'a' | x], [[], 2]] != P3(2, 1, x), x == "bc" }, } }, }], y == [x], { let c__: InferredGoal<DU, DE, Goal<DU, DE>> = proto_vulcan_closure!([|yy| { conde { [y == [yy | _], yy == 1], [y == [_, yy | _], yy == 2] } }, [y == (y, 3), y != P3(_, [], [2, []])]]); let g__: Goal<DU, DE> = ::proto_vulcan::GoalCast::cast_into(c__); let r__: InferredGoal<DU, DE, Goal<DU, DE>> = proto_vulcan!([g__.clone(), g__]); r__ }])
+    let q = vars.v[0].clone();
+    let x = vars.v[1].clone();
+    proto_vulcan!([match q { [] => { [|y| { true, x == [y, y], [] == q }, [q == (1, _), x != ([], q)]] }, }, x == _, _ == q])
 }
 pub fn case_510(vars: &Vars) -> InferredGoal<DU, DE, Goal<DU, DE>> {
-    let x = vars.v[0].clone();
-    let y = vars.v[1].clone();
-    proto_vulcan!([|x, y| { conde { |h, z| { [_] == z, |tz| { [3, 2, 1, 1] != [3, 2 | tz], tz == [1, 1] } }, conde { [], x == 'b' } } }, [matche x { P3(1, _, []) => { [y == [y | 3], append(y, x, [])] }, }, matche x { P3(_, fresh_name_9, []) => { matche fresh_name_9 { [x, [t | _], y | h] => { true }, _ => [member(fresh_name_9, [3]), fresh_name_9 == [_]], _ => { [y, [1, 3, 'a' | fresh_name_9], [[], 2]] != P3(2, 1, fresh_name_9), fresh_name_9 == "bc" }, } }, }], y == [x], { let c__: InferredGoal<DU, DE, Goal<DU, DE>> = proto_vulcan_closure!([|yy| { conde { [y == [yy | _], yy == 1], [y == [_, yy | _], yy == 2] } }, [y == (y, 3), y != P3(_, [], [2, []])]]); let g__: Goal<DU, DE> = ::proto_vulcan::GoalCast::cast_into(c__); let r__: InferredGoal<DU, DE, Goal<DU, DE>> = proto_vulcan!([g__.clone(), g__]); r__ }])
+    let q = vars.v[0].clone();
+    let x = vars.v[1].clone();
+    proto_vulcan!([match q { [] => { [|fresh_name_9| { true, x == [fresh_name_9, fresh_name_9], [] == q }, [q == (1, _), x != ([], q)]] }, }, x == _, _ == q])
 }
 pub fn case_511(vars: &Vars) -> InferredGoal<DU, DE, Goal<DU, DE>> {
-    let x = vars.v[0].clone();
-    proto_vulcan!([conde { [|tz| { tz == [1], [2 | tz] != [2, 1] }, matche [x] { [[y | _], 1] => true, P3(2, [_], 3) => , }] }, 2 == x, ([], [_]) != P3(1, [[], 3], [[]])])
+    let q = vars.v[0].clone();
+    let x = vars.v[1].clone();
+    proto_vulcan!([1 == x, x == [x, 3, x | x], closure { [|tz| { [2, 3, 3] != [2 | tz], tz == [3, 3] }, |x| { [x == [[], [] | x], false, q == (1, [])], conde { x == P3(3, [[], 2], _), [] } }] }])
 }
 pub fn case_512(vars: &Vars) -> InferredGoal<DU, DE, Goal<DU, DE>> {
-    let x = vars.v[0].clone();
-    proto_vulcan!([conde { [|tz| { tz == [1], [2 | tz] != [2, 1] }, matche [x] { [[fresh_name_9 | _], 1] => true, P3(2, [_], 3) => , }] }, 2 == x, ([], [_]) != P3(1, [[], 3], [[]])])
+    let q = vars.v[0].clone();
+    let x = vars.v[1].clone();
+    proto_vulcan!([1 == x, x == [x, 3, x | x], closure { [|tz| { [2, 3, 3] != [2 | tz], tz == [3, 3] }, |fresh_name_9| { [fresh_name_9 == [[], [] | fresh_name_9], false, q == (1, [])], conde { fresh_name_9 == P3(3, [[], 2], _), [] } }] }])
 }
 pub fn case_513(vars: &Vars) -> InferredGoal<DU, DE, Goal<DU, DE>> {
     let x = vars.v[0].clone();
-    proto_vulcan!([[_, [], 3 | ["a"]] != x, closure { conde { [conde { x == [x], [member(x, [1, 1]), true], [2, 1 | x] == x }, P3([2, _], [x], x) == x], match x { [[_ | 1]] => { x == [3, 2], x != x }, P3(1, [], x) => , ['b'] => [P3([], 3, []) == x, x == [[x, x | [x, x]]]], }, x == ['b' | x] } }])
+    let y = vars.v[1].clone();
+    proto_vulcan!([|y, x| { append(x, x, []) }, closure { conde { [[3, 1] == y, append(x, x, [])] } }])
 }
 pub fn case_514(vars: &Vars) -> InferredGoal<DU, DE, Goal<DU, DE>> {
     let x = vars.v[0].clone();
-    proto_vulcan!([[_, [], 3 | ["a"]] != x, closure { conde { [conde { x == [x], [member(x, [1, 1]), true], [2, 1 | x] == x }, P3([2, _], [x], x) == x], match x { [[_ | 1]] => { x == [3, 2], x != x }, P3(1, [], fresh_name_9) => , ['b'] => [P3([], 3, []) == x, x == [[x, x | [x, x]]]], }, x == ['b' | x] } }])
+    let y = vars.v[1].clone();
+    proto_vulcan!([|fresh_name_9, x| { append(x, x, []) }, closure { conde { [[3, 1] == y, append(x, x, [])] } }])
 }
 pub fn case_515(vars: &Vars) -> InferredGoal<DU, DE, Goal<DU, DE>> {
     let x = vars.v[0].clone();
-    proto_vulcan!([P3(_, [], 2) == x, conde { [|y| { |h| { true, member(x, [3]), [x, 1, 2] == 1 } }, matche x { x => { |h| { P3(_, _, x) != x, x == [2, []], h == P3([x], 3, _) } }, }], [[match x { [h, x] => { ([3], [h, _]) == x }, }], ['a', [2, x], 1] == x] }, [x == x, [[2, x, []], [2], [3, x]] == x]])
+    proto_vulcan!(['b' == x, true, { let c__: InferredGoal<DU, DE, Goal<DU, DE>> = proto_vulcan_closure!([|yy| { conde { [x == [yy | _], yy == 1], [x == [_, yy | _], yy == 2] } }, |tz| { [2 | tz] != [2, 1, 3], tz == [1, 3] }]); let g__: Goal<DU, DE> = ::proto_vulcan::GoalCast::cast_into(c__); let r__: InferredGoal<DU, DE, Goal<DU, DE>> = proto_vulcan!([g__.clone(), g__]); r__ }])
 }
 pub fn case_516(vars: &Vars) -> InferredGoal<DU, DE, Goal<DU, DE>> {
     let x = vars.v[0].clone();
-    proto_vulcan!([P3(_, [], 2) == x, conde { [|y| { |h| { true, member(x, [3]), [x, 1, 2] == 1 } }, matche x { x => { |h| { P3(_, _, x) != x, x == [2, []], h == P3([x], 3, _) } }, }], [[match x { [h, fresh_name_9] => { ([3], [h, _]) == fresh_name_9 }, }], ['a', [2, x], 1] == x] }, [x == x, [[2, x, []], [2], [3, x]] == x]])
+    proto_vulcan!(['b' == x, true, { let c__: InferredGoal<DU, DE, Goal<DU, DE>> = proto_vulcan_closure!([|yy| { conde { [x == [yy | _], yy == 1], [x == [_, yy | _], yy == 2] } }, |fresh_name_9| { [2 | fresh_name_9] != [2, 1, 3], fresh_name_9 == [1, 3] }]); let g__: Goal<DU, DE> = ::proto_vulcan::GoalCast::cast_into(c__); let r__: InferredGoal<DU, DE, Goal<DU, DE>> = proto_vulcan!([g__.clone(), g__]); r__ }])
 }
 pub fn case_517(vars: &Vars) -> InferredGoal<DU, DE, Goal<DU, DE>> {
     let x = vars.v[0].clone();
-    let y = vars.v[1].clone();
-    proto_vulcan!([(1, x) == ([], _), matche [1, []] { [t, t, 2 | []] => { |y| { t == 1, |x, y| { [y, 'a'] == t, false, [y, 2, 1] == t } }, |t| { y != [2 | x], |x| { x != [[1, y, []], y, []], P3(_, [], t) == P3([_, y], [2, y], 3), t == 2 } } }, [h, x, [x] | _] | [[_, y, "bc" | _]] => , }])
+    proto_vulcan!([matche x { [_] => , [x, [1, 2] | 1] => { |t| { true } }, 1 | P3([1], 1, [[], z]) => , }])
 }
 pub fn case_518(vars: &Vars) -> InferredGoal<DU, DE, Goal<DU, DE>> {
     let x = vars.v[0].clone();
-    let y = vars.v[1].clone();
-    proto_vulcan!([(1, x) == ([], _), matche [1, []] { [t, t, 2 | []] => { |fresh_name_9| { t == 1, |x, y| { [y, 'a'] == t, false, [y, 2, 1] == t } }, |t| { y != [2 | x], |x| { x != [[1, y, []], y, []], P3(_, [], t) == P3([_, y], [2, y], 3), t == 2 } } }, [h, x, [x] | _] | [[_, y, "bc" | _]] => , }])
+    proto_vulcan!([matche x { [_] => , [x, [1, 2] | 1] => { |fresh_name_9| { true } }, 1 | P3([1], 1, [[], z]) => , }])
 }
 pub fn case_519(vars: &Vars) -> InferredGoal<DU, DE, Goal<DU, DE>> {
     let q = vars.v[0].clone();
     let x = vars.v[1].clone();
-    proto_vulcan!([conde { [x == [[_, x, 2], [x, _, q], [q, [] | 2] | 3], 2 == q], [[x != P3([], x, [])], [matche q { [[1 | [[], _]], [_, y, 2], h | h] | [[_, h, 2 | y], [[]] | _] => ([_, _], _) == q, x | [[x, x], y] => [[[], x | x] != x, [[2], [3, [], _], [x, true, x]] != x], }, conde { true, [], [q, q] == x }]], false }, conde { [|z, h| { |x, z| { [3] == z } }, match x { [2] => { conde { [append(q, q, [2]), false] }, matche 'a' { Named { a: 2, b: z } => [q == x, false], false => { [2, x] == q }, } }, t => { t == t }, [[z, x, _]] => , }], [match [] { [[2, _, [] | h], h, [_]] => { x == 1, conde { [h == [q | 3], x == [[]]], [[3] == h, false], false } }, Named { a: _, b: y } | true => x == [q, 3, [] | [q]], }, q == 2], [|t| { |x| { false, x == _, t == 2 }, _ == t, match t { _ => , _ => [q == 7, q == 8], _ => { t == 7, t == 8 }, } }, matche [q] { [[2], 1, [[], t | z]] | _ => , y => match x { z => { true }, t => , }, }] }, true])
+    proto_vulcan!([x == [2 | q], [], { let c__: InferredGoal<DU, DE, Goal<DU, DE>> = proto_vulcan_closure!([|yy| { conde { [x == [yy | _], yy == 1], [x == [_, yy | _], yy == 2] } }, |h, y| { |tz| { [3, 3 | tz] != [3, 3, 1], tz == [1] }, [2, h | x] == h, true }]); let g__: Goal<DU, DE> = ::proto_vulcan::GoalCast::cast_into(c__); let r__: InferredGoal<DU, DE, Goal<DU, DE>> = proto_vulcan!([g__.clone(), g__]); r__ }])
 }
 pub fn case_520(vars: &Vars) -> InferredGoal<DU, DE, Goal<DU, DE>> {
     let q = vars.v[0].clone();
     let x = vars.v[1].clone();
-    proto_vulcan!([conde { [x == [[_, x, 2], [x, _, q], [q, [] | 2] | 3], 2 == q], [[x != P3([], x, [])], [matche q { [[1 | [[], _]], [_, y, 2], h | h] | [[_, h, 2 | y], [[]] | _] => ([_, _], _) == q, x | [[x, x], y] => [[[], x | x] != x, [[2], [3, [], _], [x, true, x]] != x], }, conde { true, [], [q, q] == x }]], false }, conde { [|z, h| { |x, z| { [3] == z } }, match x { [2] => { conde { [append(q, q, [2]), false] }, matche 'a' { Named { a: 2, b: z } => [q == x, false], false => { [2, x] == q }, } }, t => { t == t }, [[z, fresh_name_9, _]] => , }], [match [] { [[2, _, [] | h], h, [_]] => { x == 1, conde { [h == [q | 3], x == [[]]], [[3] == h, false], false } }, Named { a: _, b: y } | true => x == [q, 3, [] | [q]], }, q == 2], [|t| { |x| { false, x == _, t == 2 }, _ == t, match t { _ => , _ => [q == 7, q == 8], _ => { t == 7, t == 8 }, } }, matche [q] { [[2], 1, [[], t | z]] | _ => , y => match x { z => { true }, t => , }, }] }, true])
+    proto_vulcan!([x == [2 | q], [], { let c__: InferredGoal<DU, DE, Goal<DU, DE>> = proto_vulcan_closure!([|yy| { conde { [x == [yy | _], yy == 1], [x == [_, yy | _], yy == 2] } }, |h, y| { |fresh_name_9| { [3, 3 | fresh_name_9] != [3, 3, 1], fresh_name_9 == [1] }, [2, h | x] == h, true }]); let g__: Goal<DU, DE> = ::proto_vulcan::GoalCast::cast_into(c__); let r__: InferredGoal<DU, DE, Goal<DU, DE>> = proto_vulcan!([g__.clone(), g__]); r__ }])
 }
 pub fn case_521(vars: &Vars) -> InferredGoal<DU, DE, Goal<DU, DE>> {
-    let q = vars.v[0].clone();
-    let x = vars.v[1].clone();
-    proto_vulcan!([_ == ['a', _], false, { let c__: InferredGoal<DU, DE, Goal<DU, DE>> = proto_vulcan_closure!(|yy| { conde { [x == [yy | _], yy == 1], [x == [_, yy | _], yy == 2] } }); let g__: Goal<DU, DE> = ::proto_vulcan::GoalCast::cast_into(c__); let r__: InferredGoal<DU, DE, Goal<DU, DE>> = proto_vulcan!([g__.clone(), g__]); r__ }])
+    let x = vars.v[0].clone();
+    let y = vars.v[1].clone();
+    proto_vulcan!([P3(2, [x], _) == y, |y, z| { |y, z| { |tz| { [2, 1, 2] != [2, 1 | tz], tz == [2] } }, [z, [y | z], 1 | []] != _, [] == y }, conde { true, [[false], P3([_], 3, 2) == x], [] }])
 }
 pub fn case_522(vars: &Vars) -> InferredGoal<DU, DE, Goal<DU, DE>> {
-    let q = vars.v[0].clone();
-    let x = vars.v[1].clone();
-    proto_vulcan!([_ == ['a', _], false, { let c__: InferredGoal<DU, DE, Goal<DU, DE>> = proto_vulcan_closure!(|fresh_name_9| { conde { [x == [fresh_name_9 | _], fresh_name_9 == 1], [x == [_, fresh_name_9 | _], fresh_name_9 == 2] } }); let g__: Goal<DU, DE> = ::proto_vulcan::GoalCast::cast_into(c__); let r__: InferredGoal<DU, DE, Goal<DU, DE>> = proto_vulcan!([g__.clone(), g__]); r__ }])
+    let x = vars.v[0].clone();
+    let y = vars.v[1].clone();
+    proto_vulcan!([P3(2, [x], _) == y, |fresh_name_9, z| { |y, z| { |tz| { [2, 1, 2] != [2, 1 | tz], tz == [2] } }, [z, [fresh_name_9 | z], 1 | []] != _, [] == fresh_name_9 }, conde { true, [[false], P3([_], 3, 2) == x], [] }])
 }
 pub fn case_523(vars: &Vars) -> InferredGoal<DU, DE, Goal<DU, DE>> {
     let q = vars.v[0].clone();
     let x = vars.v[1].clone();
-    proto_vulcan!([match q { _ => { member(x, [1, 2, 3]) }, h | [2] => conde { [|z, x| { false, false }, [q, q, q | _] == q], [|t, y| { true, false, [] == y }, x == x], |tz| { [3 | tz] != [3, 2], tz == [2] } }, Named { a: z, b: [] } => , }, conde { [x == x, x == ([1, _], q)], [append(q, x, []), ["bc" | q] == q], [|t| { |x, y| { true }, conde { [(x, [2]) != q, |tz| { [2, 1 | tz] != [2, 1, 3], tz == [3] }], [false, x == q] }, true }, x == P3([1, []], _, 2)] }, append(q, x, []), { let c__: InferredGoal<DU, DE, Goal<DU, DE>> = proto_vulcan_closure!(|yy| { conde { [q == [yy | _], yy == 1], [q == [_, yy | _], yy == 2] } }); let g__: Goal<DU, DE> = ::proto_vulcan::GoalCast::cast_into(c__); let r__: InferredGoal<DU, DE, Goal<DU, DE>> = proto_vulcan!([g__.clone(), g__]); r__ }])
+    proto_vulcan!([matche [1] { x => { |z, y| {  }, 1 == x }, }, 2 != [['a', 2], [x]], { let c__: InferredGoal<DU, DE, Goal<DU, DE>> = proto_vulcan_closure!([|yy| { conde { [x == [yy | _], yy == 1], [x == [_, yy | _], yy == 2] } }, q == []]); let g__: Goal<DU, DE> = ::proto_vulcan::GoalCast::cast_into(c__); let r__: InferredGoal<DU, DE, Goal<DU, DE>> = proto_vulcan!([g__.clone(), g__]); r__ }])
 }
 pub fn case_524(vars: &Vars) -> InferredGoal<DU, DE, Goal<DU, DE>> {
     let q = vars.v[0].clone();
     let x = vars.v[1].clone();
-    proto_vulcan!([match q { _ => { member(x, [1, 2, 3]) }, h | [2] => conde { [|z, x| { false, false }, [q, q, q | _] == q], [|t, y| { true, false, [] == y }, x == x], |tz| { [3 | tz] != [3, 2], tz == [2] } }, Named { a: z, b: [] } => , }, conde { [x == x, x == ([1, _], q)], [append(q, x, []), ["bc" | q] == q], [|fresh_name_9| { |x, y| { true }, conde { [(x, [2]) != q, |tz| { [2, 1 | tz] != [2, 1, 3], tz == [3] }], [false, x == q] }, true }, x == P3([1, []], _, 2)] }, append(q, x, []), { let c__: InferredGoal<DU, DE, Goal<DU, DE>> = proto_vulcan_closure!(|yy| { conde { [q == [yy | _], yy == 1], [q == [_, yy | _], yy == 2] } }); let g__: Goal<DU, DE> = ::proto_vulcan::GoalCast::cast_into(c__); let r__: InferredGoal<DU, DE, Goal<DU, DE>> = proto_vulcan!([g__.clone(), g__]); r__ }])
+    proto_vulcan!([matche [1] { fresh_name_9 => { |z, y| {  }, 1 == fresh_name_9 }, }, 2 != [['a', 2], [x]], { let c__: InferredGoal<DU, DE, Goal<DU, DE>> = proto_vulcan_closure!([|yy| { conde { [x == [yy | _], yy == 1], [x == [_, yy | _], yy == 2] } }, q == []]); let g__: Goal<DU, DE> = ::proto_vulcan::GoalCast::cast_into(c__); let r__: InferredGoal<DU, DE, Goal<DU, DE>> = proto_vulcan!([g__.clone(), g__]); r__ }])
 }
 pub fn case_525(vars: &Vars) -> InferredGoal<DU, DE, Goal<DU, DE>> {
     let x = vars.v[0].clone();
     let y = vars.v[1].clone();
-    proto_vulcan!([match y { _ => , Named { a: [1], b: [x, _] } => { |y| { [member(x, [2, 3, 1])], P3([x], [3, x], []) != y, [member(x, []), y == [x, false, y], append(x, x, [3, 3])] } }, }, { let c__: InferredGoal<DU, DE, Goal<DU, DE>> = proto_vulcan_closure!(|yy| { conde { [y == [yy | _], yy == 1], [y == [_, yy | _], yy == 2] } }); let g__: Goal<DU, DE> = ::proto_vulcan::GoalCast::cast_into(c__); let r__: InferredGoal<DU, DE, Goal<DU, DE>> = proto_vulcan!([g__.clone(), g__]); r__ }])
+    proto_vulcan!([|t, x| { ([_, []], 3) == x, |y| { [] } }, closure { conde { [] } }])
 }
 pub fn case_526(vars: &Vars) -> InferredGoal<DU, DE, Goal<DU, DE>> {
     let x = vars.v[0].clone();
     let y = vars.v[1].clone();
-    proto_vulcan!([match y { _ => , Named { a: [1], b: [x, _] } => { |y| { [member(x, [2, 3, 1])], P3([x], [3, x], []) != y, [member(x, []), y == [x, false, y], append(x, x, [3, 3])] } }, }, { let c__: InferredGoal<DU, DE, Goal<DU, DE>> = proto_vulcan_closure!(|fresh_name_9| { conde { [y == [fresh_name_9 | _], fresh_name_9 == 1], [y == [_, fresh_name_9 | _], fresh_name_9 == 2] } }); let g__: Goal<DU, DE> = ::proto_vulcan::GoalCast::cast_into(c__); let r__: InferredGoal<DU, DE, Goal<DU, DE>> = proto_vulcan!([g__.clone(), g__]); r__ }])
+    proto_vulcan!([|t, fresh_name_9| { ([_, []], 3) == fresh_name_9, |y| { [] } }, closure { conde { [] } }])
 }
 pub fn case_527(vars: &Vars) -> InferredGoal<DU, DE, Goal<DU, DE>> {
-    let x = vars.v[0].clone();
-    proto_vulcan!(['a' != x, |t| {  }, |t| { [x, []] == P3(_, [1, []], 3) }])
+    let q = vars.v[0].clone();
+    let x = vars.v[1].clone();
+    proto_vulcan!([P3(2, 1, _) != q, |tz| { [1, 1] != [1 | tz], tz == [1] }])
 }
 pub fn case_528(vars: &Vars) -> InferredGoal<DU, DE, Goal<DU, DE>> {
-    let x = vars.v[0].clone();
-    proto_vulcan!(['a' != x, |t| {  }, |fresh_name_9| { [x, []] == P3(_, [1, []], 3) }])
+    let q = vars.v[0].clone();
+    let x = vars.v[1].clone();
+    proto_vulcan!([P3(2, 1, _) != q, |fresh_name_9| { [1, 1] != [1 | fresh_name_9], fresh_name_9 == [1] }])
 }
 pub fn case_529(vars: &Vars) -> InferredGoal<DU, DE, Goal<DU, DE>> {
     let x = vars.v[0].clone();
     let y = vars.v[1].clone();
-    proto_vulcan!([|tz| { tz == [1, 2], [1, 1, 2] != [1 | tz] }, |t, y| { conde { false, [conde { false, 1 == y }, matche x { [[2, true, 1], [x, t], 1] | _ => [y != 3, y == [[], _]], [y, [t]] => , _ => { x == 1, |tz| { tz == [2, 2], [2 | tz] != [2, 2, 2] } }, }] } }])
+    proto_vulcan!([y != [y | _], y != P3(3, [[]], x), [[2, x, 1] | 3] == x, { let c__: InferredGoal<DU, DE, Goal<DU, DE>> = proto_vulcan_closure!([|yy| { conde { [y == [yy | _], yy == 1], [y == [_, yy | _], yy == 2] } }, true]); let g__: Goal<DU, DE> = ::proto_vulcan::GoalCast::cast_into(c__); let r__: InferredGoal<DU, DE, Goal<DU, DE>> = proto_vulcan!([g__.clone(), g__]); r__ }])
 }
 pub fn case_530(vars: &Vars) -> InferredGoal<DU, DE, Goal<DU, DE>> {
     let x = vars.v[0].clone();
     let y = vars.v[1].clone();
-    proto_vulcan!([|fresh_name_9| { fresh_name_9 == [1, 2], [1, 1, 2] != [1 | fresh_name_9] }, |t, y| { conde { false, [conde { false, 1 == y }, matche x { [[2, true, 1], [x, t], 1] | _ => [y != 3, y == [[], _]], [y, [t]] => , _ => { x == 1, |tz| { tz == [2, 2], [2 | tz] != [2, 2, 2] } }, }] } }])
+    proto_vulcan!([y != [y | _], y != P3(3, [[]], x), [[2, x, 1] | 3] == x, { let c__: InferredGoal<DU, DE, Goal<DU, DE>> = proto_vulcan_closure!([|fresh_name_9| { conde { [y == [fresh_name_9 | _], fresh_name_9 == 1], [y == [_, fresh_name_9 | _], fresh_name_9 == 2] } }, true]); let g__: Goal<DU, DE> = ::proto_vulcan::GoalCast::cast_into(c__); let r__: InferredGoal<DU, DE, Goal<DU, DE>> = proto_vulcan!([g__.clone(), g__]); r__ }])
 }
 pub fn case_531(vars: &Vars) -> InferredGoal<DU, DE, Goal<DU, DE>> {
     let x = vars.v[0].clone();
-    proto_vulcan!([match x { P3([h], [[]], y) | Named { a: y, b: 2 } => , [["bc" | [_]]] | _ => { P3([[], x], [3, 2], x) == x }, }, conde { [[|x| { append(x, x, [3]), x == (1, [3]), x == x }, [_, x, 1] == x, match [x, _, x] { true | _ => |tz| { tz == [1, 3], [3, 1 | tz] != [3, 1, 1, 3] }, [t, [y, 1]] | _ => , }], |h| { match h { 1 => [|tz| { tz == [1, 1], [3, 3 | tz] != [3, 3, 1, 1] }, P3([_], 1, x) == h], }, |tz| { tz == [3], [2, 2 | tz] != [2, 2, 3] } }], 2 == x, [2, 2] == x }, [x, []] == x])
+    let y = vars.v[1].clone();
+    proto_vulcan!([match y { [2 | [x]] => , }, |z, h| { [x != P3([2, []], y, [1, 2]), conde { [], true, [] }], matche y { Named { a: [_], b: [_, []] } | [[[], y, 2]] => { [] }, P3([], _, z) => [|x, z| { |tz| { tz == [1, 2], [1, 1, 2] != [1 | tz] }, (x, 3) != [1, [h | z], [z]] }, [[[], z, true | []], [z, _, h | z], [x]] == x], }, [true, y, _] != h }, |y| { match y { P3(z, [h, _], 1) => { (h, h) == h }, [[z, z, _ | 'b'], 1] => [y == y, x == _], } }])
 }
 pub fn case_532(vars: &Vars) -> InferredGoal<DU, DE, Goal<DU, DE>> {
     let x = vars.v[0].clone();
-    proto_vulcan!([match x { P3([h], [[]], y) | Named { a: y, b: 2 } => , [["bc" | [_]]] | _ => { P3([[], x], [3, 2], x) == x }, }, conde { [[|x| { append(x, x, [3]), x == (1, [3]), x == x }, [_, x, 1] == x, match [x, _, x] { true | _ => |tz| { tz == [1, 3], [3, 1 | tz] != [3, 1, 1, 3] }, [t, [y, 1]] | _ => , }], |h| { match h { 1 => [|tz| { tz == [1, 1], [3, 3 | tz] != [3, 3, 1, 1] }, P3([_], 1, x) == h], }, |fresh_name_9| { fresh_name_9 == [3], [2, 2 | fresh_name_9] != [2, 2, 3] } }], 2 == x, [2, 2] == x }, [x, []] == x])
+    let y = vars.v[1].clone();
+    proto_vulcan!([match y { [2 | [x]] => , }, |fresh_name_9, h| { [x != P3([2, []], y, [1, 2]), conde { [], true, [] }], matche y { Named { a: [_], b: [_, []] } | [[[], y, 2]] => { [] }, P3([], _, z) => [|x, z| { |tz| { tz == [1, 2], [1, 1, 2] != [1 | tz] }, (x, 3) != [1, [h | z], [z]] }, [[[], z, true | []], [z, _, h | z], [x]] == x], }, [true, y, _] != h }, |y| { match y { P3(z, [h, _], 1) => { (h, h) == h }, [[z, z, _ | 'b'], 1] => [y == y, x == _], } }])
 }
 pub fn case_533(vars: &Vars) -> InferredGoal<DU, DE, Goal<DU, DE>> {
     let x = vars.v[0].clone();
-    let y = vars.v[1].clone();
-    proto_vulcan!([match x { [[_]] | _ => [[y == [[], [_, [] | y], x]]], }, match x { Named { a: 1, b: _ } | [1, _, h] => [|h| {  }, true != []], 3 => [y == [x, x, y], 1 == y], Named { a: 1, b: 3 } | [[false] | h] => , }, []])
+    proto_vulcan!([false, ([], 2) == x, |z| {  }])
 }
 pub fn case_534(vars: &Vars) -> InferredGoal<DU, DE, Goal<DU, DE>> {
     let x = vars.v[0].clone();
-    let y = vars.v[1].clone();
-    proto_vulcan!([match x { [[_]] | _ => [[y == [[], [_, [] | y], x]]], }, match x { Named { a: 1, b: _ } | [1, _, h] => [|fresh_name_9| {  }, true != []], 3 => [y == [x, x, y], 1 == y], Named { a: 1, b: 3 } | [[false] | h] => , }, []])
+    proto_vulcan!([false, ([], 2) == x, |fresh_name_9| {  }])
 }
 pub fn case_535(vars: &Vars) -> InferredGoal<DU, DE, Goal<DU, DE>> {
-    let x = vars.v[0].clone();
-    proto_vulcan!([2 == x, [], [x | x] == x, { let c__: InferredGoal<DU, DE, Goal<DU, DE>> = proto_vulcan_closure!(|yy| { conde { [x == [yy | _], yy == 1], [x == [_, yy | _], yy == 2] } }); let g__: Goal<DU, DE> = ::proto_vulcan::GoalCast::cast_into(c__); let r__: InferredGoal<DU, DE, Goal<DU, DE>> = proto_vulcan!([g__.clone(), g__]); r__ }])
+    let q = vars.v[0].clone();
+    let x = vars.v[1].clone();
+    proto_vulcan!([P3([x, q], 3, 2) == q, match q { [[2, 2], 1] | _ => match q { _ | P3([], _, [2, _]) => [conde { [[3, x, x | x], [x, _, q | _], _] == [], [] }, |z| { |tz| { tz == [3, 1], [2, 3, 1] != [2 | tz] }, member(q, []), [q, "a", _] == q }], 2 => { conde { [[q | q] == q, [q, x, _] == q] } }, x => , }, 3 | [[x], z, 1] => { q == false, conde { member(q, [1]), false } }, }])
 }
 pub fn case_536(vars: &Vars) -> InferredGoal<DU, DE, Goal<DU, DE>> {
-    let x = vars.v[0].clone();
-    proto_vulcan!([2 == x, [], [x | x] == x, { let c__: InferredGoal<DU, DE, Goal<DU, DE>> = proto_vulcan_closure!(|fresh_name_9| { conde { [x == [fresh_name_9 | _], fresh_name_9 == 1], [x == [_, fresh_name_9 | _], fresh_name_9 == 2] } }); let g__: Goal<DU, DE> = ::proto_vulcan::GoalCast::cast_into(c__); let r__: InferredGoal<DU, DE, Goal<DU, DE>> = proto_vulcan!([g__.clone(), g__]); r__ }])
+    let q = vars.v[0].clone();
+    let x = vars.v[1].clone();
+    proto_vulcan!([P3([x, q], 3, 2) == q, match q { [[2, 2], 1] | _ => match q { _ | P3([], _, [2, _]) => [conde { [[3, x, x | x], [x, _, q | _], _] == [], [] }, |fresh_name_9| { |tz| { tz == [3, 1], [2, 3, 1] != [2 | tz] }, member(q, []), [q, "a", _] == q }], 2 => { conde { [[q | q] == q, [q, x, _] == q] } }, x => , }, 3 | [[x], z, 1] => { q == false, conde { member(q, [1]), false } }, }])
 }
 pub fn case_537(vars: &Vars) -> InferredGoal<DU, DE, Goal<DU, DE>> {
     let x = vars.v[0].clone();
-    proto_vulcan!([([], 3) == x, |z| {  }, closure { conde { [|y| { x == [y, _, []], true }, conde { [1, false, 1 | x] == x, [x == x, true] }], [x == [x, 1 | 3], |tz| { tz == [2, 1], [1 | tz] != [1, 2, 1] }], false } }])
+    let y = vars.v[1].clone();
+    proto_vulcan!([matche [y, x, x] { _ => , P3([[]], [2], []) => [conde { ['a', true | x] == y, |t| { x == 2 }, [] }, [[y, 1 | x], [false, "a", y], x] == []], t => { |tz| { tz == [3], [3, 3] != [3 | tz] } }, }, member(y, [3]), closure { [matche [1, _ | x] { [[1], [2, _, _ | h], ['a', 2, z]] => , }, matche x { [[t | t], [x, 3, _] | _] => { conde { [[[]] == t, y != P3(2, _, [_])], [false, append(x, t, [2])] }, [x == 3] }, 3 => x != [3, y], [[z | t], [y, 2, _ | z]] => , }] }])
 }
 pub fn case_538(vars: &Vars) -> InferredGoal<DU, DE, Goal<DU, DE>> {
     let x = vars.v[0].clone();
-    proto_vulcan!([([], 3) == x, |z| {  }, closure { conde { [|fresh_name_9| { x == [fresh_name_9, _, []], true }, conde { [1, false, 1 | x] == x, [x == x, true] }], [x == [x, 1 | 3], |tz| { tz == [2, 1], [1 | tz] != [1, 2, 1] }], false } }])
+    let y = vars.v[1].clone();
+    proto_vulcan!([matche [y, x, x] { _ => , P3([[]], [2], []) => [conde { ['a', true | x] == y, |t| { x == 2 }, [] }, [[y, 1 | x], [false, "a", y], x] == []], t => { |fresh_name_9| { fresh_name_9 == [3], [3, 3] != [3 | fresh_name_9] } }, }, member(y, [3]), closure { [matche [1, _ | x] { [[1], [2, _, _ | h], ['a', 2, z]] => , }, matche x { [[t | t], [x, 3, _] | _] => { conde { [[[]] == t, y != P3(2, _, [_])], [false, append(x, t, [2])] }, [x == 3] }, 3 => x != [3, y], [[z | t], [y, 2, _ | z]] => , }] }])
 }
 pub fn case_539(vars: &Vars) -> InferredGoal<DU, DE, Goal<DU, DE>> {
     let x = vars.v[0].clone();
     let y = vars.v[1].clone();
-    proto_vulcan!([y != [3, [y]], |h, z| { [y, 'a', "a"] == y }, match y { [[[], 3], 'a', _] => { y == [3, y, y] }, }, closure { x != P3(1, x, x) }])
+    proto_vulcan!([|tz| { [3, 1 | tz] != [3, 1, 2], tz == [2] }, |t| { [[true, [3, y] == t, P3(1, t, [3]) != x]] }])
 }
 pub fn case_540(vars: &Vars) -> InferredGoal<DU, DE, Goal<DU, DE>> {
     let x = vars.v[0].clone();
     let y = vars.v[1].clone();
-    proto_vulcan!([y != [3, [y]], |h, fresh_name_9| { [y, 'a', "a"] == y }, match y { [[[], 3], 'a', _] => { y == [3, y, y] }, }, closure { x != P3(1, x, x) }])
+    proto_vulcan!([|tz| { [3, 1 | tz] != [3, 1, 2], tz == [2] }, |fresh_name_9| { [[true, [3, y] == fresh_name_9, P3(1, fresh_name_9, [3]) != x]] }])
 }
 pub fn case_541(vars: &Vars) -> InferredGoal<DU, DE, Goal<DU, DE>> {
-    let q = vars.v[0].clone();
-    let x = vars.v[1].clone();
-    proto_vulcan!([match x { [[], [x, y], []] => conde { y == [3 | q], [y == [x, _, y], conde { [member(x, []), append(y, x, [2])] }] }, }, |h| { conde { [h == h, |t| { q == [[t, []], [t, 1, 3], [[] | h]], append(t, h, []), q == (1, [h, 3]) }], conde { [], [[2 | _] == h, [_, 3] != q] } }, q != 2 }, |tz| { [3, 2, 3, 2] != [3, 2 | tz], tz == [3, 2] }])
+    let x = vars.v[0].clone();
+    proto_vulcan!([matche x { _ => [x == 7, x == 8], [[y, y, t | "a"] | 2] => [member(y, [1]), y != t], ["a", [3, 'b' | x] | 3] => [|x, t| { matche [x] { 1 => [member(t, [2, 3, 3]), [1] == x], _ => , }, |y| { true, x == x }, matche [t, 3] { [[z]] | [[2], [true | h]] => x == [[1, _, t], [x]], } }, match x { [[] | t] => [|y, t| { x == [1], [[1] | 3] == [[y, _, t | _], x | 2] }, _ == x], _ => [x, x, []] == x, [[t], [_]] => { matche x { [[], ['a', t, x]] | t => true, } }, }], }])
 }
 pub fn case_542(vars: &Vars) -> InferredGoal<DU, DE, Goal<DU, DE>> {
-    let q = vars.v[0].clone();
-    let x = vars.v[1].clone();
-    proto_vulcan!([match x { [[], [x, y], []] => conde { y == [3 | q], [y == [x, _, y], conde { [member(x, []), append(y, x, [2])] }] }, }, |fresh_name_9| { conde { [fresh_name_9 == fresh_name_9, |t| { q == [[t, []], [t, 1, 3], [[] | fresh_name_9]], append(t, fresh_name_9, []), q == (1, [fresh_name_9, 3]) }], conde { [], [[2 | _] == fresh_name_9, [_, 3] != q] } }, q != 2 }, |tz| { [3, 2, 3, 2] != [3, 2 | tz], tz == [3, 2] }])
+    let x = vars.v[0].clone();
+    proto_vulcan!([matche x { _ => [x == 7, x == 8], [[y, y, t | "a"] | 2] => [member(y, [1]), y != t], ["a", [3, 'b' | x] | 3] => [|x, t| { matche [x] { 1 => [member(t, [2, 3, 3]), [1] == x], _ => , }, |y| { true, x == x }, matche [t, 3] { [[z]] | [[2], [true | h]] => x == [[1, _, t], [x]], } }, match x { [[] | t] => [|y, t| { x == [1], [[1] | 3] == [[y, _, t | _], x | 2] }, _ == x], _ => [x, x, []] == x, [[fresh_name_9], [_]] => { matche x { [[], ['a', t, x]] | t => true, } }, }], }])
 }
 pub fn case_543(vars: &Vars) -> InferredGoal<DU, DE, Goal<DU, DE>> {
     let q = vars.v[0].clone();
     let x = vars.v[1].clone();
-    proto_vulcan!([conde { [member(x, [1, 3, 1]), 2 == x], q == q }, match true { 2 | false => { x != [x, 2 | q], |x, t| { P3(x, 1, [3, x]) == 2, conde { member(t, [2]) } } }, }])
+    proto_vulcan!([match ['b', q] { _ | [[3, [] | h] | z] => [|t, z| {  }, (q, [q, _]) == x], }, |h| { matche q { [z, [t, h, h], [h, [], t] | y] => [3 == x, y == (_, [1, _])], [[2, t], [z] | y] => conde { [([], 3) == z, false], [], [false, |tz| { tz == [2, 2], [2, 2 | tz] != [2, 2, 2, 2] }] }, [t, 2, [1, h, x] | x] => match q { P3([_], t, _) => , _ => { member(h, [1, 2, 3]) }, }, } }])
 }
 pub fn case_544(vars: &Vars) -> InferredGoal<DU, DE, Goal<DU, DE>> {
     let q = vars.v[0].clone();
     let x = vars.v[1].clone();
-    proto_vulcan!([conde { [member(x, [1, 3, 1]), 2 == x], q == q }, match true { 2 | false => { x != [x, 2 | q], |fresh_name_9, t| { P3(fresh_name_9, 1, [3, fresh_name_9]) == 2, conde { member(t, [2]) } } }, }])
+    proto_vulcan!([match ['b', q] { _ | [[3, [] | h] | z] => [|t, z| {  }, (q, [q, _]) == x], }, |fresh_name_9| { matche q { [z, [t, h, h], [h, [], t] | y] => [3 == x, y == (_, [1, _])], [[2, t], [z] | y] => conde { [([], 3) == z, false], [], [false, |tz| { tz == [2, 2], [2, 2 | tz] != [2, 2, 2, 2] }] }, [t, 2, [1, h, x] | x] => match q { P3([_], t, _) => , _ => { member(h, [1, 2, 3]) }, }, } }])
 }
 pub fn case_545(vars: &Vars) -> InferredGoal<DU, DE, Goal<DU, DE>> {
     let x = vars.v[0].clone();
-    proto_vulcan!([conde { x != [1, x, x | x] }, { let c__: InferredGoal<DU, DE, Goal<DU, DE>> = proto_vulcan_closure!([|yy| { conde { [x == [yy | _], yy == 1], [x == [_, yy | _], yy == 2] } }, [x == x]]); let g__: Goal<DU, DE> = ::proto_vulcan::GoalCast::cast_into(c__); let r__: InferredGoal<DU, DE, Goal<DU, DE>> = proto_vulcan!([g__.clone(), g__]); r__ }])
+    let y = vars.v[1].clone();
+    proto_vulcan!([matche [_ | y] { [["bc", "a", x | _], [y, 1 | 1], ["bc"]] => { match x { t => , "bc" => match y { _ | _ => member(x, [1, 2, 3]), [t, [z], t | z] => { true }, }, Named { a: 2, b: 3 } | _ => , }, x == [y, 2, [[], x, 1]] }, _ => matche y { [_, [3, []]] => { y != [2, y], |y| { |tz| { [2, 1, 1] != [2 | tz], tz == [1, 1] } } }, [[h]] | 2 => , y => , }, [[2, _, 2] | [[], []]] => [[([y], _) == P3([3], [2, 1], x), (_, []) == (_, [1]), conde { [append(y, y, [1]), true], [append(x, y, [2]), true], [[[], 2, y] == x, false] }], y != P3(x, [2, _], [])], }, y != P3(2, [x, y], 2)])
 }
 pub fn case_546(vars: &Vars) -> InferredGoal<DU, DE, Goal<DU, DE>> {
     let x = vars.v[0].clone();
-    proto_vulcan!([conde { x != [1, x, x | x] }, { let c__: InferredGoal<DU, DE, Goal<DU, DE>> = proto_vulcan_closure!([|fresh_name_9| { conde { [x == [fresh_name_9 | _], fresh_name_9 == 1], [x == [_, fresh_name_9 | _], fresh_name_9 == 2] } }, [x == x]]); let g__: Goal<DU, DE> = ::proto_vulcan::GoalCast::cast_into(c__); let r__: InferredGoal<DU, DE, Goal<DU, DE>> = proto_vulcan!([g__.clone(), g__]); r__ }])
+    let y = vars.v[1].clone();
+    proto_vulcan!([matche [_ | y] { [["bc", "a", x | _], [y, 1 | 1], ["bc"]] => { match x { fresh_name_9 => , "bc" => match y { _ | _ => member(x, [1, 2, 3]), [t, [z], t | z] => { true }, }, Named { a: 2, b: 3 } | _ => , }, x == [y, 2, [[], x, 1]] }, _ => matche y { [_, [3, []]] => { y != [2, y], |y| { |tz| { [2, 1, 1] != [2 | tz], tz == [1, 1] } } }, [[h]] | 2 => , y => , }, [[2, _, 2] | [[], []]] => [[([y], _) == P3([3], [2, 1], x), (_, []) == (_, [1]), conde { [append(y, y, [1]), true], [append(x, y, [2]), true], [[[], 2, y] == x, false] }], y != P3(x, [2, _], [])], }, y != P3(2, [x, y], 2)])
 }
 pub fn case_547(vars: &Vars) -> InferredGoal<DU, DE, Goal<DU, DE>> {
     let x = vars.v[0].clone();
-    let y = vars.v[1].clone();
-    proto_vulcan!([conde { true, [conde { [], [|t| { false != x }, P3(2, [y], x) == y] }, 3 == x] }, { let c__: InferredGoal<DU, DE, Goal<DU, DE>> = proto_vulcan_closure!([|yy| { conde { [x == [yy | _], yy == 1], [x == [_, yy | _], yy == 2] } }, x == [1, [], y]]); let g__: Goal<DU, DE> = ::proto_vulcan::GoalCast::cast_into(c__); let r__: InferredGoal<DU, DE, Goal<DU, DE>> = proto_vulcan!([g__.clone(), g__]); r__ }])
+    proto_vulcan!([[x == [x, true, x], conde { [[]], conde { [member(x, [3, 3]), (1, [[]]) == x], [[_, x | x] == x, 1 == x], [append(x, x, [1, 3]), false] } }, |x| { match x { t | [1, [z, 2, [] | [_, 2]], []] => , [[[]], x] => , }, append(x, x, []), match x { y => { [true] == x, |tz| { [2, 3, 2] != [2, 3 | tz], tz == [2] } }, P3(t, 1, 1) | t => x != 3, [[z] | []] => { [2, _] == z, [_ | [x, _]] == x }, } }], x == [2, [], x], |x| { member(x, [3, 3]) }, { let c__: InferredGoal<DU, DE, Goal<DU, DE>> = proto_vulcan_closure!(|yy| { conde { [x == [yy | _], yy == 1], [x == [_, yy | _], yy == 2] } }); let g__: Goal<DU, DE> = ::proto_vulcan::GoalCast::cast_into(c__); let r__: InferredGoal<DU, DE, Goal<DU, DE>> = proto_vulcan!([g__.clone(), g__]); r__ }])
 }
 pub fn case_548(vars: &Vars) -> InferredGoal<DU, DE, Goal<DU, DE>> {
     let x = vars.v[0].clone();
-    let y = vars.v[1].clone();
-    proto_vulcan!([conde { true, [conde { [], [|t| { false != x }, P3(2, [y], x) == y] }, 3 == x] }, { let c__: InferredGoal<DU, DE, Goal<DU, DE>> = proto_vulcan_closure!([|fresh_name_9| { conde { [x == [fresh_name_9 | _], fresh_name_9 == 1], [x == [_, fresh_name_9 | _], fresh_name_9 == 2] } }, x == [1, [], y]]); let g__: Goal<DU, DE> = ::proto_vulcan::GoalCast::cast_into(c__); let r__: InferredGoal<DU, DE, Goal<DU, DE>> = proto_vulcan!([g__.clone(), g__]); r__ }])
+    proto_vulcan!([[x == [x, true, x], conde { [[]], conde { [member(x, [3, 3]), (1, [[]]) == x], [[_, x | x] == x, 1 == x], [append(x, x, [1, 3]), false] } }, |x| { match x { t | [1, [z, 2, [] | [_, 2]], []] => , [[[]], x] => , }, append(x, x, []), match x { y => { [true] == x, |tz| { [2, 3, 2] != [2, 3 | tz], tz == [2] } }, P3(t, 1, 1) | t => x != 3, [[z] | []] => { [2, _] == z, [_ | [x, _]] == x }, } }], x == [2, [], x], |x| { member(x, [3, 3]) }, { let c__: InferredGoal<DU, DE, Goal<DU, DE>> = proto_vulcan_closure!(|fresh_name_9| { conde { [x == [fresh_name_9 | _], fresh_name_9 == 1], [x == [_, fresh_name_9 | _], fresh_name_9 == 2] } }); let g__: Goal<DU, DE> = ::proto_vulcan::GoalCast::cast_into(c__); let r__: InferredGoal<DU, DE, Goal<DU, DE>> = proto_vulcan!([g__.clone(), g__]); r__ }])
 }
 pub fn case_549(vars: &Vars) -> InferredGoal<DU, DE, Goal<DU, DE>> {
-    let q = vars.v[0].clone();
-    let x = vars.v[1].clone();
-    proto_vulcan!([match q { [[_, 2]] => { [matche q { 3 => [q == [[x, 3] | x], [x, x, 'b'] != q], [[y, _], y, [2, h] | y] => y != 1, [[z, h], 1 | _] => h == [], }, [member(q, [3, 3, 1])], [true, _] == q], [member(q, [2, 3])] }, }, { let c__: InferredGoal<DU, DE, Goal<DU, DE>> = proto_vulcan_closure!(|yy| { conde { [q == [yy | _], yy == 1], [q == [_, yy | _], yy == 2] } }); let g__: Goal<DU, DE> = ::proto_vulcan::GoalCast::cast_into(c__); let r__: InferredGoal<DU, DE, Goal<DU, DE>> = proto_vulcan!([g__.clone(), g__]); r__ }])
+    let x = vars.v[0].clone();
+    let y = vars.v[1].clone();
+    proto_vulcan!([matche y { [1, 1, [x, 'a' | []]] => { y == [_, 3, x] }, [[y, _, 'b'], t, t] => { y != ([2], [x]) }, [] => y != 2, }, [y, y, 1] == x, y == [1, _, 1]])
 }
 pub fn case_550(vars: &Vars) -> InferredGoal<DU, DE, Goal<DU, DE>> {
-    let q = vars.v[0].clone();
-    let x = vars.v[1].clone();
-    proto_vulcan!([match q { [[_, 2]] => { [matche q { 3 => [q == [[x, 3] | x], [x, x, 'b'] != q], [[y, _], y, [2, h] | y] => y != 1, [[fresh_name_9, h], 1 | _] => h == [], }, [member(q, [3, 3, 1])], [true, _] == q], [member(q, [2, 3])] }, }, { let c__: InferredGoal<DU, DE, Goal<DU, DE>> = proto_vulcan_closure!(|yy| { conde { [q == [yy | _], yy == 1], [q == [_, yy | _], yy == 2] } }); let g__: Goal<DU, DE> = ::proto_vulcan::GoalCast::cast_into(c__); let r__: InferredGoal<DU, DE, Goal<DU, DE>> = proto_vulcan!([g__.clone(), g__]); r__ }])
+    let x = vars.v[0].clone();
+    let y = vars.v[1].clone();
+    proto_vulcan!([matche y { [1, 1, [x, 'a' | []]] => { y == [_, 3, x] }, [[fresh_name_9, _, 'b'], t, t] => { fresh_name_9 != ([2], [x]) }, [] => y != 2, }, [y, y, 1] == x, y == [1, _, 1]])
 }
 pub fn case_551(vars: &Vars) -> InferredGoal<DU, DE, Goal<DU, DE>> {
-    let x = vars.v[0].clone();
-    proto_vulcan!([x != (x, [2, 3]), matche x { P3([[]], 3, y) | P3(z, 3, x) => , t => [t != [[2, x], [[], _, t], x], t == [1]], z => , }, conde { [matche [x] { 1 => { [x, 2] == x }, [[2, _ | y]] => , }, match x { [[z], [h, t], [y, 2 | 1]] | [true | z] => [z] == z, [[3]] => [conde { [false, x == P3([], _, [_])], [x != (3, [x, _]), ([], x) == x], [1 == x, x == P3(_, x, 1)] }, x == (3, 2)], }], [conde { conde { [[2, x] == x, [[]] == x], [x == [x, [] | x], member(x, [1, 3, 1])] }, 2 == ([[], _], _) }, [x, 3] == x] }, closure { [x == (x, x), conde { [1 != x, conde { x == 1, [[x, [x] | x] == x, |tz| { tz == [3], [2, 3] != [2 | tz] }] }], |h| { x != [x, h, h | x], [x] == h, false }, conde { true, [x == [1], (x, _) == x] } }] }])
+    let q = vars.v[0].clone();
+    let x = vars.v[1].clone();
+    proto_vulcan!([q == P3([1, []], _, _), match x { P3(t, 2, []) => [[]], Named { a: _, b: [2] } => , }, closure { [conde { [matche q { [[h, 2], [h, []]] => { h != x }, [[], [1, h, 2], [_, 2, 1]] => [([], [[], h]) != x, member(q, [1])], [['a', 2, 1], [[], 3, y | "a"], [_, y, 1 | [z]]] => , }, x == P3([2], q, 2)], append(q, x, [3]) }, |x| { |z, h| { [1] == z } }] }])
 }
 pub fn case_552(vars: &Vars) -> InferredGoal<DU, DE, Goal<DU, DE>> {
-    let x = vars.v[0].clone();
-    proto_vulcan!([x != (x, [2, 3]), matche x { P3([[]], 3, y) | P3(z, 3, x) => , t => [t != [[2, x], [[], _, t], x], t == [1]], z => , }, conde { [matche [x] { 1 => { [x, 2] == x }, [[2, _ | fresh_name_9]] => , }, match x { [[z], [h, t], [y, 2 | 1]] | [true | z] => [z] == z, [[3]] => [conde { [false, x == P3([], _, [_])], [x != (3, [x, _]), ([], x) == x], [1 == x, x == P3(_, x, 1)] }, x == (3, 2)], }], [conde { conde { [[2, x] == x, [[]] == x], [x == [x, [] | x], member(x, [1, 3, 1])] }, 2 == ([[], _], _) }, [x, 3] == x] }, closure { [x == (x, x), conde { [1 != x, conde { x == 1, [[x, [x] | x] == x, |tz| { tz == [3], [2, 3] != [2 | tz] }] }], |h| { x != [x, h, h | x], [x] == h, false }, conde { true, [x == [1], (x, _) == x] } }] }])
+    let q = vars.v[0].clone();
+    let x = vars.v[1].clone();
+    proto_vulcan!([q == P3([1, []], _, _), match x { P3(t, 2, []) => [[]], Named { a: _, b: [2] } => , }, closure { [conde { [matche q { [[h, 2], [h, []]] => { h != x }, [[], [1, fresh_name_9, 2], [_, 2, 1]] => [([], [[], fresh_name_9]) != x, member(q, [1])], [['a', 2, 1], [[], 3, y | "a"], [_, y, 1 | [z]]] => , }, x == P3([2], q, 2)], append(q, x, [3]) }, |x| { |z, h| { [1] == z } }] }])
 }
 pub fn case_553(vars: &Vars) -> InferredGoal<DU, DE, Goal<DU, DE>> {
-    let q = vars.v[0].clone();
-    let x = vars.v[1].clone();
-    proto_vulcan!([[|h| {  }], { let c__: InferredGoal<DU, DE, Goal<DU, DE>> = proto_vulcan_closure!([|yy| { conde { [x == [yy | _], yy == 1], [x == [_, yy | _], yy == 2] } }, member(x, [3, 1, 3])]); let g__: Goal<DU, DE> = ::proto_vulcan::GoalCast::cast_into(c__); let r__: InferredGoal<DU, DE, Goal<DU, DE>> = proto_vulcan!([g__.clone(), g__]); r__ }])
+    let x = vars.v[0].clone();
+    proto_vulcan!([append(x, x, [1, 1]), conde { [[[2, x], ['b']] == x, |tz| { [2, 3, 1] != [2, 3 | tz], tz == [1] }], [conde { |h| { x == [x, x, 2 | "bc"] }, [] }, true], [[x == [1 | x], [2, [x, 3, true]] != x, |y, z| { [3, 2] != y, y != [[2, 1, []], y | "bc"], [1, 1] != z }]] }])
 }
 pub fn case_554(vars: &Vars) -> InferredGoal<DU, DE, Goal<DU, DE>> {
-    let q = vars.v[0].clone();
-    let x = vars.v[1].clone();
-    proto_vulcan!([[|h| {  }], { let c__: InferredGoal<DU, DE, Goal<DU, DE>> = proto_vulcan_closure!([|fresh_name_9| { conde { [x == [fresh_name_9 | _], fresh_name_9 == 1], [x == [_, fresh_name_9 | _], fresh_name_9 == 2] } }, member(x, [3, 1, 3])]); let g__: Goal<DU, DE> = ::proto_vulcan::GoalCast::cast_into(c__); let r__: InferredGoal<DU, DE, Goal<DU, DE>> = proto_vulcan!([g__.clone(), g__]); r__ }])
+    let x = vars.v[0].clone();
+    proto_vulcan!([append(x, x, [1, 1]), conde { [[[2, x], ['b']] == x, |tz| { [2, 3, 1] != [2, 3 | tz], tz == [1] }], [conde { |fresh_name_9| { x == [x, x, 2 | "bc"] }, [] }, true], [[x == [1 | x], [2, [x, 3, true]] != x, |y, z| { [3, 2] != y, y != [[2, 1, []], y | "bc"], [1, 1] != z }]] }])
 }
 pub fn case_555(vars: &Vars) -> InferredGoal<DU, DE, Goal<DU, DE>> {
     let x = vars.v[0].clone();
-    proto_vulcan!([|tz| { tz == [1], [1 | tz] != [1, 1] }, closure { [|x| { |tz| { [2, 3, 3] != [2 | tz], tz == [3, 3] }, member(x, []), conde { [member(x, [3]), [[x | x], [true, x, x], [x] | x] == x], [x == [2, []], |tz| { tz == [3, 3], [2, 3, 3, 3] != [2, 3 | tz] }], [x == [x, 3, x], [x] == x] } }, match 2 { Named { a: [3, y], b: [] } => { ([y], [x]) == y, |z, x| { [1 | [y]] != z, [[1, _, _]] == P3(y, [[], _], 2), (_, _) == y } }, [t, _, "a"] | _ => { match x { [[h, z | y], 1, [2]] | Named { a: [1], b: 3 } => , } }, }] }])
+    let y = vars.v[1].clone();
+    proto_vulcan!([[y] != y, |tz| { tz == [2, 1], [1, 2, 1] != [1 | tz] }])
 }
 pub fn case_556(vars: &Vars) -> InferredGoal<DU, DE, Goal<DU, DE>> {
     let x = vars.v[0].clone();
-    proto_vulcan!([|tz| { tz == [1], [1 | tz] != [1, 1] }, closure { [|x| { |fresh_name_9| { [2, 3, 3] != [2 | fresh_name_9], fresh_name_9 == [3, 3] }, member(x, []), conde { [member(x, [3]), [[x | x], [true, x, x], [x] | x] == x], [x == [2, []], |tz| { tz == [3, 3], [2, 3, 3, 3] != [2, 3 | tz] }], [x == [x, 3, x], [x] == x] } }, match 2 { Named { a: [3, y], b: [] } => { ([y], [x]) == y, |z, x| { [1 | [y]] != z, [[1, _, _]] == P3(y, [[], _], 2), (_, _) == y } }, [t, _, "a"] | _ => { match x { [[h, z | y], 1, [2]] | Named { a: [1], b: 3 } => , } }, }] }])
+    let y = vars.v[1].clone();
+    proto_vulcan!([[y] != y, |fresh_name_9| { fresh_name_9 == [2, 1], [1, 2, 1] != [1 | fresh_name_9] }])
 }
 pub fn case_557(vars: &Vars) -> InferredGoal<DU, DE, Goal<DU, DE>> {
-    let q = vars.v[0].clone();
-    let x = vars.v[1].clone();
-    proto_vulcan!([conde { q == ([[], 2], _), [[conde { q == 2, [[]] == q, [[q] == x, q == [3, [] | x]] }, match x { _ => { x == 7, x == 8 }, _ | y => , x | [[y]] => [q == q, [q] == q], }]] }, closure { [|t| { [t, 2 | 1] == x }, conde { [x] != q, [1] == x, [_ == q, x == [2, [_, q, 2 | q], [q, x]]] }] }])
+    let x = vars.v[0].clone();
+    proto_vulcan!([x != P3(x, 1, [2, x]), _ != [[2, x, x | "a"]], { let c__: InferredGoal<DU, DE, Goal<DU, DE>> = proto_vulcan_closure!(|yy| { conde { [x == [yy | _], yy == 1], [x == [_, yy | _], yy == 2] } }); let g__: Goal<DU, DE> = ::proto_vulcan::GoalCast::cast_into(c__); let r__: InferredGoal<DU, DE, Goal<DU, DE>> = proto_vulcan!([g__.clone(), g__]); r__ }])
 }
 pub fn case_558(vars: &Vars) -> InferredGoal<DU, DE, Goal<DU, DE>> {
-    let q = vars.v[0].clone();
-    let x = vars.v[1].clone();
-    proto_vulcan!([conde { q == ([[], 2], _), [[conde { q == 2, [[]] == q, [[q] == x, q == [3, [] | x]] }, match x { _ => { x == 7, x == 8 }, _ | y => , x | [[y]] => [q == q, [q] == q], }]] }, closure { [|fresh_name_9| { [fresh_name_9, 2 | 1] == x }, conde { [x] != q, [1] == x, [_ == q, x == [2, [_, q, 2 | q], [q, x]]] }] }])
+    let x = vars.v[0].clone();
+    proto_vulcan!([x != P3(x, 1, [2, x]), _ != [[2, x, x | "a"]], { let c__: InferredGoal<DU, DE, Goal<DU, DE>> = proto_vulcan_closure!(|fresh_name_9| { conde { [x == [fresh_name_9 | _], fresh_name_9 == 1], [x == [_, fresh_name_9 | _], fresh_name_9 == 2] } }); let g__: Goal<DU, DE> = ::proto_vulcan::GoalCast::cast_into(c__); let r__: InferredGoal<DU, DE, Goal<DU, DE>> = proto_vulcan!([g__.clone(), g__]); r__ }])
 }
 pub fn case_559(vars: &Vars) -> InferredGoal<DU, DE, Goal<DU, DE>> {
-    let x = vars.v[0].clone();
-    let y = vars.v[1].clone();
-    proto_vulcan!([[matche x { "bc" | false => { append(x, y, [1, 1]), |x, y| { x == [3 | y], [y, [3, 1, y], [[], 1]] == (1, y) } }, }], conde { [[[[], y, y | [[], "bc"]] == y], x == x], y == ["a", 'a', 2], [(_, x) == x, [[], [_, []]] == y] }, closure { [[|y| {  }, (3, 2) != y]] }])
+    let q = vars.v[0].clone();
+    let x = vars.v[1].clone();
+    proto_vulcan!([q == q, q == [[q] | [q, x]], |z| { conde { [[member(x, []), q == (x, 1), member(x, [])]] }, match q { 3 => , [[h, 'a'], ['a', 3, 1], [2, 3, 2]] => { [z == (1, [[]]), |tz| { tz == [3], [2, 1, 3] != [2, 1 | tz] }, append(q, h, [2])], match x { [y, [[], y, y], h] | _ => [(z, []) != q, [1, 2, z] == z], } }, } }])
 }
 pub fn case_560(vars: &Vars) -> InferredGoal<DU, DE, Goal<DU, DE>> {
-    let x = vars.v[0].clone();
-    let y = vars.v[1].clone();
-    proto_vulcan!([[matche x { "bc" | false => { append(x, y, [1, 1]), |x, fresh_name_9| { x == [3 | fresh_name_9], [fresh_name_9, [3, 1, fresh_name_9], [[], 1]] == (1, fresh_name_9) } }, }], conde { [[[[], y, y | [[], "bc"]] == y], x == x], y == ["a", 'a', 2], [(_, x) == x, [[], [_, []]] == y] }, closure { [[|y| {  }, (3, 2) != y]] }])
+    let q = vars.v[0].clone();
+    let x = vars.v[1].clone();
+    proto_vulcan!([q == q, q == [[q] | [q, x]], |fresh_name_9| { conde { [[member(x, []), q == (x, 1), member(x, [])]] }, match q { 3 => , [[h, 'a'], ['a', 3, 1], [2, 3, 2]] => { [fresh_name_9 == (1, [[]]), |tz| { tz == [3], [2, 1, 3] != [2, 1 | tz] }, append(q, h, [2])], match x { [y, [[], y, y], h] | _ => [(fresh_name_9, []) != q, [1, 2, fresh_name_9] == fresh_name_9], } }, } }])
 }
 pub fn case_561(vars: &Vars) -> InferredGoal<DU, DE, Goal<DU, DE>> {
     let x = vars.v[0].clone();
-    proto_vulcan!([[3 | 2] != x, |tz| { tz == [3], [3, 2, 3] != [3, 2 | tz] }, P3([x], 1, 3) == x])
+    let y = vars.v[1].clone();
+    proto_vulcan!([|tz| { tz == [2, 1], [1 | tz] != [1, 2, 1] }])
 }
 pub fn case_562(vars: &Vars) -> InferredGoal<DU, DE, Goal<DU, DE>> {
     let x = vars.v[0].clone();
-    proto_vulcan!([[3 | 2] != x, |fresh_name_9| { fresh_name_9 == [3], [3, 2, 3] != [3, 2 | fresh_name_9] }, P3([x], 1, 3) == x])
+    let y = vars.v[1].clone();
+    proto_vulcan!([|fresh_name_9| { fresh_name_9 == [2, 1], [1 | fresh_name_9] != [1, 2, 1] }])
 }
 pub fn case_563(vars: &Vars) -> InferredGoal<DU, DE, Goal<DU, DE>> {
     let x = vars.v[0].clone();
-    let y = vars.v[1].clone();
-    proto_vulcan!([|t| { y == y, |z, y| { |y| { y != [2, _] }, |h| { |tz| { tz == [3, 2], [3 | tz] != [3, 3, 2] }, y == [z, h | _], P3([], y, [3, _]) == x }, y == y }, ([x, []], [[]]) == y }, { let c__: InferredGoal<DU, DE, Goal<DU, DE>> = proto_vulcan_closure!(|yy| { conde { [y == [yy | _], yy == 1], [y == [_, yy | _], yy == 2] } }); let g__: Goal<DU, DE> = ::proto_vulcan::GoalCast::cast_into(c__); let r__: InferredGoal<DU, DE, Goal<DU, DE>> = proto_vulcan!([g__.clone(), g__]); r__ }])
+    proto_vulcan!([|x| { [|h, x| { h == x }, [[3], [[]], [true, "bc", x]] != P3(2, x, [[], 1]), [1] == [x]], P3(x, [x, x], [x, x]) == x }, x != [2], closure { [|x, y| { matche x { [t] => [member(x, [3, 1]), false], } }, true] }])
 }
 pub fn case_564(vars: &Vars) -> InferredGoal<DU, DE, Goal<DU, DE>> {
     let x = vars.v[0].clone();
-    let y = vars.v[1].clone();
-    proto_vulcan!([|t| { y == y, |fresh_name_9, y| { |y| { y != [2, _] }, |h| { |tz| { tz == [3, 2], [3 | tz] != [3, 3, 2] }, y == [fresh_name_9, h | _], P3([], y, [3, _]) == x }, y == y }, ([x, []], [[]]) == y }, { let c__: InferredGoal<DU, DE, Goal<DU, DE>> = proto_vulcan_closure!(|yy| { conde { [y == [yy | _], yy == 1], [y == [_, yy | _], yy == 2] } }); let g__: Goal<DU, DE> = ::proto_vulcan::GoalCast::cast_into(c__); let r__: InferredGoal<DU, DE, Goal<DU, DE>> = proto_vulcan!([g__.clone(), g__]); r__ }])
+    proto_vulcan!([|x| { [|h, x| { h == x }, [[3], [[]], [true, "bc", x]] != P3(2, x, [[], 1]), [1] == [x]], P3(x, [x, x], [x, x]) == x }, x != [2], closure { [|x, y| { matche x { [fresh_name_9] => [member(x, [3, 1]), false], } }, true] }])
 }
 pub fn case_565(vars: &Vars) -> InferredGoal<DU, DE, Goal<DU, DE>> {
-    let x = vars.v[0].clone();
-    proto_vulcan!([x == x, x == (x, _), x == x, closure { [conde { [append(x, x, [1, 2]), _ != ['b', _ | x]], [[2] != ([_], x), member(x, [1, 3, 1])], [[], match 1 { _ | [['a', [], 3] | 1] => , }] }, matche x { _ => { x == false, matche [] { [[_, 3], [1, t, 2], [y, x, h]] => { h == ([t, _], 2) }, } }, }] }])
+    let q = vars.v[0].clone();
+    let x = vars.v[1].clone();
+    proto_vulcan!([false, conde { [[conde { [[q, [], q] != x, [[x | x], [q, q, q], [x, _, []]] == q], [member(q, [3, 1]), append(x, q, [])] }, conde { q == [1, x, 3 | [_]], [true, false], [q == x, true] }], match x { _ => , [[_, y, 'a' | h] | 2] => [conde { |tz| { tz == [2, 2], [2, 2, 2, 2] != [2, 2 | tz] }, x == ([1, 1], 3), [[y, 3, [1 | h]] == y, append(y, x, [2, 3])] }, y != q], [['b', t, 1 | x]] => { |t, z| { _ == x, q == x } }, }], x != x, x == false }, q != (2, [1, _])])
 }
 pub fn case_566(vars: &Vars) -> InferredGoal<DU, DE, Goal<DU, DE>> {
-    let x = vars.v[0].clone();
-    proto_vulcan!([x == x, x == (x, _), x == x, closure { [conde { [append(x, x, [1, 2]), _ != ['b', _ | x]], [[2] != ([_], x), member(x, [1, 3, 1])], [[], match 1 { _ | [['a', [], 3] | 1] => , }] }, matche x { _ => { x == false, matche [] { [[_, 3], [1, t, 2], [fresh_name_9, x, h]] => { h == ([t, _], 2) }, } }, }] }])
+    let q = vars.v[0].clone();
+    let x = vars.v[1].clone();
+    proto_vulcan!([false, conde { [[conde { [[q, [], q] != x, [[x | x], [q, q, q], [x, _, []]] == q], [member(q, [3, 1]), append(x, q, [])] }, conde { q == [1, x, 3 | [_]], [true, false], [q == x, true] }], match x { _ => , [[_, y, 'a' | h] | 2] => [conde { |tz| { tz == [2, 2], [2, 2, 2, 2] != [2, 2 | tz] }, x == ([1, 1], 3), [[y, 3, [1 | h]] == y, append(y, x, [2, 3])] }, y != q], [['b', fresh_name_9, 1 | x]] => { |t, z| { _ == x, q == x } }, }], x != x, x == false }, q != (2, [1, _])])
 }
 pub fn case_567(vars: &Vars) -> InferredGoal<DU, DE, Goal<DU, DE>> {
     let x = vars.v[0].clone();
-    let y = vars.v[1].clone();
-    proto_vulcan!([x == x, |z| { [[z, _], [2], []] == y }, |h, t| { y == [h | y], [[[]], _, [x, _] | t] == [[[], true, 2 | y], [h | y]] }])
+    proto_vulcan!([matche x { [[2 | [1]]] | x => , Named { a: 1, b: 3 } => { x != P3(_, x, x) }, P3(_, [], [3, 2]) => , }, matche [2] { true => , [] | [2, _, [z | ["a", _]]] => [[[x, x, 1 | 1] == x]], [2] => { conde { [] == x, [conde { [], [[[3, x | [x]], [2], [x, 3, 1] | x] == "a", x != [x, 1]], [] }, x == 'b'] } }, }, { let c__: InferredGoal<DU, DE, Goal<DU, DE>> = proto_vulcan_closure!([|yy| { conde { [x == [yy | _], yy == 1], [x == [_, yy | _], yy == 2] } }, |tz| { [3, 3 | tz] != [3, 3, 1], tz == [1] }]); let g__: Goal<DU, DE> = ::proto_vulcan::GoalCast::cast_into(c__); let r__: InferredGoal<DU, DE, Goal<DU, DE>> = proto_vulcan!([g__.clone(), g__]); r__ }])
 }
 pub fn case_568(vars: &Vars) -> InferredGoal<DU, DE, Goal<DU, DE>> {
     let x = vars.v[0].clone();
-    let y = vars.v[1].clone();
-    proto_vulcan!([x == x, |z| { [[z, _], [2], []] == y }, |h, fresh_name_9| { y == [h | y], [[[]], _, [x, _] | fresh_name_9] == [[[], true, 2 | y], [h | y]] }])
+    proto_vulcan!([matche x { [[2 | [1]]] | x => , Named { a: 1, b: 3 } => { x != P3(_, x, x) }, P3(_, [], [3, 2]) => , }, matche [2] { true => , [] | [2, _, [z | ["a", _]]] => [[[x, x, 1 | 1] == x]], [2] => { conde { [] == x, [conde { [], [[[3, x | [x]], [2], [x, 3, 1] | x] == "a", x != [x, 1]], [] }, x == 'b'] } }, }, { let c__: InferredGoal<DU, DE, Goal<DU, DE>> = proto_vulcan_closure!([|yy| { conde { [x == [yy | _], yy == 1], [x == [_, yy | _], yy == 2] } }, |fresh_name_9| { [3, 3 | fresh_name_9] != [3, 3, 1], fresh_name_9 == [1] }]); let g__: Goal<DU, DE> = ::proto_vulcan::GoalCast::cast_into(c__); let r__: InferredGoal<DU, DE, Goal<DU, DE>> = proto_vulcan!([g__.clone(), g__]); r__ }])
 }
 pub fn case_569(vars: &Vars) -> InferredGoal<DU, DE, Goal<DU, DE>> {
-    let q = vars.v[0].clone();
-    let x = vars.v[1].clone();
-    proto_vulcan!([q == x, |tz| { [3 | tz] != [3, 2], tz == [2] }, { let c__: InferredGoal<DU, DE, Goal<DU, DE>> = proto_vulcan_closure!(|yy| { conde { [x == [yy | _], yy == 1], [x == [_, yy | _], yy == 2] } }); let g__: Goal<DU, DE> = ::proto_vulcan::GoalCast::cast_into(c__); let r__: InferredGoal<DU, DE, Goal<DU, DE>> = proto_vulcan!([g__.clone(), g__]); r__ }])
+    let x = vars.v[0].clone();
+    proto_vulcan!([[2, _, _ | x] == x, matche x { 3 => { conde { [], [|y| { false, x == (_, 2) }, match x { _ => { x == [3, x] }, [_, [h, [], t] | z] | [[y, "bc", 1 | _], [t, 1, false | _], [[], h, 1]] => , }], match x { [t, ["a", x], ["a", "a", [] | _]] => { P3(x, x, 1) == x }, [z, [y], [t, h, true]] => t == [[[], 1, 2]], } } }, _ => { member(x, [1, 2, 3]) }, Named { a: t, b: _ } => , }, 2 == _])
 }
 pub fn case_570(vars: &Vars) -> InferredGoal<DU, DE, Goal<DU, DE>> {
-    let q = vars.v[0].clone();
-    let x = vars.v[1].clone();
-    proto_vulcan!([q == x, |tz| { [3 | tz] != [3, 2], tz == [2] }, { let c__: InferredGoal<DU, DE, Goal<DU, DE>> = proto_vulcan_closure!(|fresh_name_9| { conde { [x == [fresh_name_9 | _], fresh_name_9 == 1], [x == [_, fresh_name_9 | _], fresh_name_9 == 2] } }); let g__: Goal<DU, DE> = ::proto_vulcan::GoalCast::cast_into(c__); let r__: InferredGoal<DU, DE, Goal<DU, DE>> = proto_vulcan!([g__.clone(), g__]); r__ }])
+    let x = vars.v[0].clone();
+    proto_vulcan!([[2, _, _ | x] == x, matche x { 3 => { conde { [], [|y| { false, x == (_, 2) }, match x { _ => { x == [3, x] }, [_, [h, [], t] | z] | [[y, "bc", 1 | _], [t, 1, false | _], [[], h, 1]] => , }], match x { [t, ["a", x], ["a", "a", [] | _]] => { P3(x, x, 1) == x }, [z, [y], [t, fresh_name_9, true]] => t == [[[], 1, 2]], } } }, _ => { member(x, [1, 2, 3]) }, Named { a: t, b: _ } => , }, 2 == _])
 }
 pub fn case_571(vars: &Vars) -> InferredGoal<DU, DE, Goal<DU, DE>> {
     let q = vars.v[0].clone();
     let x = vars.v[1].clone();
-    proto_vulcan!([x == "bc", |tz| { tz == [3], [2, 1, 3] != [2, 1 | tz] }, closure { [match x { t => [q == (q, []), [|tz| { [1, 2, 1] != [1, 2 | tz], tz == [1] }, t == [_]]], _ => [match x { [[x, 1 | h], 3, y | y] => append(y, x, [3, 3]), [] => [append(q, x, []), append(q, x, [3])], }, |h, x| { q == [[_]], [[] | x] == x }], Named { a: [], b: z } | [z, [false, h | false], [] | _] => , }, x == "a"] }])
+    proto_vulcan!([q == [x], matche q { [1, [z, y, t]] => , [[z, 'b', 1 | x], [[], x], 'a'] => conde { [[x, true] == x, append(x, q, [3])], x == ['b', [[], []]], [] }, }, |tz| { tz == [2, 1], [1, 2 | tz] != [1, 2, 2, 1] }])
 }
 pub fn case_572(vars: &Vars) -> InferredGoal<DU, DE, Goal<DU, DE>> {
     let q = vars.v[0].clone();
     let x = vars.v[1].clone();
-    proto_vulcan!([x == "bc", |fresh_name_9| { fresh_name_9 == [3], [2, 1, 3] != [2, 1 | fresh_name_9] }, closure { [match x { t => [q == (q, []), [|tz| { [1, 2, 1] != [1, 2 | tz], tz == [1] }, t == [_]]], _ => [match x { [[x, 1 | h], 3, y | y] => append(y, x, [3, 3]), [] => [append(q, x, []), append(q, x, [3])], }, |h, x| { q == [[_]], [[] | x] == x }], Named { a: [], b: z } | [z, [false, h | false], [] | _] => , }, x == "a"] }])
+    proto_vulcan!([q == [x], matche q { [1, [fresh_name_9, y, t]] => , [[z, 'b', 1 | x], [[], x], 'a'] => conde { [[x, true] == x, append(x, q, [3])], x == ['b', [[], []]], [] }, }, |tz| { tz == [2, 1], [1, 2 | tz] != [1, 2, 2, 1] }])
 }
 pub fn case_573(vars: &Vars) -> InferredGoal<DU, DE, Goal<DU, DE>> {
     let x = vars.v[0].clone();
-    proto_vulcan!([false, closure { [match x { "a" => { |t| { x != [3, 1], t == [_, 2, t | x] }, conde { [], member(x, [3, 2]) } }, [[], _ | _] => , y => { conde { [member(x, [3]), [2, 2] == y], [[x, true | y] == y, x == P3([], x, 1)] }, P3([], [3, y], y) != x }, }, match x { [[y, [], x], [3, h, [] | [2]] | []] | y => [|z| { |tz| { tz == [3, 3], [2 | tz] != [2, 3, 3] }, z == P3(y, [], [1]), z == P3(3, z, [3, 3]) }, |tz| { tz == [2], [1, 2 | tz] != [1, 2, 2] }], [["a", 2]] => , }] }])
+    let y = vars.v[1].clone();
+    proto_vulcan!([(1, [_, 3]) != y, P3(x, x, 3) == y, [|h| { y == 2 }]])
 }
 pub fn case_574(vars: &Vars) -> InferredGoal<DU, DE, Goal<DU, DE>> {
     let x = vars.v[0].clone();
-    proto_vulcan!([false, closure { [match x { "a" => { |t| { x != [3, 1], t == [_, 2, t | x] }, conde { [], member(x, [3, 2]) } }, [[], _ | _] => , fresh_name_9 => { conde { [member(x, [3]), [2, 2] == fresh_name_9], [[x, true | fresh_name_9] == fresh_name_9, x == P3([], x, 1)] }, P3([], [3, fresh_name_9], fresh_name_9) != x }, }, match x { [[y, [], x], [3, h, [] | [2]] | []] | y => [|z| { |tz| { tz == [3, 3], [2 | tz] != [2, 3, 3] }, z == P3(y, [], [1]), z == P3(3, z, [3, 3]) }, |tz| { tz == [2], [1, 2 | tz] != [1, 2, 2] }], [["a", 2]] => , }] }])
+    let y = vars.v[1].clone();
+    proto_vulcan!([(1, [_, 3]) != y, P3(x, x, 3) == y, [|fresh_name_9| { y == 2 }]])
 }
 pub fn case_575(vars: &Vars) -> InferredGoal<DU, DE, Goal<DU, DE>> {
-    let q = vars.v[0].clone();
-    let x = vars.v[1].clone();
-    proto_vulcan!([append(x, x, []), |tz| { tz == [2, 1], [2, 3 | tz] != [2, 3, 2, 1] }])
+    let x = vars.v[0].clone();
+    proto_vulcan!([match x { P3(1, 3, [3, t]) => { x == [x | t], append(x, x, []) }, "bc" => conde { [[_ | x] != x, match x { [_, []] | [2, [2, y, 3 | z] | x] => , _ => , [[h, 3], [y, [], 1], h | x] => x == (x, []), }] }, Named { a: [], b: 3 } => { |tz| { tz == [3, 1], [3, 3, 1] != [3 | tz] }, append(x, x, [2]) }, }, conde { [[_, 3, 1] == [3], []] }, { let c__: InferredGoal<DU, DE, Goal<DU, DE>> = proto_vulcan_closure!(|yy| { conde { [x == [yy | _], yy == 1], [x == [_, yy | _], yy == 2] } }); let g__: Goal<DU, DE> = ::proto_vulcan::GoalCast::cast_into(c__); let r__: InferredGoal<DU, DE, Goal<DU, DE>> = proto_vulcan!([g__.clone(), g__]); r__ }])
 }
 pub fn case_576(vars: &Vars) -> InferredGoal<DU, DE, Goal<DU, DE>> {
-    let q = vars.v[0].clone();
-    let x = vars.v[1].clone();
-    proto_vulcan!([append(x, x, []), |fresh_name_9| { fresh_name_9 == [2, 1], [2, 3 | fresh_name_9] != [2, 3, 2, 1] }])
+    let x = vars.v[0].clone();
+    proto_vulcan!([match x { P3(1, 3, [3, t]) => { x == [x | t], append(x, x, []) }, "bc" => conde { [[_ | x] != x, match x { [_, []] | [2, [2, y, 3 | z] | x] => , _ => , [[h, 3], [y, [], 1], h | x] => x == (x, []), }] }, Named { a: [], b: 3 } => { |fresh_name_9| { fresh_name_9 == [3, 1], [3, 3, 1] != [3 | fresh_name_9] }, append(x, x, [2]) }, }, conde { [[_, 3, 1] == [3], []] }, { let c__: InferredGoal<DU, DE, Goal<DU, DE>> = proto_vulcan_closure!(|yy| { conde { [x == [yy | _], yy == 1], [x == [_, yy | _], yy == 2] } }); let g__: Goal<DU, DE> = ::proto_vulcan::GoalCast::cast_into(c__); let r__: InferredGoal<DU, DE, Goal<DU, DE>> = proto_vulcan!([g__.clone(), g__]); r__ }])
 }
 pub fn case_577(vars: &Vars) -> InferredGoal<DU, DE, Goal<DU, DE>> {
     let x = vars.v[0].clone();
-    let y = vars.v[1].clone();
-    proto_vulcan!([x == [y], |t| { conde { [[x, t] == t, |h, t| { t != [x, x | []], member(t, []) }] } }])
+    proto_vulcan!([match x { Named { a: _, b: t } => |t| { [[t, x] == t, x == t, [[t, t], x, t] == t], [3, 1 | t] == ["bc", [_, x] | t], |z, t| { [1, _ | x] != [[2, 2 | t]], member(z, [2]) } }, 2 | Named { a: y, b: 3 } => [[x == [x], match x { Named { a: _, b: t } | 2 => P3([], 2, x) != x, 3 => [[x, 'a'], []] != x, x => , }]], 'a' => [conde { [conde { [] }, x == [3]], [x == x, [[2, "bc" | x]] == ([2], _)], [([], [1, x]) != x, [] == P3(_, [], x)] }, x == [[], 1]], }, x == [[], x | x]])
 }
 pub fn case_578(vars: &Vars) -> InferredGoal<DU, DE, Goal<DU, DE>> {
     let x = vars.v[0].clone();
-    let y = vars.v[1].clone();
-    proto_vulcan!([x == [y], |t| { conde { [[x, t] == t, |fresh_name_9, t| { t != [x, x | []], member(t, []) }] } }])
+    proto_vulcan!([match x { Named { a: _, b: t } => |fresh_name_9| { [[fresh_name_9, x] == fresh_name_9, x == fresh_name_9, [[fresh_name_9, fresh_name_9], x, fresh_name_9] == fresh_name_9], [3, 1 | fresh_name_9] == ["bc", [_, x] | fresh_name_9], |z, t| { [1, _ | x] != [[2, 2 | t]], member(z, [2]) } }, 2 | Named { a: y, b: 3 } => [[x == [x], match x { Named { a: _, b: t } | 2 => P3([], 2, x) != x, 3 => [[x, 'a'], []] != x, x => , }]], 'a' => [conde { [conde { [] }, x == [3]], [x == x, [[2, "bc" | x]] == ([2], _)], [([], [1, x]) != x, [] == P3(_, [], x)] }, x == [[], 1]], }, x == [[], x | x]])
 }
 pub fn case_579(vars: &Vars) -> InferredGoal<DU, DE, Goal<DU, DE>> {
     let x = vars.v[0].clone();
     let y = vars.v[1].clone();
-    proto_vulcan!([matche x { t => { match y { _ | _ => { member(x, [1, 2, 3]) }, y => { y == ['a' | 2] }, [[], [] | _] => { t != [[] | y] }, } }, _ => { x == 7, x == 8 }, [[y, 3]] => [append(y, y, []), append(y, y, [])], }])
+    proto_vulcan!([|h, z| { |h, t| { matche h { _ => , } }, |tz| { [1, 3, 3, 2] != [1, 3 | tz], tz == [3, 2] }, |tz| { [1, 1 | tz] != [1, 1, 1, 2], tz == [1, 2] } }])
 }
 pub fn case_580(vars: &Vars) -> InferredGoal<DU, DE, Goal<DU, DE>> {
     let x = vars.v[0].clone();
     let y = vars.v[1].clone();
-    proto_vulcan!([matche x { fresh_name_9 => { match y { _ | _ => { member(x, [1, 2, 3]) }, y => { y == ['a' | 2] }, [[], [] | _] => { fresh_name_9 != [[] | y] }, } }, _ => { x == 7, x == 8 }, [[y, 3]] => [append(y, y, []), append(y, y, [])], }])
+    proto_vulcan!([|h, z| { |h, t| { matche h { _ => , } }, |tz| { [1, 3, 3, 2] != [1, 3 | tz], tz == [3, 2] }, |fresh_name_9| { [1, 1 | fresh_name_9] != [1, 1, 1, 2], fresh_name_9 == [1, 2] } }])
 }
 pub fn case_581(vars: &Vars) -> InferredGoal<DU, DE, Goal<DU, DE>> {
     let x = vars.v[0].clone();
-    proto_vulcan!([[1 != x, match x { [2] => , }], |y, h| { member(x, []) }, 1 != x, { let c__: InferredGoal<DU, DE, Goal<DU, DE>> = proto_vulcan_closure!([|yy| { conde { [x == [yy | _], yy == 1], [x == [_, yy | _], yy == 2] } }, |t| { P3([1, 3], [3], []) != t, x == x, |tz| { tz == [2], [1 | tz] != [1, 2] } }]); let g__: Goal<DU, DE> = ::proto_vulcan::GoalCast::cast_into(c__); let r__: InferredGoal<DU, DE, Goal<DU, DE>> = proto_vulcan!([g__.clone(), g__]); r__ }])
+    let y = vars.v[1].clone();
+    proto_vulcan!([[x, y | x] != y, matche [1, 'a'] { 3 | _ => conde { [2 != [], x == []], [['a', [2, 'a', y | [3]], _] != x, ['b', y | y] != y] }, [[t], y] | _ => , [[3, t, z | h], [2, 2], 'a'] | _ => |x| { matche y { [[1, t], [1]] => y == P3([t, x], [2], y), [h | _] => y == h, P3(t, [t], t) => , }, x != [2, [2, false, [] | true] | x], |h| { y == y, x == P3([], [[]], 3), |tz| { [3 | tz] != [3, 3], tz == [3] } } }, }, { let c__: InferredGoal<DU, DE, Goal<DU, DE>> = proto_vulcan_closure!([|yy| { conde { [y == [yy | _], yy == 1], [y == [_, yy | _], yy == 2] } }, [[3] | y] != y]); let g__: Goal<DU, DE> = ::proto_vulcan::GoalCast::cast_into(c__); let r__: InferredGoal<DU, DE, Goal<DU, DE>> = proto_vulcan!([g__.clone(), g__]); r__ }])
 }
 pub fn case_582(vars: &Vars) -> InferredGoal<DU, DE, Goal<DU, DE>> {
     let x = vars.v[0].clone();
-    proto_vulcan!([[1 != x, match x { [2] => , }], |y, fresh_name_9| { member(x, []) }, 1 != x, { let c__: InferredGoal<DU, DE, Goal<DU, DE>> = proto_vulcan_closure!([|yy| { conde { [x == [yy | _], yy == 1], [x == [_, yy | _], yy == 2] } }, |t| { P3([1, 3], [3], []) != t, x == x, |tz| { tz == [2], [1 | tz] != [1, 2] } }]); let g__: Goal<DU, DE> = ::proto_vulcan::GoalCast::cast_into(c__); let r__: InferredGoal<DU, DE, Goal<DU, DE>> = proto_vulcan!([g__.clone(), g__]); r__ }])
+    let y = vars.v[1].clone();
+    proto_vulcan!([[x, y | x] != y, matche [1, 'a'] { 3 | _ => conde { [2 != [], x == []], [['a', [2, 'a', y | [3]], _] != x, ['b', y | y] != y] }, [[t], y] | _ => , [[3, t, z | h], [2, 2], 'a'] | _ => |x| { matche y { [[1, t], [1]] => y == P3([t, x], [2], y), [h | _] => y == h, P3(t, [t], t) => , }, x != [2, [2, false, [] | true] | x], |h| { y == y, x == P3([], [[]], 3), |fresh_name_9| { [3 | fresh_name_9] != [3, 3], fresh_name_9 == [3] } } }, }, { let c__: InferredGoal<DU, DE, Goal<DU, DE>> = proto_vulcan_closure!([|yy| { conde { [y == [yy | _], yy == 1], [y == [_, yy | _], yy == 2] } }, [[3] | y] != y]); let g__: Goal<DU, DE> = ::proto_vulcan::GoalCast::cast_into(c__); let r__: InferredGoal<DU, DE, Goal<DU, DE>> = proto_vulcan!([g__.clone(), g__]); r__ }])
 }
 pub fn case_583(vars: &Vars) -> InferredGoal<DU, DE, Goal<DU, DE>> {
     let x = vars.v[0].clone();
-    let y = vars.v[1].clone();
-    proto_vulcan!([match y { z | _ => { _ != [[2, 1], [2, 1 | y], [y, _, 3 | x]], matche x { ['b'] => ([1, x], 2) == x, [[x, 3], [y, 'b', _]] => { append(y, x, [2]) }, P3(_, [[], 1], _) => { false, matche 2 { _ => , [[1, h, 2], [], [1, true]] => [[_] != y, h != [h, y, [1, _ | y] | h]], } }, } }, P3(3, 1, y) => [[y == [y, 2, [x, false, _]], |x, z| { x == x, false, [[1 | y]] == (x, _) }], |h, x| { [1, 2] == y, (2, 2) != x, conde { y == x, ['a', h] != y, [h != (1, []), [3, h, []] == h] } }], }, { let c__: InferredGoal<DU, DE, Goal<DU, DE>> = proto_vulcan_closure!([|yy| { conde { [x == [yy | _], yy == 1], [x == [_, yy | _], yy == 2] } }, y != true]); let g__: Goal<DU, DE> = ::proto_vulcan::GoalCast::cast_into(c__); let r__: InferredGoal<DU, DE, Goal<DU, DE>> = proto_vulcan!([g__.clone(), g__]); r__ }])
+    proto_vulcan!([|h| { h == [2, 1, x] }])
 }
 pub fn case_584(vars: &Vars) -> InferredGoal<DU, DE, Goal<DU, DE>> {
     let x = vars.v[0].clone();
-    let y = vars.v[1].clone();
-    proto_vulcan!([match y { z | _ => { _ != [[2, 1], [2, 1 | y], [y, _, 3 | x]], matche x { ['b'] => ([1, x], 2) == x, [[x, 3], [fresh_name_9, 'b', _]] => { append(fresh_name_9, x, [2]) }, P3(_, [[], 1], _) => { false, matche 2 { _ => , [[1, h, 2], [], [1, true]] => [[_] != y, h != [h, y, [1, _ | y] | h]], } }, } }, P3(3, 1, y) => [[y == [y, 2, [x, false, _]], |x, z| { x == x, false, [[1 | y]] == (x, _) }], |h, x| { [1, 2] == y, (2, 2) != x, conde { y == x, ['a', h] != y, [h != (1, []), [3, h, []] == h] } }], }, { let c__: InferredGoal<DU, DE, Goal<DU, DE>> = proto_vulcan_closure!([|yy| { conde { [x == [yy | _], yy == 1], [x == [_, yy | _], yy == 2] } }, y != true]); let g__: Goal<DU, DE> = ::proto_vulcan::GoalCast::cast_into(c__); let r__: InferredGoal<DU, DE, Goal<DU, DE>> = proto_vulcan!([g__.clone(), g__]); r__ }])
+    proto_vulcan!([|fresh_name_9| { fresh_name_9 == [2, 1, x] }])
 }
 pub fn case_585(vars: &Vars) -> InferredGoal<DU, DE, Goal<DU, DE>> {
-    let x = vars.v[0].clone();
-    proto_vulcan!([[[matche x { _ => { x != false, x == [[x, x | x], [x | x], _ | x] }, [[2, x, 2], [2, 2, 2]] => , }]], [x == (3, 1), x != [1], conde { conde { [|tz| { [1, 3] != [1 | tz], tz == [3] }, false] }, [[x != x], [x == (x, 2), true, x != x]] }]])
+    let q = vars.v[0].clone();
+    let x = vars.v[1].clone();
+    proto_vulcan!([matche q { P3(1, y, []) => |z, y| { [3, _] == (y, y), y == q }, }, matche x { [3, [2, y]] => { [q, 1] == x, conde { [false, [true, 3] != x], [true, matche x { [[3, 1, _ | h], [[] | z]] => true, [x, [z, h | _], [2, _, _] | x] | P3([_], 3, []) => , [h] => , }] } }, [[[]], [1]] | [[1, _]] => , [[], 1, [y, 1]] => matche 3 { _ | 3 => { conde { member(x, [1]), [q != [false, 1, q], 2 != y], [] } }, _ => { y == 7, y == 8 }, }, }, match q { _ => conde { [([], [2]) == q, [3, _] != x], [[true, [x, 3, 1] == x], x == true] }, }])
 }
 pub fn case_586(vars: &Vars) -> InferredGoal<DU, DE, Goal<DU, DE>> {
-    let x = vars.v[0].clone();
-    proto_vulcan!([[[matche x { _ => { x != false, x == [[x, x | x], [x | x], _ | x] }, [[2, fresh_name_9, 2], [2, 2, 2]] => , }]], [x == (3, 1), x != [1], conde { conde { [|tz| { [1, 3] != [1 | tz], tz == [3] }, false] }, [[x != x], [x == (x, 2), true, x != x]] }]])
+    let q = vars.v[0].clone();
+    let x = vars.v[1].clone();
+    proto_vulcan!([matche q { P3(1, y, []) => |z, y| { [3, _] == (y, y), y == q }, }, matche x { [3, [2, y]] => { [q, 1] == x, conde { [false, [true, 3] != x], [true, matche x { [[3, 1, _ | h], [[] | z]] => true, [x, [z, h | _], [2, _, _] | x] | P3([_], 3, []) => , [h] => , }] } }, [[[]], [1]] | [[1, _]] => , [[], 1, [fresh_name_9, 1]] => matche 3 { _ | 3 => { conde { member(x, [1]), [q != [false, 1, q], 2 != fresh_name_9], [] } }, _ => { fresh_name_9 == 7, fresh_name_9 == 8 }, }, }, match q { _ => conde { [([], [2]) == q, [3, _] != x], [[true, [x, 3, 1] == x], x == true] }, }])
 }
 pub fn case_587(vars: &Vars) -> InferredGoal<DU, DE, Goal<DU, DE>> {
-    let q = vars.v[0].clone();
-    let x = vars.v[1].clone();
-    proto_vulcan!([x == [x, 2 | x], x == [q, false | q], member(q, [2, 2, 3]), { let c__: InferredGoal<DU, DE, Goal<DU, DE>> = proto_vulcan_closure!([|yy| { conde { [x == [yy | _], yy == 1], [x == [_, yy | _], yy == 2] } }, q != x]); let g__: Goal<DU, DE> = ::proto_vulcan::GoalCast::cast_into(c__); let r__: InferredGoal<DU, DE, Goal<DU, DE>> = proto_vulcan!([g__.clone(), g__]); r__ }])
+    let x = vars.v[0].clone();
+    let y = vars.v[1].clone();
+    proto_vulcan!([[_, "a" | x] == y, match [_, 3, y] { _ => member(x, [1, 2, 3]), _ => [append(x, y, [3]), |h| { [y, "a"] == x, false != y }], [[3], 3, [x, _]] => [|x, y| { [x, 'a'] == y, |x| {  }, |h| { y == [2 | [x]], [h, 2] == h, y != x } }, matche x { P3([[], 2], 1, _) => { x == P3(y, [3, []], y), x == [1, 1, x] }, }], }, x == ([y, []], [x])])
 }
 pub fn case_588(vars: &Vars) -> InferredGoal<DU, DE, Goal<DU, DE>> {
-    let q = vars.v[0].clone();
-    let x = vars.v[1].clone();
-    proto_vulcan!([x == [x, 2 | x], x == [q, false | q], member(q, [2, 2, 3]), { let c__: InferredGoal<DU, DE, Goal<DU, DE>> = proto_vulcan_closure!([|fresh_name_9| { conde { [x == [fresh_name_9 | _], fresh_name_9 == 1], [x == [_, fresh_name_9 | _], fresh_name_9 == 2] } }, q != x]); let g__: Goal<DU, DE> = ::proto_vulcan::GoalCast::cast_into(c__); let r__: InferredGoal<DU, DE, Goal<DU, DE>> = proto_vulcan!([g__.clone(), g__]); r__ }])
+    let x = vars.v[0].clone();
+    let y = vars.v[1].clone();
+    proto_vulcan!([[_, "a" | x] == y, match [_, 3, y] { _ => member(x, [1, 2, 3]), _ => [append(x, y, [3]), |h| { [y, "a"] == x, false != y }], [[3], 3, [x, _]] => [|x, y| { [x, 'a'] == y, |fresh_name_9| {  }, |h| { y == [2 | [x]], [h, 2] == h, y != x } }, matche x { P3([[], 2], 1, _) => { x == P3(y, [3, []], y), x == [1, 1, x] }, }], }, x == ([y, []], [x])])
 }
 pub fn case_589(vars: &Vars) -> InferredGoal<DU, DE, Goal<DU, DE>> {
     let x = vars.v[0].clone();
     let y = vars.v[1].clone();
-    proto_vulcan!([matche x { _ => [x == 7, x == 8], [1, [x]] | _ => [|x, y| { matche false { _ => { y == 7, y == 8 }, }, y == [1, x, 1 | [3]] }, true], [2 | h] => , }])
+    proto_vulcan!([[1, [x, 'a'], [_ | y] | x] == P3(x, [], y), |tz| { [3, 3 | tz] != [3, 3, 1], tz == [1] }, match [false] { [t | _] | Named { a: _, b: z } => { [[x == ["bc", y, x], append(y, y, [1]), member(y, [3, 1, 3])]] }, [y] => , }])
 }
 pub fn case_590(vars: &Vars) -> InferredGoal<DU, DE, Goal<DU, DE>> {
     let x = vars.v[0].clone();
     let y = vars.v[1].clone();
-    proto_vulcan!([matche x { _ => [x == 7, x == 8], [1, [x]] | _ => [|x, y| { matche false { _ => { y == 7, y == 8 }, }, y == [1, x, 1 | [3]] }, true], [2 | fresh_name_9] => , }])
+    proto_vulcan!([[1, [x, 'a'], [_ | y] | x] == P3(x, [], y), |fresh_name_9| { [3, 3 | fresh_name_9] != [3, 3, 1], fresh_name_9 == [1] }, match [false] { [t | _] | Named { a: _, b: z } => { [[x == ["bc", y, x], append(y, y, [1]), member(y, [3, 1, 3])]] }, [y] => , }])
 }
 pub fn case_591(vars: &Vars) -> InferredGoal<DU, DE, Goal<DU, DE>> {
     let x = vars.v[0].clone();
-    proto_vulcan!([match x { x => , [y, [h], _] => , }, conde { [x != [[1, _, x], [x], [[] | x] | x], x != (x, x)], [x == [], conde { [], [[], _, x] != x, |x| { P3(x, [2], [3]) == x, [x, x] == [[_, 1, _], [x, false], [x]], [x, [_, 1, x | 3]] == [x, false, 3] } }], [] }, closure { x == [[x, x, 1], [1, _ | x] | x] }])
+    proto_vulcan!([|y| { conde { matche y { [[z, false]] => , h => , }, [|h| { y == y, h == [[[] | y], [[], y, []], 3] }, ["a", 3, []] != x] }, "a" == false }])
 }
 pub fn case_592(vars: &Vars) -> InferredGoal<DU, DE, Goal<DU, DE>> {
     let x = vars.v[0].clone();
-    proto_vulcan!([match x { x => , [fresh_name_9, [h], _] => , }, conde { [x != [[1, _, x], [x], [[] | x] | x], x != (x, x)], [x == [], conde { [], [[], _, x] != x, |x| { P3(x, [2], [3]) == x, [x, x] == [[_, 1, _], [x, false], [x]], [x, [_, 1, x | 3]] == [x, false, 3] } }], [] }, closure { x == [[x, x, 1], [1, _ | x] | x] }])
+    proto_vulcan!([|y| { conde { matche y { [[z, false]] => , h => , }, [|fresh_name_9| { y == y, fresh_name_9 == [[[] | y], [[], y, []], 3] }, ["a", 3, []] != x] }, "a" == false }])
 }
 pub fn case_593(vars: &Vars) -> InferredGoal<DU, DE, Goal<DU, DE>> {
-    let q = vars.v[0].clone();
-    let x = vars.v[1].clone();
-    proto_vulcan!([[append(q, q, [2]), q == [2 | x], |y, z| { |tz| { [1, 2, 1] != [1, 2 | tz], tz == [1] }, matche [2] { [[2], [2 | z], [x, []] | []] => { [_, [x, z | y], [_, y]] == [z, [] | q] }, _ => , }, y == (z, y) }]])
+    let x = vars.v[0].clone();
+    let y = vars.v[1].clone();
+    proto_vulcan!([|tz| { [3, 3, 3, 2] != [3, 3 | tz], tz == [3, 2] }, matche y { z => { [[], 2, y] == 'b', [] }, [1, 2] => { conde { [append(y, y, [2]), match y { 3 => , }], matche y { [1, [2, h]] => [[1, x, _], [2 | x], [_]] == h, [_, [1, 3, 'a']] => { x == [_, 1], [_, y, "bc" | y] != y }, }, y == [y, y | y] } }, }, [[]] != x])
 }
 pub fn case_594(vars: &Vars) -> InferredGoal<DU, DE, Goal<DU, DE>> {
-    let q = vars.v[0].clone();
-    let x = vars.v[1].clone();
-    proto_vulcan!([[append(q, q, [2]), q == [2 | x], |y, z| { |tz| { [1, 2, 1] != [1, 2 | tz], tz == [1] }, matche [2] { [[2], [2 | fresh_name_9], [x, []] | []] => { [_, [x, fresh_name_9 | y], [_, y]] == [fresh_name_9, [] | q] }, _ => , }, y == (z, y) }]])
+    let x = vars.v[0].clone();
+    let y = vars.v[1].clone();
+    proto_vulcan!([|tz| { [3, 3, 3, 2] != [3, 3 | tz], tz == [3, 2] }, matche y { z => { [[], 2, y] == 'b', [] }, [1, 2] => { conde { [append(y, y, [2]), match y { 3 => , }], matche y { [1, [2, fresh_name_9]] => [[1, x, _], [2 | x], [_]] == fresh_name_9, [_, [1, 3, 'a']] => { x == [_, 1], [_, y, "bc" | y] != y }, }, y == [y, y | y] } }, }, [[]] != x])
 }
 pub fn case_595(vars: &Vars) -> InferredGoal<DU, DE, Goal<DU, DE>> {
     let x = vars.v[0].clone();
-    proto_vulcan!([[conde { [[2, x, _ | [x]] != x, conde { 1 == x, [] }], match x { _ | x => , } }, [[x, "a"] != x, 1 == x], |y, h| { |h, t| { true, h != h }, true == y, [[_, x | y] | y] == ['b'] }], |y| { matche x { Named { a: [h, []], b: 2 } => { x == [] }, [_] => _ == x, _ | [['a', 2 | [3, false]]] => , } }, |h, x| { [|x, h| {  }] }, closure { matche x { 2 => |h| { [_, h, 2] == x }, [[_], [z], false] => |h| {  }, h | [[2, x]] => , } }])
+    proto_vulcan!([match x { [1] => { |t, x| { x == [] }, conde { [x, x, _] != x } }, }, matche x { P3(z, z, _) => { [|t| { true, [] == t }], |t, z| {  } }, [[2, 2 | z], [2, x | t], [y, 1, []]] => , _ => { member(x, [2]) }, }, match x { ['b' | h] | false => match x { [1] => [P3(x, x, 3) == x, |h, t| { h == t, [false, x, t | x] == h }], P3(_, 3, _) | _ => [[2, x, x] == x, [true, [[x], [2], 1] == 'b']], }, _ => { member(x, [1, 2, 3]) }, }, { let c__: InferredGoal<DU, DE, Goal<DU, DE>> = proto_vulcan_closure!([|yy| { conde { [x == [yy | _], yy == 1], [x == [_, yy | _], yy == 2] } }, match x { false => , }]); let g__: Goal<DU, DE> = ::proto_vulcan::GoalCast::cast_into(c__); let r__: InferredGoal<DU, DE, Goal<DU, DE>> = proto_vulcan!([g__.clone(), g__]); r__ }])
 }
 pub fn case_596(vars: &Vars) -> InferredGoal<DU, DE, Goal<DU, DE>> {
     let x = vars.v[0].clone();
-    proto_vulcan!([[conde { [[2, x, _ | [x]] != x, conde { 1 == x, [] }], match x { _ | x => , } }, [[x, "a"] != x, 1 == x], |y, h| { |h, t| { true, h != h }, true == y, [[_, x | y] | y] == ['b'] }], |y| { matche x { Named { a: [h, []], b: 2 } => { x == [] }, [_] => _ == x, _ | [['a', 2 | [3, false]]] => , } }, |h, x| { [|x, h| {  }] }, closure { matche x { 2 => |h| { [_, h, 2] == x }, [[_], [fresh_name_9], false] => |h| {  }, h | [[2, x]] => , } }])
+    proto_vulcan!([match x { [1] => { |t, fresh_name_9| { fresh_name_9 == [] }, conde { [x, x, _] != x } }, }, matche x { P3(z, z, _) => { [|t| { true, [] == t }], |t, z| {  } }, [[2, 2 | z], [2, x | t], [y, 1, []]] => , _ => { member(x, [2]) }, }, match x { ['b' | h] | false => match x { [1] => [P3(x, x, 3) == x, |h, t| { h == t, [false, x, t | x] == h }], P3(_, 3, _) | _ => [[2, x, x] == x, [true, [[x], [2], 1] == 'b']], }, _ => { member(x, [1, 2, 3]) }, }, { let c__: InferredGoal<DU, DE, Goal<DU, DE>> = proto_vulcan_closure!([|yy| { conde { [x == [yy | _], yy == 1], [x == [_, yy | _], yy == 2] } }, match x { false => , }]); let g__: Goal<DU, DE> = ::proto_vulcan::GoalCast::cast_into(c__); let r__: InferredGoal<DU, DE, Goal<DU, DE>> = proto_vulcan!([g__.clone(), g__]); r__ }])
 }
 pub fn case_597(vars: &Vars) -> InferredGoal<DU, DE, Goal<DU, DE>> {
-    let x = vars.v[0].clone();
-    proto_vulcan!([|y| { conde { conde { y == [y, 2], [] }, [member(x, [1]), y == [2 | y]] } }, closure { x == 3 }])
+    let q = vars.v[0].clone();
+    let x = vars.v[1].clone();
+    proto_vulcan!([conde { false, x == [[1, []], [q]], [member(x, [2, 1]), true] }, |tz| { [3, 2, 2] != [3 | tz], tz == [2, 2] }, |tz| { tz == [2, 1], [2 | tz] != [2, 2, 1] }])
 }
 pub fn case_598(vars: &Vars) -> InferredGoal<DU, DE, Goal<DU, DE>> {
-    let x = vars.v[0].clone();
-    proto_vulcan!([|fresh_name_9| { conde { conde { fresh_name_9 == [fresh_name_9, 2], [] }, [member(x, [1]), fresh_name_9 == [2 | fresh_name_9]] } }, closure { x == 3 }])
+    let q = vars.v[0].clone();
+    let x = vars.v[1].clone();
+    proto_vulcan!([conde { false, x == [[1, []], [q]], [member(x, [2, 1]), true] }, |tz| { [3, 2, 2] != [3 | tz], tz == [2, 2] }, |fresh_name_9| { fresh_name_9 == [2, 1], [2 | fresh_name_9] != [2, 2, 1] }])
 }
 pub fn case_599(vars: &Vars) -> InferredGoal<DU, DE, Goal<DU, DE>> {
-    let q = vars.v[0].clone();
-    let x = vars.v[1].clone();
-    proto_vulcan!([2 == [['a'] | [_]], conde { q == [[], q, []], [[["a", []] != q, match [1, q, true] { _ => , Named { a: [[], 1], b: x } | [[1, t, z | _]] => { q == [2, 1, 2], |tz| { tz == [2, 2], [1 | tz] != [1, 2, 2] } }, }]], x == [q] }, conde { [[conde { (2, 1) != [3, 'b' | x], [x != _, q == q], [[] == P3([], [], [q]), x == [q, [1, true | q] | x]] }, match x { 'b' => , [[2] | z] => , y => , }], |tz| { tz == [2], [1, 2, 2] != [1, 2 | tz] }], [x != [2, 1], (_, 3) != 2] }])
+    let x = vars.v[0].clone();
+    let y = vars.v[1].clone();
+    proto_vulcan!([[[_ | x] == y, [y == [3]]], [x | x] == x, { let c__: InferredGoal<DU, DE, Goal<DU, DE>> = proto_vulcan_closure!(|yy| { conde { [y == [yy | _], yy == 1], [y == [_, yy | _], yy == 2] } }); let g__: Goal<DU, DE> = ::proto_vulcan::GoalCast::cast_into(c__); let r__: InferredGoal<DU, DE, Goal<DU, DE>> = proto_vulcan!([g__.clone(), g__]); r__ }])
 }
 pub fn case_600(vars: &Vars) -> InferredGoal<DU, DE, Goal<DU, DE>> {
-    let q = vars.v[0].clone();
-    let x = vars.v[1].clone();
-    proto_vulcan!([2 == [['a'] | [_]], conde { q == [[], q, []], [[["a", []] != q, match [1, q, true] { _ => , Named { a: [[], 1], b: x } | [[1, t, z | _]] => { q == [2, 1, 2], |fresh_name_9| { fresh_name_9 == [2, 2], [1 | fresh_name_9] != [1, 2, 2] } }, }]], x == [q] }, conde { [[conde { (2, 1) != [3, 'b' | x], [x != _, q == q], [[] == P3([], [], [q]), x == [q, [1, true | q] | x]] }, match x { 'b' => , [[2] | z] => , y => , }], |tz| { tz == [2], [1, 2, 2] != [1, 2 | tz] }], [x != [2, 1], (_, 3) != 2] }])
+    let x = vars.v[0].clone();
+    let y = vars.v[1].clone();
+    proto_vulcan!([[[_ | x] == y, [y == [3]]], [x | x] == x, { let c__: InferredGoal<DU, DE, Goal<DU, DE>> = proto_vulcan_closure!(|fresh_name_9| { conde { [y == [fresh_name_9 | _], fresh_name_9 == 1], [y == [_, fresh_name_9 | _], fresh_name_9 == 2] } }); let g__: Goal<DU, DE> = ::proto_vulcan::GoalCast::cast_into(c__); let r__: InferredGoal<DU, DE, Goal<DU, DE>> = proto_vulcan!([g__.clone(), g__]); r__ }])
 }
 pub fn case_601(vars: &Vars) -> InferredGoal<DU, DE, Goal<DU, DE>> {
-    let q = vars.v[0].clone();
-    let x = vars.v[1].clone();
-    proto_vulcan!([match x { _ => { member(q, [1, 2, 3]) }, Named { a: _, b: z } => match x { _ => { |y, t| { x == P3([2], [t], 1) } }, Named { a: [[]], b: 3 } | _ => , }, [[h | []], z] => , }])
+    let x = vars.v[0].clone();
+    let y = vars.v[1].clone();
+    proto_vulcan!([|t| { match y { [[2, h, "a"], [false, 'a', t], [[]]] => [[], matche h { [[z, t, 2 | z], [t]] => { x == [[], [], t], y == [1, [_ | "bc"], [[], h | [false]] | 2] }, [] | _ => { 'a' == t }, [2] => , }], t | [1, "bc" | _] => { y == x, |y| { P3(1, 3, y) != y } }, }, conde { x == [1], conde { [], x == 1 }, [y != [2 | y], conde { (_, t) == x, x == 1, true == [[2 | t], true, y] }] }, |x| { match x { z => , [h] => [member(x, []), x != [_]], Named { a: [], b: t } | [[3 | x], [z]] => { y == [2, y, y] }, }, true } }, closure { conde { [member(x, []), match y { _ => [x == 7, x == 8], }], [1 | x] == x } }])
 }
 pub fn case_602(vars: &Vars) -> InferredGoal<DU, DE, Goal<DU, DE>> {
-    let q = vars.v[0].clone();
-    let x = vars.v[1].clone();
-    proto_vulcan!([match x { _ => { member(q, [1, 2, 3]) }, Named { a: _, b: fresh_name_9 } => match x { _ => { |y, t| { x == P3([2], [t], 1) } }, Named { a: [[]], b: 3 } | _ => , }, [[h | []], z] => , }])
+    let x = vars.v[0].clone();
+    let y = vars.v[1].clone();
+    proto_vulcan!([|t| { match y { [[2, h, "a"], [false, 'a', t], [[]]] => [[], matche h { [[z, t, 2 | z], [t]] => { x == [[], [], t], y == [1, [_ | "bc"], [[], h | [false]] | 2] }, [] | _ => { 'a' == t }, [2] => , }], t | [1, "bc" | _] => { y == x, |fresh_name_9| { P3(1, 3, fresh_name_9) != fresh_name_9 } }, }, conde { x == [1], conde { [], x == 1 }, [y != [2 | y], conde { (_, t) == x, x == 1, true == [[2 | t], true, y] }] }, |x| { match x { z => , [h] => [member(x, []), x != [_]], Named { a: [], b: t } | [[3 | x], [z]] => { y == [2, y, y] }, }, true } }, closure { conde { [member(x, []), match y { _ => [x == 7, x == 8], }], [1 | x] == x } }])
 }
 pub fn case_603(vars: &Vars) -> InferredGoal<DU, DE, Goal<DU, DE>> {
-    let q = vars.v[0].clone();
-    let x = vars.v[1].clone();
-    proto_vulcan!([[matche ['b'] { [1, [[], t | []]] | [[], [1, x, y], "a" | h] => , _ | _ => { [false, q | q] != x }, }, [|y| { _ == y, q == y }, [x, q] != q], x == [2, x]]])
+    let x = vars.v[0].clone();
+    let y = vars.v[1].clone();
+    proto_vulcan!([|t, y| { (_, []) == (_, []) }, |t, x| { [3, 2, x] == t }, { let c__: InferredGoal<DU, DE, Goal<DU, DE>> = proto_vulcan_closure!([|yy| { conde { [x == [yy | _], yy == 1], [x == [_, yy | _], yy == 2] } }, match y { _ | [[[], y, z | x], [1], [] | h] => , }]); let g__: Goal<DU, DE> = ::proto_vulcan::GoalCast::cast_into(c__); let r__: InferredGoal<DU, DE, Goal<DU, DE>> = proto_vulcan!([g__.clone(), g__]); r__ }])
 }
 pub fn case_604(vars: &Vars) -> InferredGoal<DU, DE, Goal<DU, DE>> {
-    let q = vars.v[0].clone();
-    let x = vars.v[1].clone();
-    proto_vulcan!([[matche ['b'] { [1, [[], t | []]] | [[], [1, x, y], "a" | h] => , _ | _ => { [false, q | q] != x }, }, [|fresh_name_9| { _ == fresh_name_9, q == fresh_name_9 }, [x, q] != q], x == [2, x]]])
+    let x = vars.v[0].clone();
+    let y = vars.v[1].clone();
+    proto_vulcan!([|fresh_name_9, y| { (_, []) == (_, []) }, |t, x| { [3, 2, x] == t }, { let c__: InferredGoal<DU, DE, Goal<DU, DE>> = proto_vulcan_closure!([|yy| { conde { [x == [yy | _], yy == 1], [x == [_, yy | _], yy == 2] } }, match y { _ | [[[], y, z | x], [1], [] | h] => , }]); let g__: Goal<DU, DE> = ::proto_vulcan::GoalCast::cast_into(c__); let r__: InferredGoal<DU, DE, Goal<DU, DE>> = proto_vulcan!([g__.clone(), g__]); r__ }])
 }
 pub fn case_605(vars: &Vars) -> InferredGoal<DU, DE, Goal<DU, DE>> {
     let x = vars.v[0].clone();
-    proto_vulcan!([[[conde { [x == x, x == ([_], _)], member(x, []) }, conde { [false, [1] == [[x, 3, _] | x]], [false, x == []], [_ == x, x == 2] }, [P3([2], 3, 2) == (1, [])]], match x { Named { a: z, b: t } => { conde { z == P3([2, 2], 3, []) } }, [[[], 1], 'b', _] => , h | Named { a: [x, []], b: 3 } => , }, P3([], 1, 2) == x]])
+    let y = vars.v[1].clone();
+    proto_vulcan!([x == 3, conde { [], |x| { false, x == x, y != [_, 1, 2] } }])
 }
 pub fn case_606(vars: &Vars) -> InferredGoal<DU, DE, Goal<DU, DE>> {
     let x = vars.v[0].clone();
-    proto_vulcan!([[[conde { [x == x, x == ([_], _)], member(x, []) }, conde { [false, [1] == [[x, 3, _] | x]], [false, x == []], [_ == x, x == 2] }, [P3([2], 3, 2) == (1, [])]], match x { Named { a: z, b: fresh_name_9 } => { conde { z == P3([2, 2], 3, []) } }, [[[], 1], 'b', _] => , h | Named { a: [x, []], b: 3 } => , }, P3([], 1, 2) == x]])
+    let y = vars.v[1].clone();
+    proto_vulcan!([x == 3, conde { [], |fresh_name_9| { false, fresh_name_9 == fresh_name_9, y != [_, 1, 2] } }])
 }
 pub fn case_607(vars: &Vars) -> InferredGoal<DU, DE, Goal<DU, DE>> {
-    let x = vars.v[0].clone();
-    proto_vulcan!([matche x { _ => [x == x, x == x], [x] => { match 1 { _ | [h, 2] => [x != 'b', member(x, [3])], _ => [x == 7, x == 8], [[_, _, 1 | x], [_], []] | _ => , } }, _ => [x == 7, x == 8], }, x == x, [_, 3] != x, { let c__: InferredGoal<DU, DE, Goal<DU, DE>> = proto_vulcan_closure!(|yy| { conde { [x == [yy | _], yy == 1], [x == [_, yy | _], yy == 2] } }); let g__: Goal<DU, DE> = ::proto_vulcan::GoalCast::cast_into(c__); let r__: InferredGoal<DU, DE, Goal<DU, DE>> = proto_vulcan!([g__.clone(), g__]); r__ }])
+    let q = vars.v[0].clone();
+    let x = vars.v[1].clone();
+    proto_vulcan!([|y| { |y| { false, [y == ["bc", 1], q == [2], [[q, 2, _], _ | y] == []] } }])
 }
 pub fn case_608(vars: &Vars) -> InferredGoal<DU, DE, Goal<DU, DE>> {
-    let x = vars.v[0].clone();
-    proto_vulcan!([matche x { _ => [x == x, x == x], [x] => { match 1 { _ | [h, 2] => [x != 'b', member(x, [3])], _ => [x == 7, x == 8], [[_, _, 1 | x], [_], []] | _ => , } }, _ => [x == 7, x == 8], }, x == x, [_, 3] != x, { let c__: InferredGoal<DU, DE, Goal<DU, DE>> = proto_vulcan_closure!(|fresh_name_9| { conde { [x == [fresh_name_9 | _], fresh_name_9 == 1], [x == [_, fresh_name_9 | _], fresh_name_9 == 2] } }); let g__: Goal<DU, DE> = ::proto_vulcan::GoalCast::cast_into(c__); let r__: InferredGoal<DU, DE, Goal<DU, DE>> = proto_vulcan!([g__.clone(), g__]); r__ }])
+    let q = vars.v[0].clone();
+    let x = vars.v[1].clone();
+    proto_vulcan!([|fresh_name_9| { |y| { false, [y == ["bc", 1], q == [2], [[q, 2, _], _ | y] == []] } }])
 }
 pub fn case_609(vars: &Vars) -> InferredGoal<DU, DE, Goal<DU, DE>> {
     let x = vars.v[0].clone();
-    proto_vulcan!([match 2 { t => { conde { [_ == t, [[x, t, x], 2, 1] == _], [|x, z| { [1, x] == t }, |tz| { tz == [3, 3], [2, 1, 3, 3] != [2, 1 | tz] }], x == P3(x, t, x) } }, }, conde { [|y| { [[x], 1 | []] == [_, 2, 1] }, conde { [], [conde { [x == [1, x, [3, x]], [[], x, [2, x, 2]] == x] }, append(x, x, [])], [] }], [x == [[], [x, x, x]], x != P3([2, 3], _, x)] }, { let c__: InferredGoal<DU, DE, Goal<DU, DE>> = proto_vulcan_closure!(|yy| { conde { [x == [yy | _], yy == 1], [x == [_, yy | _], yy == 2] } }); let g__: Goal<DU, DE> = ::proto_vulcan::GoalCast::cast_into(c__); let r__: InferredGoal<DU, DE, Goal<DU, DE>> = proto_vulcan!([g__.clone(), g__]); r__ }])
+    let y = vars.v[1].clone();
+    proto_vulcan!([y == y, |tz| { [2, 3 | tz] != [2, 3, 2], tz == [2] }, |tz| { [2, 1, 1, 1] != [2, 1 | tz], tz == [1, 1] }])
 }
 pub fn case_610(vars: &Vars) -> InferredGoal<DU, DE, Goal<DU, DE>> {
     let x = vars.v[0].clone();
-    proto_vulcan!([match 2 { t => { conde { [_ == t, [[x, t, x], 2, 1] == _], [|x, z| { [1, x] == t }, |tz| { tz == [3, 3], [2, 1, 3, 3] != [2, 1 | tz] }], x == P3(x, t, x) } }, }, conde { [|y| { [[x], 1 | []] == [_, 2, 1] }, conde { [], [conde { [x == [1, x, [3, x]], [[], x, [2, x, 2]] == x] }, append(x, x, [])], [] }], [x == [[], [x, x, x]], x != P3([2, 3], _, x)] }, { let c__: InferredGoal<DU, DE, Goal<DU, DE>> = proto_vulcan_closure!(|fresh_name_9| { conde { [x == [fresh_name_9 | _], fresh_name_9 == 1], [x == [_, fresh_name_9 | _], fresh_name_9 == 2] } }); let g__: Goal<DU, DE> = ::proto_vulcan::GoalCast::cast_into(c__); let r__: InferredGoal<DU, DE, Goal<DU, DE>> = proto_vulcan!([g__.clone(), g__]); r__ }])
+    let y = vars.v[1].clone();
+    proto_vulcan!([y == y, |fresh_name_9| { [2, 3 | fresh_name_9] != [2, 3, 2], fresh_name_9 == [2] }, |tz| { [2, 1, 1, 1] != [2, 1 | tz], tz == [1, 1] }])
 }
 pub fn case_611(vars: &Vars) -> InferredGoal<DU, DE, Goal<DU, DE>> {
-    let x = vars.v[0].clone();
-    let y = vars.v[1].clone();
-    proto_vulcan!([|h| { true, member(h, [1, 2]) }, |z| { |tz| { tz == [3, 1], [3 | tz] != [3, 3, 1] }, |t| { z != [1, t], y == ([], 3), matche t { 1 => false, [[_], [h, t, h], []] | [[_ | _], [2, [] | _] | x] => { y == z }, [[y], [[]], h | z] => [t, 2] == t, } }, y == [[true], 2, [x, 2, x]] }, |y, h| { x == [[], y, y], |tz| { tz == [1, 2], [2, 1, 2] != [2 | tz] } }, { let c__: InferredGoal<DU, DE, Goal<DU, DE>> = proto_vulcan_closure!(|yy| { conde { [x == [yy | _], yy == 1], [x == [_, yy | _], yy == 2] } }); let g__: Goal<DU, DE> = ::proto_vulcan::GoalCast::cast_into(c__); let r__: InferredGoal<DU, DE, Goal<DU, DE>> = proto_vulcan!([g__.clone(), g__]); r__ }])
+    let q = vars.v[0].clone();
+    let x = vars.v[1].clone();
+    proto_vulcan!([conde { |h| { 3 == h, P3([], 2, 1) == x, |t| { [2, 1, x | t] == [['b', 2 | 1], 1], q == 1, t == x } }, [[1, 2, _] != x, |t| { ([2], _) != t, [([_, []], [[], []]) == t, q != P3([], _, 2), false] }], [[matche ['a', 2] { P3([h, []], 1, []) => { h == (1, h) }, x => { x == x, member(x, []) }, }], [[q, 3 | x], [2, 3] | [_, 3]] != 1] }, conde { [[q, _] == q, [1 | x] != x] }, [[2, q, q | x], q] == q])
 }
 pub fn case_612(vars: &Vars) -> InferredGoal<DU, DE, Goal<DU, DE>> {
-    let x = vars.v[0].clone();
-    let y = vars.v[1].clone();
-    proto_vulcan!([|h| { true, member(h, [1, 2]) }, |z| { |tz| { tz == [3, 1], [3 | tz] != [3, 3, 1] }, |t| { z != [1, t], y == ([], 3), matche t { 1 => false, [[_], [h, t, h], []] | [[_ | _], [2, [] | _] | x] => { y == z }, [[y], [[]], h | z] => [t, 2] == t, } }, y == [[true], 2, [x, 2, x]] }, |y, h| { x == [[], y, y], |fresh_name_9| { fresh_name_9 == [1, 2], [2, 1, 2] != [2 | fresh_name_9] } }, { let c__: InferredGoal<DU, DE, Goal<DU, DE>> = proto_vulcan_closure!(|yy| { conde { [x == [yy | _], yy == 1], [x == [_, yy | _], yy == 2] } }); let g__: Goal<DU, DE> = ::proto_vulcan::GoalCast::cast_into(c__); let r__: InferredGoal<DU, DE, Goal<DU, DE>> = proto_vulcan!([g__.clone(), g__]); r__ }])
+    let q = vars.v[0].clone();
+    let x = vars.v[1].clone();
+    proto_vulcan!([conde { |h| { 3 == h, P3([], 2, 1) == x, |t| { [2, 1, x | t] == [['b', 2 | 1], 1], q == 1, t == x } }, [[1, 2, _] != x, |fresh_name_9| { ([2], _) != fresh_name_9, [([_, []], [[], []]) == fresh_name_9, q != P3([], _, 2), false] }], [[matche ['a', 2] { P3([h, []], 1, []) => { h == (1, h) }, x => { x == x, member(x, []) }, }], [[q, 3 | x], [2, 3] | [_, 3]] != 1] }, conde { [[q, _] == q, [1 | x] != x] }, [[2, q, q | x], q] == q])
 }
 pub fn case_613(vars: &Vars) -> InferredGoal<DU, DE, Goal<DU, DE>> {
-    let q = vars.v[0].clone();
-    let x = vars.v[1].clone();
-    proto_vulcan!([conde { x == [1, q], [match q { [2 | []] => conde { [_ == x, x != q], append(x, q, [3, 2]) }, z => , [] | _ => , }, x == [x, q, 1]] }, conde { [q == 2, [[], [q, 2, x], [q | x] | x] == x] }, closure { [true, append(x, q, [1])] }])
+    let x = vars.v[0].clone();
+    let y = vars.v[1].clone();
+    proto_vulcan!([match x { 2 => { x != [x], matche y { [_, [h | _] | z] => { z != [1, 'a' | [_]], z == ["bc", _] }, } }, }, append(y, y, [])])
 }
 pub fn case_614(vars: &Vars) -> InferredGoal<DU, DE, Goal<DU, DE>> {
-    let q = vars.v[0].clone();
-    let x = vars.v[1].clone();
-    proto_vulcan!([conde { x == [1, q], [match q { [2 | []] => conde { [_ == x, x != q], append(x, q, [3, 2]) }, fresh_name_9 => , [] | _ => , }, x == [x, q, 1]] }, conde { [q == 2, [[], [q, 2, x], [q | x] | x] == x] }, closure { [true, append(x, q, [1])] }])
+    let x = vars.v[0].clone();
+    let y = vars.v[1].clone();
+    proto_vulcan!([match x { 2 => { x != [x], matche y { [_, [fresh_name_9 | _] | z] => { z != [1, 'a' | [_]], z == ["bc", _] }, } }, }, append(y, y, [])])
 }
 pub fn case_615(vars: &Vars) -> InferredGoal<DU, DE, Goal<DU, DE>> {
     let x = vars.v[0].clone();
-    proto_vulcan!([x == ['b', x], [[x] | x] == x, |t| { match t { 1 => , } }])
+    proto_vulcan!([|y, z| { [2, z | []] == y, [y, _, x] == z, y == "a" }, ([1, _], 3) != x, |y| { [[2, [], _], [[] | y]] != x }])
 }
 pub fn case_616(vars: &Vars) -> InferredGoal<DU, DE, Goal<DU, DE>> {
     let x = vars.v[0].clone();
-    proto_vulcan!([x == ['b', x], [[x] | x] == x, |fresh_name_9| { match fresh_name_9 { 1 => , } }])
+    proto_vulcan!([|fresh_name_9, z| { [2, z | []] == fresh_name_9, [fresh_name_9, _, x] == z, fresh_name_9 == "a" }, ([1, _], 3) != x, |y| { [[2, [], _], [[] | y]] != x }])
 }
 pub fn case_617(vars: &Vars) -> InferredGoal<DU, DE, Goal<DU, DE>> {
-    let x = vars.v[0].clone();
-    let y = vars.v[1].clone();
-    proto_vulcan!([x == 'b', |h, z| { |tz| { tz == [3], [2, 2, 3] != [2, 2 | tz] } }, { let c__: InferredGoal<DU, DE, Goal<DU, DE>> = proto_vulcan_closure!(|yy| { conde { [y == [yy | _], yy == 1], [y == [_, yy | _], yy == 2] } }); let g__: Goal<DU, DE> = ::proto_vulcan::GoalCast::cast_into(c__); let r__: InferredGoal<DU, DE, Goal<DU, DE>> = proto_vulcan!([g__.clone(), g__]); r__ }])
+    let q = vars.v[0].clone();
+    let x = vars.v[1].clone();
+    proto_vulcan!([matche x { [_, _, [[], _] | h] => , h => [x == (x, 3), |x| { matche x { y | [false] => { 2 != P3(2, x, [1]) }, }, [q == [[x] | q], member(q, [1]), q == [2 | h]] }], }, q == [2, 3, []]])
 }
 pub fn case_618(vars: &Vars) -> InferredGoal<DU, DE, Goal<DU, DE>> {
-    let x = vars.v[0].clone();
-    let y = vars.v[1].clone();
-    proto_vulcan!([x == 'b', |h, fresh_name_9| { |tz| { tz == [3], [2, 2, 3] != [2, 2 | tz] } }, { let c__: InferredGoal<DU, DE, Goal<DU, DE>> = proto_vulcan_closure!(|yy| { conde { [y == [yy | _], yy == 1], [y == [_, yy | _], yy == 2] } }); let g__: Goal<DU, DE> = ::proto_vulcan::GoalCast::cast_into(c__); let r__: InferredGoal<DU, DE, Goal<DU, DE>> = proto_vulcan!([g__.clone(), g__]); r__ }])
+    let q = vars.v[0].clone();
+    let x = vars.v[1].clone();
+    proto_vulcan!([matche x { [_, _, [[], _] | fresh_name_9] => , h => [x == (x, 3), |x| { matche x { y | [false] => { 2 != P3(2, x, [1]) }, }, [q == [[x] | q], member(q, [1]), q == [2 | h]] }], }, q == [2, 3, []]])
 }
 pub fn case_619(vars: &Vars) -> InferredGoal<DU, DE, Goal<DU, DE>> {
-    let x = vars.v[0].clone();
-    let y = vars.v[1].clone();
-    proto_vulcan!([P3(3, x, 1) == x, |t| { match t { _ => { member(y, [1, 2, 3]) }, }, append(y, t, [3, 3]), |x| { match y { [h] => x == ([], t), [[y, "bc" | []], [2, 1, y], [3]] => { y == (x, [[]]) }, }, match t { y => , }, x == y } }])
+    let q = vars.v[0].clone();
+    let x = vars.v[1].clone();
+    proto_vulcan!([|z| { ['b' == q, x == P3([], [1, z], _)], [1, [], z] != x, matche [z, q, 2 | 3] { [_, true, [h, 2]] => , 2 => , } }])
 }
 pub fn case_620(vars: &Vars) -> InferredGoal<DU, DE, Goal<DU, DE>> {
-    let x = vars.v[0].clone();
-    let y = vars.v[1].clone();
-    proto_vulcan!([P3(3, x, 1) == x, |t| { match t { _ => { member(y, [1, 2, 3]) }, }, append(y, t, [3, 3]), |x| { match y { [fresh_name_9] => x == ([], t), [[y, "bc" | []], [2, 1, y], [3]] => { y == (x, [[]]) }, }, match t { y => , }, x == y } }])
+    let q = vars.v[0].clone();
+    let x = vars.v[1].clone();
+    proto_vulcan!([|fresh_name_9| { ['b' == q, x == P3([], [1, fresh_name_9], _)], [1, [], fresh_name_9] != x, matche [fresh_name_9, q, 2 | 3] { [_, true, [h, 2]] => , 2 => , } }])
 }
 pub fn case_621(vars: &Vars) -> InferredGoal<DU, DE, Goal<DU, DE>> {
     let x = vars.v[0].clone();
-    proto_vulcan!([matche x { [[2, x], _] | [[3, x, t], 1 | y] => { [[]] != x }, P3(1, [], h) => , [1, [2, _ | _], t] | [[3, h, [] | z], [_], [t]] => , }, matche x { _ | false => , }])
+    proto_vulcan!([1 == x, match x { z => conde { [|tz| { [3, 3 | tz] != [3, 3, 1], tz == [1] }, false], [conde { [z == z, append(x, z, [1, 3])], [false, [1] == [[x, 2, _ | 'b'], 2]] }, member(z, [2])], [2] == x }, }])
 }
 pub fn case_622(vars: &Vars) -> InferredGoal<DU, DE, Goal<DU, DE>> {
     let x = vars.v[0].clone();
-    proto_vulcan!([matche x { [[2, x], _] | [[3, x, t], 1 | y] => { [[]] != x }, P3(1, [], fresh_name_9) => , [1, [2, _ | _], t] | [[3, h, [] | z], [_], [t]] => , }, matche x { _ | false => , }])
+    proto_vulcan!([1 == x, match x { fresh_name_9 => conde { [|tz| { [3, 3 | tz] != [3, 3, 1], tz == [1] }, false], [conde { [fresh_name_9 == fresh_name_9, append(x, fresh_name_9, [1, 3])], [false, [1] == [[x, 2, _ | 'b'], 2]] }, member(fresh_name_9, [2])], [2] == x }, }])
 }
 pub fn case_623(vars: &Vars) -> InferredGoal<DU, DE, Goal<DU, DE>> {
     let x = vars.v[0].clone();
     let y = vars.v[1].clone();
-    proto_vulcan!([matche y { _ => [y == 7, y == 8], }, |y, h| { x == P3([x, x], 2, []), y == P3(_, 1, 3) }])
+    proto_vulcan!([matche _ { 2 => [[[[]] == y, [y == 1, member(y, []), true]]], z => , [[y, t, false | x]] | P3([y, _], h, [1, []]) => , }, x != []])
 }
 pub fn case_624(vars: &Vars) -> InferredGoal<DU, DE, Goal<DU, DE>> {
     let x = vars.v[0].clone();
     let y = vars.v[1].clone();
-    proto_vulcan!([matche y { _ => [y == 7, y == 8], }, |y, fresh_name_9| { x == P3([x, x], 2, []), y == P3(_, 1, 3) }])
+    proto_vulcan!([matche _ { 2 => [[[[]] == y, [y == 1, member(y, []), true]]], fresh_name_9 => , [[y, t, false | x]] | P3([y, _], h, [1, []]) => , }, x != []])
 }
 pub fn case_625(vars: &Vars) -> InferredGoal<DU, DE, Goal<DU, DE>> {
-    let q = vars.v[0].clone();
-    let x = vars.v[1].clone();
-    proto_vulcan!([conde { [q | x] != ["bc", [x, [], 1]], [|y, h| {  }, []], [conde { ['b' != x, _ == q], [[q] != [[q, _, _], [[], 1, 2]], |h, y| {  }], [[false, [3, q | 3] != q, [_ | x] != "bc"], conde { q != [[]], [|tz| { [2, 2, 1] != [2, 2 | tz], tz == [1] }, member(q, [1, 2, 1])] }] }, match q { 1 | 1 => [[[q], 2] == [_], q == [2, q, x]], _ => { x == x, |tz| { tz == [3], [1, 2 | tz] != [1, 2, 3] } }, }] }, { let c__: InferredGoal<DU, DE, Goal<DU, DE>> = proto_vulcan_closure!(|yy| { conde { [x == [yy | _], yy == 1], [x == [_, yy | _], yy == 2] } }); let g__: Goal<DU, DE> = ::proto_vulcan::GoalCast::cast_into(c__); let r__: InferredGoal<DU, DE, Goal<DU, DE>> = proto_vulcan!([g__.clone(), g__]); r__ }])
+    let x = vars.v[0].clone();
+    let y = vars.v[1].clone();
+    proto_vulcan!([match 2 { _ => [y == 7, y == 8], [[x, 1, h | z]] => [|z| {  }, conde { [|tz| { [1, 3 | tz] != [1, 3, 3], tz == [3] }, [|tz| { [1 | tz] != [1, 3, 3], tz == [3, 3] }]], [|x| { [[_, h | h]] == y, false, true }, true] }], }, x == 3, y == y])
 }
 pub fn case_626(vars: &Vars) -> InferredGoal<DU, DE, Goal<DU, DE>> {
-    let q = vars.v[0].clone();
-    let x = vars.v[1].clone();
-    proto_vulcan!([conde { [q | x] != ["bc", [x, [], 1]], [|y, h| {  }, []], [conde { ['b' != x, _ == q], [[q] != [[q, _, _], [[], 1, 2]], |h, fresh_name_9| {  }], [[false, [3, q | 3] != q, [_ | x] != "bc"], conde { q != [[]], [|tz| { [2, 2, 1] != [2, 2 | tz], tz == [1] }, member(q, [1, 2, 1])] }] }, match q { 1 | 1 => [[[q], 2] == [_], q == [2, q, x]], _ => { x == x, |tz| { tz == [3], [1, 2 | tz] != [1, 2, 3] } }, }] }, { let c__: InferredGoal<DU, DE, Goal<DU, DE>> = proto_vulcan_closure!(|yy| { conde { [x == [yy | _], yy == 1], [x == [_, yy | _], yy == 2] } }); let g__: Goal<DU, DE> = ::proto_vulcan::GoalCast::cast_into(c__); let r__: InferredGoal<DU, DE, Goal<DU, DE>> = proto_vulcan!([g__.clone(), g__]); r__ }])
+    let x = vars.v[0].clone();
+    let y = vars.v[1].clone();
+    proto_vulcan!([match 2 { _ => [y == 7, y == 8], [[fresh_name_9, 1, h | z]] => [|z| {  }, conde { [|tz| { [1, 3 | tz] != [1, 3, 3], tz == [3] }, [|tz| { [1 | tz] != [1, 3, 3], tz == [3, 3] }]], [|x| { [[_, h | h]] == y, false, true }, true] }], }, x == 3, y == y])
 }
 pub fn case_627(vars: &Vars) -> InferredGoal<DU, DE, Goal<DU, DE>> {
-    let q = vars.v[0].clone();
-    let x = vars.v[1].clone();
-    proto_vulcan!([q == [x, 1, false], x != x, [1 == q, matche x { _ => member(q, [1, 2, 3]), Named { a: [], b: t } => { [append(t, q, [])], q != false }, y => , }, |tz| { tz == [3, 3], [3, 3, 3] != [3 | tz] }]])
+    let x = vars.v[0].clone();
+    let y = vars.v[1].clone();
+    proto_vulcan!([conde { [y, 'b' | [2]] == y }, conde { [x == 1, y == 3], [[P3(3, [[]], [1]) == [["bc"], [2, x] | y], matche y { [[], [h, _, x | _]] => [P3([y], 3, 2) != y, x == 1], _ => , _ => , }, conde { |tz| { tz == [3, 3], [2, 3, 3] != [2 | tz] }, [(_, x) == y, false], [_ == x, [[3, 2, x], [2, y, x]] == y] }]], [x == P3(2, [y, x], y), P3([1, 3], [[]], [_]) == [[x], [1, x, 1]]] }, { let c__: InferredGoal<DU, DE, Goal<DU, DE>> = proto_vulcan_closure!(|yy| { conde { [y == [yy | _], yy == 1], [y == [_, yy | _], yy == 2] } }); let g__: Goal<DU, DE> = ::proto_vulcan::GoalCast::cast_into(c__); let r__: InferredGoal<DU, DE, Goal<DU, DE>> = proto_vulcan!([g__.clone(), g__]); r__ }])
 }
 pub fn case_628(vars: &Vars) -> InferredGoal<DU, DE, Goal<DU, DE>> {
-    let q = vars.v[0].clone();
-    let x = vars.v[1].clone();
-    proto_vulcan!([q == [x, 1, false], x != x, [1 == q, matche x { _ => member(q, [1, 2, 3]), Named { a: [], b: t } => { [append(t, q, [])], q != false }, y => , }, |fresh_name_9| { fresh_name_9 == [3, 3], [3, 3, 3] != [3 | fresh_name_9] }]])
+    let x = vars.v[0].clone();
+    let y = vars.v[1].clone();
+    proto_vulcan!([conde { [y, 'b' | [2]] == y }, conde { [x == 1, y == 3], [[P3(3, [[]], [1]) == [["bc"], [2, x] | y], matche y { [[], [h, _, x | _]] => [P3([y], 3, 2) != y, x == 1], _ => , _ => , }, conde { |tz| { tz == [3, 3], [2, 3, 3] != [2 | tz] }, [(_, x) == y, false], [_ == x, [[3, 2, x], [2, y, x]] == y] }]], [x == P3(2, [y, x], y), P3([1, 3], [[]], [_]) == [[x], [1, x, 1]]] }, { let c__: InferredGoal<DU, DE, Goal<DU, DE>> = proto_vulcan_closure!(|fresh_name_9| { conde { [y == [fresh_name_9 | _], fresh_name_9 == 1], [y == [_, fresh_name_9 | _], fresh_name_9 == 2] } }); let g__: Goal<DU, DE> = ::proto_vulcan::GoalCast::cast_into(c__); let r__: InferredGoal<DU, DE, Goal<DU, DE>> = proto_vulcan!([g__.clone(), g__]); r__ }])
 }
 pub fn case_629(vars: &Vars) -> InferredGoal<DU, DE, Goal<DU, DE>> {
-    let x = vars.v[0].clone();
-    proto_vulcan!([[conde { [[], match x { [[2, []], ["a"], 3] | _ => { x != [[], x, x | x] }, [z, [y]] => , }], [match x { [[_, []]] => append(x, x, [3]), y => , }, [|tz| { tz == [1], [1, 2, 1] != [1, 2 | tz] }, (x, [x]) != x]] }, (3, x) == x], |y| { x != y, conde { y != ([], _), [[], [[y, []], x] == [x, _, []]] } }, x == x, closure { [|z, h| { |tz| { tz == [1], [1 | tz] != [1, 1] }, [append(x, z, []), (_, 2) == (_, 3)], [[_, [], 2], [x, [] | h]] != z }, conde { [([[]], x) != x, matche 1 { _ => { [[x, x, x] | [1, _]] == x }, _ => , }], [matche x { x => [[x, 'b', x] == x, P3(x, 3, 2) != x], }, matche [_] { [["bc" | _], [x, _], y] | Named { a: [[]], b: 2 } => , }] }] }])
+    let q = vars.v[0].clone();
+    let x = vars.v[1].clone();
+    proto_vulcan!([[q == [q, x, true], |y, z| { matche [x, 1] { z => { (q, 2) == _, q == false }, }, matche [x, z, 1 | z] { t => { z != z, z == t }, 3 => P3([_, z], [], y) != q, [h | z] => , } }, matche x { _ => { q == 7, q == 8 }, }], [[_, 'b'], [3, x, q | 1], [1]] == q])
 }
 pub fn case_630(vars: &Vars) -> InferredGoal<DU, DE, Goal<DU, DE>> {
-    let x = vars.v[0].clone();
-    proto_vulcan!([[conde { [[], match x { [[2, []], ["a"], 3] | _ => { x != [[], x, x | x] }, [z, [fresh_name_9]] => , }], [match x { [[_, []]] => append(x, x, [3]), y => , }, [|tz| { tz == [1], [1, 2, 1] != [1, 2 | tz] }, (x, [x]) != x]] }, (3, x) == x], |y| { x != y, conde { y != ([], _), [[], [[y, []], x] == [x, _, []]] } }, x == x, closure { [|z, h| { |tz| { tz == [1], [1 | tz] != [1, 1] }, [append(x, z, []), (_, 2) == (_, 3)], [[_, [], 2], [x, [] | h]] != z }, conde { [([[]], x) != x, matche 1 { _ => { [[x, x, x] | [1, _]] == x }, _ => , }], [matche x { x => [[x, 'b', x] == x, P3(x, 3, 2) != x], }, matche [_] { [["bc" | _], [x, _], y] | Named { a: [[]], b: 2 } => , }] }] }])
+    let q = vars.v[0].clone();
+    let x = vars.v[1].clone();
+    proto_vulcan!([[q == [q, x, true], |y, z| { matche [x, 1] { fresh_name_9 => { (q, 2) == _, q == false }, }, matche [x, z, 1 | z] { t => { z != z, z == t }, 3 => P3([_, z], [], y) != q, [h | z] => , } }, matche x { _ => { q == 7, q == 8 }, }], [[_, 'b'], [3, x, q | 1], [1]] == q])
 }
 pub fn case_631(vars: &Vars) -> InferredGoal<DU, DE, Goal<DU, DE>> {
     let x = vars.v[0].clone();
-    let y = vars.v[1].clone();
-    proto_vulcan!([y == x, |z| { matche y { x => [[x] == (1, [[], _]), append(y, x, [])], P3(x, [x], [x, _]) => , _ => { [member(x, [1, 3])], [y] == y }, }, [[3], [_] | z] != (x, _) }, closure { ['b' == y, match y { Named { a: 1, b: 3 } => [["bc", 3 | y] == [y], matche x { _ => , [[2, h, true], _, ['b', z] | _] | [] => { append(x, x, [2]), x == x }, }], [2, [z]] => { ["bc", 2, true] == x }, }] }])
+    proto_vulcan!([([], _) == x, match x { [[[], 2], h] => [match 2 { P3([], 3, []) => { conde { [2] == x, [[[x, h, 1 | [_]], 1, [h, h, 'a']] != x, x == [_, [x] | h]], [true, (h, [[]]) != x] }, [] }, [[3 | _], [3], [_, false] | y] | 2 => [P3(3, 3, 3) == h, [[_]] == [[h, 1]]], [_, 2] => match x { x => [['b'] != x, append(x, h, [1])], _ => { h == _, h == [x] }, _ | P3(_, [], h) => (1, x) == x, }, }, [1, x] == h], _ => , }, closure { [x == [[_, 1 | x], [1, x, 2], [[]]], |y| { true, member(y, [1, 2, 3]) }] }])
 }
 pub fn case_632(vars: &Vars) -> InferredGoal<DU, DE, Goal<DU, DE>> {
     let x = vars.v[0].clone();
-    let y = vars.v[1].clone();
-    proto_vulcan!([y == x, |z| { matche y { x => [[x] == (1, [[], _]), append(y, x, [])], P3(fresh_name_9, [fresh_name_9], [fresh_name_9, _]) => , _ => { [member(x, [1, 3])], [y] == y }, }, [[3], [_] | z] != (x, _) }, closure { ['b' == y, match y { Named { a: 1, b: 3 } => [["bc", 3 | y] == [y], matche x { _ => , [[2, h, true], _, ['b', z] | _] | [] => { append(x, x, [2]), x == x }, }], [2, [z]] => { ["bc", 2, true] == x }, }] }])
+    proto_vulcan!([([], _) == x, match x { [[[], 2], h] => [match 2 { P3([], 3, []) => { conde { [2] == x, [[[x, h, 1 | [_]], 1, [h, h, 'a']] != x, x == [_, [x] | h]], [true, (h, [[]]) != x] }, [] }, [[3 | _], [3], [_, false] | y] | 2 => [P3(3, 3, 3) == h, [[_]] == [[h, 1]]], [_, 2] => match x { fresh_name_9 => [['b'] != fresh_name_9, append(fresh_name_9, h, [1])], _ => { h == _, h == [x] }, _ | P3(_, [], h) => (1, x) == x, }, }, [1, x] == h], _ => , }, closure { [x == [[_, 1 | x], [1, x, 2], [[]]], |y| { true, member(y, [1, 2, 3]) }] }])
 }
 pub fn case_633(vars: &Vars) -> InferredGoal<DU, DE, Goal<DU, DE>> {
     let x = vars.v[0].clone();
-    proto_vulcan!([conde { [[matche [1] { Named { a: [3, []], b: 1 } | [3 | _] => , }, matche [2, []] { P3(3, [], 1) => [x != P3(1, 1, x), false], [[3, z] | h] => , }, ["a" | [3, _]] == [[], [[], x, 2 | x], []]]], [[conde { [P3(2, x, x) == x, |tz| { [1 | tz] != [1, 1, 1], tz == [1, 1] }], [x == [_, x], true], [] }, |x, h| { append(x, h, []), append(x, x, [2, 2]) }, [x != (x, [3])]], conde { conde { [1, 3, x | x] != x, [], x == ['b' | [x]] }, [[], [x, [] | x] != [["bc", true, 'b' | x] | [true, x]]], [] }] }, x == [false, [x, 2 | x]], conde { [[_ != _]], [] }])
+    let y = vars.v[1].clone();
+    proto_vulcan!([conde { [matche x { _ => { y == 7, y == 8 }, }, matche y { P3(z, [x], [[], 3]) => , [[_], [2, [], 2] | 2] => matche x { _ | [[z, [], h], 1, [t, h, t | z]] => [[x] == y, |tz| { tz == [1], [1, 3 | tz] != [1, 3, 1] }], [t, [[]]] => member(y, [3, 1, 1]), 1 => , }, false => y == 2, }], y == [y, _, y] }, conde { [|y, t| { [[[], [], []], 3] == _, x == y }, [y, x | x] != x], [x, 3] != P3(3, x, 1) }, conde { conde { y == y, |y, x| { [_, [y, x], 1] == P3(1, y, 1), [2, "bc", false] == y, x == [[2, y, x]] } }, [[[2], [y], [2, x]] != y, [y != 3, |z, t| { y != [[x | 2], z | t] }, y == (1, 1)]] }])
 }
 pub fn case_634(vars: &Vars) -> InferredGoal<DU, DE, Goal<DU, DE>> {
     let x = vars.v[0].clone();
-    proto_vulcan!([conde { [[matche [1] { Named { a: [3, []], b: 1 } | [3 | _] => , }, matche [2, []] { P3(3, [], 1) => [x != P3(1, 1, x), false], [[3, z] | h] => , }, ["a" | [3, _]] == [[], [[], x, 2 | x], []]]], [[conde { [P3(2, x, x) == x, |fresh_name_9| { [1 | fresh_name_9] != [1, 1, 1], fresh_name_9 == [1, 1] }], [x == [_, x], true], [] }, |x, h| { append(x, h, []), append(x, x, [2, 2]) }, [x != (x, [3])]], conde { conde { [1, 3, x | x] != x, [], x == ['b' | [x]] }, [[], [x, [] | x] != [["bc", true, 'b' | x] | [true, x]]], [] }] }, x == [false, [x, 2 | x]], conde { [[_ != _]], [] }])
+    let y = vars.v[1].clone();
+    proto_vulcan!([conde { [matche x { _ => { y == 7, y == 8 }, }, matche y { P3(z, [x], [[], 3]) => , [[_], [2, [], 2] | 2] => matche x { _ | [[z, [], h], 1, [t, h, t | z]] => [[x] == y, |tz| { tz == [1], [1, 3 | tz] != [1, 3, 1] }], [t, [[]]] => member(y, [3, 1, 1]), 1 => , }, false => y == 2, }], y == [y, _, y] }, conde { [|y, t| { [[[], [], []], 3] == _, x == y }, [y, x | x] != x], [x, 3] != P3(3, x, 1) }, conde { conde { y == y, |fresh_name_9, x| { [_, [fresh_name_9, x], 1] == P3(1, fresh_name_9, 1), [2, "bc", false] == fresh_name_9, x == [[2, fresh_name_9, x]] } }, [[[2], [y], [2, x]] != y, [y != 3, |z, t| { y != [[x | 2], z | t] }, y == (1, 1)]] }])
 }
 pub fn case_635(vars: &Vars) -> InferredGoal<DU, DE, Goal<DU, DE>> {
     let q = vars.v[0].clone();
     let x = vars.v[1].clone();
-    proto_vulcan!([|tz| { tz == [3, 1], [1, 3 | tz] != [1, 3, 3, 1] }, q == x, |y, x| { [x == [[], x | "bc"], conde { append(x, x, [1, 2]) }] }])
+    proto_vulcan!([|x, z| {  }, [[[], q, [] | q] == q, [|z, h| { |tz| { [3 | tz] != [3, 3, 1], tz == [3, 1] } }, member(x, [1, 3]), q == [1, x]]], { let c__: InferredGoal<DU, DE, Goal<DU, DE>> = proto_vulcan_closure!([|yy| { conde { [x == [yy | _], yy == 1], [x == [_, yy | _], yy == 2] } }, matche x { x => , _ => |tz| { tz == [3, 2], [3 | tz] != [3, 3, 2] }, }]); let g__: Goal<DU, DE> = ::proto_vulcan::GoalCast::cast_into(c__); let r__: InferredGoal<DU, DE, Goal<DU, DE>> = proto_vulcan!([g__.clone(), g__]); r__ }])
 }
 pub fn case_636(vars: &Vars) -> InferredGoal<DU, DE, Goal<DU, DE>> {
     let q = vars.v[0].clone();
     let x = vars.v[1].clone();
-    proto_vulcan!([|tz| { tz == [3, 1], [1, 3 | tz] != [1, 3, 3, 1] }, q == x, |y, fresh_name_9| { [fresh_name_9 == [[], fresh_name_9 | "bc"], conde { append(fresh_name_9, fresh_name_9, [1, 2]) }] }])
+    proto_vulcan!([|x, z| {  }, [[[], q, [] | q] == q, [|z, fresh_name_9| { |tz| { [3 | tz] != [3, 3, 1], tz == [3, 1] } }, member(x, [1, 3]), q == [1, x]]], { let c__: InferredGoal<DU, DE, Goal<DU, DE>> = proto_vulcan_closure!([|yy| { conde { [x == [yy | _], yy == 1], [x == [_, yy | _], yy == 2] } }, matche x { x => , _ => |tz| { tz == [3, 2], [3 | tz] != [3, 3, 2] }, }]); let g__: Goal<DU, DE> = ::proto_vulcan::GoalCast::cast_into(c__); let r__: InferredGoal<DU, DE, Goal<DU, DE>> = proto_vulcan!([g__.clone(), g__]); r__ }])
 }
 pub fn case_637(vars: &Vars) -> InferredGoal<DU, DE, Goal<DU, DE>> {
-    let x = vars.v[0].clone();
-    let y = vars.v[1].clone();
-    proto_vulcan!([|tz| { [2, 1, 1, 1] != [2, 1 | tz], tz == [1, 1] }, [[x, y] == P3([], _, _), matche x { P3([_, 3], _, _) => { match x { 1 | _ => [member(x, [2, 1, 2]), 3 == x], _ => { |tz| { [1 | tz] != [1, 2], tz == [2] }, x != [x, x | [1, 3]] }, _ => , } }, _ => { |h, y| { |tz| { [3, 2, 1] != [3 | tz], tz == [2, 1] }, _ != [] } }, }, |z, y| { 3 != z, [y, y] == y }]])
+    let q = vars.v[0].clone();
+    let x = vars.v[1].clone();
+    proto_vulcan!([[[_, q | x], [1 | x]] == P3(x, [_, x], 2), P3(3, _, x) == q, { let c__: InferredGoal<DU, DE, Goal<DU, DE>> = proto_vulcan_closure!(|yy| { conde { [q == [yy | _], yy == 1], [q == [_, yy | _], yy == 2] } }); let g__: Goal<DU, DE> = ::proto_vulcan::GoalCast::cast_into(c__); let r__: InferredGoal<DU, DE, Goal<DU, DE>> = proto_vulcan!([g__.clone(), g__]); r__ }])
 }
 pub fn case_638(vars: &Vars) -> InferredGoal<DU, DE, Goal<DU, DE>> {
-    let x = vars.v[0].clone();
-    let y = vars.v[1].clone();
-    proto_vulcan!([|tz| { [2, 1, 1, 1] != [2, 1 | tz], tz == [1, 1] }, [[x, y] == P3([], _, _), matche x { P3([_, 3], _, _) => { match x { 1 | _ => [member(x, [2, 1, 2]), 3 == x], _ => { |tz| { [1 | tz] != [1, 2], tz == [2] }, x != [x, x | [1, 3]] }, _ => , } }, _ => { |h, y| { |tz| { [3, 2, 1] != [3 | tz], tz == [2, 1] }, _ != [] } }, }, |z, fresh_name_9| { 3 != z, [fresh_name_9, fresh_name_9] == fresh_name_9 }]])
+    let q = vars.v[0].clone();
+    let x = vars.v[1].clone();
+    proto_vulcan!([[[_, q | x], [1 | x]] == P3(x, [_, x], 2), P3(3, _, x) == q, { let c__: InferredGoal<DU, DE, Goal<DU, DE>> = proto_vulcan_closure!(|fresh_name_9| { conde { [q == [fresh_name_9 | _], fresh_name_9 == 1], [q == [_, fresh_name_9 | _], fresh_name_9 == 2] } }); let g__: Goal<DU, DE> = ::proto_vulcan::GoalCast::cast_into(c__); let r__: InferredGoal<DU, DE, Goal<DU, DE>> = proto_vulcan!([g__.clone(), g__]); r__ }])
 }
 pub fn case_639(vars: &Vars) -> InferredGoal<DU, DE, Goal<DU, DE>> {
     let x = vars.v[0].clone();
     let y = vars.v[1].clone();
-    proto_vulcan!([[[1, 'a', 2], 1, [3, y] | y] != y, conde { y == 3, |h| { true, matche y { [[[], 2, true | [2, z]], [2, t, 2] | _] => { x != ['a' | x], [y | h] == h }, }, [[_, h, x], 1, [2]] == 2 } }, member(x, [3, 2]), { let c__: InferredGoal<DU, DE, Goal<DU, DE>> = proto_vulcan_closure!(|yy| { conde { [y == [yy | _], yy == 1], [y == [_, yy | _], yy == 2] } }); let g__: Goal<DU, DE> = ::proto_vulcan::GoalCast::cast_into(c__); let r__: InferredGoal<DU, DE, Goal<DU, DE>> = proto_vulcan!([g__.clone(), g__]); r__ }])
+    proto_vulcan!([[|y| { conde { [false, x != (2, y)], [1, _] != y } }, conde { [], conde { y == [[[], 1], 2], [y == [_ | x], x == [y, y]] } }, [[1, [1]] == ([y, y], 3)]], y == x, { let c__: InferredGoal<DU, DE, Goal<DU, DE>> = proto_vulcan_closure!([|yy| { conde { [y == [yy | _], yy == 1], [y == [_, yy | _], yy == 2] } }, false]); let g__: Goal<DU, DE> = ::proto_vulcan::GoalCast::cast_into(c__); let r__: InferredGoal<DU, DE, Goal<DU, DE>> = proto_vulcan!([g__.clone(), g__]); r__ }])
 }
 pub fn case_640(vars: &Vars) -> InferredGoal<DU, DE, Goal<DU, DE>> {
     let x = vars.v[0].clone();
     let y = vars.v[1].clone();
-    proto_vulcan!([[[1, 'a', 2], 1, [3, y] | y] != y, conde { y == 3, |h| { true, matche y { [[[], 2, true | [2, fresh_name_9]], [2, t, 2] | _] => { x != ['a' | x], [y | h] == h }, }, [[_, h, x], 1, [2]] == 2 } }, member(x, [3, 2]), { let c__: InferredGoal<DU, DE, Goal<DU, DE>> = proto_vulcan_closure!(|yy| { conde { [y == [yy | _], yy == 1], [y == [_, yy | _], yy == 2] } }); let g__: Goal<DU, DE> = ::proto_vulcan::GoalCast::cast_into(c__); let r__: InferredGoal<DU, DE, Goal<DU, DE>> = proto_vulcan!([g__.clone(), g__]); r__ }])
+    proto_vulcan!([[|fresh_name_9| { conde { [false, x != (2, fresh_name_9)], [1, _] != fresh_name_9 } }, conde { [], conde { y == [[[], 1], 2], [y == [_ | x], x == [y, y]] } }, [[1, [1]] == ([y, y], 3)]], y == x, { let c__: InferredGoal<DU, DE, Goal<DU, DE>> = proto_vulcan_closure!([|yy| { conde { [y == [yy | _], yy == 1], [y == [_, yy | _], yy == 2] } }, false]); let g__: Goal<DU, DE> = ::proto_vulcan::GoalCast::cast_into(c__); let r__: InferredGoal<DU, DE, Goal<DU, DE>> = proto_vulcan!([g__.clone(), g__]); r__ }])
 }
-pub const NCASES: usize = 641;
+pub fn case_641(vars: &Vars) -> InferredGoal<DU, DE, Goal<DU, DE>> {
+    let q = vars.v[0].clone();
+    let x = vars.v[1].clone();
+    proto_vulcan!([[match q { _ => { [_ | x] == q, append(q, q, [2]) }, }], q != "a", { let c__: InferredGoal<DU, DE, Goal<DU, DE>> = proto_vulcan_closure!([|yy| { conde { [x == [yy | _], yy == 1], [x == [_, yy | _], yy == 2] } }, true]); let g__: Goal<DU, DE> = ::proto_vulcan::GoalCast::cast_into(c__); let r__: InferredGoal<DU, DE, Goal<DU, DE>> = proto_vulcan!([g__.clone(), g__]); r__ }])
+}
+pub fn case_642(vars: &Vars) -> InferredGoal<DU, DE, Goal<DU, DE>> {
+    let q = vars.v[0].clone();
+    let x = vars.v[1].clone();
+    proto_vulcan!([[match q { _ => { [_ | x] == q, append(q, q, [2]) }, }], q != "a", { let c__: InferredGoal<DU, DE, Goal<DU, DE>> = proto_vulcan_closure!([|fresh_name_9| { conde { [x == [fresh_name_9 | _], fresh_name_9 == 1], [x == [_, fresh_name_9 | _], fresh_name_9 == 2] } }, true]); let g__: Goal<DU, DE> = ::proto_vulcan::GoalCast::cast_into(c__); let r__: InferredGoal<DU, DE, Goal<DU, DE>> = proto_vulcan!([g__.clone(), g__]); r__ }])
+}
+pub fn case_643(vars: &Vars) -> InferredGoal<DU, DE, Goal<DU, DE>> {
+    let q = vars.v[0].clone();
+    let x = vars.v[1].clone();
+    proto_vulcan!([true, conde { ['b' != x, q == [x, "bc" | x]], [[[3, 1, []], 'b', [1 | q]] == false, |z, t| { match x { [h, [y, _], [h, x, z | h]] => { false }, } }] }])
+}
+pub fn case_644(vars: &Vars) -> InferredGoal<DU, DE, Goal<DU, DE>> {
+    let q = vars.v[0].clone();
+    let x = vars.v[1].clone();
+    proto_vulcan!([true, conde { ['b' != x, q == [x, "bc" | x]], [[[3, 1, []], 'b', [1 | q]] == false, |z, t| { match x { [fresh_name_9, [y, _], [fresh_name_9, x, z | fresh_name_9]] => { false }, } }] }])
+}
+pub fn case_645(vars: &Vars) -> InferredGoal<DU, DE, Goal<DU, DE>> {
+    let q = vars.v[0].clone();
+    let x = vars.v[1].clone();
+    proto_vulcan!([x == 2, conde { [[member(x, [3])], conde { conde { [], member(q, [1, 2]), [q != 2, member(x, [1, 3])] }, member(x, []) }], [[false] == 2, |h| { x != P3(x, [], [[], 2]) }] }, |t, h| { true }, closure { [append(x, q, [1]), conde { [q != ['b'], |y, x| { x == 2, P3([_, 1], [], x) == q }], [[q == x, [1, [], [x] | q] == q, append(x, x, [])], x == [[_ | q], [3, q, _] | q]] }] }])
+}
+pub fn case_646(vars: &Vars) -> InferredGoal<DU, DE, Goal<DU, DE>> {
+    let q = vars.v[0].clone();
+    let x = vars.v[1].clone();
+    proto_vulcan!([x == 2, conde { [[member(x, [3])], conde { conde { [], member(q, [1, 2]), [q != 2, member(x, [1, 3])] }, member(x, []) }], [[false] == 2, |h| { x != P3(x, [], [[], 2]) }] }, |t, fresh_name_9| { true }, closure { [append(x, q, [1]), conde { [q != ['b'], |y, x| { x == 2, P3([_, 1], [], x) == q }], [[q == x, [1, [], [x] | q] == q, append(x, x, [])], x == [[_ | q], [3, q, _] | q]] }] }])
+}
+pub fn case_647(vars: &Vars) -> InferredGoal<DU, DE, Goal<DU, DE>> {
+    let x = vars.v[0].clone();
+    let y = vars.v[1].clone();
+    proto_vulcan!([2 == y, { let c__: InferredGoal<DU, DE, Goal<DU, DE>> = proto_vulcan_closure!([|yy| { conde { [y == [yy | _], yy == 1], [y == [_, yy | _], yy == 2] } }, x == [2, [], y]]); let g__: Goal<DU, DE> = ::proto_vulcan::GoalCast::cast_into(c__); let r__: InferredGoal<DU, DE, Goal<DU, DE>> = proto_vulcan!([g__.clone(), g__]); r__ }])
+}
+pub fn case_648(vars: &Vars) -> InferredGoal<DU, DE, Goal<DU, DE>> {
+    let x = vars.v[0].clone();
+    let y = vars.v[1].clone();
+    proto_vulcan!([2 == y, { let c__: InferredGoal<DU, DE, Goal<DU, DE>> = proto_vulcan_closure!([|fresh_name_9| { conde { [y == [fresh_name_9 | _], fresh_name_9 == 1], [y == [_, fresh_name_9 | _], fresh_name_9 == 2] } }, x == [2, [], y]]); let g__: Goal<DU, DE> = ::proto_vulcan::GoalCast::cast_into(c__); let r__: InferredGoal<DU, DE, Goal<DU, DE>> = proto_vulcan!([g__.clone(), g__]); r__ }])
+}
+pub fn case_649(vars: &Vars) -> InferredGoal<DU, DE, Goal<DU, DE>> {
+    let q = vars.v[0].clone();
+    let x = vars.v[1].clone();
+    proto_vulcan!([q == 3, append(q, x, []), { let c__: InferredGoal<DU, DE, Goal<DU, DE>> = proto_vulcan_closure!([|yy| { conde { [q == [yy | _], yy == 1], [q == [_, yy | _], yy == 2] } }, [2 == [], x == [1]]]); let g__: Goal<DU, DE> = ::proto_vulcan::GoalCast::cast_into(c__); let r__: InferredGoal<DU, DE, Goal<DU, DE>> = proto_vulcan!([g__.clone(), g__]); r__ }])
+}
+pub fn case_650(vars: &Vars) -> InferredGoal<DU, DE, Goal<DU, DE>> {
+    let q = vars.v[0].clone();
+    let x = vars.v[1].clone();
+    proto_vulcan!([q == 3, append(q, x, []), { let c__: InferredGoal<DU, DE, Goal<DU, DE>> = proto_vulcan_closure!([|fresh_name_9| { conde { [q == [fresh_name_9 | _], fresh_name_9 == 1], [q == [_, fresh_name_9 | _], fresh_name_9 == 2] } }, [2 == [], x == [1]]]); let g__: Goal<DU, DE> = ::proto_vulcan::GoalCast::cast_into(c__); let r__: InferredGoal<DU, DE, Goal<DU, DE>> = proto_vulcan!([g__.clone(), g__]); r__ }])
+}
+pub fn case_651(vars: &Vars) -> InferredGoal<DU, DE, Goal<DU, DE>> {
+    let x = vars.v[0].clone();
+    proto_vulcan!([x != [x | 'b'], [[], 3, [1, x]] != [[1, x, []], x, [2, [], 2] | x], match x { [[_, t, [] | t], ['b' | x], x | [2]] => t == [2], }])
+}
+pub fn case_652(vars: &Vars) -> InferredGoal<DU, DE, Goal<DU, DE>> {
+    let x = vars.v[0].clone();
+    proto_vulcan!([x != [x | 'b'], [[], 3, [1, x]] != [[1, x, []], x, [2, [], 2] | x], match x { [[_, fresh_name_9, [] | fresh_name_9], ['b' | x], x | [2]] => fresh_name_9 == [2], }])
+}
+pub fn case_653(vars: &Vars) -> InferredGoal<DU, DE, Goal<DU, DE>> {
+    let x = vars.v[0].clone();
+    proto_vulcan!([matche x { y => y != ["bc", 1], }, [1, x | x] == x, true, { let c__: InferredGoal<DU, DE, Goal<DU, DE>> = proto_vulcan_closure!(|yy| { conde { [x == [yy | _], yy == 1], [x == [_, yy | _], yy == 2] } }); let g__: Goal<DU, DE> = ::proto_vulcan::GoalCast::cast_into(c__); let r__: InferredGoal<DU, DE, Goal<DU, DE>> = proto_vulcan!([g__.clone(), g__]); r__ }])
+}
+pub fn case_654(vars: &Vars) -> InferredGoal<DU, DE, Goal<DU, DE>> {
+    let x = vars.v[0].clone();
+    proto_vulcan!([matche x { fresh_name_9 => fresh_name_9 != ["bc", 1], }, [1, x | x] == x, true, { let c__: InferredGoal<DU, DE, Goal<DU, DE>> = proto_vulcan_closure!(|yy| { conde { [x == [yy | _], yy == 1], [x == [_, yy | _], yy == 2] } }); let g__: Goal<DU, DE> = ::proto_vulcan::GoalCast::cast_into(c__); let r__: InferredGoal<DU, DE, Goal<DU, DE>> = proto_vulcan!([g__.clone(), g__]); r__ }])
+}
+pub fn case_655(vars: &Vars) -> InferredGoal<DU, DE, Goal<DU, DE>> {
+    let x = vars.v[0].clone();
+    let y = vars.v[1].clone();
+    proto_vulcan!([|x| { y == ([[], x], [2]) }, matche y { [[3, 2 | _], [1, y]] => , }, match y { y => [P3([], [[], y], 2) == ([3, []], y), conde { x == y, [y == 1, |h| {  }] }], }])
+}
+pub fn case_656(vars: &Vars) -> InferredGoal<DU, DE, Goal<DU, DE>> {
+    let x = vars.v[0].clone();
+    let y = vars.v[1].clone();
+    proto_vulcan!([|fresh_name_9| { y == ([[], fresh_name_9], [2]) }, matche y { [[3, 2 | _], [1, y]] => , }, match y { y => [P3([], [[], y], 2) == ([3, []], y), conde { x == y, [y == 1, |h| {  }] }], }])
+}
+pub fn case_657(vars: &Vars) -> InferredGoal<DU, DE, Goal<DU, DE>> {
+    let x = vars.v[0].clone();
+    let y = vars.v[1].clone();
+    proto_vulcan!([match ["a", y, y] { true => , [1, [t, z, z | z]] => |tz| { [1, 1 | tz] != [1, 1, 2, 3], tz == [2, 3] }, x => { x != 2 }, }, |y| { (_, 1) == y, |t| { (3, [1]) == y, matche 3 { [[z, 1, 2]] | 1 => , 1 => { false, y == [y, x] }, }, x == [2 | x] }, conde { [y, x | x] == [1, [1]], [], [[[[], true] == y, append(y, y, [1])]] } }, closure { (2, x) == x }])
+}
+pub fn case_658(vars: &Vars) -> InferredGoal<DU, DE, Goal<DU, DE>> {
+    let x = vars.v[0].clone();
+    let y = vars.v[1].clone();
+    proto_vulcan!([match ["a", y, y] { true => , [1, [t, z, z | z]] => |tz| { [1, 1 | tz] != [1, 1, 2, 3], tz == [2, 3] }, fresh_name_9 => { fresh_name_9 != 2 }, }, |y| { (_, 1) == y, |t| { (3, [1]) == y, matche 3 { [[z, 1, 2]] | 1 => , 1 => { false, y == [y, x] }, }, x == [2 | x] }, conde { [y, x | x] == [1, [1]], [], [[[[], true] == y, append(y, y, [1])]] } }, closure { (2, x) == x }])
+}
+pub fn case_659(vars: &Vars) -> InferredGoal<DU, DE, Goal<DU, DE>> {
+    let x = vars.v[0].clone();
+    proto_vulcan!([x == P3(x, [_], 2), 2 == [2, 2, x | x], { let c__: InferredGoal<DU, DE, Goal<DU, DE>> = proto_vulcan_closure!([|yy| { conde { [x == [yy | _], yy == 1], [x == [_, yy | _], yy == 2] } }, |x, t| { [x] != t, t == P3([t, x], 1, x) }]); let g__: Goal<DU, DE> = ::proto_vulcan::GoalCast::cast_into(c__); let r__: InferredGoal<DU, DE, Goal<DU, DE>> = proto_vulcan!([g__.clone(), g__]); r__ }])
+}
+pub fn case_660(vars: &Vars) -> InferredGoal<DU, DE, Goal<DU, DE>> {
+    let x = vars.v[0].clone();
+    proto_vulcan!([x == P3(x, [_], 2), 2 == [2, 2, x | x], { let c__: InferredGoal<DU, DE, Goal<DU, DE>> = proto_vulcan_closure!([|yy| { conde { [x == [yy | _], yy == 1], [x == [_, yy | _], yy == 2] } }, |x, fresh_name_9| { [x] != fresh_name_9, fresh_name_9 == P3([fresh_name_9, x], 1, x) }]); let g__: Goal<DU, DE> = ::proto_vulcan::GoalCast::cast_into(c__); let r__: InferredGoal<DU, DE, Goal<DU, DE>> = proto_vulcan!([g__.clone(), g__]); r__ }])
+}
+pub const NCASES: usize = 661;
 pub fn case(i: usize, vars: &Vars) -> Goal<DU, DE> {
     match i {
         0 => case_0(vars).goal,
@@ -3829,6 +3934,26 @@ pub fn case(i: usize, vars: &Vars) -> Goal<DU, DE> {
         638 => case_638(vars).goal,
         639 => case_639(vars).goal,
         640 => case_640(vars).goal,
+        641 => case_641(vars).goal,
+        642 => case_642(vars).goal,
+        643 => case_643(vars).goal,
+        644 => case_644(vars).goal,
+        645 => case_645(vars).goal,
+        646 => case_646(vars).goal,
+        647 => case_647(vars).goal,
+        648 => case_648(vars).goal,
+        649 => case_649(vars).goal,
+        650 => case_650(vars).goal,
+        651 => case_651(vars).goal,
+        652 => case_652(vars).goal,
+        653 => case_653(vars).goal,
+        654 => case_654(vars).goal,
+        655 => case_655(vars).goal,
+        656 => case_656(vars).goal,
+        657 => case_657(vars).goal,
+        658 => case_658(vars).goal,
+        659 => case_659(vars).goal,
+        660 => case_660(vars).goal,
         _ => unreachable!(),
     }
 }
